@@ -93,7 +93,7 @@ mod vharness {
     fn is_key_call(s: &State<'_, '_>, src: u8, idx: usize) -> bool { matches!(s, State::CallKey(t, _) if t.src == src && t.idx == idx) }
     fn is_item(g: &Gc<ThunkData<'_>>, src: u8, idx: usize) -> bool { let t = g.view(); t.src == src && t.idx == idx }
 
-    //@harness props=C17,C01 strength=proof clause="std.sort dispatch, for ANY range: more than 30 elements => sort the left half, then the right half, then merge them at mid = start + len/2 (in that execution order); 2..30 elements => quick sort of exactly that range; 0 or 1 => nothing to do"
+    //@harness props=C17,C01 strength=proof clause="std.sort dispatch, for ANY range: more than 30 elements => sort the left half, then the right half, then merge them at mid = start + len/2 (in that execution order); 2..30 elements => quick sort of exactly that range; 0 or 1 => nothing to do" replay=sort_stable
     #[kani::proof]
     #[kani::unwind(4)]
     fn sort_slice_dispatch_contract() {
@@ -162,7 +162,7 @@ mod vharness {
     fn sort_entry_n3() { sort_entry(3); }
 
     const N: usize = 5;   // bound on a partition / merge window in the bounded harnesses
-    //@harness props=C17,C01 strength=bounded bound="window of 2..5 positions inside a 7-element index vector" clause="quick sort step 1: schedules, in execution order, the comparison of every element after the pivot with the pivot (element key vs pivot key), then step 2 on the same range" timeout=900
+    //@harness props=C17,C01 strength=bounded bound="window of 2..5 positions inside a 7-element index vector" clause="quick sort step 1: schedules, in execution order, the comparison of every element after the pivot with the pivot (element key vs pivot key), then step 2 on the same range" timeout=900 replay=sort_stable
     #[kani::proof]
     #[kani::unwind(9)]
     fn quick_sort_1_contract() {
@@ -215,171 +215,171 @@ mod vharness {
 
 
     // @@GEN-BEGIN quick_sort_2
-    //@harness props=C17,C01 quickfor=C17 strength=bounded bound="ONE execution: window of 2 positions at offset 0 of a 7-element index vector, comparison outcomes (less) (the instances of this family enumerate every outcome vector for this window)" clause="quick sort step 2 (partition): afterwards the window holds the elements that compared less than the pivot, in their original relative order, then the pivot, then the others in their original relative order (stability); positions outside the window are untouched; exactly the comparison results of this window are consumed; the two sides are scheduled for sorting exactly when they have more than one element" timeout=300
+    //@harness props=C17,C01 quickfor=C17 strength=bounded bound="ONE execution: window of 2 positions at offset 0 of a 7-element index vector, comparison outcomes (less) (the instances of this family enumerate every outcome vector for this window)" clause="quick sort step 2 (partition): afterwards the window holds the elements that compared less than the pivot, in their original relative order, then the pivot, then the others in their original relative order (stability); positions outside the window are untouched; exactly the comparison results of this window are consumed; the two sides are scheduled for sorting exactly when they have more than one element" timeout=300 replay=sort_stable
     #[kani::proof]
     #[kani::unwind(9)]
     fn quick_sort_2_len2_at0_code0() { quick_sort_2_at(0, 2, 0); }
-    //@harness props=C17,C01 quickfor=C17 strength=bounded bound="ONE execution: window of 2 positions at offset 0 of a 7-element index vector, comparison outcomes (equal) (the instances of this family enumerate every outcome vector for this window)" clause="quick sort step 2 (partition): afterwards the window holds the elements that compared less than the pivot, in their original relative order, then the pivot, then the others in their original relative order (stability); positions outside the window are untouched; exactly the comparison results of this window are consumed; the two sides are scheduled for sorting exactly when they have more than one element" timeout=300
+    //@harness props=C17,C01 quickfor=C17 strength=bounded bound="ONE execution: window of 2 positions at offset 0 of a 7-element index vector, comparison outcomes (equal) (the instances of this family enumerate every outcome vector for this window)" clause="quick sort step 2 (partition): afterwards the window holds the elements that compared less than the pivot, in their original relative order, then the pivot, then the others in their original relative order (stability); positions outside the window are untouched; exactly the comparison results of this window are consumed; the two sides are scheduled for sorting exactly when they have more than one element" timeout=300 replay=sort_stable
     #[kani::proof]
     #[kani::unwind(9)]
     fn quick_sort_2_len2_at0_code1() { quick_sort_2_at(0, 2, 1); }
-    //@harness props=C17,C01 quickfor=C17 strength=bounded bound="ONE execution: window of 2 positions at offset 0 of a 7-element index vector, comparison outcomes (greater) (the instances of this family enumerate every outcome vector for this window)" clause="quick sort step 2 (partition): afterwards the window holds the elements that compared less than the pivot, in their original relative order, then the pivot, then the others in their original relative order (stability); positions outside the window are untouched; exactly the comparison results of this window are consumed; the two sides are scheduled for sorting exactly when they have more than one element" timeout=300
+    //@harness props=C17,C01 quickfor=C17 strength=bounded bound="ONE execution: window of 2 positions at offset 0 of a 7-element index vector, comparison outcomes (greater) (the instances of this family enumerate every outcome vector for this window)" clause="quick sort step 2 (partition): afterwards the window holds the elements that compared less than the pivot, in their original relative order, then the pivot, then the others in their original relative order (stability); positions outside the window are untouched; exactly the comparison results of this window are consumed; the two sides are scheduled for sorting exactly when they have more than one element" timeout=300 replay=sort_stable
     #[kani::proof]
     #[kani::unwind(9)]
     fn quick_sort_2_len2_at0_code2() { quick_sort_2_at(0, 2, 2); }
-    //@harness props=C17,C01 quickfor=C17 strength=bounded tier=thorough bound="ONE execution: window of 2 positions at offset 5 of a 7-element index vector, comparison outcomes (less) (the instances of this family enumerate every outcome vector for this window)" clause="quick sort step 2 (partition): afterwards the window holds the elements that compared less than the pivot, in their original relative order, then the pivot, then the others in their original relative order (stability); positions outside the window are untouched; exactly the comparison results of this window are consumed; the two sides are scheduled for sorting exactly when they have more than one element" timeout=300
+    //@harness props=C17,C01 quickfor=C17 strength=bounded tier=thorough bound="ONE execution: window of 2 positions at offset 5 of a 7-element index vector, comparison outcomes (less) (the instances of this family enumerate every outcome vector for this window)" clause="quick sort step 2 (partition): afterwards the window holds the elements that compared less than the pivot, in their original relative order, then the pivot, then the others in their original relative order (stability); positions outside the window are untouched; exactly the comparison results of this window are consumed; the two sides are scheduled for sorting exactly when they have more than one element" timeout=300 replay=sort_stable
     #[kani::proof]
     #[kani::unwind(9)]
     fn quick_sort_2_len2_at5_code0() { quick_sort_2_at(5, 2, 0); }
-    //@harness props=C17,C01 quickfor=C17 strength=bounded tier=thorough bound="ONE execution: window of 2 positions at offset 5 of a 7-element index vector, comparison outcomes (equal) (the instances of this family enumerate every outcome vector for this window)" clause="quick sort step 2 (partition): afterwards the window holds the elements that compared less than the pivot, in their original relative order, then the pivot, then the others in their original relative order (stability); positions outside the window are untouched; exactly the comparison results of this window are consumed; the two sides are scheduled for sorting exactly when they have more than one element" timeout=300
+    //@harness props=C17,C01 quickfor=C17 strength=bounded tier=thorough bound="ONE execution: window of 2 positions at offset 5 of a 7-element index vector, comparison outcomes (equal) (the instances of this family enumerate every outcome vector for this window)" clause="quick sort step 2 (partition): afterwards the window holds the elements that compared less than the pivot, in their original relative order, then the pivot, then the others in their original relative order (stability); positions outside the window are untouched; exactly the comparison results of this window are consumed; the two sides are scheduled for sorting exactly when they have more than one element" timeout=300 replay=sort_stable
     #[kani::proof]
     #[kani::unwind(9)]
     fn quick_sort_2_len2_at5_code1() { quick_sort_2_at(5, 2, 1); }
-    //@harness props=C17,C01 quickfor=C17 strength=bounded tier=thorough bound="ONE execution: window of 2 positions at offset 5 of a 7-element index vector, comparison outcomes (greater) (the instances of this family enumerate every outcome vector for this window)" clause="quick sort step 2 (partition): afterwards the window holds the elements that compared less than the pivot, in their original relative order, then the pivot, then the others in their original relative order (stability); positions outside the window are untouched; exactly the comparison results of this window are consumed; the two sides are scheduled for sorting exactly when they have more than one element" timeout=300
+    //@harness props=C17,C01 quickfor=C17 strength=bounded tier=thorough bound="ONE execution: window of 2 positions at offset 5 of a 7-element index vector, comparison outcomes (greater) (the instances of this family enumerate every outcome vector for this window)" clause="quick sort step 2 (partition): afterwards the window holds the elements that compared less than the pivot, in their original relative order, then the pivot, then the others in their original relative order (stability); positions outside the window are untouched; exactly the comparison results of this window are consumed; the two sides are scheduled for sorting exactly when they have more than one element" timeout=300 replay=sort_stable
     #[kani::proof]
     #[kani::unwind(9)]
     fn quick_sort_2_len2_at5_code2() { quick_sort_2_at(5, 2, 2); }
-    //@harness props=C17,C01 quickfor=C17 strength=bounded bound="ONE execution: window of 3 positions at offset 1 of a 7-element index vector, comparison outcomes (less, less) (the instances of this family enumerate every outcome vector for this window)" clause="quick sort step 2 (partition): afterwards the window holds the elements that compared less than the pivot, in their original relative order, then the pivot, then the others in their original relative order (stability); positions outside the window are untouched; exactly the comparison results of this window are consumed; the two sides are scheduled for sorting exactly when they have more than one element" timeout=300
+    //@harness props=C17,C01 quickfor=C17 strength=bounded bound="ONE execution: window of 3 positions at offset 1 of a 7-element index vector, comparison outcomes (less, less) (the instances of this family enumerate every outcome vector for this window)" clause="quick sort step 2 (partition): afterwards the window holds the elements that compared less than the pivot, in their original relative order, then the pivot, then the others in their original relative order (stability); positions outside the window are untouched; exactly the comparison results of this window are consumed; the two sides are scheduled for sorting exactly when they have more than one element" timeout=300 replay=sort_stable
     #[kani::proof]
     #[kani::unwind(9)]
     fn quick_sort_2_len3_at1_code0() { quick_sort_2_at(1, 3, 0); }
-    //@harness props=C17,C01 quickfor=C17 strength=bounded bound="ONE execution: window of 3 positions at offset 1 of a 7-element index vector, comparison outcomes (equal, less) (the instances of this family enumerate every outcome vector for this window)" clause="quick sort step 2 (partition): afterwards the window holds the elements that compared less than the pivot, in their original relative order, then the pivot, then the others in their original relative order (stability); positions outside the window are untouched; exactly the comparison results of this window are consumed; the two sides are scheduled for sorting exactly when they have more than one element" timeout=300
+    //@harness props=C17,C01 quickfor=C17 strength=bounded bound="ONE execution: window of 3 positions at offset 1 of a 7-element index vector, comparison outcomes (equal, less) (the instances of this family enumerate every outcome vector for this window)" clause="quick sort step 2 (partition): afterwards the window holds the elements that compared less than the pivot, in their original relative order, then the pivot, then the others in their original relative order (stability); positions outside the window are untouched; exactly the comparison results of this window are consumed; the two sides are scheduled for sorting exactly when they have more than one element" timeout=300 replay=sort_stable
     #[kani::proof]
     #[kani::unwind(9)]
     fn quick_sort_2_len3_at1_code1() { quick_sort_2_at(1, 3, 1); }
-    //@harness props=C17,C01 quickfor=C17 strength=bounded bound="ONE execution: window of 3 positions at offset 1 of a 7-element index vector, comparison outcomes (greater, less) (the instances of this family enumerate every outcome vector for this window)" clause="quick sort step 2 (partition): afterwards the window holds the elements that compared less than the pivot, in their original relative order, then the pivot, then the others in their original relative order (stability); positions outside the window are untouched; exactly the comparison results of this window are consumed; the two sides are scheduled for sorting exactly when they have more than one element" timeout=300
+    //@harness props=C17,C01 quickfor=C17 strength=bounded bound="ONE execution: window of 3 positions at offset 1 of a 7-element index vector, comparison outcomes (greater, less) (the instances of this family enumerate every outcome vector for this window)" clause="quick sort step 2 (partition): afterwards the window holds the elements that compared less than the pivot, in their original relative order, then the pivot, then the others in their original relative order (stability); positions outside the window are untouched; exactly the comparison results of this window are consumed; the two sides are scheduled for sorting exactly when they have more than one element" timeout=300 replay=sort_stable
     #[kani::proof]
     #[kani::unwind(9)]
     fn quick_sort_2_len3_at1_code2() { quick_sort_2_at(1, 3, 2); }
-    //@harness props=C17,C01 quickfor=C17 strength=bounded bound="ONE execution: window of 3 positions at offset 1 of a 7-element index vector, comparison outcomes (less, equal) (the instances of this family enumerate every outcome vector for this window)" clause="quick sort step 2 (partition): afterwards the window holds the elements that compared less than the pivot, in their original relative order, then the pivot, then the others in their original relative order (stability); positions outside the window are untouched; exactly the comparison results of this window are consumed; the two sides are scheduled for sorting exactly when they have more than one element" timeout=300
+    //@harness props=C17,C01 quickfor=C17 strength=bounded bound="ONE execution: window of 3 positions at offset 1 of a 7-element index vector, comparison outcomes (less, equal) (the instances of this family enumerate every outcome vector for this window)" clause="quick sort step 2 (partition): afterwards the window holds the elements that compared less than the pivot, in their original relative order, then the pivot, then the others in their original relative order (stability); positions outside the window are untouched; exactly the comparison results of this window are consumed; the two sides are scheduled for sorting exactly when they have more than one element" timeout=300 replay=sort_stable
     #[kani::proof]
     #[kani::unwind(9)]
     fn quick_sort_2_len3_at1_code3() { quick_sort_2_at(1, 3, 3); }
-    //@harness props=C17,C01 quickfor=C17 strength=bounded bound="ONE execution: window of 3 positions at offset 1 of a 7-element index vector, comparison outcomes (equal, equal) (the instances of this family enumerate every outcome vector for this window)" clause="quick sort step 2 (partition): afterwards the window holds the elements that compared less than the pivot, in their original relative order, then the pivot, then the others in their original relative order (stability); positions outside the window are untouched; exactly the comparison results of this window are consumed; the two sides are scheduled for sorting exactly when they have more than one element" timeout=300
+    //@harness props=C17,C01 quickfor=C17 strength=bounded bound="ONE execution: window of 3 positions at offset 1 of a 7-element index vector, comparison outcomes (equal, equal) (the instances of this family enumerate every outcome vector for this window)" clause="quick sort step 2 (partition): afterwards the window holds the elements that compared less than the pivot, in their original relative order, then the pivot, then the others in their original relative order (stability); positions outside the window are untouched; exactly the comparison results of this window are consumed; the two sides are scheduled for sorting exactly when they have more than one element" timeout=300 replay=sort_stable
     #[kani::proof]
     #[kani::unwind(9)]
     fn quick_sort_2_len3_at1_code4() { quick_sort_2_at(1, 3, 4); }
-    //@harness props=C17,C01 quickfor=C17 strength=bounded bound="ONE execution: window of 3 positions at offset 1 of a 7-element index vector, comparison outcomes (greater, equal) (the instances of this family enumerate every outcome vector for this window)" clause="quick sort step 2 (partition): afterwards the window holds the elements that compared less than the pivot, in their original relative order, then the pivot, then the others in their original relative order (stability); positions outside the window are untouched; exactly the comparison results of this window are consumed; the two sides are scheduled for sorting exactly when they have more than one element" timeout=300
+    //@harness props=C17,C01 quickfor=C17 strength=bounded bound="ONE execution: window of 3 positions at offset 1 of a 7-element index vector, comparison outcomes (greater, equal) (the instances of this family enumerate every outcome vector for this window)" clause="quick sort step 2 (partition): afterwards the window holds the elements that compared less than the pivot, in their original relative order, then the pivot, then the others in their original relative order (stability); positions outside the window are untouched; exactly the comparison results of this window are consumed; the two sides are scheduled for sorting exactly when they have more than one element" timeout=300 replay=sort_stable
     #[kani::proof]
     #[kani::unwind(9)]
     fn quick_sort_2_len3_at1_code5() { quick_sort_2_at(1, 3, 5); }
-    //@harness props=C17,C01 quickfor=C17 strength=bounded bound="ONE execution: window of 3 positions at offset 1 of a 7-element index vector, comparison outcomes (less, greater) (the instances of this family enumerate every outcome vector for this window)" clause="quick sort step 2 (partition): afterwards the window holds the elements that compared less than the pivot, in their original relative order, then the pivot, then the others in their original relative order (stability); positions outside the window are untouched; exactly the comparison results of this window are consumed; the two sides are scheduled for sorting exactly when they have more than one element" timeout=300
+    //@harness props=C17,C01 quickfor=C17 strength=bounded bound="ONE execution: window of 3 positions at offset 1 of a 7-element index vector, comparison outcomes (less, greater) (the instances of this family enumerate every outcome vector for this window)" clause="quick sort step 2 (partition): afterwards the window holds the elements that compared less than the pivot, in their original relative order, then the pivot, then the others in their original relative order (stability); positions outside the window are untouched; exactly the comparison results of this window are consumed; the two sides are scheduled for sorting exactly when they have more than one element" timeout=300 replay=sort_stable
     #[kani::proof]
     #[kani::unwind(9)]
     fn quick_sort_2_len3_at1_code6() { quick_sort_2_at(1, 3, 6); }
-    //@harness props=C17,C01 quickfor=C17 strength=bounded bound="ONE execution: window of 3 positions at offset 1 of a 7-element index vector, comparison outcomes (equal, greater) (the instances of this family enumerate every outcome vector for this window)" clause="quick sort step 2 (partition): afterwards the window holds the elements that compared less than the pivot, in their original relative order, then the pivot, then the others in their original relative order (stability); positions outside the window are untouched; exactly the comparison results of this window are consumed; the two sides are scheduled for sorting exactly when they have more than one element" timeout=300
+    //@harness props=C17,C01 quickfor=C17 strength=bounded bound="ONE execution: window of 3 positions at offset 1 of a 7-element index vector, comparison outcomes (equal, greater) (the instances of this family enumerate every outcome vector for this window)" clause="quick sort step 2 (partition): afterwards the window holds the elements that compared less than the pivot, in their original relative order, then the pivot, then the others in their original relative order (stability); positions outside the window are untouched; exactly the comparison results of this window are consumed; the two sides are scheduled for sorting exactly when they have more than one element" timeout=300 replay=sort_stable
     #[kani::proof]
     #[kani::unwind(9)]
     fn quick_sort_2_len3_at1_code7() { quick_sort_2_at(1, 3, 7); }
-    //@harness props=C17,C01 quickfor=C17 strength=bounded bound="ONE execution: window of 3 positions at offset 1 of a 7-element index vector, comparison outcomes (greater, greater) (the instances of this family enumerate every outcome vector for this window)" clause="quick sort step 2 (partition): afterwards the window holds the elements that compared less than the pivot, in their original relative order, then the pivot, then the others in their original relative order (stability); positions outside the window are untouched; exactly the comparison results of this window are consumed; the two sides are scheduled for sorting exactly when they have more than one element" timeout=300
+    //@harness props=C17,C01 quickfor=C17 strength=bounded bound="ONE execution: window of 3 positions at offset 1 of a 7-element index vector, comparison outcomes (greater, greater) (the instances of this family enumerate every outcome vector for this window)" clause="quick sort step 2 (partition): afterwards the window holds the elements that compared less than the pivot, in their original relative order, then the pivot, then the others in their original relative order (stability); positions outside the window are untouched; exactly the comparison results of this window are consumed; the two sides are scheduled for sorting exactly when they have more than one element" timeout=300 replay=sort_stable
     #[kani::proof]
     #[kani::unwind(9)]
     fn quick_sort_2_len3_at1_code8() { quick_sort_2_at(1, 3, 8); }
-    //@harness props=C17,C01 quickfor=C17 strength=bounded bound="ONE execution: window of 4 positions at offset 2 of a 7-element index vector, comparison outcomes (less, less, less) (the instances of this family enumerate every outcome vector for this window)" clause="quick sort step 2 (partition): afterwards the window holds the elements that compared less than the pivot, in their original relative order, then the pivot, then the others in their original relative order (stability); positions outside the window are untouched; exactly the comparison results of this window are consumed; the two sides are scheduled for sorting exactly when they have more than one element" timeout=300
+    //@harness props=C17,C01 quickfor=C17 strength=bounded bound="ONE execution: window of 4 positions at offset 2 of a 7-element index vector, comparison outcomes (less, less, less) (the instances of this family enumerate every outcome vector for this window)" clause="quick sort step 2 (partition): afterwards the window holds the elements that compared less than the pivot, in their original relative order, then the pivot, then the others in their original relative order (stability); positions outside the window are untouched; exactly the comparison results of this window are consumed; the two sides are scheduled for sorting exactly when they have more than one element" timeout=300 replay=sort_stable
     #[kani::proof]
     #[kani::unwind(9)]
     fn quick_sort_2_len4_at2_code0() { quick_sort_2_at(2, 4, 0); }
-    //@harness props=C17,C01 quickfor=C17 strength=bounded bound="ONE execution: window of 4 positions at offset 2 of a 7-element index vector, comparison outcomes (equal, less, less) (the instances of this family enumerate every outcome vector for this window)" clause="quick sort step 2 (partition): afterwards the window holds the elements that compared less than the pivot, in their original relative order, then the pivot, then the others in their original relative order (stability); positions outside the window are untouched; exactly the comparison results of this window are consumed; the two sides are scheduled for sorting exactly when they have more than one element" timeout=300
+    //@harness props=C17,C01 quickfor=C17 strength=bounded bound="ONE execution: window of 4 positions at offset 2 of a 7-element index vector, comparison outcomes (equal, less, less) (the instances of this family enumerate every outcome vector for this window)" clause="quick sort step 2 (partition): afterwards the window holds the elements that compared less than the pivot, in their original relative order, then the pivot, then the others in their original relative order (stability); positions outside the window are untouched; exactly the comparison results of this window are consumed; the two sides are scheduled for sorting exactly when they have more than one element" timeout=300 replay=sort_stable
     #[kani::proof]
     #[kani::unwind(9)]
     fn quick_sort_2_len4_at2_code1() { quick_sort_2_at(2, 4, 1); }
-    //@harness props=C17,C01 quickfor=C17 strength=bounded tier=thorough bound="ONE execution: window of 4 positions at offset 2 of a 7-element index vector, comparison outcomes (greater, less, less) (the instances of this family enumerate every outcome vector for this window)" clause="quick sort step 2 (partition): afterwards the window holds the elements that compared less than the pivot, in their original relative order, then the pivot, then the others in their original relative order (stability); positions outside the window are untouched; exactly the comparison results of this window are consumed; the two sides are scheduled for sorting exactly when they have more than one element" timeout=300
+    //@harness props=C17,C01 quickfor=C17 strength=bounded tier=thorough bound="ONE execution: window of 4 positions at offset 2 of a 7-element index vector, comparison outcomes (greater, less, less) (the instances of this family enumerate every outcome vector for this window)" clause="quick sort step 2 (partition): afterwards the window holds the elements that compared less than the pivot, in their original relative order, then the pivot, then the others in their original relative order (stability); positions outside the window are untouched; exactly the comparison results of this window are consumed; the two sides are scheduled for sorting exactly when they have more than one element" timeout=300 replay=sort_stable
     #[kani::proof]
     #[kani::unwind(9)]
     fn quick_sort_2_len4_at2_code2() { quick_sort_2_at(2, 4, 2); }
-    //@harness props=C17,C01 quickfor=C17 strength=bounded tier=thorough bound="ONE execution: window of 4 positions at offset 2 of a 7-element index vector, comparison outcomes (less, equal, less) (the instances of this family enumerate every outcome vector for this window)" clause="quick sort step 2 (partition): afterwards the window holds the elements that compared less than the pivot, in their original relative order, then the pivot, then the others in their original relative order (stability); positions outside the window are untouched; exactly the comparison results of this window are consumed; the two sides are scheduled for sorting exactly when they have more than one element" timeout=300
+    //@harness props=C17,C01 quickfor=C17 strength=bounded tier=thorough bound="ONE execution: window of 4 positions at offset 2 of a 7-element index vector, comparison outcomes (less, equal, less) (the instances of this family enumerate every outcome vector for this window)" clause="quick sort step 2 (partition): afterwards the window holds the elements that compared less than the pivot, in their original relative order, then the pivot, then the others in their original relative order (stability); positions outside the window are untouched; exactly the comparison results of this window are consumed; the two sides are scheduled for sorting exactly when they have more than one element" timeout=300 replay=sort_stable
     #[kani::proof]
     #[kani::unwind(9)]
     fn quick_sort_2_len4_at2_code3() { quick_sort_2_at(2, 4, 3); }
-    //@harness props=C17,C01 quickfor=C17 strength=bounded bound="ONE execution: window of 4 positions at offset 2 of a 7-element index vector, comparison outcomes (equal, equal, less) (the instances of this family enumerate every outcome vector for this window)" clause="quick sort step 2 (partition): afterwards the window holds the elements that compared less than the pivot, in their original relative order, then the pivot, then the others in their original relative order (stability); positions outside the window are untouched; exactly the comparison results of this window are consumed; the two sides are scheduled for sorting exactly when they have more than one element" timeout=300
+    //@harness props=C17,C01 quickfor=C17 strength=bounded bound="ONE execution: window of 4 positions at offset 2 of a 7-element index vector, comparison outcomes (equal, equal, less) (the instances of this family enumerate every outcome vector for this window)" clause="quick sort step 2 (partition): afterwards the window holds the elements that compared less than the pivot, in their original relative order, then the pivot, then the others in their original relative order (stability); positions outside the window are untouched; exactly the comparison results of this window are consumed; the two sides are scheduled for sorting exactly when they have more than one element" timeout=300 replay=sort_stable
     #[kani::proof]
     #[kani::unwind(9)]
     fn quick_sort_2_len4_at2_code4() { quick_sort_2_at(2, 4, 4); }
-    //@harness props=C17,C01 quickfor=C17 strength=bounded tier=thorough bound="ONE execution: window of 4 positions at offset 2 of a 7-element index vector, comparison outcomes (greater, equal, less) (the instances of this family enumerate every outcome vector for this window)" clause="quick sort step 2 (partition): afterwards the window holds the elements that compared less than the pivot, in their original relative order, then the pivot, then the others in their original relative order (stability); positions outside the window are untouched; exactly the comparison results of this window are consumed; the two sides are scheduled for sorting exactly when they have more than one element" timeout=300
+    //@harness props=C17,C01 quickfor=C17 strength=bounded tier=thorough bound="ONE execution: window of 4 positions at offset 2 of a 7-element index vector, comparison outcomes (greater, equal, less) (the instances of this family enumerate every outcome vector for this window)" clause="quick sort step 2 (partition): afterwards the window holds the elements that compared less than the pivot, in their original relative order, then the pivot, then the others in their original relative order (stability); positions outside the window are untouched; exactly the comparison results of this window are consumed; the two sides are scheduled for sorting exactly when they have more than one element" timeout=300 replay=sort_stable
     #[kani::proof]
     #[kani::unwind(9)]
     fn quick_sort_2_len4_at2_code5() { quick_sort_2_at(2, 4, 5); }
-    //@harness props=C17,C01 quickfor=C17 strength=bounded tier=thorough bound="ONE execution: window of 4 positions at offset 2 of a 7-element index vector, comparison outcomes (less, greater, less) (the instances of this family enumerate every outcome vector for this window)" clause="quick sort step 2 (partition): afterwards the window holds the elements that compared less than the pivot, in their original relative order, then the pivot, then the others in their original relative order (stability); positions outside the window are untouched; exactly the comparison results of this window are consumed; the two sides are scheduled for sorting exactly when they have more than one element" timeout=300
+    //@harness props=C17,C01 quickfor=C17 strength=bounded tier=thorough bound="ONE execution: window of 4 positions at offset 2 of a 7-element index vector, comparison outcomes (less, greater, less) (the instances of this family enumerate every outcome vector for this window)" clause="quick sort step 2 (partition): afterwards the window holds the elements that compared less than the pivot, in their original relative order, then the pivot, then the others in their original relative order (stability); positions outside the window are untouched; exactly the comparison results of this window are consumed; the two sides are scheduled for sorting exactly when they have more than one element" timeout=300 replay=sort_stable
     #[kani::proof]
     #[kani::unwind(9)]
     fn quick_sort_2_len4_at2_code6() { quick_sort_2_at(2, 4, 6); }
-    //@harness props=C17,C01 quickfor=C17 strength=bounded tier=thorough bound="ONE execution: window of 4 positions at offset 2 of a 7-element index vector, comparison outcomes (equal, greater, less) (the instances of this family enumerate every outcome vector for this window)" clause="quick sort step 2 (partition): afterwards the window holds the elements that compared less than the pivot, in their original relative order, then the pivot, then the others in their original relative order (stability); positions outside the window are untouched; exactly the comparison results of this window are consumed; the two sides are scheduled for sorting exactly when they have more than one element" timeout=300
+    //@harness props=C17,C01 quickfor=C17 strength=bounded tier=thorough bound="ONE execution: window of 4 positions at offset 2 of a 7-element index vector, comparison outcomes (equal, greater, less) (the instances of this family enumerate every outcome vector for this window)" clause="quick sort step 2 (partition): afterwards the window holds the elements that compared less than the pivot, in their original relative order, then the pivot, then the others in their original relative order (stability); positions outside the window are untouched; exactly the comparison results of this window are consumed; the two sides are scheduled for sorting exactly when they have more than one element" timeout=300 replay=sort_stable
     #[kani::proof]
     #[kani::unwind(9)]
     fn quick_sort_2_len4_at2_code7() { quick_sort_2_at(2, 4, 7); }
-    //@harness props=C17,C01 quickfor=C17 strength=bounded tier=thorough bound="ONE execution: window of 4 positions at offset 2 of a 7-element index vector, comparison outcomes (greater, greater, less) (the instances of this family enumerate every outcome vector for this window)" clause="quick sort step 2 (partition): afterwards the window holds the elements that compared less than the pivot, in their original relative order, then the pivot, then the others in their original relative order (stability); positions outside the window are untouched; exactly the comparison results of this window are consumed; the two sides are scheduled for sorting exactly when they have more than one element" timeout=300
+    //@harness props=C17,C01 quickfor=C17 strength=bounded tier=thorough bound="ONE execution: window of 4 positions at offset 2 of a 7-element index vector, comparison outcomes (greater, greater, less) (the instances of this family enumerate every outcome vector for this window)" clause="quick sort step 2 (partition): afterwards the window holds the elements that compared less than the pivot, in their original relative order, then the pivot, then the others in their original relative order (stability); positions outside the window are untouched; exactly the comparison results of this window are consumed; the two sides are scheduled for sorting exactly when they have more than one element" timeout=300 replay=sort_stable
     #[kani::proof]
     #[kani::unwind(9)]
     fn quick_sort_2_len4_at2_code8() { quick_sort_2_at(2, 4, 8); }
-    //@harness props=C17,C01 quickfor=C17 strength=bounded bound="ONE execution: window of 4 positions at offset 2 of a 7-element index vector, comparison outcomes (less, less, equal) (the instances of this family enumerate every outcome vector for this window)" clause="quick sort step 2 (partition): afterwards the window holds the elements that compared less than the pivot, in their original relative order, then the pivot, then the others in their original relative order (stability); positions outside the window are untouched; exactly the comparison results of this window are consumed; the two sides are scheduled for sorting exactly when they have more than one element" timeout=300
+    //@harness props=C17,C01 quickfor=C17 strength=bounded bound="ONE execution: window of 4 positions at offset 2 of a 7-element index vector, comparison outcomes (less, less, equal) (the instances of this family enumerate every outcome vector for this window)" clause="quick sort step 2 (partition): afterwards the window holds the elements that compared less than the pivot, in their original relative order, then the pivot, then the others in their original relative order (stability); positions outside the window are untouched; exactly the comparison results of this window are consumed; the two sides are scheduled for sorting exactly when they have more than one element" timeout=300 replay=sort_stable
     #[kani::proof]
     #[kani::unwind(9)]
     fn quick_sort_2_len4_at2_code9() { quick_sort_2_at(2, 4, 9); }
-    //@harness props=C17,C01 quickfor=C17 strength=bounded tier=thorough bound="ONE execution: window of 4 positions at offset 2 of a 7-element index vector, comparison outcomes (equal, less, equal) (the instances of this family enumerate every outcome vector for this window)" clause="quick sort step 2 (partition): afterwards the window holds the elements that compared less than the pivot, in their original relative order, then the pivot, then the others in their original relative order (stability); positions outside the window are untouched; exactly the comparison results of this window are consumed; the two sides are scheduled for sorting exactly when they have more than one element" timeout=300
+    //@harness props=C17,C01 quickfor=C17 strength=bounded tier=thorough bound="ONE execution: window of 4 positions at offset 2 of a 7-element index vector, comparison outcomes (equal, less, equal) (the instances of this family enumerate every outcome vector for this window)" clause="quick sort step 2 (partition): afterwards the window holds the elements that compared less than the pivot, in their original relative order, then the pivot, then the others in their original relative order (stability); positions outside the window are untouched; exactly the comparison results of this window are consumed; the two sides are scheduled for sorting exactly when they have more than one element" timeout=300 replay=sort_stable
     #[kani::proof]
     #[kani::unwind(9)]
     fn quick_sort_2_len4_at2_code10() { quick_sort_2_at(2, 4, 10); }
-    //@harness props=C17,C01 quickfor=C17 strength=bounded tier=thorough bound="ONE execution: window of 4 positions at offset 2 of a 7-element index vector, comparison outcomes (greater, less, equal) (the instances of this family enumerate every outcome vector for this window)" clause="quick sort step 2 (partition): afterwards the window holds the elements that compared less than the pivot, in their original relative order, then the pivot, then the others in their original relative order (stability); positions outside the window are untouched; exactly the comparison results of this window are consumed; the two sides are scheduled for sorting exactly when they have more than one element" timeout=300
+    //@harness props=C17,C01 quickfor=C17 strength=bounded tier=thorough bound="ONE execution: window of 4 positions at offset 2 of a 7-element index vector, comparison outcomes (greater, less, equal) (the instances of this family enumerate every outcome vector for this window)" clause="quick sort step 2 (partition): afterwards the window holds the elements that compared less than the pivot, in their original relative order, then the pivot, then the others in their original relative order (stability); positions outside the window are untouched; exactly the comparison results of this window are consumed; the two sides are scheduled for sorting exactly when they have more than one element" timeout=300 replay=sort_stable
     #[kani::proof]
     #[kani::unwind(9)]
     fn quick_sort_2_len4_at2_code11() { quick_sort_2_at(2, 4, 11); }
-    //@harness props=C17,C01 quickfor=C17 strength=bounded tier=thorough bound="ONE execution: window of 4 positions at offset 2 of a 7-element index vector, comparison outcomes (less, equal, equal) (the instances of this family enumerate every outcome vector for this window)" clause="quick sort step 2 (partition): afterwards the window holds the elements that compared less than the pivot, in their original relative order, then the pivot, then the others in their original relative order (stability); positions outside the window are untouched; exactly the comparison results of this window are consumed; the two sides are scheduled for sorting exactly when they have more than one element" timeout=300
+    //@harness props=C17,C01 quickfor=C17 strength=bounded tier=thorough bound="ONE execution: window of 4 positions at offset 2 of a 7-element index vector, comparison outcomes (less, equal, equal) (the instances of this family enumerate every outcome vector for this window)" clause="quick sort step 2 (partition): afterwards the window holds the elements that compared less than the pivot, in their original relative order, then the pivot, then the others in their original relative order (stability); positions outside the window are untouched; exactly the comparison results of this window are consumed; the two sides are scheduled for sorting exactly when they have more than one element" timeout=300 replay=sort_stable
     #[kani::proof]
     #[kani::unwind(9)]
     fn quick_sort_2_len4_at2_code12() { quick_sort_2_at(2, 4, 12); }
-    //@harness props=C17,C01 quickfor=C17 strength=bounded bound="ONE execution: window of 4 positions at offset 2 of a 7-element index vector, comparison outcomes (equal, equal, equal) (the instances of this family enumerate every outcome vector for this window)" clause="quick sort step 2 (partition): afterwards the window holds the elements that compared less than the pivot, in their original relative order, then the pivot, then the others in their original relative order (stability); positions outside the window are untouched; exactly the comparison results of this window are consumed; the two sides are scheduled for sorting exactly when they have more than one element" timeout=300
+    //@harness props=C17,C01 quickfor=C17 strength=bounded bound="ONE execution: window of 4 positions at offset 2 of a 7-element index vector, comparison outcomes (equal, equal, equal) (the instances of this family enumerate every outcome vector for this window)" clause="quick sort step 2 (partition): afterwards the window holds the elements that compared less than the pivot, in their original relative order, then the pivot, then the others in their original relative order (stability); positions outside the window are untouched; exactly the comparison results of this window are consumed; the two sides are scheduled for sorting exactly when they have more than one element" timeout=300 replay=sort_stable
     #[kani::proof]
     #[kani::unwind(9)]
     fn quick_sort_2_len4_at2_code13() { quick_sort_2_at(2, 4, 13); }
-    //@harness props=C17,C01 quickfor=C17 strength=bounded tier=thorough bound="ONE execution: window of 4 positions at offset 2 of a 7-element index vector, comparison outcomes (greater, equal, equal) (the instances of this family enumerate every outcome vector for this window)" clause="quick sort step 2 (partition): afterwards the window holds the elements that compared less than the pivot, in their original relative order, then the pivot, then the others in their original relative order (stability); positions outside the window are untouched; exactly the comparison results of this window are consumed; the two sides are scheduled for sorting exactly when they have more than one element" timeout=300
+    //@harness props=C17,C01 quickfor=C17 strength=bounded tier=thorough bound="ONE execution: window of 4 positions at offset 2 of a 7-element index vector, comparison outcomes (greater, equal, equal) (the instances of this family enumerate every outcome vector for this window)" clause="quick sort step 2 (partition): afterwards the window holds the elements that compared less than the pivot, in their original relative order, then the pivot, then the others in their original relative order (stability); positions outside the window are untouched; exactly the comparison results of this window are consumed; the two sides are scheduled for sorting exactly when they have more than one element" timeout=300 replay=sort_stable
     #[kani::proof]
     #[kani::unwind(9)]
     fn quick_sort_2_len4_at2_code14() { quick_sort_2_at(2, 4, 14); }
-    //@harness props=C17,C01 quickfor=C17 strength=bounded tier=thorough bound="ONE execution: window of 4 positions at offset 2 of a 7-element index vector, comparison outcomes (less, greater, equal) (the instances of this family enumerate every outcome vector for this window)" clause="quick sort step 2 (partition): afterwards the window holds the elements that compared less than the pivot, in their original relative order, then the pivot, then the others in their original relative order (stability); positions outside the window are untouched; exactly the comparison results of this window are consumed; the two sides are scheduled for sorting exactly when they have more than one element" timeout=300
+    //@harness props=C17,C01 quickfor=C17 strength=bounded tier=thorough bound="ONE execution: window of 4 positions at offset 2 of a 7-element index vector, comparison outcomes (less, greater, equal) (the instances of this family enumerate every outcome vector for this window)" clause="quick sort step 2 (partition): afterwards the window holds the elements that compared less than the pivot, in their original relative order, then the pivot, then the others in their original relative order (stability); positions outside the window are untouched; exactly the comparison results of this window are consumed; the two sides are scheduled for sorting exactly when they have more than one element" timeout=300 replay=sort_stable
     #[kani::proof]
     #[kani::unwind(9)]
     fn quick_sort_2_len4_at2_code15() { quick_sort_2_at(2, 4, 15); }
-    //@harness props=C17,C01 quickfor=C17 strength=bounded tier=thorough bound="ONE execution: window of 4 positions at offset 2 of a 7-element index vector, comparison outcomes (equal, greater, equal) (the instances of this family enumerate every outcome vector for this window)" clause="quick sort step 2 (partition): afterwards the window holds the elements that compared less than the pivot, in their original relative order, then the pivot, then the others in their original relative order (stability); positions outside the window are untouched; exactly the comparison results of this window are consumed; the two sides are scheduled for sorting exactly when they have more than one element" timeout=300
+    //@harness props=C17,C01 quickfor=C17 strength=bounded tier=thorough bound="ONE execution: window of 4 positions at offset 2 of a 7-element index vector, comparison outcomes (equal, greater, equal) (the instances of this family enumerate every outcome vector for this window)" clause="quick sort step 2 (partition): afterwards the window holds the elements that compared less than the pivot, in their original relative order, then the pivot, then the others in their original relative order (stability); positions outside the window are untouched; exactly the comparison results of this window are consumed; the two sides are scheduled for sorting exactly when they have more than one element" timeout=300 replay=sort_stable
     #[kani::proof]
     #[kani::unwind(9)]
     fn quick_sort_2_len4_at2_code16() { quick_sort_2_at(2, 4, 16); }
-    //@harness props=C17,C01 quickfor=C17 strength=bounded bound="ONE execution: window of 4 positions at offset 2 of a 7-element index vector, comparison outcomes (greater, greater, equal) (the instances of this family enumerate every outcome vector for this window)" clause="quick sort step 2 (partition): afterwards the window holds the elements that compared less than the pivot, in their original relative order, then the pivot, then the others in their original relative order (stability); positions outside the window are untouched; exactly the comparison results of this window are consumed; the two sides are scheduled for sorting exactly when they have more than one element" timeout=300
+    //@harness props=C17,C01 quickfor=C17 strength=bounded bound="ONE execution: window of 4 positions at offset 2 of a 7-element index vector, comparison outcomes (greater, greater, equal) (the instances of this family enumerate every outcome vector for this window)" clause="quick sort step 2 (partition): afterwards the window holds the elements that compared less than the pivot, in their original relative order, then the pivot, then the others in their original relative order (stability); positions outside the window are untouched; exactly the comparison results of this window are consumed; the two sides are scheduled for sorting exactly when they have more than one element" timeout=300 replay=sort_stable
     #[kani::proof]
     #[kani::unwind(9)]
     fn quick_sort_2_len4_at2_code17() { quick_sort_2_at(2, 4, 17); }
-    //@harness props=C17,C01 quickfor=C17 strength=bounded tier=thorough bound="ONE execution: window of 4 positions at offset 2 of a 7-element index vector, comparison outcomes (less, less, greater) (the instances of this family enumerate every outcome vector for this window)" clause="quick sort step 2 (partition): afterwards the window holds the elements that compared less than the pivot, in their original relative order, then the pivot, then the others in their original relative order (stability); positions outside the window are untouched; exactly the comparison results of this window are consumed; the two sides are scheduled for sorting exactly when they have more than one element" timeout=300
+    //@harness props=C17,C01 quickfor=C17 strength=bounded tier=thorough bound="ONE execution: window of 4 positions at offset 2 of a 7-element index vector, comparison outcomes (less, less, greater) (the instances of this family enumerate every outcome vector for this window)" clause="quick sort step 2 (partition): afterwards the window holds the elements that compared less than the pivot, in their original relative order, then the pivot, then the others in their original relative order (stability); positions outside the window are untouched; exactly the comparison results of this window are consumed; the two sides are scheduled for sorting exactly when they have more than one element" timeout=300 replay=sort_stable
     #[kani::proof]
     #[kani::unwind(9)]
     fn quick_sort_2_len4_at2_code18() { quick_sort_2_at(2, 4, 18); }
-    //@harness props=C17,C01 quickfor=C17 strength=bounded tier=thorough bound="ONE execution: window of 4 positions at offset 2 of a 7-element index vector, comparison outcomes (equal, less, greater) (the instances of this family enumerate every outcome vector for this window)" clause="quick sort step 2 (partition): afterwards the window holds the elements that compared less than the pivot, in their original relative order, then the pivot, then the others in their original relative order (stability); positions outside the window are untouched; exactly the comparison results of this window are consumed; the two sides are scheduled for sorting exactly when they have more than one element" timeout=300
+    //@harness props=C17,C01 quickfor=C17 strength=bounded tier=thorough bound="ONE execution: window of 4 positions at offset 2 of a 7-element index vector, comparison outcomes (equal, less, greater) (the instances of this family enumerate every outcome vector for this window)" clause="quick sort step 2 (partition): afterwards the window holds the elements that compared less than the pivot, in their original relative order, then the pivot, then the others in their original relative order (stability); positions outside the window are untouched; exactly the comparison results of this window are consumed; the two sides are scheduled for sorting exactly when they have more than one element" timeout=300 replay=sort_stable
     #[kani::proof]
     #[kani::unwind(9)]
     fn quick_sort_2_len4_at2_code19() { quick_sort_2_at(2, 4, 19); }
-    //@harness props=C17,C01 quickfor=C17 strength=bounded tier=thorough bound="ONE execution: window of 4 positions at offset 2 of a 7-element index vector, comparison outcomes (greater, less, greater) (the instances of this family enumerate every outcome vector for this window)" clause="quick sort step 2 (partition): afterwards the window holds the elements that compared less than the pivot, in their original relative order, then the pivot, then the others in their original relative order (stability); positions outside the window are untouched; exactly the comparison results of this window are consumed; the two sides are scheduled for sorting exactly when they have more than one element" timeout=300
+    //@harness props=C17,C01 quickfor=C17 strength=bounded tier=thorough bound="ONE execution: window of 4 positions at offset 2 of a 7-element index vector, comparison outcomes (greater, less, greater) (the instances of this family enumerate every outcome vector for this window)" clause="quick sort step 2 (partition): afterwards the window holds the elements that compared less than the pivot, in their original relative order, then the pivot, then the others in their original relative order (stability); positions outside the window are untouched; exactly the comparison results of this window are consumed; the two sides are scheduled for sorting exactly when they have more than one element" timeout=300 replay=sort_stable
     #[kani::proof]
     #[kani::unwind(9)]
     fn quick_sort_2_len4_at2_code20() { quick_sort_2_at(2, 4, 20); }
-    //@harness props=C17,C01 quickfor=C17 strength=bounded tier=thorough bound="ONE execution: window of 4 positions at offset 2 of a 7-element index vector, comparison outcomes (less, equal, greater) (the instances of this family enumerate every outcome vector for this window)" clause="quick sort step 2 (partition): afterwards the window holds the elements that compared less than the pivot, in their original relative order, then the pivot, then the others in their original relative order (stability); positions outside the window are untouched; exactly the comparison results of this window are consumed; the two sides are scheduled for sorting exactly when they have more than one element" timeout=300
+    //@harness props=C17,C01 quickfor=C17 strength=bounded tier=thorough bound="ONE execution: window of 4 positions at offset 2 of a 7-element index vector, comparison outcomes (less, equal, greater) (the instances of this family enumerate every outcome vector for this window)" clause="quick sort step 2 (partition): afterwards the window holds the elements that compared less than the pivot, in their original relative order, then the pivot, then the others in their original relative order (stability); positions outside the window are untouched; exactly the comparison results of this window are consumed; the two sides are scheduled for sorting exactly when they have more than one element" timeout=300 replay=sort_stable
     #[kani::proof]
     #[kani::unwind(9)]
     fn quick_sort_2_len4_at2_code21() { quick_sort_2_at(2, 4, 21); }
-    //@harness props=C17,C01 quickfor=C17 strength=bounded bound="ONE execution: window of 4 positions at offset 2 of a 7-element index vector, comparison outcomes (equal, equal, greater) (the instances of this family enumerate every outcome vector for this window)" clause="quick sort step 2 (partition): afterwards the window holds the elements that compared less than the pivot, in their original relative order, then the pivot, then the others in their original relative order (stability); positions outside the window are untouched; exactly the comparison results of this window are consumed; the two sides are scheduled for sorting exactly when they have more than one element" timeout=300
+    //@harness props=C17,C01 quickfor=C17 strength=bounded bound="ONE execution: window of 4 positions at offset 2 of a 7-element index vector, comparison outcomes (equal, equal, greater) (the instances of this family enumerate every outcome vector for this window)" clause="quick sort step 2 (partition): afterwards the window holds the elements that compared less than the pivot, in their original relative order, then the pivot, then the others in their original relative order (stability); positions outside the window are untouched; exactly the comparison results of this window are consumed; the two sides are scheduled for sorting exactly when they have more than one element" timeout=300 replay=sort_stable
     #[kani::proof]
     #[kani::unwind(9)]
     fn quick_sort_2_len4_at2_code22() { quick_sort_2_at(2, 4, 22); }
-    //@harness props=C17,C01 quickfor=C17 strength=bounded tier=thorough bound="ONE execution: window of 4 positions at offset 2 of a 7-element index vector, comparison outcomes (greater, equal, greater) (the instances of this family enumerate every outcome vector for this window)" clause="quick sort step 2 (partition): afterwards the window holds the elements that compared less than the pivot, in their original relative order, then the pivot, then the others in their original relative order (stability); positions outside the window are untouched; exactly the comparison results of this window are consumed; the two sides are scheduled for sorting exactly when they have more than one element" timeout=300
+    //@harness props=C17,C01 quickfor=C17 strength=bounded tier=thorough bound="ONE execution: window of 4 positions at offset 2 of a 7-element index vector, comparison outcomes (greater, equal, greater) (the instances of this family enumerate every outcome vector for this window)" clause="quick sort step 2 (partition): afterwards the window holds the elements that compared less than the pivot, in their original relative order, then the pivot, then the others in their original relative order (stability); positions outside the window are untouched; exactly the comparison results of this window are consumed; the two sides are scheduled for sorting exactly when they have more than one element" timeout=300 replay=sort_stable
     #[kani::proof]
     #[kani::unwind(9)]
     fn quick_sort_2_len4_at2_code23() { quick_sort_2_at(2, 4, 23); }
-    //@harness props=C17,C01 quickfor=C17 strength=bounded tier=thorough bound="ONE execution: window of 4 positions at offset 2 of a 7-element index vector, comparison outcomes (less, greater, greater) (the instances of this family enumerate every outcome vector for this window)" clause="quick sort step 2 (partition): afterwards the window holds the elements that compared less than the pivot, in their original relative order, then the pivot, then the others in their original relative order (stability); positions outside the window are untouched; exactly the comparison results of this window are consumed; the two sides are scheduled for sorting exactly when they have more than one element" timeout=300
+    //@harness props=C17,C01 quickfor=C17 strength=bounded tier=thorough bound="ONE execution: window of 4 positions at offset 2 of a 7-element index vector, comparison outcomes (less, greater, greater) (the instances of this family enumerate every outcome vector for this window)" clause="quick sort step 2 (partition): afterwards the window holds the elements that compared less than the pivot, in their original relative order, then the pivot, then the others in their original relative order (stability); positions outside the window are untouched; exactly the comparison results of this window are consumed; the two sides are scheduled for sorting exactly when they have more than one element" timeout=300 replay=sort_stable
     #[kani::proof]
     #[kani::unwind(9)]
     fn quick_sort_2_len4_at2_code24() { quick_sort_2_at(2, 4, 24); }
-    //@harness props=C17,C01 quickfor=C17 strength=bounded tier=thorough bound="ONE execution: window of 4 positions at offset 2 of a 7-element index vector, comparison outcomes (equal, greater, greater) (the instances of this family enumerate every outcome vector for this window)" clause="quick sort step 2 (partition): afterwards the window holds the elements that compared less than the pivot, in their original relative order, then the pivot, then the others in their original relative order (stability); positions outside the window are untouched; exactly the comparison results of this window are consumed; the two sides are scheduled for sorting exactly when they have more than one element" timeout=300
+    //@harness props=C17,C01 quickfor=C17 strength=bounded tier=thorough bound="ONE execution: window of 4 positions at offset 2 of a 7-element index vector, comparison outcomes (equal, greater, greater) (the instances of this family enumerate every outcome vector for this window)" clause="quick sort step 2 (partition): afterwards the window holds the elements that compared less than the pivot, in their original relative order, then the pivot, then the others in their original relative order (stability); positions outside the window are untouched; exactly the comparison results of this window are consumed; the two sides are scheduled for sorting exactly when they have more than one element" timeout=300 replay=sort_stable
     #[kani::proof]
     #[kani::unwind(9)]
     fn quick_sort_2_len4_at2_code25() { quick_sort_2_at(2, 4, 25); }
-    //@harness props=C17,C01 quickfor=C17 strength=bounded bound="ONE execution: window of 4 positions at offset 2 of a 7-element index vector, comparison outcomes (greater, greater, greater) (the instances of this family enumerate every outcome vector for this window)" clause="quick sort step 2 (partition): afterwards the window holds the elements that compared less than the pivot, in their original relative order, then the pivot, then the others in their original relative order (stability); positions outside the window are untouched; exactly the comparison results of this window are consumed; the two sides are scheduled for sorting exactly when they have more than one element" timeout=300
+    //@harness props=C17,C01 quickfor=C17 strength=bounded bound="ONE execution: window of 4 positions at offset 2 of a 7-element index vector, comparison outcomes (greater, greater, greater) (the instances of this family enumerate every outcome vector for this window)" clause="quick sort step 2 (partition): afterwards the window holds the elements that compared less than the pivot, in their original relative order, then the pivot, then the others in their original relative order (stability); positions outside the window are untouched; exactly the comparison results of this window are consumed; the two sides are scheduled for sorting exactly when they have more than one element" timeout=300 replay=sort_stable
     #[kani::proof]
     #[kani::unwind(9)]
     fn quick_sort_2_len4_at2_code26() { quick_sort_2_at(2, 4, 26); }
@@ -388,7 +388,7 @@ mod vharness {
     fn unmerged(left: &[usize], li: usize, right: &[usize], ri: usize) -> Unmerged {
         Rc::new((Cell::new(li), left.to_vec().into_boxed_slice(), Cell::new(ri), right.to_vec().into_boxed_slice()))
     }
-    //@harness props=C17,C01 strength=bounded bound="two runs of 1..3 elements each, any progress (li, ri) with both runs unfinished, inside a 7-element index vector" clause="merge step after a comparison: if left key <= right key the LEFT element is placed (ties keep input order: stability), else the right one; it is placed at position start + li + ri, only that position changes, the taken run advances by one, and the merge continues" timeout=900
+    //@harness props=C17,C01 strength=bounded bound="two runs of 1..3 elements each, any progress (li, ri) with both runs unfinished, inside a 7-element index vector" clause="merge step after a comparison: if left key <= right key the LEFT element is placed (ties keep input order: stability), else the right one; it is placed at position start + li + ri, only that position changes, the taken run advances by one, and the merge continues" timeout=900 replay=sort_stable
     #[kani::proof]
     #[kani::unwind(9)]
     fn merge_post_compare_contract() {
@@ -439,327 +439,327 @@ mod vharness {
     }
 
     // @@GEN-BEGIN merge_pre
-    //@harness props=C17,C01 quickfor=C17 strength=bounded bound="ONE execution: runs of 2 and 2 elements, progress (0, 0) (the instances of this family enumerate every progress pair for these run lengths)" clause="merge step before a comparison: when one run is exhausted the rest of the other is copied in order to the positions that remain and the merge ends; otherwise the keys of the two run heads are requested for comparison (left head first operand) and the step after the comparison is scheduled" timeout=300
+    //@harness props=C17,C01 quickfor=C17 strength=bounded bound="ONE execution: runs of 2 and 2 elements, progress (0, 0) (the instances of this family enumerate every progress pair for these run lengths)" clause="merge step before a comparison: when one run is exhausted the rest of the other is copied in order to the positions that remain and the merge ends; otherwise the keys of the two run heads are requested for comparison (left head first operand) and the step after the comparison is scheduled" timeout=300 replay=sort_stable
     #[kani::proof]
     #[kani::unwind(9)]
     fn merge_pre_2_2_at_0_0() { merge_pre_at(2, 2, 0, 0); }
-    //@harness props=C17,C01 quickfor=C17 strength=bounded bound="ONE execution: runs of 2 and 2 elements, progress (0, 1) (the instances of this family enumerate every progress pair for these run lengths)" clause="merge step before a comparison: when one run is exhausted the rest of the other is copied in order to the positions that remain and the merge ends; otherwise the keys of the two run heads are requested for comparison (left head first operand) and the step after the comparison is scheduled" timeout=300
+    //@harness props=C17,C01 quickfor=C17 strength=bounded bound="ONE execution: runs of 2 and 2 elements, progress (0, 1) (the instances of this family enumerate every progress pair for these run lengths)" clause="merge step before a comparison: when one run is exhausted the rest of the other is copied in order to the positions that remain and the merge ends; otherwise the keys of the two run heads are requested for comparison (left head first operand) and the step after the comparison is scheduled" timeout=300 replay=sort_stable
     #[kani::proof]
     #[kani::unwind(9)]
     fn merge_pre_2_2_at_0_1() { merge_pre_at(2, 2, 0, 1); }
-    //@harness props=C17,C01 quickfor=C17 strength=bounded bound="ONE execution: runs of 2 and 2 elements, progress (0, 2) (the instances of this family enumerate every progress pair for these run lengths)" clause="merge step before a comparison: when one run is exhausted the rest of the other is copied in order to the positions that remain and the merge ends; otherwise the keys of the two run heads are requested for comparison (left head first operand) and the step after the comparison is scheduled" timeout=300
+    //@harness props=C17,C01 quickfor=C17 strength=bounded bound="ONE execution: runs of 2 and 2 elements, progress (0, 2) (the instances of this family enumerate every progress pair for these run lengths)" clause="merge step before a comparison: when one run is exhausted the rest of the other is copied in order to the positions that remain and the merge ends; otherwise the keys of the two run heads are requested for comparison (left head first operand) and the step after the comparison is scheduled" timeout=300 replay=sort_stable
     #[kani::proof]
     #[kani::unwind(9)]
     fn merge_pre_2_2_at_0_2() { merge_pre_at(2, 2, 0, 2); }
-    //@harness props=C17,C01 quickfor=C17 strength=bounded bound="ONE execution: runs of 2 and 2 elements, progress (1, 0) (the instances of this family enumerate every progress pair for these run lengths)" clause="merge step before a comparison: when one run is exhausted the rest of the other is copied in order to the positions that remain and the merge ends; otherwise the keys of the two run heads are requested for comparison (left head first operand) and the step after the comparison is scheduled" timeout=300
+    //@harness props=C17,C01 quickfor=C17 strength=bounded bound="ONE execution: runs of 2 and 2 elements, progress (1, 0) (the instances of this family enumerate every progress pair for these run lengths)" clause="merge step before a comparison: when one run is exhausted the rest of the other is copied in order to the positions that remain and the merge ends; otherwise the keys of the two run heads are requested for comparison (left head first operand) and the step after the comparison is scheduled" timeout=300 replay=sort_stable
     #[kani::proof]
     #[kani::unwind(9)]
     fn merge_pre_2_2_at_1_0() { merge_pre_at(2, 2, 1, 0); }
-    //@harness props=C17,C01 quickfor=C17 strength=bounded bound="ONE execution: runs of 2 and 2 elements, progress (1, 1) (the instances of this family enumerate every progress pair for these run lengths)" clause="merge step before a comparison: when one run is exhausted the rest of the other is copied in order to the positions that remain and the merge ends; otherwise the keys of the two run heads are requested for comparison (left head first operand) and the step after the comparison is scheduled" timeout=300
+    //@harness props=C17,C01 quickfor=C17 strength=bounded bound="ONE execution: runs of 2 and 2 elements, progress (1, 1) (the instances of this family enumerate every progress pair for these run lengths)" clause="merge step before a comparison: when one run is exhausted the rest of the other is copied in order to the positions that remain and the merge ends; otherwise the keys of the two run heads are requested for comparison (left head first operand) and the step after the comparison is scheduled" timeout=300 replay=sort_stable
     #[kani::proof]
     #[kani::unwind(9)]
     fn merge_pre_2_2_at_1_1() { merge_pre_at(2, 2, 1, 1); }
-    //@harness props=C17,C01 quickfor=C17 strength=bounded bound="ONE execution: runs of 2 and 2 elements, progress (1, 2) (the instances of this family enumerate every progress pair for these run lengths)" clause="merge step before a comparison: when one run is exhausted the rest of the other is copied in order to the positions that remain and the merge ends; otherwise the keys of the two run heads are requested for comparison (left head first operand) and the step after the comparison is scheduled" timeout=300
+    //@harness props=C17,C01 quickfor=C17 strength=bounded bound="ONE execution: runs of 2 and 2 elements, progress (1, 2) (the instances of this family enumerate every progress pair for these run lengths)" clause="merge step before a comparison: when one run is exhausted the rest of the other is copied in order to the positions that remain and the merge ends; otherwise the keys of the two run heads are requested for comparison (left head first operand) and the step after the comparison is scheduled" timeout=300 replay=sort_stable
     #[kani::proof]
     #[kani::unwind(9)]
     fn merge_pre_2_2_at_1_2() { merge_pre_at(2, 2, 1, 2); }
-    //@harness props=C17,C01 quickfor=C17 strength=bounded bound="ONE execution: runs of 2 and 2 elements, progress (2, 0) (the instances of this family enumerate every progress pair for these run lengths)" clause="merge step before a comparison: when one run is exhausted the rest of the other is copied in order to the positions that remain and the merge ends; otherwise the keys of the two run heads are requested for comparison (left head first operand) and the step after the comparison is scheduled" timeout=300
+    //@harness props=C17,C01 quickfor=C17 strength=bounded bound="ONE execution: runs of 2 and 2 elements, progress (2, 0) (the instances of this family enumerate every progress pair for these run lengths)" clause="merge step before a comparison: when one run is exhausted the rest of the other is copied in order to the positions that remain and the merge ends; otherwise the keys of the two run heads are requested for comparison (left head first operand) and the step after the comparison is scheduled" timeout=300 replay=sort_stable
     #[kani::proof]
     #[kani::unwind(9)]
     fn merge_pre_2_2_at_2_0() { merge_pre_at(2, 2, 2, 0); }
-    //@harness props=C17,C01 quickfor=C17 strength=bounded bound="ONE execution: runs of 2 and 2 elements, progress (2, 1) (the instances of this family enumerate every progress pair for these run lengths)" clause="merge step before a comparison: when one run is exhausted the rest of the other is copied in order to the positions that remain and the merge ends; otherwise the keys of the two run heads are requested for comparison (left head first operand) and the step after the comparison is scheduled" timeout=300
+    //@harness props=C17,C01 quickfor=C17 strength=bounded bound="ONE execution: runs of 2 and 2 elements, progress (2, 1) (the instances of this family enumerate every progress pair for these run lengths)" clause="merge step before a comparison: when one run is exhausted the rest of the other is copied in order to the positions that remain and the merge ends; otherwise the keys of the two run heads are requested for comparison (left head first operand) and the step after the comparison is scheduled" timeout=300 replay=sort_stable
     #[kani::proof]
     #[kani::unwind(9)]
     fn merge_pre_2_2_at_2_1() { merge_pre_at(2, 2, 2, 1); }
-    //@harness props=C17,C01 quickfor=C17 strength=bounded bound="ONE execution: runs of 2 and 2 elements, progress (2, 2) (the instances of this family enumerate every progress pair for these run lengths)" clause="merge step before a comparison: when one run is exhausted the rest of the other is copied in order to the positions that remain and the merge ends; otherwise the keys of the two run heads are requested for comparison (left head first operand) and the step after the comparison is scheduled" timeout=300
+    //@harness props=C17,C01 quickfor=C17 strength=bounded bound="ONE execution: runs of 2 and 2 elements, progress (2, 2) (the instances of this family enumerate every progress pair for these run lengths)" clause="merge step before a comparison: when one run is exhausted the rest of the other is copied in order to the positions that remain and the merge ends; otherwise the keys of the two run heads are requested for comparison (left head first operand) and the step after the comparison is scheduled" timeout=300 replay=sort_stable
     #[kani::proof]
     #[kani::unwind(9)]
     fn merge_pre_2_2_at_2_2() { merge_pre_at(2, 2, 2, 2); }
-    //@harness props=C17,C01 quickfor=C17 strength=bounded bound="ONE execution: runs of 1 and 3 elements, progress (0, 0) (the instances of this family enumerate every progress pair for these run lengths)" clause="merge step before a comparison: when one run is exhausted the rest of the other is copied in order to the positions that remain and the merge ends; otherwise the keys of the two run heads are requested for comparison (left head first operand) and the step after the comparison is scheduled" timeout=300
+    //@harness props=C17,C01 quickfor=C17 strength=bounded bound="ONE execution: runs of 1 and 3 elements, progress (0, 0) (the instances of this family enumerate every progress pair for these run lengths)" clause="merge step before a comparison: when one run is exhausted the rest of the other is copied in order to the positions that remain and the merge ends; otherwise the keys of the two run heads are requested for comparison (left head first operand) and the step after the comparison is scheduled" timeout=300 replay=sort_stable
     #[kani::proof]
     #[kani::unwind(9)]
     fn merge_pre_1_3_at_0_0() { merge_pre_at(1, 3, 0, 0); }
-    //@harness props=C17,C01 quickfor=C17 strength=bounded bound="ONE execution: runs of 1 and 3 elements, progress (0, 1) (the instances of this family enumerate every progress pair for these run lengths)" clause="merge step before a comparison: when one run is exhausted the rest of the other is copied in order to the positions that remain and the merge ends; otherwise the keys of the two run heads are requested for comparison (left head first operand) and the step after the comparison is scheduled" timeout=300
+    //@harness props=C17,C01 quickfor=C17 strength=bounded bound="ONE execution: runs of 1 and 3 elements, progress (0, 1) (the instances of this family enumerate every progress pair for these run lengths)" clause="merge step before a comparison: when one run is exhausted the rest of the other is copied in order to the positions that remain and the merge ends; otherwise the keys of the two run heads are requested for comparison (left head first operand) and the step after the comparison is scheduled" timeout=300 replay=sort_stable
     #[kani::proof]
     #[kani::unwind(9)]
     fn merge_pre_1_3_at_0_1() { merge_pre_at(1, 3, 0, 1); }
-    //@harness props=C17,C01 quickfor=C17 strength=bounded bound="ONE execution: runs of 1 and 3 elements, progress (0, 2) (the instances of this family enumerate every progress pair for these run lengths)" clause="merge step before a comparison: when one run is exhausted the rest of the other is copied in order to the positions that remain and the merge ends; otherwise the keys of the two run heads are requested for comparison (left head first operand) and the step after the comparison is scheduled" timeout=300
+    //@harness props=C17,C01 quickfor=C17 strength=bounded bound="ONE execution: runs of 1 and 3 elements, progress (0, 2) (the instances of this family enumerate every progress pair for these run lengths)" clause="merge step before a comparison: when one run is exhausted the rest of the other is copied in order to the positions that remain and the merge ends; otherwise the keys of the two run heads are requested for comparison (left head first operand) and the step after the comparison is scheduled" timeout=300 replay=sort_stable
     #[kani::proof]
     #[kani::unwind(9)]
     fn merge_pre_1_3_at_0_2() { merge_pre_at(1, 3, 0, 2); }
-    //@harness props=C17,C01 quickfor=C17 strength=bounded bound="ONE execution: runs of 1 and 3 elements, progress (0, 3) (the instances of this family enumerate every progress pair for these run lengths)" clause="merge step before a comparison: when one run is exhausted the rest of the other is copied in order to the positions that remain and the merge ends; otherwise the keys of the two run heads are requested for comparison (left head first operand) and the step after the comparison is scheduled" timeout=300
+    //@harness props=C17,C01 quickfor=C17 strength=bounded bound="ONE execution: runs of 1 and 3 elements, progress (0, 3) (the instances of this family enumerate every progress pair for these run lengths)" clause="merge step before a comparison: when one run is exhausted the rest of the other is copied in order to the positions that remain and the merge ends; otherwise the keys of the two run heads are requested for comparison (left head first operand) and the step after the comparison is scheduled" timeout=300 replay=sort_stable
     #[kani::proof]
     #[kani::unwind(9)]
     fn merge_pre_1_3_at_0_3() { merge_pre_at(1, 3, 0, 3); }
-    //@harness props=C17,C01 quickfor=C17 strength=bounded bound="ONE execution: runs of 1 and 3 elements, progress (1, 0) (the instances of this family enumerate every progress pair for these run lengths)" clause="merge step before a comparison: when one run is exhausted the rest of the other is copied in order to the positions that remain and the merge ends; otherwise the keys of the two run heads are requested for comparison (left head first operand) and the step after the comparison is scheduled" timeout=300
+    //@harness props=C17,C01 quickfor=C17 strength=bounded bound="ONE execution: runs of 1 and 3 elements, progress (1, 0) (the instances of this family enumerate every progress pair for these run lengths)" clause="merge step before a comparison: when one run is exhausted the rest of the other is copied in order to the positions that remain and the merge ends; otherwise the keys of the two run heads are requested for comparison (left head first operand) and the step after the comparison is scheduled" timeout=300 replay=sort_stable
     #[kani::proof]
     #[kani::unwind(9)]
     fn merge_pre_1_3_at_1_0() { merge_pre_at(1, 3, 1, 0); }
-    //@harness props=C17,C01 quickfor=C17 strength=bounded bound="ONE execution: runs of 1 and 3 elements, progress (1, 1) (the instances of this family enumerate every progress pair for these run lengths)" clause="merge step before a comparison: when one run is exhausted the rest of the other is copied in order to the positions that remain and the merge ends; otherwise the keys of the two run heads are requested for comparison (left head first operand) and the step after the comparison is scheduled" timeout=300
+    //@harness props=C17,C01 quickfor=C17 strength=bounded bound="ONE execution: runs of 1 and 3 elements, progress (1, 1) (the instances of this family enumerate every progress pair for these run lengths)" clause="merge step before a comparison: when one run is exhausted the rest of the other is copied in order to the positions that remain and the merge ends; otherwise the keys of the two run heads are requested for comparison (left head first operand) and the step after the comparison is scheduled" timeout=300 replay=sort_stable
     #[kani::proof]
     #[kani::unwind(9)]
     fn merge_pre_1_3_at_1_1() { merge_pre_at(1, 3, 1, 1); }
-    //@harness props=C17,C01 quickfor=C17 strength=bounded bound="ONE execution: runs of 1 and 3 elements, progress (1, 2) (the instances of this family enumerate every progress pair for these run lengths)" clause="merge step before a comparison: when one run is exhausted the rest of the other is copied in order to the positions that remain and the merge ends; otherwise the keys of the two run heads are requested for comparison (left head first operand) and the step after the comparison is scheduled" timeout=300
+    //@harness props=C17,C01 quickfor=C17 strength=bounded bound="ONE execution: runs of 1 and 3 elements, progress (1, 2) (the instances of this family enumerate every progress pair for these run lengths)" clause="merge step before a comparison: when one run is exhausted the rest of the other is copied in order to the positions that remain and the merge ends; otherwise the keys of the two run heads are requested for comparison (left head first operand) and the step after the comparison is scheduled" timeout=300 replay=sort_stable
     #[kani::proof]
     #[kani::unwind(9)]
     fn merge_pre_1_3_at_1_2() { merge_pre_at(1, 3, 1, 2); }
-    //@harness props=C17,C01 quickfor=C17 strength=bounded bound="ONE execution: runs of 1 and 3 elements, progress (1, 3) (the instances of this family enumerate every progress pair for these run lengths)" clause="merge step before a comparison: when one run is exhausted the rest of the other is copied in order to the positions that remain and the merge ends; otherwise the keys of the two run heads are requested for comparison (left head first operand) and the step after the comparison is scheduled" timeout=300
+    //@harness props=C17,C01 quickfor=C17 strength=bounded bound="ONE execution: runs of 1 and 3 elements, progress (1, 3) (the instances of this family enumerate every progress pair for these run lengths)" clause="merge step before a comparison: when one run is exhausted the rest of the other is copied in order to the positions that remain and the merge ends; otherwise the keys of the two run heads are requested for comparison (left head first operand) and the step after the comparison is scheduled" timeout=300 replay=sort_stable
     #[kani::proof]
     #[kani::unwind(9)]
     fn merge_pre_1_3_at_1_3() { merge_pre_at(1, 3, 1, 3); }
-    //@harness props=C17,C01 quickfor=C17 strength=bounded bound="ONE execution: runs of 3 and 1 elements, progress (0, 0) (the instances of this family enumerate every progress pair for these run lengths)" clause="merge step before a comparison: when one run is exhausted the rest of the other is copied in order to the positions that remain and the merge ends; otherwise the keys of the two run heads are requested for comparison (left head first operand) and the step after the comparison is scheduled" timeout=300
+    //@harness props=C17,C01 quickfor=C17 strength=bounded bound="ONE execution: runs of 3 and 1 elements, progress (0, 0) (the instances of this family enumerate every progress pair for these run lengths)" clause="merge step before a comparison: when one run is exhausted the rest of the other is copied in order to the positions that remain and the merge ends; otherwise the keys of the two run heads are requested for comparison (left head first operand) and the step after the comparison is scheduled" timeout=300 replay=sort_stable
     #[kani::proof]
     #[kani::unwind(9)]
     fn merge_pre_3_1_at_0_0() { merge_pre_at(3, 1, 0, 0); }
-    //@harness props=C17,C01 quickfor=C17 strength=bounded bound="ONE execution: runs of 3 and 1 elements, progress (0, 1) (the instances of this family enumerate every progress pair for these run lengths)" clause="merge step before a comparison: when one run is exhausted the rest of the other is copied in order to the positions that remain and the merge ends; otherwise the keys of the two run heads are requested for comparison (left head first operand) and the step after the comparison is scheduled" timeout=300
+    //@harness props=C17,C01 quickfor=C17 strength=bounded bound="ONE execution: runs of 3 and 1 elements, progress (0, 1) (the instances of this family enumerate every progress pair for these run lengths)" clause="merge step before a comparison: when one run is exhausted the rest of the other is copied in order to the positions that remain and the merge ends; otherwise the keys of the two run heads are requested for comparison (left head first operand) and the step after the comparison is scheduled" timeout=300 replay=sort_stable
     #[kani::proof]
     #[kani::unwind(9)]
     fn merge_pre_3_1_at_0_1() { merge_pre_at(3, 1, 0, 1); }
-    //@harness props=C17,C01 quickfor=C17 strength=bounded bound="ONE execution: runs of 3 and 1 elements, progress (1, 0) (the instances of this family enumerate every progress pair for these run lengths)" clause="merge step before a comparison: when one run is exhausted the rest of the other is copied in order to the positions that remain and the merge ends; otherwise the keys of the two run heads are requested for comparison (left head first operand) and the step after the comparison is scheduled" timeout=300
+    //@harness props=C17,C01 quickfor=C17 strength=bounded bound="ONE execution: runs of 3 and 1 elements, progress (1, 0) (the instances of this family enumerate every progress pair for these run lengths)" clause="merge step before a comparison: when one run is exhausted the rest of the other is copied in order to the positions that remain and the merge ends; otherwise the keys of the two run heads are requested for comparison (left head first operand) and the step after the comparison is scheduled" timeout=300 replay=sort_stable
     #[kani::proof]
     #[kani::unwind(9)]
     fn merge_pre_3_1_at_1_0() { merge_pre_at(3, 1, 1, 0); }
-    //@harness props=C17,C01 quickfor=C17 strength=bounded bound="ONE execution: runs of 3 and 1 elements, progress (1, 1) (the instances of this family enumerate every progress pair for these run lengths)" clause="merge step before a comparison: when one run is exhausted the rest of the other is copied in order to the positions that remain and the merge ends; otherwise the keys of the two run heads are requested for comparison (left head first operand) and the step after the comparison is scheduled" timeout=300
+    //@harness props=C17,C01 quickfor=C17 strength=bounded bound="ONE execution: runs of 3 and 1 elements, progress (1, 1) (the instances of this family enumerate every progress pair for these run lengths)" clause="merge step before a comparison: when one run is exhausted the rest of the other is copied in order to the positions that remain and the merge ends; otherwise the keys of the two run heads are requested for comparison (left head first operand) and the step after the comparison is scheduled" timeout=300 replay=sort_stable
     #[kani::proof]
     #[kani::unwind(9)]
     fn merge_pre_3_1_at_1_1() { merge_pre_at(3, 1, 1, 1); }
-    //@harness props=C17,C01 quickfor=C17 strength=bounded bound="ONE execution: runs of 3 and 1 elements, progress (2, 0) (the instances of this family enumerate every progress pair for these run lengths)" clause="merge step before a comparison: when one run is exhausted the rest of the other is copied in order to the positions that remain and the merge ends; otherwise the keys of the two run heads are requested for comparison (left head first operand) and the step after the comparison is scheduled" timeout=300
+    //@harness props=C17,C01 quickfor=C17 strength=bounded bound="ONE execution: runs of 3 and 1 elements, progress (2, 0) (the instances of this family enumerate every progress pair for these run lengths)" clause="merge step before a comparison: when one run is exhausted the rest of the other is copied in order to the positions that remain and the merge ends; otherwise the keys of the two run heads are requested for comparison (left head first operand) and the step after the comparison is scheduled" timeout=300 replay=sort_stable
     #[kani::proof]
     #[kani::unwind(9)]
     fn merge_pre_3_1_at_2_0() { merge_pre_at(3, 1, 2, 0); }
-    //@harness props=C17,C01 quickfor=C17 strength=bounded bound="ONE execution: runs of 3 and 1 elements, progress (2, 1) (the instances of this family enumerate every progress pair for these run lengths)" clause="merge step before a comparison: when one run is exhausted the rest of the other is copied in order to the positions that remain and the merge ends; otherwise the keys of the two run heads are requested for comparison (left head first operand) and the step after the comparison is scheduled" timeout=300
+    //@harness props=C17,C01 quickfor=C17 strength=bounded bound="ONE execution: runs of 3 and 1 elements, progress (2, 1) (the instances of this family enumerate every progress pair for these run lengths)" clause="merge step before a comparison: when one run is exhausted the rest of the other is copied in order to the positions that remain and the merge ends; otherwise the keys of the two run heads are requested for comparison (left head first operand) and the step after the comparison is scheduled" timeout=300 replay=sort_stable
     #[kani::proof]
     #[kani::unwind(9)]
     fn merge_pre_3_1_at_2_1() { merge_pre_at(3, 1, 2, 1); }
-    //@harness props=C17,C01 quickfor=C17 strength=bounded bound="ONE execution: runs of 3 and 1 elements, progress (3, 0) (the instances of this family enumerate every progress pair for these run lengths)" clause="merge step before a comparison: when one run is exhausted the rest of the other is copied in order to the positions that remain and the merge ends; otherwise the keys of the two run heads are requested for comparison (left head first operand) and the step after the comparison is scheduled" timeout=300
+    //@harness props=C17,C01 quickfor=C17 strength=bounded bound="ONE execution: runs of 3 and 1 elements, progress (3, 0) (the instances of this family enumerate every progress pair for these run lengths)" clause="merge step before a comparison: when one run is exhausted the rest of the other is copied in order to the positions that remain and the merge ends; otherwise the keys of the two run heads are requested for comparison (left head first operand) and the step after the comparison is scheduled" timeout=300 replay=sort_stable
     #[kani::proof]
     #[kani::unwind(9)]
     fn merge_pre_3_1_at_3_0() { merge_pre_at(3, 1, 3, 0); }
-    //@harness props=C17,C01 quickfor=C17 strength=bounded bound="ONE execution: runs of 3 and 1 elements, progress (3, 1) (the instances of this family enumerate every progress pair for these run lengths)" clause="merge step before a comparison: when one run is exhausted the rest of the other is copied in order to the positions that remain and the merge ends; otherwise the keys of the two run heads are requested for comparison (left head first operand) and the step after the comparison is scheduled" timeout=300
+    //@harness props=C17,C01 quickfor=C17 strength=bounded bound="ONE execution: runs of 3 and 1 elements, progress (3, 1) (the instances of this family enumerate every progress pair for these run lengths)" clause="merge step before a comparison: when one run is exhausted the rest of the other is copied in order to the positions that remain and the merge ends; otherwise the keys of the two run heads are requested for comparison (left head first operand) and the step after the comparison is scheduled" timeout=300 replay=sort_stable
     #[kani::proof]
     #[kani::unwind(9)]
     fn merge_pre_3_1_at_3_1() { merge_pre_at(3, 1, 3, 1); }
-    //@harness props=C17,C01 quickfor=C17 strength=bounded tier=thorough bound="ONE execution: runs of 3 and 3 elements, progress (0, 0) (the instances of this family enumerate every progress pair for these run lengths)" clause="merge step before a comparison: when one run is exhausted the rest of the other is copied in order to the positions that remain and the merge ends; otherwise the keys of the two run heads are requested for comparison (left head first operand) and the step after the comparison is scheduled" timeout=300
+    //@harness props=C17,C01 quickfor=C17 strength=bounded tier=thorough bound="ONE execution: runs of 3 and 3 elements, progress (0, 0) (the instances of this family enumerate every progress pair for these run lengths)" clause="merge step before a comparison: when one run is exhausted the rest of the other is copied in order to the positions that remain and the merge ends; otherwise the keys of the two run heads are requested for comparison (left head first operand) and the step after the comparison is scheduled" timeout=300 replay=sort_stable
     #[kani::proof]
     #[kani::unwind(9)]
     fn merge_pre_3_3_at_0_0() { merge_pre_at(3, 3, 0, 0); }
-    //@harness props=C17,C01 quickfor=C17 strength=bounded tier=thorough bound="ONE execution: runs of 3 and 3 elements, progress (0, 1) (the instances of this family enumerate every progress pair for these run lengths)" clause="merge step before a comparison: when one run is exhausted the rest of the other is copied in order to the positions that remain and the merge ends; otherwise the keys of the two run heads are requested for comparison (left head first operand) and the step after the comparison is scheduled" timeout=300
+    //@harness props=C17,C01 quickfor=C17 strength=bounded tier=thorough bound="ONE execution: runs of 3 and 3 elements, progress (0, 1) (the instances of this family enumerate every progress pair for these run lengths)" clause="merge step before a comparison: when one run is exhausted the rest of the other is copied in order to the positions that remain and the merge ends; otherwise the keys of the two run heads are requested for comparison (left head first operand) and the step after the comparison is scheduled" timeout=300 replay=sort_stable
     #[kani::proof]
     #[kani::unwind(9)]
     fn merge_pre_3_3_at_0_1() { merge_pre_at(3, 3, 0, 1); }
-    //@harness props=C17,C01 quickfor=C17 strength=bounded tier=thorough bound="ONE execution: runs of 3 and 3 elements, progress (0, 2) (the instances of this family enumerate every progress pair for these run lengths)" clause="merge step before a comparison: when one run is exhausted the rest of the other is copied in order to the positions that remain and the merge ends; otherwise the keys of the two run heads are requested for comparison (left head first operand) and the step after the comparison is scheduled" timeout=300
+    //@harness props=C17,C01 quickfor=C17 strength=bounded tier=thorough bound="ONE execution: runs of 3 and 3 elements, progress (0, 2) (the instances of this family enumerate every progress pair for these run lengths)" clause="merge step before a comparison: when one run is exhausted the rest of the other is copied in order to the positions that remain and the merge ends; otherwise the keys of the two run heads are requested for comparison (left head first operand) and the step after the comparison is scheduled" timeout=300 replay=sort_stable
     #[kani::proof]
     #[kani::unwind(9)]
     fn merge_pre_3_3_at_0_2() { merge_pre_at(3, 3, 0, 2); }
-    //@harness props=C17,C01 quickfor=C17 strength=bounded tier=thorough bound="ONE execution: runs of 3 and 3 elements, progress (0, 3) (the instances of this family enumerate every progress pair for these run lengths)" clause="merge step before a comparison: when one run is exhausted the rest of the other is copied in order to the positions that remain and the merge ends; otherwise the keys of the two run heads are requested for comparison (left head first operand) and the step after the comparison is scheduled" timeout=300
+    //@harness props=C17,C01 quickfor=C17 strength=bounded tier=thorough bound="ONE execution: runs of 3 and 3 elements, progress (0, 3) (the instances of this family enumerate every progress pair for these run lengths)" clause="merge step before a comparison: when one run is exhausted the rest of the other is copied in order to the positions that remain and the merge ends; otherwise the keys of the two run heads are requested for comparison (left head first operand) and the step after the comparison is scheduled" timeout=300 replay=sort_stable
     #[kani::proof]
     #[kani::unwind(9)]
     fn merge_pre_3_3_at_0_3() { merge_pre_at(3, 3, 0, 3); }
-    //@harness props=C17,C01 quickfor=C17 strength=bounded tier=thorough bound="ONE execution: runs of 3 and 3 elements, progress (1, 0) (the instances of this family enumerate every progress pair for these run lengths)" clause="merge step before a comparison: when one run is exhausted the rest of the other is copied in order to the positions that remain and the merge ends; otherwise the keys of the two run heads are requested for comparison (left head first operand) and the step after the comparison is scheduled" timeout=300
+    //@harness props=C17,C01 quickfor=C17 strength=bounded tier=thorough bound="ONE execution: runs of 3 and 3 elements, progress (1, 0) (the instances of this family enumerate every progress pair for these run lengths)" clause="merge step before a comparison: when one run is exhausted the rest of the other is copied in order to the positions that remain and the merge ends; otherwise the keys of the two run heads are requested for comparison (left head first operand) and the step after the comparison is scheduled" timeout=300 replay=sort_stable
     #[kani::proof]
     #[kani::unwind(9)]
     fn merge_pre_3_3_at_1_0() { merge_pre_at(3, 3, 1, 0); }
-    //@harness props=C17,C01 quickfor=C17 strength=bounded tier=thorough bound="ONE execution: runs of 3 and 3 elements, progress (1, 1) (the instances of this family enumerate every progress pair for these run lengths)" clause="merge step before a comparison: when one run is exhausted the rest of the other is copied in order to the positions that remain and the merge ends; otherwise the keys of the two run heads are requested for comparison (left head first operand) and the step after the comparison is scheduled" timeout=300
+    //@harness props=C17,C01 quickfor=C17 strength=bounded tier=thorough bound="ONE execution: runs of 3 and 3 elements, progress (1, 1) (the instances of this family enumerate every progress pair for these run lengths)" clause="merge step before a comparison: when one run is exhausted the rest of the other is copied in order to the positions that remain and the merge ends; otherwise the keys of the two run heads are requested for comparison (left head first operand) and the step after the comparison is scheduled" timeout=300 replay=sort_stable
     #[kani::proof]
     #[kani::unwind(9)]
     fn merge_pre_3_3_at_1_1() { merge_pre_at(3, 3, 1, 1); }
-    //@harness props=C17,C01 quickfor=C17 strength=bounded tier=thorough bound="ONE execution: runs of 3 and 3 elements, progress (1, 2) (the instances of this family enumerate every progress pair for these run lengths)" clause="merge step before a comparison: when one run is exhausted the rest of the other is copied in order to the positions that remain and the merge ends; otherwise the keys of the two run heads are requested for comparison (left head first operand) and the step after the comparison is scheduled" timeout=300
+    //@harness props=C17,C01 quickfor=C17 strength=bounded tier=thorough bound="ONE execution: runs of 3 and 3 elements, progress (1, 2) (the instances of this family enumerate every progress pair for these run lengths)" clause="merge step before a comparison: when one run is exhausted the rest of the other is copied in order to the positions that remain and the merge ends; otherwise the keys of the two run heads are requested for comparison (left head first operand) and the step after the comparison is scheduled" timeout=300 replay=sort_stable
     #[kani::proof]
     #[kani::unwind(9)]
     fn merge_pre_3_3_at_1_2() { merge_pre_at(3, 3, 1, 2); }
-    //@harness props=C17,C01 quickfor=C17 strength=bounded tier=thorough bound="ONE execution: runs of 3 and 3 elements, progress (1, 3) (the instances of this family enumerate every progress pair for these run lengths)" clause="merge step before a comparison: when one run is exhausted the rest of the other is copied in order to the positions that remain and the merge ends; otherwise the keys of the two run heads are requested for comparison (left head first operand) and the step after the comparison is scheduled" timeout=300
+    //@harness props=C17,C01 quickfor=C17 strength=bounded tier=thorough bound="ONE execution: runs of 3 and 3 elements, progress (1, 3) (the instances of this family enumerate every progress pair for these run lengths)" clause="merge step before a comparison: when one run is exhausted the rest of the other is copied in order to the positions that remain and the merge ends; otherwise the keys of the two run heads are requested for comparison (left head first operand) and the step after the comparison is scheduled" timeout=300 replay=sort_stable
     #[kani::proof]
     #[kani::unwind(9)]
     fn merge_pre_3_3_at_1_3() { merge_pre_at(3, 3, 1, 3); }
-    //@harness props=C17,C01 quickfor=C17 strength=bounded tier=thorough bound="ONE execution: runs of 3 and 3 elements, progress (2, 0) (the instances of this family enumerate every progress pair for these run lengths)" clause="merge step before a comparison: when one run is exhausted the rest of the other is copied in order to the positions that remain and the merge ends; otherwise the keys of the two run heads are requested for comparison (left head first operand) and the step after the comparison is scheduled" timeout=300
+    //@harness props=C17,C01 quickfor=C17 strength=bounded tier=thorough bound="ONE execution: runs of 3 and 3 elements, progress (2, 0) (the instances of this family enumerate every progress pair for these run lengths)" clause="merge step before a comparison: when one run is exhausted the rest of the other is copied in order to the positions that remain and the merge ends; otherwise the keys of the two run heads are requested for comparison (left head first operand) and the step after the comparison is scheduled" timeout=300 replay=sort_stable
     #[kani::proof]
     #[kani::unwind(9)]
     fn merge_pre_3_3_at_2_0() { merge_pre_at(3, 3, 2, 0); }
-    //@harness props=C17,C01 quickfor=C17 strength=bounded tier=thorough bound="ONE execution: runs of 3 and 3 elements, progress (2, 1) (the instances of this family enumerate every progress pair for these run lengths)" clause="merge step before a comparison: when one run is exhausted the rest of the other is copied in order to the positions that remain and the merge ends; otherwise the keys of the two run heads are requested for comparison (left head first operand) and the step after the comparison is scheduled" timeout=300
+    //@harness props=C17,C01 quickfor=C17 strength=bounded tier=thorough bound="ONE execution: runs of 3 and 3 elements, progress (2, 1) (the instances of this family enumerate every progress pair for these run lengths)" clause="merge step before a comparison: when one run is exhausted the rest of the other is copied in order to the positions that remain and the merge ends; otherwise the keys of the two run heads are requested for comparison (left head first operand) and the step after the comparison is scheduled" timeout=300 replay=sort_stable
     #[kani::proof]
     #[kani::unwind(9)]
     fn merge_pre_3_3_at_2_1() { merge_pre_at(3, 3, 2, 1); }
-    //@harness props=C17,C01 quickfor=C17 strength=bounded tier=thorough bound="ONE execution: runs of 3 and 3 elements, progress (2, 2) (the instances of this family enumerate every progress pair for these run lengths)" clause="merge step before a comparison: when one run is exhausted the rest of the other is copied in order to the positions that remain and the merge ends; otherwise the keys of the two run heads are requested for comparison (left head first operand) and the step after the comparison is scheduled" timeout=300
+    //@harness props=C17,C01 quickfor=C17 strength=bounded tier=thorough bound="ONE execution: runs of 3 and 3 elements, progress (2, 2) (the instances of this family enumerate every progress pair for these run lengths)" clause="merge step before a comparison: when one run is exhausted the rest of the other is copied in order to the positions that remain and the merge ends; otherwise the keys of the two run heads are requested for comparison (left head first operand) and the step after the comparison is scheduled" timeout=300 replay=sort_stable
     #[kani::proof]
     #[kani::unwind(9)]
     fn merge_pre_3_3_at_2_2() { merge_pre_at(3, 3, 2, 2); }
-    //@harness props=C17,C01 quickfor=C17 strength=bounded tier=thorough bound="ONE execution: runs of 3 and 3 elements, progress (2, 3) (the instances of this family enumerate every progress pair for these run lengths)" clause="merge step before a comparison: when one run is exhausted the rest of the other is copied in order to the positions that remain and the merge ends; otherwise the keys of the two run heads are requested for comparison (left head first operand) and the step after the comparison is scheduled" timeout=300
+    //@harness props=C17,C01 quickfor=C17 strength=bounded tier=thorough bound="ONE execution: runs of 3 and 3 elements, progress (2, 3) (the instances of this family enumerate every progress pair for these run lengths)" clause="merge step before a comparison: when one run is exhausted the rest of the other is copied in order to the positions that remain and the merge ends; otherwise the keys of the two run heads are requested for comparison (left head first operand) and the step after the comparison is scheduled" timeout=300 replay=sort_stable
     #[kani::proof]
     #[kani::unwind(9)]
     fn merge_pre_3_3_at_2_3() { merge_pre_at(3, 3, 2, 3); }
-    //@harness props=C17,C01 quickfor=C17 strength=bounded tier=thorough bound="ONE execution: runs of 3 and 3 elements, progress (3, 0) (the instances of this family enumerate every progress pair for these run lengths)" clause="merge step before a comparison: when one run is exhausted the rest of the other is copied in order to the positions that remain and the merge ends; otherwise the keys of the two run heads are requested for comparison (left head first operand) and the step after the comparison is scheduled" timeout=300
+    //@harness props=C17,C01 quickfor=C17 strength=bounded tier=thorough bound="ONE execution: runs of 3 and 3 elements, progress (3, 0) (the instances of this family enumerate every progress pair for these run lengths)" clause="merge step before a comparison: when one run is exhausted the rest of the other is copied in order to the positions that remain and the merge ends; otherwise the keys of the two run heads are requested for comparison (left head first operand) and the step after the comparison is scheduled" timeout=300 replay=sort_stable
     #[kani::proof]
     #[kani::unwind(9)]
     fn merge_pre_3_3_at_3_0() { merge_pre_at(3, 3, 3, 0); }
-    //@harness props=C17,C01 quickfor=C17 strength=bounded tier=thorough bound="ONE execution: runs of 3 and 3 elements, progress (3, 1) (the instances of this family enumerate every progress pair for these run lengths)" clause="merge step before a comparison: when one run is exhausted the rest of the other is copied in order to the positions that remain and the merge ends; otherwise the keys of the two run heads are requested for comparison (left head first operand) and the step after the comparison is scheduled" timeout=300
+    //@harness props=C17,C01 quickfor=C17 strength=bounded tier=thorough bound="ONE execution: runs of 3 and 3 elements, progress (3, 1) (the instances of this family enumerate every progress pair for these run lengths)" clause="merge step before a comparison: when one run is exhausted the rest of the other is copied in order to the positions that remain and the merge ends; otherwise the keys of the two run heads are requested for comparison (left head first operand) and the step after the comparison is scheduled" timeout=300 replay=sort_stable
     #[kani::proof]
     #[kani::unwind(9)]
     fn merge_pre_3_3_at_3_1() { merge_pre_at(3, 3, 3, 1); }
-    //@harness props=C17,C01 quickfor=C17 strength=bounded tier=thorough bound="ONE execution: runs of 3 and 3 elements, progress (3, 2) (the instances of this family enumerate every progress pair for these run lengths)" clause="merge step before a comparison: when one run is exhausted the rest of the other is copied in order to the positions that remain and the merge ends; otherwise the keys of the two run heads are requested for comparison (left head first operand) and the step after the comparison is scheduled" timeout=300
+    //@harness props=C17,C01 quickfor=C17 strength=bounded tier=thorough bound="ONE execution: runs of 3 and 3 elements, progress (3, 2) (the instances of this family enumerate every progress pair for these run lengths)" clause="merge step before a comparison: when one run is exhausted the rest of the other is copied in order to the positions that remain and the merge ends; otherwise the keys of the two run heads are requested for comparison (left head first operand) and the step after the comparison is scheduled" timeout=300 replay=sort_stable
     #[kani::proof]
     #[kani::unwind(9)]
     fn merge_pre_3_3_at_3_2() { merge_pre_at(3, 3, 3, 2); }
-    //@harness props=C17,C01 quickfor=C17 strength=bounded tier=thorough bound="ONE execution: runs of 3 and 3 elements, progress (3, 3) (the instances of this family enumerate every progress pair for these run lengths)" clause="merge step before a comparison: when one run is exhausted the rest of the other is copied in order to the positions that remain and the merge ends; otherwise the keys of the two run heads are requested for comparison (left head first operand) and the step after the comparison is scheduled" timeout=300
+    //@harness props=C17,C01 quickfor=C17 strength=bounded tier=thorough bound="ONE execution: runs of 3 and 3 elements, progress (3, 3) (the instances of this family enumerate every progress pair for these run lengths)" clause="merge step before a comparison: when one run is exhausted the rest of the other is copied in order to the positions that remain and the merge ends; otherwise the keys of the two run heads are requested for comparison (left head first operand) and the step after the comparison is scheduled" timeout=300 replay=sort_stable
     #[kani::proof]
     #[kani::unwind(9)]
     fn merge_pre_3_3_at_3_3() { merge_pre_at(3, 3, 3, 3); }
-    //@harness props=C17,C01 quickfor=C17 strength=bounded tier=thorough bound="ONE execution: runs of 1 and 1 elements, progress (0, 0) (the instances of this family enumerate every progress pair for these run lengths)" clause="merge step before a comparison: when one run is exhausted the rest of the other is copied in order to the positions that remain and the merge ends; otherwise the keys of the two run heads are requested for comparison (left head first operand) and the step after the comparison is scheduled" timeout=300
+    //@harness props=C17,C01 quickfor=C17 strength=bounded tier=thorough bound="ONE execution: runs of 1 and 1 elements, progress (0, 0) (the instances of this family enumerate every progress pair for these run lengths)" clause="merge step before a comparison: when one run is exhausted the rest of the other is copied in order to the positions that remain and the merge ends; otherwise the keys of the two run heads are requested for comparison (left head first operand) and the step after the comparison is scheduled" timeout=300 replay=sort_stable
     #[kani::proof]
     #[kani::unwind(9)]
     fn merge_pre_1_1_at_0_0() { merge_pre_at(1, 1, 0, 0); }
-    //@harness props=C17,C01 quickfor=C17 strength=bounded tier=thorough bound="ONE execution: runs of 1 and 1 elements, progress (0, 1) (the instances of this family enumerate every progress pair for these run lengths)" clause="merge step before a comparison: when one run is exhausted the rest of the other is copied in order to the positions that remain and the merge ends; otherwise the keys of the two run heads are requested for comparison (left head first operand) and the step after the comparison is scheduled" timeout=300
+    //@harness props=C17,C01 quickfor=C17 strength=bounded tier=thorough bound="ONE execution: runs of 1 and 1 elements, progress (0, 1) (the instances of this family enumerate every progress pair for these run lengths)" clause="merge step before a comparison: when one run is exhausted the rest of the other is copied in order to the positions that remain and the merge ends; otherwise the keys of the two run heads are requested for comparison (left head first operand) and the step after the comparison is scheduled" timeout=300 replay=sort_stable
     #[kani::proof]
     #[kani::unwind(9)]
     fn merge_pre_1_1_at_0_1() { merge_pre_at(1, 1, 0, 1); }
-    //@harness props=C17,C01 quickfor=C17 strength=bounded tier=thorough bound="ONE execution: runs of 1 and 1 elements, progress (1, 0) (the instances of this family enumerate every progress pair for these run lengths)" clause="merge step before a comparison: when one run is exhausted the rest of the other is copied in order to the positions that remain and the merge ends; otherwise the keys of the two run heads are requested for comparison (left head first operand) and the step after the comparison is scheduled" timeout=300
+    //@harness props=C17,C01 quickfor=C17 strength=bounded tier=thorough bound="ONE execution: runs of 1 and 1 elements, progress (1, 0) (the instances of this family enumerate every progress pair for these run lengths)" clause="merge step before a comparison: when one run is exhausted the rest of the other is copied in order to the positions that remain and the merge ends; otherwise the keys of the two run heads are requested for comparison (left head first operand) and the step after the comparison is scheduled" timeout=300 replay=sort_stable
     #[kani::proof]
     #[kani::unwind(9)]
     fn merge_pre_1_1_at_1_0() { merge_pre_at(1, 1, 1, 0); }
-    //@harness props=C17,C01 quickfor=C17 strength=bounded tier=thorough bound="ONE execution: runs of 1 and 1 elements, progress (1, 1) (the instances of this family enumerate every progress pair for these run lengths)" clause="merge step before a comparison: when one run is exhausted the rest of the other is copied in order to the positions that remain and the merge ends; otherwise the keys of the two run heads are requested for comparison (left head first operand) and the step after the comparison is scheduled" timeout=300
+    //@harness props=C17,C01 quickfor=C17 strength=bounded tier=thorough bound="ONE execution: runs of 1 and 1 elements, progress (1, 1) (the instances of this family enumerate every progress pair for these run lengths)" clause="merge step before a comparison: when one run is exhausted the rest of the other is copied in order to the positions that remain and the merge ends; otherwise the keys of the two run heads are requested for comparison (left head first operand) and the step after the comparison is scheduled" timeout=300 replay=sort_stable
     #[kani::proof]
     #[kani::unwind(9)]
     fn merge_pre_1_1_at_1_1() { merge_pre_at(1, 1, 1, 1); }
-    //@harness props=C17,C01 quickfor=C17 strength=bounded tier=thorough bound="ONE execution: runs of 2 and 3 elements, progress (0, 0) (the instances of this family enumerate every progress pair for these run lengths)" clause="merge step before a comparison: when one run is exhausted the rest of the other is copied in order to the positions that remain and the merge ends; otherwise the keys of the two run heads are requested for comparison (left head first operand) and the step after the comparison is scheduled" timeout=300
+    //@harness props=C17,C01 quickfor=C17 strength=bounded tier=thorough bound="ONE execution: runs of 2 and 3 elements, progress (0, 0) (the instances of this family enumerate every progress pair for these run lengths)" clause="merge step before a comparison: when one run is exhausted the rest of the other is copied in order to the positions that remain and the merge ends; otherwise the keys of the two run heads are requested for comparison (left head first operand) and the step after the comparison is scheduled" timeout=300 replay=sort_stable
     #[kani::proof]
     #[kani::unwind(9)]
     fn merge_pre_2_3_at_0_0() { merge_pre_at(2, 3, 0, 0); }
-    //@harness props=C17,C01 quickfor=C17 strength=bounded tier=thorough bound="ONE execution: runs of 2 and 3 elements, progress (0, 1) (the instances of this family enumerate every progress pair for these run lengths)" clause="merge step before a comparison: when one run is exhausted the rest of the other is copied in order to the positions that remain and the merge ends; otherwise the keys of the two run heads are requested for comparison (left head first operand) and the step after the comparison is scheduled" timeout=300
+    //@harness props=C17,C01 quickfor=C17 strength=bounded tier=thorough bound="ONE execution: runs of 2 and 3 elements, progress (0, 1) (the instances of this family enumerate every progress pair for these run lengths)" clause="merge step before a comparison: when one run is exhausted the rest of the other is copied in order to the positions that remain and the merge ends; otherwise the keys of the two run heads are requested for comparison (left head first operand) and the step after the comparison is scheduled" timeout=300 replay=sort_stable
     #[kani::proof]
     #[kani::unwind(9)]
     fn merge_pre_2_3_at_0_1() { merge_pre_at(2, 3, 0, 1); }
-    //@harness props=C17,C01 quickfor=C17 strength=bounded tier=thorough bound="ONE execution: runs of 2 and 3 elements, progress (0, 2) (the instances of this family enumerate every progress pair for these run lengths)" clause="merge step before a comparison: when one run is exhausted the rest of the other is copied in order to the positions that remain and the merge ends; otherwise the keys of the two run heads are requested for comparison (left head first operand) and the step after the comparison is scheduled" timeout=300
+    //@harness props=C17,C01 quickfor=C17 strength=bounded tier=thorough bound="ONE execution: runs of 2 and 3 elements, progress (0, 2) (the instances of this family enumerate every progress pair for these run lengths)" clause="merge step before a comparison: when one run is exhausted the rest of the other is copied in order to the positions that remain and the merge ends; otherwise the keys of the two run heads are requested for comparison (left head first operand) and the step after the comparison is scheduled" timeout=300 replay=sort_stable
     #[kani::proof]
     #[kani::unwind(9)]
     fn merge_pre_2_3_at_0_2() { merge_pre_at(2, 3, 0, 2); }
-    //@harness props=C17,C01 quickfor=C17 strength=bounded tier=thorough bound="ONE execution: runs of 2 and 3 elements, progress (0, 3) (the instances of this family enumerate every progress pair for these run lengths)" clause="merge step before a comparison: when one run is exhausted the rest of the other is copied in order to the positions that remain and the merge ends; otherwise the keys of the two run heads are requested for comparison (left head first operand) and the step after the comparison is scheduled" timeout=300
+    //@harness props=C17,C01 quickfor=C17 strength=bounded tier=thorough bound="ONE execution: runs of 2 and 3 elements, progress (0, 3) (the instances of this family enumerate every progress pair for these run lengths)" clause="merge step before a comparison: when one run is exhausted the rest of the other is copied in order to the positions that remain and the merge ends; otherwise the keys of the two run heads are requested for comparison (left head first operand) and the step after the comparison is scheduled" timeout=300 replay=sort_stable
     #[kani::proof]
     #[kani::unwind(9)]
     fn merge_pre_2_3_at_0_3() { merge_pre_at(2, 3, 0, 3); }
-    //@harness props=C17,C01 quickfor=C17 strength=bounded tier=thorough bound="ONE execution: runs of 2 and 3 elements, progress (1, 0) (the instances of this family enumerate every progress pair for these run lengths)" clause="merge step before a comparison: when one run is exhausted the rest of the other is copied in order to the positions that remain and the merge ends; otherwise the keys of the two run heads are requested for comparison (left head first operand) and the step after the comparison is scheduled" timeout=300
+    //@harness props=C17,C01 quickfor=C17 strength=bounded tier=thorough bound="ONE execution: runs of 2 and 3 elements, progress (1, 0) (the instances of this family enumerate every progress pair for these run lengths)" clause="merge step before a comparison: when one run is exhausted the rest of the other is copied in order to the positions that remain and the merge ends; otherwise the keys of the two run heads are requested for comparison (left head first operand) and the step after the comparison is scheduled" timeout=300 replay=sort_stable
     #[kani::proof]
     #[kani::unwind(9)]
     fn merge_pre_2_3_at_1_0() { merge_pre_at(2, 3, 1, 0); }
-    //@harness props=C17,C01 quickfor=C17 strength=bounded tier=thorough bound="ONE execution: runs of 2 and 3 elements, progress (1, 1) (the instances of this family enumerate every progress pair for these run lengths)" clause="merge step before a comparison: when one run is exhausted the rest of the other is copied in order to the positions that remain and the merge ends; otherwise the keys of the two run heads are requested for comparison (left head first operand) and the step after the comparison is scheduled" timeout=300
+    //@harness props=C17,C01 quickfor=C17 strength=bounded tier=thorough bound="ONE execution: runs of 2 and 3 elements, progress (1, 1) (the instances of this family enumerate every progress pair for these run lengths)" clause="merge step before a comparison: when one run is exhausted the rest of the other is copied in order to the positions that remain and the merge ends; otherwise the keys of the two run heads are requested for comparison (left head first operand) and the step after the comparison is scheduled" timeout=300 replay=sort_stable
     #[kani::proof]
     #[kani::unwind(9)]
     fn merge_pre_2_3_at_1_1() { merge_pre_at(2, 3, 1, 1); }
-    //@harness props=C17,C01 quickfor=C17 strength=bounded tier=thorough bound="ONE execution: runs of 2 and 3 elements, progress (1, 2) (the instances of this family enumerate every progress pair for these run lengths)" clause="merge step before a comparison: when one run is exhausted the rest of the other is copied in order to the positions that remain and the merge ends; otherwise the keys of the two run heads are requested for comparison (left head first operand) and the step after the comparison is scheduled" timeout=300
+    //@harness props=C17,C01 quickfor=C17 strength=bounded tier=thorough bound="ONE execution: runs of 2 and 3 elements, progress (1, 2) (the instances of this family enumerate every progress pair for these run lengths)" clause="merge step before a comparison: when one run is exhausted the rest of the other is copied in order to the positions that remain and the merge ends; otherwise the keys of the two run heads are requested for comparison (left head first operand) and the step after the comparison is scheduled" timeout=300 replay=sort_stable
     #[kani::proof]
     #[kani::unwind(9)]
     fn merge_pre_2_3_at_1_2() { merge_pre_at(2, 3, 1, 2); }
-    //@harness props=C17,C01 quickfor=C17 strength=bounded tier=thorough bound="ONE execution: runs of 2 and 3 elements, progress (1, 3) (the instances of this family enumerate every progress pair for these run lengths)" clause="merge step before a comparison: when one run is exhausted the rest of the other is copied in order to the positions that remain and the merge ends; otherwise the keys of the two run heads are requested for comparison (left head first operand) and the step after the comparison is scheduled" timeout=300
+    //@harness props=C17,C01 quickfor=C17 strength=bounded tier=thorough bound="ONE execution: runs of 2 and 3 elements, progress (1, 3) (the instances of this family enumerate every progress pair for these run lengths)" clause="merge step before a comparison: when one run is exhausted the rest of the other is copied in order to the positions that remain and the merge ends; otherwise the keys of the two run heads are requested for comparison (left head first operand) and the step after the comparison is scheduled" timeout=300 replay=sort_stable
     #[kani::proof]
     #[kani::unwind(9)]
     fn merge_pre_2_3_at_1_3() { merge_pre_at(2, 3, 1, 3); }
-    //@harness props=C17,C01 quickfor=C17 strength=bounded tier=thorough bound="ONE execution: runs of 2 and 3 elements, progress (2, 0) (the instances of this family enumerate every progress pair for these run lengths)" clause="merge step before a comparison: when one run is exhausted the rest of the other is copied in order to the positions that remain and the merge ends; otherwise the keys of the two run heads are requested for comparison (left head first operand) and the step after the comparison is scheduled" timeout=300
+    //@harness props=C17,C01 quickfor=C17 strength=bounded tier=thorough bound="ONE execution: runs of 2 and 3 elements, progress (2, 0) (the instances of this family enumerate every progress pair for these run lengths)" clause="merge step before a comparison: when one run is exhausted the rest of the other is copied in order to the positions that remain and the merge ends; otherwise the keys of the two run heads are requested for comparison (left head first operand) and the step after the comparison is scheduled" timeout=300 replay=sort_stable
     #[kani::proof]
     #[kani::unwind(9)]
     fn merge_pre_2_3_at_2_0() { merge_pre_at(2, 3, 2, 0); }
-    //@harness props=C17,C01 quickfor=C17 strength=bounded tier=thorough bound="ONE execution: runs of 2 and 3 elements, progress (2, 1) (the instances of this family enumerate every progress pair for these run lengths)" clause="merge step before a comparison: when one run is exhausted the rest of the other is copied in order to the positions that remain and the merge ends; otherwise the keys of the two run heads are requested for comparison (left head first operand) and the step after the comparison is scheduled" timeout=300
+    //@harness props=C17,C01 quickfor=C17 strength=bounded tier=thorough bound="ONE execution: runs of 2 and 3 elements, progress (2, 1) (the instances of this family enumerate every progress pair for these run lengths)" clause="merge step before a comparison: when one run is exhausted the rest of the other is copied in order to the positions that remain and the merge ends; otherwise the keys of the two run heads are requested for comparison (left head first operand) and the step after the comparison is scheduled" timeout=300 replay=sort_stable
     #[kani::proof]
     #[kani::unwind(9)]
     fn merge_pre_2_3_at_2_1() { merge_pre_at(2, 3, 2, 1); }
-    //@harness props=C17,C01 quickfor=C17 strength=bounded tier=thorough bound="ONE execution: runs of 2 and 3 elements, progress (2, 2) (the instances of this family enumerate every progress pair for these run lengths)" clause="merge step before a comparison: when one run is exhausted the rest of the other is copied in order to the positions that remain and the merge ends; otherwise the keys of the two run heads are requested for comparison (left head first operand) and the step after the comparison is scheduled" timeout=300
+    //@harness props=C17,C01 quickfor=C17 strength=bounded tier=thorough bound="ONE execution: runs of 2 and 3 elements, progress (2, 2) (the instances of this family enumerate every progress pair for these run lengths)" clause="merge step before a comparison: when one run is exhausted the rest of the other is copied in order to the positions that remain and the merge ends; otherwise the keys of the two run heads are requested for comparison (left head first operand) and the step after the comparison is scheduled" timeout=300 replay=sort_stable
     #[kani::proof]
     #[kani::unwind(9)]
     fn merge_pre_2_3_at_2_2() { merge_pre_at(2, 3, 2, 2); }
-    //@harness props=C17,C01 quickfor=C17 strength=bounded tier=thorough bound="ONE execution: runs of 2 and 3 elements, progress (2, 3) (the instances of this family enumerate every progress pair for these run lengths)" clause="merge step before a comparison: when one run is exhausted the rest of the other is copied in order to the positions that remain and the merge ends; otherwise the keys of the two run heads are requested for comparison (left head first operand) and the step after the comparison is scheduled" timeout=300
+    //@harness props=C17,C01 quickfor=C17 strength=bounded tier=thorough bound="ONE execution: runs of 2 and 3 elements, progress (2, 3) (the instances of this family enumerate every progress pair for these run lengths)" clause="merge step before a comparison: when one run is exhausted the rest of the other is copied in order to the positions that remain and the merge ends; otherwise the keys of the two run heads are requested for comparison (left head first operand) and the step after the comparison is scheduled" timeout=300 replay=sort_stable
     #[kani::proof]
     #[kani::unwind(9)]
     fn merge_pre_2_3_at_2_3() { merge_pre_at(2, 3, 2, 3); }
-    //@harness props=C17,C01 quickfor=C17 strength=bounded tier=thorough bound="ONE execution: runs of 3 and 2 elements, progress (0, 0) (the instances of this family enumerate every progress pair for these run lengths)" clause="merge step before a comparison: when one run is exhausted the rest of the other is copied in order to the positions that remain and the merge ends; otherwise the keys of the two run heads are requested for comparison (left head first operand) and the step after the comparison is scheduled" timeout=300
+    //@harness props=C17,C01 quickfor=C17 strength=bounded tier=thorough bound="ONE execution: runs of 3 and 2 elements, progress (0, 0) (the instances of this family enumerate every progress pair for these run lengths)" clause="merge step before a comparison: when one run is exhausted the rest of the other is copied in order to the positions that remain and the merge ends; otherwise the keys of the two run heads are requested for comparison (left head first operand) and the step after the comparison is scheduled" timeout=300 replay=sort_stable
     #[kani::proof]
     #[kani::unwind(9)]
     fn merge_pre_3_2_at_0_0() { merge_pre_at(3, 2, 0, 0); }
-    //@harness props=C17,C01 quickfor=C17 strength=bounded tier=thorough bound="ONE execution: runs of 3 and 2 elements, progress (0, 1) (the instances of this family enumerate every progress pair for these run lengths)" clause="merge step before a comparison: when one run is exhausted the rest of the other is copied in order to the positions that remain and the merge ends; otherwise the keys of the two run heads are requested for comparison (left head first operand) and the step after the comparison is scheduled" timeout=300
+    //@harness props=C17,C01 quickfor=C17 strength=bounded tier=thorough bound="ONE execution: runs of 3 and 2 elements, progress (0, 1) (the instances of this family enumerate every progress pair for these run lengths)" clause="merge step before a comparison: when one run is exhausted the rest of the other is copied in order to the positions that remain and the merge ends; otherwise the keys of the two run heads are requested for comparison (left head first operand) and the step after the comparison is scheduled" timeout=300 replay=sort_stable
     #[kani::proof]
     #[kani::unwind(9)]
     fn merge_pre_3_2_at_0_1() { merge_pre_at(3, 2, 0, 1); }
-    //@harness props=C17,C01 quickfor=C17 strength=bounded tier=thorough bound="ONE execution: runs of 3 and 2 elements, progress (0, 2) (the instances of this family enumerate every progress pair for these run lengths)" clause="merge step before a comparison: when one run is exhausted the rest of the other is copied in order to the positions that remain and the merge ends; otherwise the keys of the two run heads are requested for comparison (left head first operand) and the step after the comparison is scheduled" timeout=300
+    //@harness props=C17,C01 quickfor=C17 strength=bounded tier=thorough bound="ONE execution: runs of 3 and 2 elements, progress (0, 2) (the instances of this family enumerate every progress pair for these run lengths)" clause="merge step before a comparison: when one run is exhausted the rest of the other is copied in order to the positions that remain and the merge ends; otherwise the keys of the two run heads are requested for comparison (left head first operand) and the step after the comparison is scheduled" timeout=300 replay=sort_stable
     #[kani::proof]
     #[kani::unwind(9)]
     fn merge_pre_3_2_at_0_2() { merge_pre_at(3, 2, 0, 2); }
-    //@harness props=C17,C01 quickfor=C17 strength=bounded tier=thorough bound="ONE execution: runs of 3 and 2 elements, progress (1, 0) (the instances of this family enumerate every progress pair for these run lengths)" clause="merge step before a comparison: when one run is exhausted the rest of the other is copied in order to the positions that remain and the merge ends; otherwise the keys of the two run heads are requested for comparison (left head first operand) and the step after the comparison is scheduled" timeout=300
+    //@harness props=C17,C01 quickfor=C17 strength=bounded tier=thorough bound="ONE execution: runs of 3 and 2 elements, progress (1, 0) (the instances of this family enumerate every progress pair for these run lengths)" clause="merge step before a comparison: when one run is exhausted the rest of the other is copied in order to the positions that remain and the merge ends; otherwise the keys of the two run heads are requested for comparison (left head first operand) and the step after the comparison is scheduled" timeout=300 replay=sort_stable
     #[kani::proof]
     #[kani::unwind(9)]
     fn merge_pre_3_2_at_1_0() { merge_pre_at(3, 2, 1, 0); }
-    //@harness props=C17,C01 quickfor=C17 strength=bounded tier=thorough bound="ONE execution: runs of 3 and 2 elements, progress (1, 1) (the instances of this family enumerate every progress pair for these run lengths)" clause="merge step before a comparison: when one run is exhausted the rest of the other is copied in order to the positions that remain and the merge ends; otherwise the keys of the two run heads are requested for comparison (left head first operand) and the step after the comparison is scheduled" timeout=300
+    //@harness props=C17,C01 quickfor=C17 strength=bounded tier=thorough bound="ONE execution: runs of 3 and 2 elements, progress (1, 1) (the instances of this family enumerate every progress pair for these run lengths)" clause="merge step before a comparison: when one run is exhausted the rest of the other is copied in order to the positions that remain and the merge ends; otherwise the keys of the two run heads are requested for comparison (left head first operand) and the step after the comparison is scheduled" timeout=300 replay=sort_stable
     #[kani::proof]
     #[kani::unwind(9)]
     fn merge_pre_3_2_at_1_1() { merge_pre_at(3, 2, 1, 1); }
-    //@harness props=C17,C01 quickfor=C17 strength=bounded tier=thorough bound="ONE execution: runs of 3 and 2 elements, progress (1, 2) (the instances of this family enumerate every progress pair for these run lengths)" clause="merge step before a comparison: when one run is exhausted the rest of the other is copied in order to the positions that remain and the merge ends; otherwise the keys of the two run heads are requested for comparison (left head first operand) and the step after the comparison is scheduled" timeout=300
+    //@harness props=C17,C01 quickfor=C17 strength=bounded tier=thorough bound="ONE execution: runs of 3 and 2 elements, progress (1, 2) (the instances of this family enumerate every progress pair for these run lengths)" clause="merge step before a comparison: when one run is exhausted the rest of the other is copied in order to the positions that remain and the merge ends; otherwise the keys of the two run heads are requested for comparison (left head first operand) and the step after the comparison is scheduled" timeout=300 replay=sort_stable
     #[kani::proof]
     #[kani::unwind(9)]
     fn merge_pre_3_2_at_1_2() { merge_pre_at(3, 2, 1, 2); }
-    //@harness props=C17,C01 quickfor=C17 strength=bounded tier=thorough bound="ONE execution: runs of 3 and 2 elements, progress (2, 0) (the instances of this family enumerate every progress pair for these run lengths)" clause="merge step before a comparison: when one run is exhausted the rest of the other is copied in order to the positions that remain and the merge ends; otherwise the keys of the two run heads are requested for comparison (left head first operand) and the step after the comparison is scheduled" timeout=300
+    //@harness props=C17,C01 quickfor=C17 strength=bounded tier=thorough bound="ONE execution: runs of 3 and 2 elements, progress (2, 0) (the instances of this family enumerate every progress pair for these run lengths)" clause="merge step before a comparison: when one run is exhausted the rest of the other is copied in order to the positions that remain and the merge ends; otherwise the keys of the two run heads are requested for comparison (left head first operand) and the step after the comparison is scheduled" timeout=300 replay=sort_stable
     #[kani::proof]
     #[kani::unwind(9)]
     fn merge_pre_3_2_at_2_0() { merge_pre_at(3, 2, 2, 0); }
-    //@harness props=C17,C01 quickfor=C17 strength=bounded tier=thorough bound="ONE execution: runs of 3 and 2 elements, progress (2, 1) (the instances of this family enumerate every progress pair for these run lengths)" clause="merge step before a comparison: when one run is exhausted the rest of the other is copied in order to the positions that remain and the merge ends; otherwise the keys of the two run heads are requested for comparison (left head first operand) and the step after the comparison is scheduled" timeout=300
+    //@harness props=C17,C01 quickfor=C17 strength=bounded tier=thorough bound="ONE execution: runs of 3 and 2 elements, progress (2, 1) (the instances of this family enumerate every progress pair for these run lengths)" clause="merge step before a comparison: when one run is exhausted the rest of the other is copied in order to the positions that remain and the merge ends; otherwise the keys of the two run heads are requested for comparison (left head first operand) and the step after the comparison is scheduled" timeout=300 replay=sort_stable
     #[kani::proof]
     #[kani::unwind(9)]
     fn merge_pre_3_2_at_2_1() { merge_pre_at(3, 2, 2, 1); }
-    //@harness props=C17,C01 quickfor=C17 strength=bounded tier=thorough bound="ONE execution: runs of 3 and 2 elements, progress (2, 2) (the instances of this family enumerate every progress pair for these run lengths)" clause="merge step before a comparison: when one run is exhausted the rest of the other is copied in order to the positions that remain and the merge ends; otherwise the keys of the two run heads are requested for comparison (left head first operand) and the step after the comparison is scheduled" timeout=300
+    //@harness props=C17,C01 quickfor=C17 strength=bounded tier=thorough bound="ONE execution: runs of 3 and 2 elements, progress (2, 2) (the instances of this family enumerate every progress pair for these run lengths)" clause="merge step before a comparison: when one run is exhausted the rest of the other is copied in order to the positions that remain and the merge ends; otherwise the keys of the two run heads are requested for comparison (left head first operand) and the step after the comparison is scheduled" timeout=300 replay=sort_stable
     #[kani::proof]
     #[kani::unwind(9)]
     fn merge_pre_3_2_at_2_2() { merge_pre_at(3, 2, 2, 2); }
-    //@harness props=C17,C01 quickfor=C17 strength=bounded tier=thorough bound="ONE execution: runs of 3 and 2 elements, progress (3, 0) (the instances of this family enumerate every progress pair for these run lengths)" clause="merge step before a comparison: when one run is exhausted the rest of the other is copied in order to the positions that remain and the merge ends; otherwise the keys of the two run heads are requested for comparison (left head first operand) and the step after the comparison is scheduled" timeout=300
+    //@harness props=C17,C01 quickfor=C17 strength=bounded tier=thorough bound="ONE execution: runs of 3 and 2 elements, progress (3, 0) (the instances of this family enumerate every progress pair for these run lengths)" clause="merge step before a comparison: when one run is exhausted the rest of the other is copied in order to the positions that remain and the merge ends; otherwise the keys of the two run heads are requested for comparison (left head first operand) and the step after the comparison is scheduled" timeout=300 replay=sort_stable
     #[kani::proof]
     #[kani::unwind(9)]
     fn merge_pre_3_2_at_3_0() { merge_pre_at(3, 2, 3, 0); }
-    //@harness props=C17,C01 quickfor=C17 strength=bounded tier=thorough bound="ONE execution: runs of 3 and 2 elements, progress (3, 1) (the instances of this family enumerate every progress pair for these run lengths)" clause="merge step before a comparison: when one run is exhausted the rest of the other is copied in order to the positions that remain and the merge ends; otherwise the keys of the two run heads are requested for comparison (left head first operand) and the step after the comparison is scheduled" timeout=300
+    //@harness props=C17,C01 quickfor=C17 strength=bounded tier=thorough bound="ONE execution: runs of 3 and 2 elements, progress (3, 1) (the instances of this family enumerate every progress pair for these run lengths)" clause="merge step before a comparison: when one run is exhausted the rest of the other is copied in order to the positions that remain and the merge ends; otherwise the keys of the two run heads are requested for comparison (left head first operand) and the step after the comparison is scheduled" timeout=300 replay=sort_stable
     #[kani::proof]
     #[kani::unwind(9)]
     fn merge_pre_3_2_at_3_1() { merge_pre_at(3, 2, 3, 1); }
-    //@harness props=C17,C01 quickfor=C17 strength=bounded tier=thorough bound="ONE execution: runs of 3 and 2 elements, progress (3, 2) (the instances of this family enumerate every progress pair for these run lengths)" clause="merge step before a comparison: when one run is exhausted the rest of the other is copied in order to the positions that remain and the merge ends; otherwise the keys of the two run heads are requested for comparison (left head first operand) and the step after the comparison is scheduled" timeout=300
+    //@harness props=C17,C01 quickfor=C17 strength=bounded tier=thorough bound="ONE execution: runs of 3 and 2 elements, progress (3, 2) (the instances of this family enumerate every progress pair for these run lengths)" clause="merge step before a comparison: when one run is exhausted the rest of the other is copied in order to the positions that remain and the merge ends; otherwise the keys of the two run heads are requested for comparison (left head first operand) and the step after the comparison is scheduled" timeout=300 replay=sort_stable
     #[kani::proof]
     #[kani::unwind(9)]
     fn merge_pre_3_2_at_3_2() { merge_pre_at(3, 2, 3, 2); }
-    //@harness props=C17,C01 quickfor=C17 strength=bounded tier=thorough bound="ONE execution: runs of 1 and 2 elements, progress (0, 0) (the instances of this family enumerate every progress pair for these run lengths)" clause="merge step before a comparison: when one run is exhausted the rest of the other is copied in order to the positions that remain and the merge ends; otherwise the keys of the two run heads are requested for comparison (left head first operand) and the step after the comparison is scheduled" timeout=300
+    //@harness props=C17,C01 quickfor=C17 strength=bounded tier=thorough bound="ONE execution: runs of 1 and 2 elements, progress (0, 0) (the instances of this family enumerate every progress pair for these run lengths)" clause="merge step before a comparison: when one run is exhausted the rest of the other is copied in order to the positions that remain and the merge ends; otherwise the keys of the two run heads are requested for comparison (left head first operand) and the step after the comparison is scheduled" timeout=300 replay=sort_stable
     #[kani::proof]
     #[kani::unwind(9)]
     fn merge_pre_1_2_at_0_0() { merge_pre_at(1, 2, 0, 0); }
-    //@harness props=C17,C01 quickfor=C17 strength=bounded tier=thorough bound="ONE execution: runs of 1 and 2 elements, progress (0, 1) (the instances of this family enumerate every progress pair for these run lengths)" clause="merge step before a comparison: when one run is exhausted the rest of the other is copied in order to the positions that remain and the merge ends; otherwise the keys of the two run heads are requested for comparison (left head first operand) and the step after the comparison is scheduled" timeout=300
+    //@harness props=C17,C01 quickfor=C17 strength=bounded tier=thorough bound="ONE execution: runs of 1 and 2 elements, progress (0, 1) (the instances of this family enumerate every progress pair for these run lengths)" clause="merge step before a comparison: when one run is exhausted the rest of the other is copied in order to the positions that remain and the merge ends; otherwise the keys of the two run heads are requested for comparison (left head first operand) and the step after the comparison is scheduled" timeout=300 replay=sort_stable
     #[kani::proof]
     #[kani::unwind(9)]
     fn merge_pre_1_2_at_0_1() { merge_pre_at(1, 2, 0, 1); }
-    //@harness props=C17,C01 quickfor=C17 strength=bounded tier=thorough bound="ONE execution: runs of 1 and 2 elements, progress (0, 2) (the instances of this family enumerate every progress pair for these run lengths)" clause="merge step before a comparison: when one run is exhausted the rest of the other is copied in order to the positions that remain and the merge ends; otherwise the keys of the two run heads are requested for comparison (left head first operand) and the step after the comparison is scheduled" timeout=300
+    //@harness props=C17,C01 quickfor=C17 strength=bounded tier=thorough bound="ONE execution: runs of 1 and 2 elements, progress (0, 2) (the instances of this family enumerate every progress pair for these run lengths)" clause="merge step before a comparison: when one run is exhausted the rest of the other is copied in order to the positions that remain and the merge ends; otherwise the keys of the two run heads are requested for comparison (left head first operand) and the step after the comparison is scheduled" timeout=300 replay=sort_stable
     #[kani::proof]
     #[kani::unwind(9)]
     fn merge_pre_1_2_at_0_2() { merge_pre_at(1, 2, 0, 2); }
-    //@harness props=C17,C01 quickfor=C17 strength=bounded tier=thorough bound="ONE execution: runs of 1 and 2 elements, progress (1, 0) (the instances of this family enumerate every progress pair for these run lengths)" clause="merge step before a comparison: when one run is exhausted the rest of the other is copied in order to the positions that remain and the merge ends; otherwise the keys of the two run heads are requested for comparison (left head first operand) and the step after the comparison is scheduled" timeout=300
+    //@harness props=C17,C01 quickfor=C17 strength=bounded tier=thorough bound="ONE execution: runs of 1 and 2 elements, progress (1, 0) (the instances of this family enumerate every progress pair for these run lengths)" clause="merge step before a comparison: when one run is exhausted the rest of the other is copied in order to the positions that remain and the merge ends; otherwise the keys of the two run heads are requested for comparison (left head first operand) and the step after the comparison is scheduled" timeout=300 replay=sort_stable
     #[kani::proof]
     #[kani::unwind(9)]
     fn merge_pre_1_2_at_1_0() { merge_pre_at(1, 2, 1, 0); }
-    //@harness props=C17,C01 quickfor=C17 strength=bounded tier=thorough bound="ONE execution: runs of 1 and 2 elements, progress (1, 1) (the instances of this family enumerate every progress pair for these run lengths)" clause="merge step before a comparison: when one run is exhausted the rest of the other is copied in order to the positions that remain and the merge ends; otherwise the keys of the two run heads are requested for comparison (left head first operand) and the step after the comparison is scheduled" timeout=300
+    //@harness props=C17,C01 quickfor=C17 strength=bounded tier=thorough bound="ONE execution: runs of 1 and 2 elements, progress (1, 1) (the instances of this family enumerate every progress pair for these run lengths)" clause="merge step before a comparison: when one run is exhausted the rest of the other is copied in order to the positions that remain and the merge ends; otherwise the keys of the two run heads are requested for comparison (left head first operand) and the step after the comparison is scheduled" timeout=300 replay=sort_stable
     #[kani::proof]
     #[kani::unwind(9)]
     fn merge_pre_1_2_at_1_1() { merge_pre_at(1, 2, 1, 1); }
-    //@harness props=C17,C01 quickfor=C17 strength=bounded tier=thorough bound="ONE execution: runs of 1 and 2 elements, progress (1, 2) (the instances of this family enumerate every progress pair for these run lengths)" clause="merge step before a comparison: when one run is exhausted the rest of the other is copied in order to the positions that remain and the merge ends; otherwise the keys of the two run heads are requested for comparison (left head first operand) and the step after the comparison is scheduled" timeout=300
+    //@harness props=C17,C01 quickfor=C17 strength=bounded tier=thorough bound="ONE execution: runs of 1 and 2 elements, progress (1, 2) (the instances of this family enumerate every progress pair for these run lengths)" clause="merge step before a comparison: when one run is exhausted the rest of the other is copied in order to the positions that remain and the merge ends; otherwise the keys of the two run heads are requested for comparison (left head first operand) and the step after the comparison is scheduled" timeout=300 replay=sort_stable
     #[kani::proof]
     #[kani::unwind(9)]
     fn merge_pre_1_2_at_1_2() { merge_pre_at(1, 2, 1, 2); }
-    //@harness props=C17,C01 quickfor=C17 strength=bounded tier=thorough bound="ONE execution: runs of 2 and 1 elements, progress (0, 0) (the instances of this family enumerate every progress pair for these run lengths)" clause="merge step before a comparison: when one run is exhausted the rest of the other is copied in order to the positions that remain and the merge ends; otherwise the keys of the two run heads are requested for comparison (left head first operand) and the step after the comparison is scheduled" timeout=300
+    //@harness props=C17,C01 quickfor=C17 strength=bounded tier=thorough bound="ONE execution: runs of 2 and 1 elements, progress (0, 0) (the instances of this family enumerate every progress pair for these run lengths)" clause="merge step before a comparison: when one run is exhausted the rest of the other is copied in order to the positions that remain and the merge ends; otherwise the keys of the two run heads are requested for comparison (left head first operand) and the step after the comparison is scheduled" timeout=300 replay=sort_stable
     #[kani::proof]
     #[kani::unwind(9)]
     fn merge_pre_2_1_at_0_0() { merge_pre_at(2, 1, 0, 0); }
-    //@harness props=C17,C01 quickfor=C17 strength=bounded tier=thorough bound="ONE execution: runs of 2 and 1 elements, progress (0, 1) (the instances of this family enumerate every progress pair for these run lengths)" clause="merge step before a comparison: when one run is exhausted the rest of the other is copied in order to the positions that remain and the merge ends; otherwise the keys of the two run heads are requested for comparison (left head first operand) and the step after the comparison is scheduled" timeout=300
+    //@harness props=C17,C01 quickfor=C17 strength=bounded tier=thorough bound="ONE execution: runs of 2 and 1 elements, progress (0, 1) (the instances of this family enumerate every progress pair for these run lengths)" clause="merge step before a comparison: when one run is exhausted the rest of the other is copied in order to the positions that remain and the merge ends; otherwise the keys of the two run heads are requested for comparison (left head first operand) and the step after the comparison is scheduled" timeout=300 replay=sort_stable
     #[kani::proof]
     #[kani::unwind(9)]
     fn merge_pre_2_1_at_0_1() { merge_pre_at(2, 1, 0, 1); }
-    //@harness props=C17,C01 quickfor=C17 strength=bounded tier=thorough bound="ONE execution: runs of 2 and 1 elements, progress (1, 0) (the instances of this family enumerate every progress pair for these run lengths)" clause="merge step before a comparison: when one run is exhausted the rest of the other is copied in order to the positions that remain and the merge ends; otherwise the keys of the two run heads are requested for comparison (left head first operand) and the step after the comparison is scheduled" timeout=300
+    //@harness props=C17,C01 quickfor=C17 strength=bounded tier=thorough bound="ONE execution: runs of 2 and 1 elements, progress (1, 0) (the instances of this family enumerate every progress pair for these run lengths)" clause="merge step before a comparison: when one run is exhausted the rest of the other is copied in order to the positions that remain and the merge ends; otherwise the keys of the two run heads are requested for comparison (left head first operand) and the step after the comparison is scheduled" timeout=300 replay=sort_stable
     #[kani::proof]
     #[kani::unwind(9)]
     fn merge_pre_2_1_at_1_0() { merge_pre_at(2, 1, 1, 0); }
-    //@harness props=C17,C01 quickfor=C17 strength=bounded tier=thorough bound="ONE execution: runs of 2 and 1 elements, progress (1, 1) (the instances of this family enumerate every progress pair for these run lengths)" clause="merge step before a comparison: when one run is exhausted the rest of the other is copied in order to the positions that remain and the merge ends; otherwise the keys of the two run heads are requested for comparison (left head first operand) and the step after the comparison is scheduled" timeout=300
+    //@harness props=C17,C01 quickfor=C17 strength=bounded tier=thorough bound="ONE execution: runs of 2 and 1 elements, progress (1, 1) (the instances of this family enumerate every progress pair for these run lengths)" clause="merge step before a comparison: when one run is exhausted the rest of the other is copied in order to the positions that remain and the merge ends; otherwise the keys of the two run heads are requested for comparison (left head first operand) and the step after the comparison is scheduled" timeout=300 replay=sort_stable
     #[kani::proof]
     #[kani::unwind(9)]
     fn merge_pre_2_1_at_1_1() { merge_pre_at(2, 1, 1, 1); }
-    //@harness props=C17,C01 quickfor=C17 strength=bounded tier=thorough bound="ONE execution: runs of 2 and 1 elements, progress (2, 0) (the instances of this family enumerate every progress pair for these run lengths)" clause="merge step before a comparison: when one run is exhausted the rest of the other is copied in order to the positions that remain and the merge ends; otherwise the keys of the two run heads are requested for comparison (left head first operand) and the step after the comparison is scheduled" timeout=300
+    //@harness props=C17,C01 quickfor=C17 strength=bounded tier=thorough bound="ONE execution: runs of 2 and 1 elements, progress (2, 0) (the instances of this family enumerate every progress pair for these run lengths)" clause="merge step before a comparison: when one run is exhausted the rest of the other is copied in order to the positions that remain and the merge ends; otherwise the keys of the two run heads are requested for comparison (left head first operand) and the step after the comparison is scheduled" timeout=300 replay=sort_stable
     #[kani::proof]
     #[kani::unwind(9)]
     fn merge_pre_2_1_at_2_0() { merge_pre_at(2, 1, 2, 0); }
-    //@harness props=C17,C01 quickfor=C17 strength=bounded tier=thorough bound="ONE execution: runs of 2 and 1 elements, progress (2, 1) (the instances of this family enumerate every progress pair for these run lengths)" clause="merge step before a comparison: when one run is exhausted the rest of the other is copied in order to the positions that remain and the merge ends; otherwise the keys of the two run heads are requested for comparison (left head first operand) and the step after the comparison is scheduled" timeout=300
+    //@harness props=C17,C01 quickfor=C17 strength=bounded tier=thorough bound="ONE execution: runs of 2 and 1 elements, progress (2, 1) (the instances of this family enumerate every progress pair for these run lengths)" clause="merge step before a comparison: when one run is exhausted the rest of the other is copied in order to the positions that remain and the merge ends; otherwise the keys of the two run heads are requested for comparison (left head first operand) and the step after the comparison is scheduled" timeout=300 replay=sort_stable
     #[kani::proof]
     #[kani::unwind(9)]
     fn merge_pre_2_1_at_2_1() { merge_pre_at(2, 1, 2, 1); }
@@ -809,1299 +809,1299 @@ mod vharness {
     }
 
     // @@GEN-BEGIN two_pointer
-    //@harness props=C17,C01 quickfor=C17 strength=bounded bound="ONE execution: sets of 2 and 2 elements, positions (0, 0), comparison outcome less (the instances of this family enumerate every position and outcome for these sizes)" clause="setInter step: equal keys => the element of A is emitted and both sides advance; less => A advances; greater => B advances; the walk ends when either side is exhausted, else the keys of the new heads are compared next" timeout=300
+    //@harness props=C17,C01 quickfor=C17 strength=bounded bound="ONE execution: sets of 2 and 2 elements, positions (0, 0), comparison outcome less (the instances of this family enumerate every position and outcome for these sizes)" clause="setInter step: equal keys => the element of A is emitted and both sides advance; less => A advances; greater => B advances; the walk ends when either side is exhausted, else the keys of the new heads are compared next" timeout=300 replay=sort_stable
     #[kani::proof]
     #[kani::unwind(8)]
     fn set_inter_2_2_at_0_0_less() { two_pointer_at(W::Inter, 2, 2, 0, 0, ord_of(0)); }
-    //@harness props=C17,C01 quickfor=C17 strength=bounded bound="ONE execution: sets of 2 and 2 elements, positions (0, 0), comparison outcome equal (the instances of this family enumerate every position and outcome for these sizes)" clause="setInter step: equal keys => the element of A is emitted and both sides advance; less => A advances; greater => B advances; the walk ends when either side is exhausted, else the keys of the new heads are compared next" timeout=300
+    //@harness props=C17,C01 quickfor=C17 strength=bounded bound="ONE execution: sets of 2 and 2 elements, positions (0, 0), comparison outcome equal (the instances of this family enumerate every position and outcome for these sizes)" clause="setInter step: equal keys => the element of A is emitted and both sides advance; less => A advances; greater => B advances; the walk ends when either side is exhausted, else the keys of the new heads are compared next" timeout=300 replay=sort_stable
     #[kani::proof]
     #[kani::unwind(8)]
     fn set_inter_2_2_at_0_0_equal() { two_pointer_at(W::Inter, 2, 2, 0, 0, ord_of(1)); }
-    //@harness props=C17,C01 quickfor=C17 strength=bounded bound="ONE execution: sets of 2 and 2 elements, positions (0, 0), comparison outcome greater (the instances of this family enumerate every position and outcome for these sizes)" clause="setInter step: equal keys => the element of A is emitted and both sides advance; less => A advances; greater => B advances; the walk ends when either side is exhausted, else the keys of the new heads are compared next" timeout=300
+    //@harness props=C17,C01 quickfor=C17 strength=bounded bound="ONE execution: sets of 2 and 2 elements, positions (0, 0), comparison outcome greater (the instances of this family enumerate every position and outcome for these sizes)" clause="setInter step: equal keys => the element of A is emitted and both sides advance; less => A advances; greater => B advances; the walk ends when either side is exhausted, else the keys of the new heads are compared next" timeout=300 replay=sort_stable
     #[kani::proof]
     #[kani::unwind(8)]
     fn set_inter_2_2_at_0_0_greater() { two_pointer_at(W::Inter, 2, 2, 0, 0, ord_of(2)); }
-    //@harness props=C17,C01 quickfor=C17 strength=bounded bound="ONE execution: sets of 2 and 2 elements, positions (0, 1), comparison outcome less (the instances of this family enumerate every position and outcome for these sizes)" clause="setInter step: equal keys => the element of A is emitted and both sides advance; less => A advances; greater => B advances; the walk ends when either side is exhausted, else the keys of the new heads are compared next" timeout=300
+    //@harness props=C17,C01 quickfor=C17 strength=bounded bound="ONE execution: sets of 2 and 2 elements, positions (0, 1), comparison outcome less (the instances of this family enumerate every position and outcome for these sizes)" clause="setInter step: equal keys => the element of A is emitted and both sides advance; less => A advances; greater => B advances; the walk ends when either side is exhausted, else the keys of the new heads are compared next" timeout=300 replay=sort_stable
     #[kani::proof]
     #[kani::unwind(8)]
     fn set_inter_2_2_at_0_1_less() { two_pointer_at(W::Inter, 2, 2, 0, 1, ord_of(0)); }
-    //@harness props=C17,C01 quickfor=C17 strength=bounded bound="ONE execution: sets of 2 and 2 elements, positions (0, 1), comparison outcome equal (the instances of this family enumerate every position and outcome for these sizes)" clause="setInter step: equal keys => the element of A is emitted and both sides advance; less => A advances; greater => B advances; the walk ends when either side is exhausted, else the keys of the new heads are compared next" timeout=300
+    //@harness props=C17,C01 quickfor=C17 strength=bounded bound="ONE execution: sets of 2 and 2 elements, positions (0, 1), comparison outcome equal (the instances of this family enumerate every position and outcome for these sizes)" clause="setInter step: equal keys => the element of A is emitted and both sides advance; less => A advances; greater => B advances; the walk ends when either side is exhausted, else the keys of the new heads are compared next" timeout=300 replay=sort_stable
     #[kani::proof]
     #[kani::unwind(8)]
     fn set_inter_2_2_at_0_1_equal() { two_pointer_at(W::Inter, 2, 2, 0, 1, ord_of(1)); }
-    //@harness props=C17,C01 quickfor=C17 strength=bounded bound="ONE execution: sets of 2 and 2 elements, positions (0, 1), comparison outcome greater (the instances of this family enumerate every position and outcome for these sizes)" clause="setInter step: equal keys => the element of A is emitted and both sides advance; less => A advances; greater => B advances; the walk ends when either side is exhausted, else the keys of the new heads are compared next" timeout=300
+    //@harness props=C17,C01 quickfor=C17 strength=bounded bound="ONE execution: sets of 2 and 2 elements, positions (0, 1), comparison outcome greater (the instances of this family enumerate every position and outcome for these sizes)" clause="setInter step: equal keys => the element of A is emitted and both sides advance; less => A advances; greater => B advances; the walk ends when either side is exhausted, else the keys of the new heads are compared next" timeout=300 replay=sort_stable
     #[kani::proof]
     #[kani::unwind(8)]
     fn set_inter_2_2_at_0_1_greater() { two_pointer_at(W::Inter, 2, 2, 0, 1, ord_of(2)); }
-    //@harness props=C17,C01 quickfor=C17 strength=bounded bound="ONE execution: sets of 2 and 2 elements, positions (1, 0), comparison outcome less (the instances of this family enumerate every position and outcome for these sizes)" clause="setInter step: equal keys => the element of A is emitted and both sides advance; less => A advances; greater => B advances; the walk ends when either side is exhausted, else the keys of the new heads are compared next" timeout=300
+    //@harness props=C17,C01 quickfor=C17 strength=bounded bound="ONE execution: sets of 2 and 2 elements, positions (1, 0), comparison outcome less (the instances of this family enumerate every position and outcome for these sizes)" clause="setInter step: equal keys => the element of A is emitted and both sides advance; less => A advances; greater => B advances; the walk ends when either side is exhausted, else the keys of the new heads are compared next" timeout=300 replay=sort_stable
     #[kani::proof]
     #[kani::unwind(8)]
     fn set_inter_2_2_at_1_0_less() { two_pointer_at(W::Inter, 2, 2, 1, 0, ord_of(0)); }
-    //@harness props=C17,C01 quickfor=C17 strength=bounded bound="ONE execution: sets of 2 and 2 elements, positions (1, 0), comparison outcome equal (the instances of this family enumerate every position and outcome for these sizes)" clause="setInter step: equal keys => the element of A is emitted and both sides advance; less => A advances; greater => B advances; the walk ends when either side is exhausted, else the keys of the new heads are compared next" timeout=300
+    //@harness props=C17,C01 quickfor=C17 strength=bounded bound="ONE execution: sets of 2 and 2 elements, positions (1, 0), comparison outcome equal (the instances of this family enumerate every position and outcome for these sizes)" clause="setInter step: equal keys => the element of A is emitted and both sides advance; less => A advances; greater => B advances; the walk ends when either side is exhausted, else the keys of the new heads are compared next" timeout=300 replay=sort_stable
     #[kani::proof]
     #[kani::unwind(8)]
     fn set_inter_2_2_at_1_0_equal() { two_pointer_at(W::Inter, 2, 2, 1, 0, ord_of(1)); }
-    //@harness props=C17,C01 quickfor=C17 strength=bounded bound="ONE execution: sets of 2 and 2 elements, positions (1, 0), comparison outcome greater (the instances of this family enumerate every position and outcome for these sizes)" clause="setInter step: equal keys => the element of A is emitted and both sides advance; less => A advances; greater => B advances; the walk ends when either side is exhausted, else the keys of the new heads are compared next" timeout=300
+    //@harness props=C17,C01 quickfor=C17 strength=bounded bound="ONE execution: sets of 2 and 2 elements, positions (1, 0), comparison outcome greater (the instances of this family enumerate every position and outcome for these sizes)" clause="setInter step: equal keys => the element of A is emitted and both sides advance; less => A advances; greater => B advances; the walk ends when either side is exhausted, else the keys of the new heads are compared next" timeout=300 replay=sort_stable
     #[kani::proof]
     #[kani::unwind(8)]
     fn set_inter_2_2_at_1_0_greater() { two_pointer_at(W::Inter, 2, 2, 1, 0, ord_of(2)); }
-    //@harness props=C17,C01 quickfor=C17 strength=bounded bound="ONE execution: sets of 2 and 2 elements, positions (1, 1), comparison outcome less (the instances of this family enumerate every position and outcome for these sizes)" clause="setInter step: equal keys => the element of A is emitted and both sides advance; less => A advances; greater => B advances; the walk ends when either side is exhausted, else the keys of the new heads are compared next" timeout=300
+    //@harness props=C17,C01 quickfor=C17 strength=bounded bound="ONE execution: sets of 2 and 2 elements, positions (1, 1), comparison outcome less (the instances of this family enumerate every position and outcome for these sizes)" clause="setInter step: equal keys => the element of A is emitted and both sides advance; less => A advances; greater => B advances; the walk ends when either side is exhausted, else the keys of the new heads are compared next" timeout=300 replay=sort_stable
     #[kani::proof]
     #[kani::unwind(8)]
     fn set_inter_2_2_at_1_1_less() { two_pointer_at(W::Inter, 2, 2, 1, 1, ord_of(0)); }
-    //@harness props=C17,C01 quickfor=C17 strength=bounded bound="ONE execution: sets of 2 and 2 elements, positions (1, 1), comparison outcome equal (the instances of this family enumerate every position and outcome for these sizes)" clause="setInter step: equal keys => the element of A is emitted and both sides advance; less => A advances; greater => B advances; the walk ends when either side is exhausted, else the keys of the new heads are compared next" timeout=300
+    //@harness props=C17,C01 quickfor=C17 strength=bounded bound="ONE execution: sets of 2 and 2 elements, positions (1, 1), comparison outcome equal (the instances of this family enumerate every position and outcome for these sizes)" clause="setInter step: equal keys => the element of A is emitted and both sides advance; less => A advances; greater => B advances; the walk ends when either side is exhausted, else the keys of the new heads are compared next" timeout=300 replay=sort_stable
     #[kani::proof]
     #[kani::unwind(8)]
     fn set_inter_2_2_at_1_1_equal() { two_pointer_at(W::Inter, 2, 2, 1, 1, ord_of(1)); }
-    //@harness props=C17,C01 quickfor=C17 strength=bounded bound="ONE execution: sets of 2 and 2 elements, positions (1, 1), comparison outcome greater (the instances of this family enumerate every position and outcome for these sizes)" clause="setInter step: equal keys => the element of A is emitted and both sides advance; less => A advances; greater => B advances; the walk ends when either side is exhausted, else the keys of the new heads are compared next" timeout=300
+    //@harness props=C17,C01 quickfor=C17 strength=bounded bound="ONE execution: sets of 2 and 2 elements, positions (1, 1), comparison outcome greater (the instances of this family enumerate every position and outcome for these sizes)" clause="setInter step: equal keys => the element of A is emitted and both sides advance; less => A advances; greater => B advances; the walk ends when either side is exhausted, else the keys of the new heads are compared next" timeout=300 replay=sort_stable
     #[kani::proof]
     #[kani::unwind(8)]
     fn set_inter_2_2_at_1_1_greater() { two_pointer_at(W::Inter, 2, 2, 1, 1, ord_of(2)); }
-    //@harness props=C17,C01 quickfor=C17 strength=bounded tier=thorough bound="ONE execution: sets of 1 and 2 elements, positions (0, 0), comparison outcome less (the instances of this family enumerate every position and outcome for these sizes)" clause="setInter step: equal keys => the element of A is emitted and both sides advance; less => A advances; greater => B advances; the walk ends when either side is exhausted, else the keys of the new heads are compared next" timeout=300
+    //@harness props=C17,C01 quickfor=C17 strength=bounded tier=thorough bound="ONE execution: sets of 1 and 2 elements, positions (0, 0), comparison outcome less (the instances of this family enumerate every position and outcome for these sizes)" clause="setInter step: equal keys => the element of A is emitted and both sides advance; less => A advances; greater => B advances; the walk ends when either side is exhausted, else the keys of the new heads are compared next" timeout=300 replay=sort_stable
     #[kani::proof]
     #[kani::unwind(8)]
     fn set_inter_1_2_at_0_0_less() { two_pointer_at(W::Inter, 1, 2, 0, 0, ord_of(0)); }
-    //@harness props=C17,C01 quickfor=C17 strength=bounded tier=thorough bound="ONE execution: sets of 1 and 2 elements, positions (0, 0), comparison outcome equal (the instances of this family enumerate every position and outcome for these sizes)" clause="setInter step: equal keys => the element of A is emitted and both sides advance; less => A advances; greater => B advances; the walk ends when either side is exhausted, else the keys of the new heads are compared next" timeout=300
+    //@harness props=C17,C01 quickfor=C17 strength=bounded tier=thorough bound="ONE execution: sets of 1 and 2 elements, positions (0, 0), comparison outcome equal (the instances of this family enumerate every position and outcome for these sizes)" clause="setInter step: equal keys => the element of A is emitted and both sides advance; less => A advances; greater => B advances; the walk ends when either side is exhausted, else the keys of the new heads are compared next" timeout=300 replay=sort_stable
     #[kani::proof]
     #[kani::unwind(8)]
     fn set_inter_1_2_at_0_0_equal() { two_pointer_at(W::Inter, 1, 2, 0, 0, ord_of(1)); }
-    //@harness props=C17,C01 quickfor=C17 strength=bounded tier=thorough bound="ONE execution: sets of 1 and 2 elements, positions (0, 0), comparison outcome greater (the instances of this family enumerate every position and outcome for these sizes)" clause="setInter step: equal keys => the element of A is emitted and both sides advance; less => A advances; greater => B advances; the walk ends when either side is exhausted, else the keys of the new heads are compared next" timeout=300
+    //@harness props=C17,C01 quickfor=C17 strength=bounded tier=thorough bound="ONE execution: sets of 1 and 2 elements, positions (0, 0), comparison outcome greater (the instances of this family enumerate every position and outcome for these sizes)" clause="setInter step: equal keys => the element of A is emitted and both sides advance; less => A advances; greater => B advances; the walk ends when either side is exhausted, else the keys of the new heads are compared next" timeout=300 replay=sort_stable
     #[kani::proof]
     #[kani::unwind(8)]
     fn set_inter_1_2_at_0_0_greater() { two_pointer_at(W::Inter, 1, 2, 0, 0, ord_of(2)); }
-    //@harness props=C17,C01 quickfor=C17 strength=bounded tier=thorough bound="ONE execution: sets of 1 and 2 elements, positions (0, 1), comparison outcome less (the instances of this family enumerate every position and outcome for these sizes)" clause="setInter step: equal keys => the element of A is emitted and both sides advance; less => A advances; greater => B advances; the walk ends when either side is exhausted, else the keys of the new heads are compared next" timeout=300
+    //@harness props=C17,C01 quickfor=C17 strength=bounded tier=thorough bound="ONE execution: sets of 1 and 2 elements, positions (0, 1), comparison outcome less (the instances of this family enumerate every position and outcome for these sizes)" clause="setInter step: equal keys => the element of A is emitted and both sides advance; less => A advances; greater => B advances; the walk ends when either side is exhausted, else the keys of the new heads are compared next" timeout=300 replay=sort_stable
     #[kani::proof]
     #[kani::unwind(8)]
     fn set_inter_1_2_at_0_1_less() { two_pointer_at(W::Inter, 1, 2, 0, 1, ord_of(0)); }
-    //@harness props=C17,C01 quickfor=C17 strength=bounded tier=thorough bound="ONE execution: sets of 1 and 2 elements, positions (0, 1), comparison outcome equal (the instances of this family enumerate every position and outcome for these sizes)" clause="setInter step: equal keys => the element of A is emitted and both sides advance; less => A advances; greater => B advances; the walk ends when either side is exhausted, else the keys of the new heads are compared next" timeout=300
+    //@harness props=C17,C01 quickfor=C17 strength=bounded tier=thorough bound="ONE execution: sets of 1 and 2 elements, positions (0, 1), comparison outcome equal (the instances of this family enumerate every position and outcome for these sizes)" clause="setInter step: equal keys => the element of A is emitted and both sides advance; less => A advances; greater => B advances; the walk ends when either side is exhausted, else the keys of the new heads are compared next" timeout=300 replay=sort_stable
     #[kani::proof]
     #[kani::unwind(8)]
     fn set_inter_1_2_at_0_1_equal() { two_pointer_at(W::Inter, 1, 2, 0, 1, ord_of(1)); }
-    //@harness props=C17,C01 quickfor=C17 strength=bounded tier=thorough bound="ONE execution: sets of 1 and 2 elements, positions (0, 1), comparison outcome greater (the instances of this family enumerate every position and outcome for these sizes)" clause="setInter step: equal keys => the element of A is emitted and both sides advance; less => A advances; greater => B advances; the walk ends when either side is exhausted, else the keys of the new heads are compared next" timeout=300
+    //@harness props=C17,C01 quickfor=C17 strength=bounded tier=thorough bound="ONE execution: sets of 1 and 2 elements, positions (0, 1), comparison outcome greater (the instances of this family enumerate every position and outcome for these sizes)" clause="setInter step: equal keys => the element of A is emitted and both sides advance; less => A advances; greater => B advances; the walk ends when either side is exhausted, else the keys of the new heads are compared next" timeout=300 replay=sort_stable
     #[kani::proof]
     #[kani::unwind(8)]
     fn set_inter_1_2_at_0_1_greater() { two_pointer_at(W::Inter, 1, 2, 0, 1, ord_of(2)); }
-    //@harness props=C17,C01 quickfor=C17 strength=bounded tier=thorough bound="ONE execution: sets of 2 and 1 elements, positions (0, 0), comparison outcome less (the instances of this family enumerate every position and outcome for these sizes)" clause="setInter step: equal keys => the element of A is emitted and both sides advance; less => A advances; greater => B advances; the walk ends when either side is exhausted, else the keys of the new heads are compared next" timeout=300
+    //@harness props=C17,C01 quickfor=C17 strength=bounded tier=thorough bound="ONE execution: sets of 2 and 1 elements, positions (0, 0), comparison outcome less (the instances of this family enumerate every position and outcome for these sizes)" clause="setInter step: equal keys => the element of A is emitted and both sides advance; less => A advances; greater => B advances; the walk ends when either side is exhausted, else the keys of the new heads are compared next" timeout=300 replay=sort_stable
     #[kani::proof]
     #[kani::unwind(8)]
     fn set_inter_2_1_at_0_0_less() { two_pointer_at(W::Inter, 2, 1, 0, 0, ord_of(0)); }
-    //@harness props=C17,C01 quickfor=C17 strength=bounded tier=thorough bound="ONE execution: sets of 2 and 1 elements, positions (0, 0), comparison outcome equal (the instances of this family enumerate every position and outcome for these sizes)" clause="setInter step: equal keys => the element of A is emitted and both sides advance; less => A advances; greater => B advances; the walk ends when either side is exhausted, else the keys of the new heads are compared next" timeout=300
+    //@harness props=C17,C01 quickfor=C17 strength=bounded tier=thorough bound="ONE execution: sets of 2 and 1 elements, positions (0, 0), comparison outcome equal (the instances of this family enumerate every position and outcome for these sizes)" clause="setInter step: equal keys => the element of A is emitted and both sides advance; less => A advances; greater => B advances; the walk ends when either side is exhausted, else the keys of the new heads are compared next" timeout=300 replay=sort_stable
     #[kani::proof]
     #[kani::unwind(8)]
     fn set_inter_2_1_at_0_0_equal() { two_pointer_at(W::Inter, 2, 1, 0, 0, ord_of(1)); }
-    //@harness props=C17,C01 quickfor=C17 strength=bounded tier=thorough bound="ONE execution: sets of 2 and 1 elements, positions (0, 0), comparison outcome greater (the instances of this family enumerate every position and outcome for these sizes)" clause="setInter step: equal keys => the element of A is emitted and both sides advance; less => A advances; greater => B advances; the walk ends when either side is exhausted, else the keys of the new heads are compared next" timeout=300
+    //@harness props=C17,C01 quickfor=C17 strength=bounded tier=thorough bound="ONE execution: sets of 2 and 1 elements, positions (0, 0), comparison outcome greater (the instances of this family enumerate every position and outcome for these sizes)" clause="setInter step: equal keys => the element of A is emitted and both sides advance; less => A advances; greater => B advances; the walk ends when either side is exhausted, else the keys of the new heads are compared next" timeout=300 replay=sort_stable
     #[kani::proof]
     #[kani::unwind(8)]
     fn set_inter_2_1_at_0_0_greater() { two_pointer_at(W::Inter, 2, 1, 0, 0, ord_of(2)); }
-    //@harness props=C17,C01 quickfor=C17 strength=bounded tier=thorough bound="ONE execution: sets of 2 and 1 elements, positions (1, 0), comparison outcome less (the instances of this family enumerate every position and outcome for these sizes)" clause="setInter step: equal keys => the element of A is emitted and both sides advance; less => A advances; greater => B advances; the walk ends when either side is exhausted, else the keys of the new heads are compared next" timeout=300
+    //@harness props=C17,C01 quickfor=C17 strength=bounded tier=thorough bound="ONE execution: sets of 2 and 1 elements, positions (1, 0), comparison outcome less (the instances of this family enumerate every position and outcome for these sizes)" clause="setInter step: equal keys => the element of A is emitted and both sides advance; less => A advances; greater => B advances; the walk ends when either side is exhausted, else the keys of the new heads are compared next" timeout=300 replay=sort_stable
     #[kani::proof]
     #[kani::unwind(8)]
     fn set_inter_2_1_at_1_0_less() { two_pointer_at(W::Inter, 2, 1, 1, 0, ord_of(0)); }
-    //@harness props=C17,C01 quickfor=C17 strength=bounded tier=thorough bound="ONE execution: sets of 2 and 1 elements, positions (1, 0), comparison outcome equal (the instances of this family enumerate every position and outcome for these sizes)" clause="setInter step: equal keys => the element of A is emitted and both sides advance; less => A advances; greater => B advances; the walk ends when either side is exhausted, else the keys of the new heads are compared next" timeout=300
+    //@harness props=C17,C01 quickfor=C17 strength=bounded tier=thorough bound="ONE execution: sets of 2 and 1 elements, positions (1, 0), comparison outcome equal (the instances of this family enumerate every position and outcome for these sizes)" clause="setInter step: equal keys => the element of A is emitted and both sides advance; less => A advances; greater => B advances; the walk ends when either side is exhausted, else the keys of the new heads are compared next" timeout=300 replay=sort_stable
     #[kani::proof]
     #[kani::unwind(8)]
     fn set_inter_2_1_at_1_0_equal() { two_pointer_at(W::Inter, 2, 1, 1, 0, ord_of(1)); }
-    //@harness props=C17,C01 quickfor=C17 strength=bounded tier=thorough bound="ONE execution: sets of 2 and 1 elements, positions (1, 0), comparison outcome greater (the instances of this family enumerate every position and outcome for these sizes)" clause="setInter step: equal keys => the element of A is emitted and both sides advance; less => A advances; greater => B advances; the walk ends when either side is exhausted, else the keys of the new heads are compared next" timeout=300
+    //@harness props=C17,C01 quickfor=C17 strength=bounded tier=thorough bound="ONE execution: sets of 2 and 1 elements, positions (1, 0), comparison outcome greater (the instances of this family enumerate every position and outcome for these sizes)" clause="setInter step: equal keys => the element of A is emitted and both sides advance; less => A advances; greater => B advances; the walk ends when either side is exhausted, else the keys of the new heads are compared next" timeout=300 replay=sort_stable
     #[kani::proof]
     #[kani::unwind(8)]
     fn set_inter_2_1_at_1_0_greater() { two_pointer_at(W::Inter, 2, 1, 1, 0, ord_of(2)); }
-    //@harness props=C17,C01 quickfor=C17 strength=bounded tier=thorough bound="ONE execution: sets of 3 and 3 elements, positions (0, 0), comparison outcome less (the instances of this family enumerate every position and outcome for these sizes)" clause="setInter step: equal keys => the element of A is emitted and both sides advance; less => A advances; greater => B advances; the walk ends when either side is exhausted, else the keys of the new heads are compared next" timeout=300
+    //@harness props=C17,C01 quickfor=C17 strength=bounded tier=thorough bound="ONE execution: sets of 3 and 3 elements, positions (0, 0), comparison outcome less (the instances of this family enumerate every position and outcome for these sizes)" clause="setInter step: equal keys => the element of A is emitted and both sides advance; less => A advances; greater => B advances; the walk ends when either side is exhausted, else the keys of the new heads are compared next" timeout=300 replay=sort_stable
     #[kani::proof]
     #[kani::unwind(8)]
     fn set_inter_3_3_at_0_0_less() { two_pointer_at(W::Inter, 3, 3, 0, 0, ord_of(0)); }
-    //@harness props=C17,C01 quickfor=C17 strength=bounded tier=thorough bound="ONE execution: sets of 3 and 3 elements, positions (0, 0), comparison outcome equal (the instances of this family enumerate every position and outcome for these sizes)" clause="setInter step: equal keys => the element of A is emitted and both sides advance; less => A advances; greater => B advances; the walk ends when either side is exhausted, else the keys of the new heads are compared next" timeout=300
+    //@harness props=C17,C01 quickfor=C17 strength=bounded tier=thorough bound="ONE execution: sets of 3 and 3 elements, positions (0, 0), comparison outcome equal (the instances of this family enumerate every position and outcome for these sizes)" clause="setInter step: equal keys => the element of A is emitted and both sides advance; less => A advances; greater => B advances; the walk ends when either side is exhausted, else the keys of the new heads are compared next" timeout=300 replay=sort_stable
     #[kani::proof]
     #[kani::unwind(8)]
     fn set_inter_3_3_at_0_0_equal() { two_pointer_at(W::Inter, 3, 3, 0, 0, ord_of(1)); }
-    //@harness props=C17,C01 quickfor=C17 strength=bounded tier=thorough bound="ONE execution: sets of 3 and 3 elements, positions (0, 0), comparison outcome greater (the instances of this family enumerate every position and outcome for these sizes)" clause="setInter step: equal keys => the element of A is emitted and both sides advance; less => A advances; greater => B advances; the walk ends when either side is exhausted, else the keys of the new heads are compared next" timeout=300
+    //@harness props=C17,C01 quickfor=C17 strength=bounded tier=thorough bound="ONE execution: sets of 3 and 3 elements, positions (0, 0), comparison outcome greater (the instances of this family enumerate every position and outcome for these sizes)" clause="setInter step: equal keys => the element of A is emitted and both sides advance; less => A advances; greater => B advances; the walk ends when either side is exhausted, else the keys of the new heads are compared next" timeout=300 replay=sort_stable
     #[kani::proof]
     #[kani::unwind(8)]
     fn set_inter_3_3_at_0_0_greater() { two_pointer_at(W::Inter, 3, 3, 0, 0, ord_of(2)); }
-    //@harness props=C17,C01 quickfor=C17 strength=bounded tier=thorough bound="ONE execution: sets of 3 and 3 elements, positions (0, 1), comparison outcome less (the instances of this family enumerate every position and outcome for these sizes)" clause="setInter step: equal keys => the element of A is emitted and both sides advance; less => A advances; greater => B advances; the walk ends when either side is exhausted, else the keys of the new heads are compared next" timeout=300
+    //@harness props=C17,C01 quickfor=C17 strength=bounded tier=thorough bound="ONE execution: sets of 3 and 3 elements, positions (0, 1), comparison outcome less (the instances of this family enumerate every position and outcome for these sizes)" clause="setInter step: equal keys => the element of A is emitted and both sides advance; less => A advances; greater => B advances; the walk ends when either side is exhausted, else the keys of the new heads are compared next" timeout=300 replay=sort_stable
     #[kani::proof]
     #[kani::unwind(8)]
     fn set_inter_3_3_at_0_1_less() { two_pointer_at(W::Inter, 3, 3, 0, 1, ord_of(0)); }
-    //@harness props=C17,C01 quickfor=C17 strength=bounded tier=thorough bound="ONE execution: sets of 3 and 3 elements, positions (0, 1), comparison outcome equal (the instances of this family enumerate every position and outcome for these sizes)" clause="setInter step: equal keys => the element of A is emitted and both sides advance; less => A advances; greater => B advances; the walk ends when either side is exhausted, else the keys of the new heads are compared next" timeout=300
+    //@harness props=C17,C01 quickfor=C17 strength=bounded tier=thorough bound="ONE execution: sets of 3 and 3 elements, positions (0, 1), comparison outcome equal (the instances of this family enumerate every position and outcome for these sizes)" clause="setInter step: equal keys => the element of A is emitted and both sides advance; less => A advances; greater => B advances; the walk ends when either side is exhausted, else the keys of the new heads are compared next" timeout=300 replay=sort_stable
     #[kani::proof]
     #[kani::unwind(8)]
     fn set_inter_3_3_at_0_1_equal() { two_pointer_at(W::Inter, 3, 3, 0, 1, ord_of(1)); }
-    //@harness props=C17,C01 quickfor=C17 strength=bounded tier=thorough bound="ONE execution: sets of 3 and 3 elements, positions (0, 1), comparison outcome greater (the instances of this family enumerate every position and outcome for these sizes)" clause="setInter step: equal keys => the element of A is emitted and both sides advance; less => A advances; greater => B advances; the walk ends when either side is exhausted, else the keys of the new heads are compared next" timeout=300
+    //@harness props=C17,C01 quickfor=C17 strength=bounded tier=thorough bound="ONE execution: sets of 3 and 3 elements, positions (0, 1), comparison outcome greater (the instances of this family enumerate every position and outcome for these sizes)" clause="setInter step: equal keys => the element of A is emitted and both sides advance; less => A advances; greater => B advances; the walk ends when either side is exhausted, else the keys of the new heads are compared next" timeout=300 replay=sort_stable
     #[kani::proof]
     #[kani::unwind(8)]
     fn set_inter_3_3_at_0_1_greater() { two_pointer_at(W::Inter, 3, 3, 0, 1, ord_of(2)); }
-    //@harness props=C17,C01 quickfor=C17 strength=bounded tier=thorough bound="ONE execution: sets of 3 and 3 elements, positions (0, 2), comparison outcome less (the instances of this family enumerate every position and outcome for these sizes)" clause="setInter step: equal keys => the element of A is emitted and both sides advance; less => A advances; greater => B advances; the walk ends when either side is exhausted, else the keys of the new heads are compared next" timeout=300
+    //@harness props=C17,C01 quickfor=C17 strength=bounded tier=thorough bound="ONE execution: sets of 3 and 3 elements, positions (0, 2), comparison outcome less (the instances of this family enumerate every position and outcome for these sizes)" clause="setInter step: equal keys => the element of A is emitted and both sides advance; less => A advances; greater => B advances; the walk ends when either side is exhausted, else the keys of the new heads are compared next" timeout=300 replay=sort_stable
     #[kani::proof]
     #[kani::unwind(8)]
     fn set_inter_3_3_at_0_2_less() { two_pointer_at(W::Inter, 3, 3, 0, 2, ord_of(0)); }
-    //@harness props=C17,C01 quickfor=C17 strength=bounded tier=thorough bound="ONE execution: sets of 3 and 3 elements, positions (0, 2), comparison outcome equal (the instances of this family enumerate every position and outcome for these sizes)" clause="setInter step: equal keys => the element of A is emitted and both sides advance; less => A advances; greater => B advances; the walk ends when either side is exhausted, else the keys of the new heads are compared next" timeout=300
+    //@harness props=C17,C01 quickfor=C17 strength=bounded tier=thorough bound="ONE execution: sets of 3 and 3 elements, positions (0, 2), comparison outcome equal (the instances of this family enumerate every position and outcome for these sizes)" clause="setInter step: equal keys => the element of A is emitted and both sides advance; less => A advances; greater => B advances; the walk ends when either side is exhausted, else the keys of the new heads are compared next" timeout=300 replay=sort_stable
     #[kani::proof]
     #[kani::unwind(8)]
     fn set_inter_3_3_at_0_2_equal() { two_pointer_at(W::Inter, 3, 3, 0, 2, ord_of(1)); }
-    //@harness props=C17,C01 quickfor=C17 strength=bounded tier=thorough bound="ONE execution: sets of 3 and 3 elements, positions (0, 2), comparison outcome greater (the instances of this family enumerate every position and outcome for these sizes)" clause="setInter step: equal keys => the element of A is emitted and both sides advance; less => A advances; greater => B advances; the walk ends when either side is exhausted, else the keys of the new heads are compared next" timeout=300
+    //@harness props=C17,C01 quickfor=C17 strength=bounded tier=thorough bound="ONE execution: sets of 3 and 3 elements, positions (0, 2), comparison outcome greater (the instances of this family enumerate every position and outcome for these sizes)" clause="setInter step: equal keys => the element of A is emitted and both sides advance; less => A advances; greater => B advances; the walk ends when either side is exhausted, else the keys of the new heads are compared next" timeout=300 replay=sort_stable
     #[kani::proof]
     #[kani::unwind(8)]
     fn set_inter_3_3_at_0_2_greater() { two_pointer_at(W::Inter, 3, 3, 0, 2, ord_of(2)); }
-    //@harness props=C17,C01 quickfor=C17 strength=bounded tier=thorough bound="ONE execution: sets of 3 and 3 elements, positions (1, 0), comparison outcome less (the instances of this family enumerate every position and outcome for these sizes)" clause="setInter step: equal keys => the element of A is emitted and both sides advance; less => A advances; greater => B advances; the walk ends when either side is exhausted, else the keys of the new heads are compared next" timeout=300
+    //@harness props=C17,C01 quickfor=C17 strength=bounded tier=thorough bound="ONE execution: sets of 3 and 3 elements, positions (1, 0), comparison outcome less (the instances of this family enumerate every position and outcome for these sizes)" clause="setInter step: equal keys => the element of A is emitted and both sides advance; less => A advances; greater => B advances; the walk ends when either side is exhausted, else the keys of the new heads are compared next" timeout=300 replay=sort_stable
     #[kani::proof]
     #[kani::unwind(8)]
     fn set_inter_3_3_at_1_0_less() { two_pointer_at(W::Inter, 3, 3, 1, 0, ord_of(0)); }
-    //@harness props=C17,C01 quickfor=C17 strength=bounded tier=thorough bound="ONE execution: sets of 3 and 3 elements, positions (1, 0), comparison outcome equal (the instances of this family enumerate every position and outcome for these sizes)" clause="setInter step: equal keys => the element of A is emitted and both sides advance; less => A advances; greater => B advances; the walk ends when either side is exhausted, else the keys of the new heads are compared next" timeout=300
+    //@harness props=C17,C01 quickfor=C17 strength=bounded tier=thorough bound="ONE execution: sets of 3 and 3 elements, positions (1, 0), comparison outcome equal (the instances of this family enumerate every position and outcome for these sizes)" clause="setInter step: equal keys => the element of A is emitted and both sides advance; less => A advances; greater => B advances; the walk ends when either side is exhausted, else the keys of the new heads are compared next" timeout=300 replay=sort_stable
     #[kani::proof]
     #[kani::unwind(8)]
     fn set_inter_3_3_at_1_0_equal() { two_pointer_at(W::Inter, 3, 3, 1, 0, ord_of(1)); }
-    //@harness props=C17,C01 quickfor=C17 strength=bounded tier=thorough bound="ONE execution: sets of 3 and 3 elements, positions (1, 0), comparison outcome greater (the instances of this family enumerate every position and outcome for these sizes)" clause="setInter step: equal keys => the element of A is emitted and both sides advance; less => A advances; greater => B advances; the walk ends when either side is exhausted, else the keys of the new heads are compared next" timeout=300
+    //@harness props=C17,C01 quickfor=C17 strength=bounded tier=thorough bound="ONE execution: sets of 3 and 3 elements, positions (1, 0), comparison outcome greater (the instances of this family enumerate every position and outcome for these sizes)" clause="setInter step: equal keys => the element of A is emitted and both sides advance; less => A advances; greater => B advances; the walk ends when either side is exhausted, else the keys of the new heads are compared next" timeout=300 replay=sort_stable
     #[kani::proof]
     #[kani::unwind(8)]
     fn set_inter_3_3_at_1_0_greater() { two_pointer_at(W::Inter, 3, 3, 1, 0, ord_of(2)); }
-    //@harness props=C17,C01 quickfor=C17 strength=bounded tier=thorough bound="ONE execution: sets of 3 and 3 elements, positions (1, 1), comparison outcome less (the instances of this family enumerate every position and outcome for these sizes)" clause="setInter step: equal keys => the element of A is emitted and both sides advance; less => A advances; greater => B advances; the walk ends when either side is exhausted, else the keys of the new heads are compared next" timeout=300
+    //@harness props=C17,C01 quickfor=C17 strength=bounded tier=thorough bound="ONE execution: sets of 3 and 3 elements, positions (1, 1), comparison outcome less (the instances of this family enumerate every position and outcome for these sizes)" clause="setInter step: equal keys => the element of A is emitted and both sides advance; less => A advances; greater => B advances; the walk ends when either side is exhausted, else the keys of the new heads are compared next" timeout=300 replay=sort_stable
     #[kani::proof]
     #[kani::unwind(8)]
     fn set_inter_3_3_at_1_1_less() { two_pointer_at(W::Inter, 3, 3, 1, 1, ord_of(0)); }
-    //@harness props=C17,C01 quickfor=C17 strength=bounded tier=thorough bound="ONE execution: sets of 3 and 3 elements, positions (1, 1), comparison outcome equal (the instances of this family enumerate every position and outcome for these sizes)" clause="setInter step: equal keys => the element of A is emitted and both sides advance; less => A advances; greater => B advances; the walk ends when either side is exhausted, else the keys of the new heads are compared next" timeout=300
+    //@harness props=C17,C01 quickfor=C17 strength=bounded tier=thorough bound="ONE execution: sets of 3 and 3 elements, positions (1, 1), comparison outcome equal (the instances of this family enumerate every position and outcome for these sizes)" clause="setInter step: equal keys => the element of A is emitted and both sides advance; less => A advances; greater => B advances; the walk ends when either side is exhausted, else the keys of the new heads are compared next" timeout=300 replay=sort_stable
     #[kani::proof]
     #[kani::unwind(8)]
     fn set_inter_3_3_at_1_1_equal() { two_pointer_at(W::Inter, 3, 3, 1, 1, ord_of(1)); }
-    //@harness props=C17,C01 quickfor=C17 strength=bounded tier=thorough bound="ONE execution: sets of 3 and 3 elements, positions (1, 1), comparison outcome greater (the instances of this family enumerate every position and outcome for these sizes)" clause="setInter step: equal keys => the element of A is emitted and both sides advance; less => A advances; greater => B advances; the walk ends when either side is exhausted, else the keys of the new heads are compared next" timeout=300
+    //@harness props=C17,C01 quickfor=C17 strength=bounded tier=thorough bound="ONE execution: sets of 3 and 3 elements, positions (1, 1), comparison outcome greater (the instances of this family enumerate every position and outcome for these sizes)" clause="setInter step: equal keys => the element of A is emitted and both sides advance; less => A advances; greater => B advances; the walk ends when either side is exhausted, else the keys of the new heads are compared next" timeout=300 replay=sort_stable
     #[kani::proof]
     #[kani::unwind(8)]
     fn set_inter_3_3_at_1_1_greater() { two_pointer_at(W::Inter, 3, 3, 1, 1, ord_of(2)); }
-    //@harness props=C17,C01 quickfor=C17 strength=bounded tier=thorough bound="ONE execution: sets of 3 and 3 elements, positions (1, 2), comparison outcome less (the instances of this family enumerate every position and outcome for these sizes)" clause="setInter step: equal keys => the element of A is emitted and both sides advance; less => A advances; greater => B advances; the walk ends when either side is exhausted, else the keys of the new heads are compared next" timeout=300
+    //@harness props=C17,C01 quickfor=C17 strength=bounded tier=thorough bound="ONE execution: sets of 3 and 3 elements, positions (1, 2), comparison outcome less (the instances of this family enumerate every position and outcome for these sizes)" clause="setInter step: equal keys => the element of A is emitted and both sides advance; less => A advances; greater => B advances; the walk ends when either side is exhausted, else the keys of the new heads are compared next" timeout=300 replay=sort_stable
     #[kani::proof]
     #[kani::unwind(8)]
     fn set_inter_3_3_at_1_2_less() { two_pointer_at(W::Inter, 3, 3, 1, 2, ord_of(0)); }
-    //@harness props=C17,C01 quickfor=C17 strength=bounded tier=thorough bound="ONE execution: sets of 3 and 3 elements, positions (1, 2), comparison outcome equal (the instances of this family enumerate every position and outcome for these sizes)" clause="setInter step: equal keys => the element of A is emitted and both sides advance; less => A advances; greater => B advances; the walk ends when either side is exhausted, else the keys of the new heads are compared next" timeout=300
+    //@harness props=C17,C01 quickfor=C17 strength=bounded tier=thorough bound="ONE execution: sets of 3 and 3 elements, positions (1, 2), comparison outcome equal (the instances of this family enumerate every position and outcome for these sizes)" clause="setInter step: equal keys => the element of A is emitted and both sides advance; less => A advances; greater => B advances; the walk ends when either side is exhausted, else the keys of the new heads are compared next" timeout=300 replay=sort_stable
     #[kani::proof]
     #[kani::unwind(8)]
     fn set_inter_3_3_at_1_2_equal() { two_pointer_at(W::Inter, 3, 3, 1, 2, ord_of(1)); }
-    //@harness props=C17,C01 quickfor=C17 strength=bounded tier=thorough bound="ONE execution: sets of 3 and 3 elements, positions (1, 2), comparison outcome greater (the instances of this family enumerate every position and outcome for these sizes)" clause="setInter step: equal keys => the element of A is emitted and both sides advance; less => A advances; greater => B advances; the walk ends when either side is exhausted, else the keys of the new heads are compared next" timeout=300
+    //@harness props=C17,C01 quickfor=C17 strength=bounded tier=thorough bound="ONE execution: sets of 3 and 3 elements, positions (1, 2), comparison outcome greater (the instances of this family enumerate every position and outcome for these sizes)" clause="setInter step: equal keys => the element of A is emitted and both sides advance; less => A advances; greater => B advances; the walk ends when either side is exhausted, else the keys of the new heads are compared next" timeout=300 replay=sort_stable
     #[kani::proof]
     #[kani::unwind(8)]
     fn set_inter_3_3_at_1_2_greater() { two_pointer_at(W::Inter, 3, 3, 1, 2, ord_of(2)); }
-    //@harness props=C17,C01 quickfor=C17 strength=bounded tier=thorough bound="ONE execution: sets of 3 and 3 elements, positions (2, 0), comparison outcome less (the instances of this family enumerate every position and outcome for these sizes)" clause="setInter step: equal keys => the element of A is emitted and both sides advance; less => A advances; greater => B advances; the walk ends when either side is exhausted, else the keys of the new heads are compared next" timeout=300
+    //@harness props=C17,C01 quickfor=C17 strength=bounded tier=thorough bound="ONE execution: sets of 3 and 3 elements, positions (2, 0), comparison outcome less (the instances of this family enumerate every position and outcome for these sizes)" clause="setInter step: equal keys => the element of A is emitted and both sides advance; less => A advances; greater => B advances; the walk ends when either side is exhausted, else the keys of the new heads are compared next" timeout=300 replay=sort_stable
     #[kani::proof]
     #[kani::unwind(8)]
     fn set_inter_3_3_at_2_0_less() { two_pointer_at(W::Inter, 3, 3, 2, 0, ord_of(0)); }
-    //@harness props=C17,C01 quickfor=C17 strength=bounded tier=thorough bound="ONE execution: sets of 3 and 3 elements, positions (2, 0), comparison outcome equal (the instances of this family enumerate every position and outcome for these sizes)" clause="setInter step: equal keys => the element of A is emitted and both sides advance; less => A advances; greater => B advances; the walk ends when either side is exhausted, else the keys of the new heads are compared next" timeout=300
+    //@harness props=C17,C01 quickfor=C17 strength=bounded tier=thorough bound="ONE execution: sets of 3 and 3 elements, positions (2, 0), comparison outcome equal (the instances of this family enumerate every position and outcome for these sizes)" clause="setInter step: equal keys => the element of A is emitted and both sides advance; less => A advances; greater => B advances; the walk ends when either side is exhausted, else the keys of the new heads are compared next" timeout=300 replay=sort_stable
     #[kani::proof]
     #[kani::unwind(8)]
     fn set_inter_3_3_at_2_0_equal() { two_pointer_at(W::Inter, 3, 3, 2, 0, ord_of(1)); }
-    //@harness props=C17,C01 quickfor=C17 strength=bounded tier=thorough bound="ONE execution: sets of 3 and 3 elements, positions (2, 0), comparison outcome greater (the instances of this family enumerate every position and outcome for these sizes)" clause="setInter step: equal keys => the element of A is emitted and both sides advance; less => A advances; greater => B advances; the walk ends when either side is exhausted, else the keys of the new heads are compared next" timeout=300
+    //@harness props=C17,C01 quickfor=C17 strength=bounded tier=thorough bound="ONE execution: sets of 3 and 3 elements, positions (2, 0), comparison outcome greater (the instances of this family enumerate every position and outcome for these sizes)" clause="setInter step: equal keys => the element of A is emitted and both sides advance; less => A advances; greater => B advances; the walk ends when either side is exhausted, else the keys of the new heads are compared next" timeout=300 replay=sort_stable
     #[kani::proof]
     #[kani::unwind(8)]
     fn set_inter_3_3_at_2_0_greater() { two_pointer_at(W::Inter, 3, 3, 2, 0, ord_of(2)); }
-    //@harness props=C17,C01 quickfor=C17 strength=bounded tier=thorough bound="ONE execution: sets of 3 and 3 elements, positions (2, 1), comparison outcome less (the instances of this family enumerate every position and outcome for these sizes)" clause="setInter step: equal keys => the element of A is emitted and both sides advance; less => A advances; greater => B advances; the walk ends when either side is exhausted, else the keys of the new heads are compared next" timeout=300
+    //@harness props=C17,C01 quickfor=C17 strength=bounded tier=thorough bound="ONE execution: sets of 3 and 3 elements, positions (2, 1), comparison outcome less (the instances of this family enumerate every position and outcome for these sizes)" clause="setInter step: equal keys => the element of A is emitted and both sides advance; less => A advances; greater => B advances; the walk ends when either side is exhausted, else the keys of the new heads are compared next" timeout=300 replay=sort_stable
     #[kani::proof]
     #[kani::unwind(8)]
     fn set_inter_3_3_at_2_1_less() { two_pointer_at(W::Inter, 3, 3, 2, 1, ord_of(0)); }
-    //@harness props=C17,C01 quickfor=C17 strength=bounded tier=thorough bound="ONE execution: sets of 3 and 3 elements, positions (2, 1), comparison outcome equal (the instances of this family enumerate every position and outcome for these sizes)" clause="setInter step: equal keys => the element of A is emitted and both sides advance; less => A advances; greater => B advances; the walk ends when either side is exhausted, else the keys of the new heads are compared next" timeout=300
+    //@harness props=C17,C01 quickfor=C17 strength=bounded tier=thorough bound="ONE execution: sets of 3 and 3 elements, positions (2, 1), comparison outcome equal (the instances of this family enumerate every position and outcome for these sizes)" clause="setInter step: equal keys => the element of A is emitted and both sides advance; less => A advances; greater => B advances; the walk ends when either side is exhausted, else the keys of the new heads are compared next" timeout=300 replay=sort_stable
     #[kani::proof]
     #[kani::unwind(8)]
     fn set_inter_3_3_at_2_1_equal() { two_pointer_at(W::Inter, 3, 3, 2, 1, ord_of(1)); }
-    //@harness props=C17,C01 quickfor=C17 strength=bounded tier=thorough bound="ONE execution: sets of 3 and 3 elements, positions (2, 1), comparison outcome greater (the instances of this family enumerate every position and outcome for these sizes)" clause="setInter step: equal keys => the element of A is emitted and both sides advance; less => A advances; greater => B advances; the walk ends when either side is exhausted, else the keys of the new heads are compared next" timeout=300
+    //@harness props=C17,C01 quickfor=C17 strength=bounded tier=thorough bound="ONE execution: sets of 3 and 3 elements, positions (2, 1), comparison outcome greater (the instances of this family enumerate every position and outcome for these sizes)" clause="setInter step: equal keys => the element of A is emitted and both sides advance; less => A advances; greater => B advances; the walk ends when either side is exhausted, else the keys of the new heads are compared next" timeout=300 replay=sort_stable
     #[kani::proof]
     #[kani::unwind(8)]
     fn set_inter_3_3_at_2_1_greater() { two_pointer_at(W::Inter, 3, 3, 2, 1, ord_of(2)); }
-    //@harness props=C17,C01 quickfor=C17 strength=bounded tier=thorough bound="ONE execution: sets of 3 and 3 elements, positions (2, 2), comparison outcome less (the instances of this family enumerate every position and outcome for these sizes)" clause="setInter step: equal keys => the element of A is emitted and both sides advance; less => A advances; greater => B advances; the walk ends when either side is exhausted, else the keys of the new heads are compared next" timeout=300
+    //@harness props=C17,C01 quickfor=C17 strength=bounded tier=thorough bound="ONE execution: sets of 3 and 3 elements, positions (2, 2), comparison outcome less (the instances of this family enumerate every position and outcome for these sizes)" clause="setInter step: equal keys => the element of A is emitted and both sides advance; less => A advances; greater => B advances; the walk ends when either side is exhausted, else the keys of the new heads are compared next" timeout=300 replay=sort_stable
     #[kani::proof]
     #[kani::unwind(8)]
     fn set_inter_3_3_at_2_2_less() { two_pointer_at(W::Inter, 3, 3, 2, 2, ord_of(0)); }
-    //@harness props=C17,C01 quickfor=C17 strength=bounded tier=thorough bound="ONE execution: sets of 3 and 3 elements, positions (2, 2), comparison outcome equal (the instances of this family enumerate every position and outcome for these sizes)" clause="setInter step: equal keys => the element of A is emitted and both sides advance; less => A advances; greater => B advances; the walk ends when either side is exhausted, else the keys of the new heads are compared next" timeout=300
+    //@harness props=C17,C01 quickfor=C17 strength=bounded tier=thorough bound="ONE execution: sets of 3 and 3 elements, positions (2, 2), comparison outcome equal (the instances of this family enumerate every position and outcome for these sizes)" clause="setInter step: equal keys => the element of A is emitted and both sides advance; less => A advances; greater => B advances; the walk ends when either side is exhausted, else the keys of the new heads are compared next" timeout=300 replay=sort_stable
     #[kani::proof]
     #[kani::unwind(8)]
     fn set_inter_3_3_at_2_2_equal() { two_pointer_at(W::Inter, 3, 3, 2, 2, ord_of(1)); }
-    //@harness props=C17,C01 quickfor=C17 strength=bounded tier=thorough bound="ONE execution: sets of 3 and 3 elements, positions (2, 2), comparison outcome greater (the instances of this family enumerate every position and outcome for these sizes)" clause="setInter step: equal keys => the element of A is emitted and both sides advance; less => A advances; greater => B advances; the walk ends when either side is exhausted, else the keys of the new heads are compared next" timeout=300
+    //@harness props=C17,C01 quickfor=C17 strength=bounded tier=thorough bound="ONE execution: sets of 3 and 3 elements, positions (2, 2), comparison outcome greater (the instances of this family enumerate every position and outcome for these sizes)" clause="setInter step: equal keys => the element of A is emitted and both sides advance; less => A advances; greater => B advances; the walk ends when either side is exhausted, else the keys of the new heads are compared next" timeout=300 replay=sort_stable
     #[kani::proof]
     #[kani::unwind(8)]
     fn set_inter_3_3_at_2_2_greater() { two_pointer_at(W::Inter, 3, 3, 2, 2, ord_of(2)); }
-    //@harness props=C17,C01 quickfor=C17 strength=bounded tier=thorough bound="ONE execution: sets of 1 and 1 elements, positions (0, 0), comparison outcome less (the instances of this family enumerate every position and outcome for these sizes)" clause="setInter step: equal keys => the element of A is emitted and both sides advance; less => A advances; greater => B advances; the walk ends when either side is exhausted, else the keys of the new heads are compared next" timeout=300
+    //@harness props=C17,C01 quickfor=C17 strength=bounded tier=thorough bound="ONE execution: sets of 1 and 1 elements, positions (0, 0), comparison outcome less (the instances of this family enumerate every position and outcome for these sizes)" clause="setInter step: equal keys => the element of A is emitted and both sides advance; less => A advances; greater => B advances; the walk ends when either side is exhausted, else the keys of the new heads are compared next" timeout=300 replay=sort_stable
     #[kani::proof]
     #[kani::unwind(8)]
     fn set_inter_1_1_at_0_0_less() { two_pointer_at(W::Inter, 1, 1, 0, 0, ord_of(0)); }
-    //@harness props=C17,C01 quickfor=C17 strength=bounded tier=thorough bound="ONE execution: sets of 1 and 1 elements, positions (0, 0), comparison outcome equal (the instances of this family enumerate every position and outcome for these sizes)" clause="setInter step: equal keys => the element of A is emitted and both sides advance; less => A advances; greater => B advances; the walk ends when either side is exhausted, else the keys of the new heads are compared next" timeout=300
+    //@harness props=C17,C01 quickfor=C17 strength=bounded tier=thorough bound="ONE execution: sets of 1 and 1 elements, positions (0, 0), comparison outcome equal (the instances of this family enumerate every position and outcome for these sizes)" clause="setInter step: equal keys => the element of A is emitted and both sides advance; less => A advances; greater => B advances; the walk ends when either side is exhausted, else the keys of the new heads are compared next" timeout=300 replay=sort_stable
     #[kani::proof]
     #[kani::unwind(8)]
     fn set_inter_1_1_at_0_0_equal() { two_pointer_at(W::Inter, 1, 1, 0, 0, ord_of(1)); }
-    //@harness props=C17,C01 quickfor=C17 strength=bounded tier=thorough bound="ONE execution: sets of 1 and 1 elements, positions (0, 0), comparison outcome greater (the instances of this family enumerate every position and outcome for these sizes)" clause="setInter step: equal keys => the element of A is emitted and both sides advance; less => A advances; greater => B advances; the walk ends when either side is exhausted, else the keys of the new heads are compared next" timeout=300
+    //@harness props=C17,C01 quickfor=C17 strength=bounded tier=thorough bound="ONE execution: sets of 1 and 1 elements, positions (0, 0), comparison outcome greater (the instances of this family enumerate every position and outcome for these sizes)" clause="setInter step: equal keys => the element of A is emitted and both sides advance; less => A advances; greater => B advances; the walk ends when either side is exhausted, else the keys of the new heads are compared next" timeout=300 replay=sort_stable
     #[kani::proof]
     #[kani::unwind(8)]
     fn set_inter_1_1_at_0_0_greater() { two_pointer_at(W::Inter, 1, 1, 0, 0, ord_of(2)); }
-    //@harness props=C17,C01 quickfor=C17 strength=bounded tier=thorough bound="ONE execution: sets of 2 and 3 elements, positions (0, 0), comparison outcome less (the instances of this family enumerate every position and outcome for these sizes)" clause="setInter step: equal keys => the element of A is emitted and both sides advance; less => A advances; greater => B advances; the walk ends when either side is exhausted, else the keys of the new heads are compared next" timeout=300
+    //@harness props=C17,C01 quickfor=C17 strength=bounded tier=thorough bound="ONE execution: sets of 2 and 3 elements, positions (0, 0), comparison outcome less (the instances of this family enumerate every position and outcome for these sizes)" clause="setInter step: equal keys => the element of A is emitted and both sides advance; less => A advances; greater => B advances; the walk ends when either side is exhausted, else the keys of the new heads are compared next" timeout=300 replay=sort_stable
     #[kani::proof]
     #[kani::unwind(8)]
     fn set_inter_2_3_at_0_0_less() { two_pointer_at(W::Inter, 2, 3, 0, 0, ord_of(0)); }
-    //@harness props=C17,C01 quickfor=C17 strength=bounded tier=thorough bound="ONE execution: sets of 2 and 3 elements, positions (0, 0), comparison outcome equal (the instances of this family enumerate every position and outcome for these sizes)" clause="setInter step: equal keys => the element of A is emitted and both sides advance; less => A advances; greater => B advances; the walk ends when either side is exhausted, else the keys of the new heads are compared next" timeout=300
+    //@harness props=C17,C01 quickfor=C17 strength=bounded tier=thorough bound="ONE execution: sets of 2 and 3 elements, positions (0, 0), comparison outcome equal (the instances of this family enumerate every position and outcome for these sizes)" clause="setInter step: equal keys => the element of A is emitted and both sides advance; less => A advances; greater => B advances; the walk ends when either side is exhausted, else the keys of the new heads are compared next" timeout=300 replay=sort_stable
     #[kani::proof]
     #[kani::unwind(8)]
     fn set_inter_2_3_at_0_0_equal() { two_pointer_at(W::Inter, 2, 3, 0, 0, ord_of(1)); }
-    //@harness props=C17,C01 quickfor=C17 strength=bounded tier=thorough bound="ONE execution: sets of 2 and 3 elements, positions (0, 0), comparison outcome greater (the instances of this family enumerate every position and outcome for these sizes)" clause="setInter step: equal keys => the element of A is emitted and both sides advance; less => A advances; greater => B advances; the walk ends when either side is exhausted, else the keys of the new heads are compared next" timeout=300
+    //@harness props=C17,C01 quickfor=C17 strength=bounded tier=thorough bound="ONE execution: sets of 2 and 3 elements, positions (0, 0), comparison outcome greater (the instances of this family enumerate every position and outcome for these sizes)" clause="setInter step: equal keys => the element of A is emitted and both sides advance; less => A advances; greater => B advances; the walk ends when either side is exhausted, else the keys of the new heads are compared next" timeout=300 replay=sort_stable
     #[kani::proof]
     #[kani::unwind(8)]
     fn set_inter_2_3_at_0_0_greater() { two_pointer_at(W::Inter, 2, 3, 0, 0, ord_of(2)); }
-    //@harness props=C17,C01 quickfor=C17 strength=bounded tier=thorough bound="ONE execution: sets of 2 and 3 elements, positions (0, 1), comparison outcome less (the instances of this family enumerate every position and outcome for these sizes)" clause="setInter step: equal keys => the element of A is emitted and both sides advance; less => A advances; greater => B advances; the walk ends when either side is exhausted, else the keys of the new heads are compared next" timeout=300
+    //@harness props=C17,C01 quickfor=C17 strength=bounded tier=thorough bound="ONE execution: sets of 2 and 3 elements, positions (0, 1), comparison outcome less (the instances of this family enumerate every position and outcome for these sizes)" clause="setInter step: equal keys => the element of A is emitted and both sides advance; less => A advances; greater => B advances; the walk ends when either side is exhausted, else the keys of the new heads are compared next" timeout=300 replay=sort_stable
     #[kani::proof]
     #[kani::unwind(8)]
     fn set_inter_2_3_at_0_1_less() { two_pointer_at(W::Inter, 2, 3, 0, 1, ord_of(0)); }
-    //@harness props=C17,C01 quickfor=C17 strength=bounded tier=thorough bound="ONE execution: sets of 2 and 3 elements, positions (0, 1), comparison outcome equal (the instances of this family enumerate every position and outcome for these sizes)" clause="setInter step: equal keys => the element of A is emitted and both sides advance; less => A advances; greater => B advances; the walk ends when either side is exhausted, else the keys of the new heads are compared next" timeout=300
+    //@harness props=C17,C01 quickfor=C17 strength=bounded tier=thorough bound="ONE execution: sets of 2 and 3 elements, positions (0, 1), comparison outcome equal (the instances of this family enumerate every position and outcome for these sizes)" clause="setInter step: equal keys => the element of A is emitted and both sides advance; less => A advances; greater => B advances; the walk ends when either side is exhausted, else the keys of the new heads are compared next" timeout=300 replay=sort_stable
     #[kani::proof]
     #[kani::unwind(8)]
     fn set_inter_2_3_at_0_1_equal() { two_pointer_at(W::Inter, 2, 3, 0, 1, ord_of(1)); }
-    //@harness props=C17,C01 quickfor=C17 strength=bounded tier=thorough bound="ONE execution: sets of 2 and 3 elements, positions (0, 1), comparison outcome greater (the instances of this family enumerate every position and outcome for these sizes)" clause="setInter step: equal keys => the element of A is emitted and both sides advance; less => A advances; greater => B advances; the walk ends when either side is exhausted, else the keys of the new heads are compared next" timeout=300
+    //@harness props=C17,C01 quickfor=C17 strength=bounded tier=thorough bound="ONE execution: sets of 2 and 3 elements, positions (0, 1), comparison outcome greater (the instances of this family enumerate every position and outcome for these sizes)" clause="setInter step: equal keys => the element of A is emitted and both sides advance; less => A advances; greater => B advances; the walk ends when either side is exhausted, else the keys of the new heads are compared next" timeout=300 replay=sort_stable
     #[kani::proof]
     #[kani::unwind(8)]
     fn set_inter_2_3_at_0_1_greater() { two_pointer_at(W::Inter, 2, 3, 0, 1, ord_of(2)); }
-    //@harness props=C17,C01 quickfor=C17 strength=bounded tier=thorough bound="ONE execution: sets of 2 and 3 elements, positions (0, 2), comparison outcome less (the instances of this family enumerate every position and outcome for these sizes)" clause="setInter step: equal keys => the element of A is emitted and both sides advance; less => A advances; greater => B advances; the walk ends when either side is exhausted, else the keys of the new heads are compared next" timeout=300
+    //@harness props=C17,C01 quickfor=C17 strength=bounded tier=thorough bound="ONE execution: sets of 2 and 3 elements, positions (0, 2), comparison outcome less (the instances of this family enumerate every position and outcome for these sizes)" clause="setInter step: equal keys => the element of A is emitted and both sides advance; less => A advances; greater => B advances; the walk ends when either side is exhausted, else the keys of the new heads are compared next" timeout=300 replay=sort_stable
     #[kani::proof]
     #[kani::unwind(8)]
     fn set_inter_2_3_at_0_2_less() { two_pointer_at(W::Inter, 2, 3, 0, 2, ord_of(0)); }
-    //@harness props=C17,C01 quickfor=C17 strength=bounded tier=thorough bound="ONE execution: sets of 2 and 3 elements, positions (0, 2), comparison outcome equal (the instances of this family enumerate every position and outcome for these sizes)" clause="setInter step: equal keys => the element of A is emitted and both sides advance; less => A advances; greater => B advances; the walk ends when either side is exhausted, else the keys of the new heads are compared next" timeout=300
+    //@harness props=C17,C01 quickfor=C17 strength=bounded tier=thorough bound="ONE execution: sets of 2 and 3 elements, positions (0, 2), comparison outcome equal (the instances of this family enumerate every position and outcome for these sizes)" clause="setInter step: equal keys => the element of A is emitted and both sides advance; less => A advances; greater => B advances; the walk ends when either side is exhausted, else the keys of the new heads are compared next" timeout=300 replay=sort_stable
     #[kani::proof]
     #[kani::unwind(8)]
     fn set_inter_2_3_at_0_2_equal() { two_pointer_at(W::Inter, 2, 3, 0, 2, ord_of(1)); }
-    //@harness props=C17,C01 quickfor=C17 strength=bounded tier=thorough bound="ONE execution: sets of 2 and 3 elements, positions (0, 2), comparison outcome greater (the instances of this family enumerate every position and outcome for these sizes)" clause="setInter step: equal keys => the element of A is emitted and both sides advance; less => A advances; greater => B advances; the walk ends when either side is exhausted, else the keys of the new heads are compared next" timeout=300
+    //@harness props=C17,C01 quickfor=C17 strength=bounded tier=thorough bound="ONE execution: sets of 2 and 3 elements, positions (0, 2), comparison outcome greater (the instances of this family enumerate every position and outcome for these sizes)" clause="setInter step: equal keys => the element of A is emitted and both sides advance; less => A advances; greater => B advances; the walk ends when either side is exhausted, else the keys of the new heads are compared next" timeout=300 replay=sort_stable
     #[kani::proof]
     #[kani::unwind(8)]
     fn set_inter_2_3_at_0_2_greater() { two_pointer_at(W::Inter, 2, 3, 0, 2, ord_of(2)); }
-    //@harness props=C17,C01 quickfor=C17 strength=bounded tier=thorough bound="ONE execution: sets of 2 and 3 elements, positions (1, 0), comparison outcome less (the instances of this family enumerate every position and outcome for these sizes)" clause="setInter step: equal keys => the element of A is emitted and both sides advance; less => A advances; greater => B advances; the walk ends when either side is exhausted, else the keys of the new heads are compared next" timeout=300
+    //@harness props=C17,C01 quickfor=C17 strength=bounded tier=thorough bound="ONE execution: sets of 2 and 3 elements, positions (1, 0), comparison outcome less (the instances of this family enumerate every position and outcome for these sizes)" clause="setInter step: equal keys => the element of A is emitted and both sides advance; less => A advances; greater => B advances; the walk ends when either side is exhausted, else the keys of the new heads are compared next" timeout=300 replay=sort_stable
     #[kani::proof]
     #[kani::unwind(8)]
     fn set_inter_2_3_at_1_0_less() { two_pointer_at(W::Inter, 2, 3, 1, 0, ord_of(0)); }
-    //@harness props=C17,C01 quickfor=C17 strength=bounded tier=thorough bound="ONE execution: sets of 2 and 3 elements, positions (1, 0), comparison outcome equal (the instances of this family enumerate every position and outcome for these sizes)" clause="setInter step: equal keys => the element of A is emitted and both sides advance; less => A advances; greater => B advances; the walk ends when either side is exhausted, else the keys of the new heads are compared next" timeout=300
+    //@harness props=C17,C01 quickfor=C17 strength=bounded tier=thorough bound="ONE execution: sets of 2 and 3 elements, positions (1, 0), comparison outcome equal (the instances of this family enumerate every position and outcome for these sizes)" clause="setInter step: equal keys => the element of A is emitted and both sides advance; less => A advances; greater => B advances; the walk ends when either side is exhausted, else the keys of the new heads are compared next" timeout=300 replay=sort_stable
     #[kani::proof]
     #[kani::unwind(8)]
     fn set_inter_2_3_at_1_0_equal() { two_pointer_at(W::Inter, 2, 3, 1, 0, ord_of(1)); }
-    //@harness props=C17,C01 quickfor=C17 strength=bounded tier=thorough bound="ONE execution: sets of 2 and 3 elements, positions (1, 0), comparison outcome greater (the instances of this family enumerate every position and outcome for these sizes)" clause="setInter step: equal keys => the element of A is emitted and both sides advance; less => A advances; greater => B advances; the walk ends when either side is exhausted, else the keys of the new heads are compared next" timeout=300
+    //@harness props=C17,C01 quickfor=C17 strength=bounded tier=thorough bound="ONE execution: sets of 2 and 3 elements, positions (1, 0), comparison outcome greater (the instances of this family enumerate every position and outcome for these sizes)" clause="setInter step: equal keys => the element of A is emitted and both sides advance; less => A advances; greater => B advances; the walk ends when either side is exhausted, else the keys of the new heads are compared next" timeout=300 replay=sort_stable
     #[kani::proof]
     #[kani::unwind(8)]
     fn set_inter_2_3_at_1_0_greater() { two_pointer_at(W::Inter, 2, 3, 1, 0, ord_of(2)); }
-    //@harness props=C17,C01 quickfor=C17 strength=bounded tier=thorough bound="ONE execution: sets of 2 and 3 elements, positions (1, 1), comparison outcome less (the instances of this family enumerate every position and outcome for these sizes)" clause="setInter step: equal keys => the element of A is emitted and both sides advance; less => A advances; greater => B advances; the walk ends when either side is exhausted, else the keys of the new heads are compared next" timeout=300
+    //@harness props=C17,C01 quickfor=C17 strength=bounded tier=thorough bound="ONE execution: sets of 2 and 3 elements, positions (1, 1), comparison outcome less (the instances of this family enumerate every position and outcome for these sizes)" clause="setInter step: equal keys => the element of A is emitted and both sides advance; less => A advances; greater => B advances; the walk ends when either side is exhausted, else the keys of the new heads are compared next" timeout=300 replay=sort_stable
     #[kani::proof]
     #[kani::unwind(8)]
     fn set_inter_2_3_at_1_1_less() { two_pointer_at(W::Inter, 2, 3, 1, 1, ord_of(0)); }
-    //@harness props=C17,C01 quickfor=C17 strength=bounded tier=thorough bound="ONE execution: sets of 2 and 3 elements, positions (1, 1), comparison outcome equal (the instances of this family enumerate every position and outcome for these sizes)" clause="setInter step: equal keys => the element of A is emitted and both sides advance; less => A advances; greater => B advances; the walk ends when either side is exhausted, else the keys of the new heads are compared next" timeout=300
+    //@harness props=C17,C01 quickfor=C17 strength=bounded tier=thorough bound="ONE execution: sets of 2 and 3 elements, positions (1, 1), comparison outcome equal (the instances of this family enumerate every position and outcome for these sizes)" clause="setInter step: equal keys => the element of A is emitted and both sides advance; less => A advances; greater => B advances; the walk ends when either side is exhausted, else the keys of the new heads are compared next" timeout=300 replay=sort_stable
     #[kani::proof]
     #[kani::unwind(8)]
     fn set_inter_2_3_at_1_1_equal() { two_pointer_at(W::Inter, 2, 3, 1, 1, ord_of(1)); }
-    //@harness props=C17,C01 quickfor=C17 strength=bounded tier=thorough bound="ONE execution: sets of 2 and 3 elements, positions (1, 1), comparison outcome greater (the instances of this family enumerate every position and outcome for these sizes)" clause="setInter step: equal keys => the element of A is emitted and both sides advance; less => A advances; greater => B advances; the walk ends when either side is exhausted, else the keys of the new heads are compared next" timeout=300
+    //@harness props=C17,C01 quickfor=C17 strength=bounded tier=thorough bound="ONE execution: sets of 2 and 3 elements, positions (1, 1), comparison outcome greater (the instances of this family enumerate every position and outcome for these sizes)" clause="setInter step: equal keys => the element of A is emitted and both sides advance; less => A advances; greater => B advances; the walk ends when either side is exhausted, else the keys of the new heads are compared next" timeout=300 replay=sort_stable
     #[kani::proof]
     #[kani::unwind(8)]
     fn set_inter_2_3_at_1_1_greater() { two_pointer_at(W::Inter, 2, 3, 1, 1, ord_of(2)); }
-    //@harness props=C17,C01 quickfor=C17 strength=bounded tier=thorough bound="ONE execution: sets of 2 and 3 elements, positions (1, 2), comparison outcome less (the instances of this family enumerate every position and outcome for these sizes)" clause="setInter step: equal keys => the element of A is emitted and both sides advance; less => A advances; greater => B advances; the walk ends when either side is exhausted, else the keys of the new heads are compared next" timeout=300
+    //@harness props=C17,C01 quickfor=C17 strength=bounded tier=thorough bound="ONE execution: sets of 2 and 3 elements, positions (1, 2), comparison outcome less (the instances of this family enumerate every position and outcome for these sizes)" clause="setInter step: equal keys => the element of A is emitted and both sides advance; less => A advances; greater => B advances; the walk ends when either side is exhausted, else the keys of the new heads are compared next" timeout=300 replay=sort_stable
     #[kani::proof]
     #[kani::unwind(8)]
     fn set_inter_2_3_at_1_2_less() { two_pointer_at(W::Inter, 2, 3, 1, 2, ord_of(0)); }
-    //@harness props=C17,C01 quickfor=C17 strength=bounded tier=thorough bound="ONE execution: sets of 2 and 3 elements, positions (1, 2), comparison outcome equal (the instances of this family enumerate every position and outcome for these sizes)" clause="setInter step: equal keys => the element of A is emitted and both sides advance; less => A advances; greater => B advances; the walk ends when either side is exhausted, else the keys of the new heads are compared next" timeout=300
+    //@harness props=C17,C01 quickfor=C17 strength=bounded tier=thorough bound="ONE execution: sets of 2 and 3 elements, positions (1, 2), comparison outcome equal (the instances of this family enumerate every position and outcome for these sizes)" clause="setInter step: equal keys => the element of A is emitted and both sides advance; less => A advances; greater => B advances; the walk ends when either side is exhausted, else the keys of the new heads are compared next" timeout=300 replay=sort_stable
     #[kani::proof]
     #[kani::unwind(8)]
     fn set_inter_2_3_at_1_2_equal() { two_pointer_at(W::Inter, 2, 3, 1, 2, ord_of(1)); }
-    //@harness props=C17,C01 quickfor=C17 strength=bounded tier=thorough bound="ONE execution: sets of 2 and 3 elements, positions (1, 2), comparison outcome greater (the instances of this family enumerate every position and outcome for these sizes)" clause="setInter step: equal keys => the element of A is emitted and both sides advance; less => A advances; greater => B advances; the walk ends when either side is exhausted, else the keys of the new heads are compared next" timeout=300
+    //@harness props=C17,C01 quickfor=C17 strength=bounded tier=thorough bound="ONE execution: sets of 2 and 3 elements, positions (1, 2), comparison outcome greater (the instances of this family enumerate every position and outcome for these sizes)" clause="setInter step: equal keys => the element of A is emitted and both sides advance; less => A advances; greater => B advances; the walk ends when either side is exhausted, else the keys of the new heads are compared next" timeout=300 replay=sort_stable
     #[kani::proof]
     #[kani::unwind(8)]
     fn set_inter_2_3_at_1_2_greater() { two_pointer_at(W::Inter, 2, 3, 1, 2, ord_of(2)); }
-    //@harness props=C17,C01 quickfor=C17 strength=bounded tier=thorough bound="ONE execution: sets of 3 and 2 elements, positions (0, 0), comparison outcome less (the instances of this family enumerate every position and outcome for these sizes)" clause="setInter step: equal keys => the element of A is emitted and both sides advance; less => A advances; greater => B advances; the walk ends when either side is exhausted, else the keys of the new heads are compared next" timeout=300
+    //@harness props=C17,C01 quickfor=C17 strength=bounded tier=thorough bound="ONE execution: sets of 3 and 2 elements, positions (0, 0), comparison outcome less (the instances of this family enumerate every position and outcome for these sizes)" clause="setInter step: equal keys => the element of A is emitted and both sides advance; less => A advances; greater => B advances; the walk ends when either side is exhausted, else the keys of the new heads are compared next" timeout=300 replay=sort_stable
     #[kani::proof]
     #[kani::unwind(8)]
     fn set_inter_3_2_at_0_0_less() { two_pointer_at(W::Inter, 3, 2, 0, 0, ord_of(0)); }
-    //@harness props=C17,C01 quickfor=C17 strength=bounded tier=thorough bound="ONE execution: sets of 3 and 2 elements, positions (0, 0), comparison outcome equal (the instances of this family enumerate every position and outcome for these sizes)" clause="setInter step: equal keys => the element of A is emitted and both sides advance; less => A advances; greater => B advances; the walk ends when either side is exhausted, else the keys of the new heads are compared next" timeout=300
+    //@harness props=C17,C01 quickfor=C17 strength=bounded tier=thorough bound="ONE execution: sets of 3 and 2 elements, positions (0, 0), comparison outcome equal (the instances of this family enumerate every position and outcome for these sizes)" clause="setInter step: equal keys => the element of A is emitted and both sides advance; less => A advances; greater => B advances; the walk ends when either side is exhausted, else the keys of the new heads are compared next" timeout=300 replay=sort_stable
     #[kani::proof]
     #[kani::unwind(8)]
     fn set_inter_3_2_at_0_0_equal() { two_pointer_at(W::Inter, 3, 2, 0, 0, ord_of(1)); }
-    //@harness props=C17,C01 quickfor=C17 strength=bounded tier=thorough bound="ONE execution: sets of 3 and 2 elements, positions (0, 0), comparison outcome greater (the instances of this family enumerate every position and outcome for these sizes)" clause="setInter step: equal keys => the element of A is emitted and both sides advance; less => A advances; greater => B advances; the walk ends when either side is exhausted, else the keys of the new heads are compared next" timeout=300
+    //@harness props=C17,C01 quickfor=C17 strength=bounded tier=thorough bound="ONE execution: sets of 3 and 2 elements, positions (0, 0), comparison outcome greater (the instances of this family enumerate every position and outcome for these sizes)" clause="setInter step: equal keys => the element of A is emitted and both sides advance; less => A advances; greater => B advances; the walk ends when either side is exhausted, else the keys of the new heads are compared next" timeout=300 replay=sort_stable
     #[kani::proof]
     #[kani::unwind(8)]
     fn set_inter_3_2_at_0_0_greater() { two_pointer_at(W::Inter, 3, 2, 0, 0, ord_of(2)); }
-    //@harness props=C17,C01 quickfor=C17 strength=bounded tier=thorough bound="ONE execution: sets of 3 and 2 elements, positions (0, 1), comparison outcome less (the instances of this family enumerate every position and outcome for these sizes)" clause="setInter step: equal keys => the element of A is emitted and both sides advance; less => A advances; greater => B advances; the walk ends when either side is exhausted, else the keys of the new heads are compared next" timeout=300
+    //@harness props=C17,C01 quickfor=C17 strength=bounded tier=thorough bound="ONE execution: sets of 3 and 2 elements, positions (0, 1), comparison outcome less (the instances of this family enumerate every position and outcome for these sizes)" clause="setInter step: equal keys => the element of A is emitted and both sides advance; less => A advances; greater => B advances; the walk ends when either side is exhausted, else the keys of the new heads are compared next" timeout=300 replay=sort_stable
     #[kani::proof]
     #[kani::unwind(8)]
     fn set_inter_3_2_at_0_1_less() { two_pointer_at(W::Inter, 3, 2, 0, 1, ord_of(0)); }
-    //@harness props=C17,C01 quickfor=C17 strength=bounded tier=thorough bound="ONE execution: sets of 3 and 2 elements, positions (0, 1), comparison outcome equal (the instances of this family enumerate every position and outcome for these sizes)" clause="setInter step: equal keys => the element of A is emitted and both sides advance; less => A advances; greater => B advances; the walk ends when either side is exhausted, else the keys of the new heads are compared next" timeout=300
+    //@harness props=C17,C01 quickfor=C17 strength=bounded tier=thorough bound="ONE execution: sets of 3 and 2 elements, positions (0, 1), comparison outcome equal (the instances of this family enumerate every position and outcome for these sizes)" clause="setInter step: equal keys => the element of A is emitted and both sides advance; less => A advances; greater => B advances; the walk ends when either side is exhausted, else the keys of the new heads are compared next" timeout=300 replay=sort_stable
     #[kani::proof]
     #[kani::unwind(8)]
     fn set_inter_3_2_at_0_1_equal() { two_pointer_at(W::Inter, 3, 2, 0, 1, ord_of(1)); }
-    //@harness props=C17,C01 quickfor=C17 strength=bounded tier=thorough bound="ONE execution: sets of 3 and 2 elements, positions (0, 1), comparison outcome greater (the instances of this family enumerate every position and outcome for these sizes)" clause="setInter step: equal keys => the element of A is emitted and both sides advance; less => A advances; greater => B advances; the walk ends when either side is exhausted, else the keys of the new heads are compared next" timeout=300
+    //@harness props=C17,C01 quickfor=C17 strength=bounded tier=thorough bound="ONE execution: sets of 3 and 2 elements, positions (0, 1), comparison outcome greater (the instances of this family enumerate every position and outcome for these sizes)" clause="setInter step: equal keys => the element of A is emitted and both sides advance; less => A advances; greater => B advances; the walk ends when either side is exhausted, else the keys of the new heads are compared next" timeout=300 replay=sort_stable
     #[kani::proof]
     #[kani::unwind(8)]
     fn set_inter_3_2_at_0_1_greater() { two_pointer_at(W::Inter, 3, 2, 0, 1, ord_of(2)); }
-    //@harness props=C17,C01 quickfor=C17 strength=bounded tier=thorough bound="ONE execution: sets of 3 and 2 elements, positions (1, 0), comparison outcome less (the instances of this family enumerate every position and outcome for these sizes)" clause="setInter step: equal keys => the element of A is emitted and both sides advance; less => A advances; greater => B advances; the walk ends when either side is exhausted, else the keys of the new heads are compared next" timeout=300
+    //@harness props=C17,C01 quickfor=C17 strength=bounded tier=thorough bound="ONE execution: sets of 3 and 2 elements, positions (1, 0), comparison outcome less (the instances of this family enumerate every position and outcome for these sizes)" clause="setInter step: equal keys => the element of A is emitted and both sides advance; less => A advances; greater => B advances; the walk ends when either side is exhausted, else the keys of the new heads are compared next" timeout=300 replay=sort_stable
     #[kani::proof]
     #[kani::unwind(8)]
     fn set_inter_3_2_at_1_0_less() { two_pointer_at(W::Inter, 3, 2, 1, 0, ord_of(0)); }
-    //@harness props=C17,C01 quickfor=C17 strength=bounded tier=thorough bound="ONE execution: sets of 3 and 2 elements, positions (1, 0), comparison outcome equal (the instances of this family enumerate every position and outcome for these sizes)" clause="setInter step: equal keys => the element of A is emitted and both sides advance; less => A advances; greater => B advances; the walk ends when either side is exhausted, else the keys of the new heads are compared next" timeout=300
+    //@harness props=C17,C01 quickfor=C17 strength=bounded tier=thorough bound="ONE execution: sets of 3 and 2 elements, positions (1, 0), comparison outcome equal (the instances of this family enumerate every position and outcome for these sizes)" clause="setInter step: equal keys => the element of A is emitted and both sides advance; less => A advances; greater => B advances; the walk ends when either side is exhausted, else the keys of the new heads are compared next" timeout=300 replay=sort_stable
     #[kani::proof]
     #[kani::unwind(8)]
     fn set_inter_3_2_at_1_0_equal() { two_pointer_at(W::Inter, 3, 2, 1, 0, ord_of(1)); }
-    //@harness props=C17,C01 quickfor=C17 strength=bounded tier=thorough bound="ONE execution: sets of 3 and 2 elements, positions (1, 0), comparison outcome greater (the instances of this family enumerate every position and outcome for these sizes)" clause="setInter step: equal keys => the element of A is emitted and both sides advance; less => A advances; greater => B advances; the walk ends when either side is exhausted, else the keys of the new heads are compared next" timeout=300
+    //@harness props=C17,C01 quickfor=C17 strength=bounded tier=thorough bound="ONE execution: sets of 3 and 2 elements, positions (1, 0), comparison outcome greater (the instances of this family enumerate every position and outcome for these sizes)" clause="setInter step: equal keys => the element of A is emitted and both sides advance; less => A advances; greater => B advances; the walk ends when either side is exhausted, else the keys of the new heads are compared next" timeout=300 replay=sort_stable
     #[kani::proof]
     #[kani::unwind(8)]
     fn set_inter_3_2_at_1_0_greater() { two_pointer_at(W::Inter, 3, 2, 1, 0, ord_of(2)); }
-    //@harness props=C17,C01 quickfor=C17 strength=bounded tier=thorough bound="ONE execution: sets of 3 and 2 elements, positions (1, 1), comparison outcome less (the instances of this family enumerate every position and outcome for these sizes)" clause="setInter step: equal keys => the element of A is emitted and both sides advance; less => A advances; greater => B advances; the walk ends when either side is exhausted, else the keys of the new heads are compared next" timeout=300
+    //@harness props=C17,C01 quickfor=C17 strength=bounded tier=thorough bound="ONE execution: sets of 3 and 2 elements, positions (1, 1), comparison outcome less (the instances of this family enumerate every position and outcome for these sizes)" clause="setInter step: equal keys => the element of A is emitted and both sides advance; less => A advances; greater => B advances; the walk ends when either side is exhausted, else the keys of the new heads are compared next" timeout=300 replay=sort_stable
     #[kani::proof]
     #[kani::unwind(8)]
     fn set_inter_3_2_at_1_1_less() { two_pointer_at(W::Inter, 3, 2, 1, 1, ord_of(0)); }
-    //@harness props=C17,C01 quickfor=C17 strength=bounded tier=thorough bound="ONE execution: sets of 3 and 2 elements, positions (1, 1), comparison outcome equal (the instances of this family enumerate every position and outcome for these sizes)" clause="setInter step: equal keys => the element of A is emitted and both sides advance; less => A advances; greater => B advances; the walk ends when either side is exhausted, else the keys of the new heads are compared next" timeout=300
+    //@harness props=C17,C01 quickfor=C17 strength=bounded tier=thorough bound="ONE execution: sets of 3 and 2 elements, positions (1, 1), comparison outcome equal (the instances of this family enumerate every position and outcome for these sizes)" clause="setInter step: equal keys => the element of A is emitted and both sides advance; less => A advances; greater => B advances; the walk ends when either side is exhausted, else the keys of the new heads are compared next" timeout=300 replay=sort_stable
     #[kani::proof]
     #[kani::unwind(8)]
     fn set_inter_3_2_at_1_1_equal() { two_pointer_at(W::Inter, 3, 2, 1, 1, ord_of(1)); }
-    //@harness props=C17,C01 quickfor=C17 strength=bounded tier=thorough bound="ONE execution: sets of 3 and 2 elements, positions (1, 1), comparison outcome greater (the instances of this family enumerate every position and outcome for these sizes)" clause="setInter step: equal keys => the element of A is emitted and both sides advance; less => A advances; greater => B advances; the walk ends when either side is exhausted, else the keys of the new heads are compared next" timeout=300
+    //@harness props=C17,C01 quickfor=C17 strength=bounded tier=thorough bound="ONE execution: sets of 3 and 2 elements, positions (1, 1), comparison outcome greater (the instances of this family enumerate every position and outcome for these sizes)" clause="setInter step: equal keys => the element of A is emitted and both sides advance; less => A advances; greater => B advances; the walk ends when either side is exhausted, else the keys of the new heads are compared next" timeout=300 replay=sort_stable
     #[kani::proof]
     #[kani::unwind(8)]
     fn set_inter_3_2_at_1_1_greater() { two_pointer_at(W::Inter, 3, 2, 1, 1, ord_of(2)); }
-    //@harness props=C17,C01 quickfor=C17 strength=bounded tier=thorough bound="ONE execution: sets of 3 and 2 elements, positions (2, 0), comparison outcome less (the instances of this family enumerate every position and outcome for these sizes)" clause="setInter step: equal keys => the element of A is emitted and both sides advance; less => A advances; greater => B advances; the walk ends when either side is exhausted, else the keys of the new heads are compared next" timeout=300
+    //@harness props=C17,C01 quickfor=C17 strength=bounded tier=thorough bound="ONE execution: sets of 3 and 2 elements, positions (2, 0), comparison outcome less (the instances of this family enumerate every position and outcome for these sizes)" clause="setInter step: equal keys => the element of A is emitted and both sides advance; less => A advances; greater => B advances; the walk ends when either side is exhausted, else the keys of the new heads are compared next" timeout=300 replay=sort_stable
     #[kani::proof]
     #[kani::unwind(8)]
     fn set_inter_3_2_at_2_0_less() { two_pointer_at(W::Inter, 3, 2, 2, 0, ord_of(0)); }
-    //@harness props=C17,C01 quickfor=C17 strength=bounded tier=thorough bound="ONE execution: sets of 3 and 2 elements, positions (2, 0), comparison outcome equal (the instances of this family enumerate every position and outcome for these sizes)" clause="setInter step: equal keys => the element of A is emitted and both sides advance; less => A advances; greater => B advances; the walk ends when either side is exhausted, else the keys of the new heads are compared next" timeout=300
+    //@harness props=C17,C01 quickfor=C17 strength=bounded tier=thorough bound="ONE execution: sets of 3 and 2 elements, positions (2, 0), comparison outcome equal (the instances of this family enumerate every position and outcome for these sizes)" clause="setInter step: equal keys => the element of A is emitted and both sides advance; less => A advances; greater => B advances; the walk ends when either side is exhausted, else the keys of the new heads are compared next" timeout=300 replay=sort_stable
     #[kani::proof]
     #[kani::unwind(8)]
     fn set_inter_3_2_at_2_0_equal() { two_pointer_at(W::Inter, 3, 2, 2, 0, ord_of(1)); }
-    //@harness props=C17,C01 quickfor=C17 strength=bounded tier=thorough bound="ONE execution: sets of 3 and 2 elements, positions (2, 0), comparison outcome greater (the instances of this family enumerate every position and outcome for these sizes)" clause="setInter step: equal keys => the element of A is emitted and both sides advance; less => A advances; greater => B advances; the walk ends when either side is exhausted, else the keys of the new heads are compared next" timeout=300
+    //@harness props=C17,C01 quickfor=C17 strength=bounded tier=thorough bound="ONE execution: sets of 3 and 2 elements, positions (2, 0), comparison outcome greater (the instances of this family enumerate every position and outcome for these sizes)" clause="setInter step: equal keys => the element of A is emitted and both sides advance; less => A advances; greater => B advances; the walk ends when either side is exhausted, else the keys of the new heads are compared next" timeout=300 replay=sort_stable
     #[kani::proof]
     #[kani::unwind(8)]
     fn set_inter_3_2_at_2_0_greater() { two_pointer_at(W::Inter, 3, 2, 2, 0, ord_of(2)); }
-    //@harness props=C17,C01 quickfor=C17 strength=bounded tier=thorough bound="ONE execution: sets of 3 and 2 elements, positions (2, 1), comparison outcome less (the instances of this family enumerate every position and outcome for these sizes)" clause="setInter step: equal keys => the element of A is emitted and both sides advance; less => A advances; greater => B advances; the walk ends when either side is exhausted, else the keys of the new heads are compared next" timeout=300
+    //@harness props=C17,C01 quickfor=C17 strength=bounded tier=thorough bound="ONE execution: sets of 3 and 2 elements, positions (2, 1), comparison outcome less (the instances of this family enumerate every position and outcome for these sizes)" clause="setInter step: equal keys => the element of A is emitted and both sides advance; less => A advances; greater => B advances; the walk ends when either side is exhausted, else the keys of the new heads are compared next" timeout=300 replay=sort_stable
     #[kani::proof]
     #[kani::unwind(8)]
     fn set_inter_3_2_at_2_1_less() { two_pointer_at(W::Inter, 3, 2, 2, 1, ord_of(0)); }
-    //@harness props=C17,C01 quickfor=C17 strength=bounded tier=thorough bound="ONE execution: sets of 3 and 2 elements, positions (2, 1), comparison outcome equal (the instances of this family enumerate every position and outcome for these sizes)" clause="setInter step: equal keys => the element of A is emitted and both sides advance; less => A advances; greater => B advances; the walk ends when either side is exhausted, else the keys of the new heads are compared next" timeout=300
+    //@harness props=C17,C01 quickfor=C17 strength=bounded tier=thorough bound="ONE execution: sets of 3 and 2 elements, positions (2, 1), comparison outcome equal (the instances of this family enumerate every position and outcome for these sizes)" clause="setInter step: equal keys => the element of A is emitted and both sides advance; less => A advances; greater => B advances; the walk ends when either side is exhausted, else the keys of the new heads are compared next" timeout=300 replay=sort_stable
     #[kani::proof]
     #[kani::unwind(8)]
     fn set_inter_3_2_at_2_1_equal() { two_pointer_at(W::Inter, 3, 2, 2, 1, ord_of(1)); }
-    //@harness props=C17,C01 quickfor=C17 strength=bounded tier=thorough bound="ONE execution: sets of 3 and 2 elements, positions (2, 1), comparison outcome greater (the instances of this family enumerate every position and outcome for these sizes)" clause="setInter step: equal keys => the element of A is emitted and both sides advance; less => A advances; greater => B advances; the walk ends when either side is exhausted, else the keys of the new heads are compared next" timeout=300
+    //@harness props=C17,C01 quickfor=C17 strength=bounded tier=thorough bound="ONE execution: sets of 3 and 2 elements, positions (2, 1), comparison outcome greater (the instances of this family enumerate every position and outcome for these sizes)" clause="setInter step: equal keys => the element of A is emitted and both sides advance; less => A advances; greater => B advances; the walk ends when either side is exhausted, else the keys of the new heads are compared next" timeout=300 replay=sort_stable
     #[kani::proof]
     #[kani::unwind(8)]
     fn set_inter_3_2_at_2_1_greater() { two_pointer_at(W::Inter, 3, 2, 2, 1, ord_of(2)); }
-    //@harness props=C17,C01 quickfor=C17 strength=bounded tier=thorough bound="ONE execution: sets of 1 and 3 elements, positions (0, 0), comparison outcome less (the instances of this family enumerate every position and outcome for these sizes)" clause="setInter step: equal keys => the element of A is emitted and both sides advance; less => A advances; greater => B advances; the walk ends when either side is exhausted, else the keys of the new heads are compared next" timeout=300
+    //@harness props=C17,C01 quickfor=C17 strength=bounded tier=thorough bound="ONE execution: sets of 1 and 3 elements, positions (0, 0), comparison outcome less (the instances of this family enumerate every position and outcome for these sizes)" clause="setInter step: equal keys => the element of A is emitted and both sides advance; less => A advances; greater => B advances; the walk ends when either side is exhausted, else the keys of the new heads are compared next" timeout=300 replay=sort_stable
     #[kani::proof]
     #[kani::unwind(8)]
     fn set_inter_1_3_at_0_0_less() { two_pointer_at(W::Inter, 1, 3, 0, 0, ord_of(0)); }
-    //@harness props=C17,C01 quickfor=C17 strength=bounded tier=thorough bound="ONE execution: sets of 1 and 3 elements, positions (0, 0), comparison outcome equal (the instances of this family enumerate every position and outcome for these sizes)" clause="setInter step: equal keys => the element of A is emitted and both sides advance; less => A advances; greater => B advances; the walk ends when either side is exhausted, else the keys of the new heads are compared next" timeout=300
+    //@harness props=C17,C01 quickfor=C17 strength=bounded tier=thorough bound="ONE execution: sets of 1 and 3 elements, positions (0, 0), comparison outcome equal (the instances of this family enumerate every position and outcome for these sizes)" clause="setInter step: equal keys => the element of A is emitted and both sides advance; less => A advances; greater => B advances; the walk ends when either side is exhausted, else the keys of the new heads are compared next" timeout=300 replay=sort_stable
     #[kani::proof]
     #[kani::unwind(8)]
     fn set_inter_1_3_at_0_0_equal() { two_pointer_at(W::Inter, 1, 3, 0, 0, ord_of(1)); }
-    //@harness props=C17,C01 quickfor=C17 strength=bounded tier=thorough bound="ONE execution: sets of 1 and 3 elements, positions (0, 0), comparison outcome greater (the instances of this family enumerate every position and outcome for these sizes)" clause="setInter step: equal keys => the element of A is emitted and both sides advance; less => A advances; greater => B advances; the walk ends when either side is exhausted, else the keys of the new heads are compared next" timeout=300
+    //@harness props=C17,C01 quickfor=C17 strength=bounded tier=thorough bound="ONE execution: sets of 1 and 3 elements, positions (0, 0), comparison outcome greater (the instances of this family enumerate every position and outcome for these sizes)" clause="setInter step: equal keys => the element of A is emitted and both sides advance; less => A advances; greater => B advances; the walk ends when either side is exhausted, else the keys of the new heads are compared next" timeout=300 replay=sort_stable
     #[kani::proof]
     #[kani::unwind(8)]
     fn set_inter_1_3_at_0_0_greater() { two_pointer_at(W::Inter, 1, 3, 0, 0, ord_of(2)); }
-    //@harness props=C17,C01 quickfor=C17 strength=bounded tier=thorough bound="ONE execution: sets of 1 and 3 elements, positions (0, 1), comparison outcome less (the instances of this family enumerate every position and outcome for these sizes)" clause="setInter step: equal keys => the element of A is emitted and both sides advance; less => A advances; greater => B advances; the walk ends when either side is exhausted, else the keys of the new heads are compared next" timeout=300
+    //@harness props=C17,C01 quickfor=C17 strength=bounded tier=thorough bound="ONE execution: sets of 1 and 3 elements, positions (0, 1), comparison outcome less (the instances of this family enumerate every position and outcome for these sizes)" clause="setInter step: equal keys => the element of A is emitted and both sides advance; less => A advances; greater => B advances; the walk ends when either side is exhausted, else the keys of the new heads are compared next" timeout=300 replay=sort_stable
     #[kani::proof]
     #[kani::unwind(8)]
     fn set_inter_1_3_at_0_1_less() { two_pointer_at(W::Inter, 1, 3, 0, 1, ord_of(0)); }
-    //@harness props=C17,C01 quickfor=C17 strength=bounded tier=thorough bound="ONE execution: sets of 1 and 3 elements, positions (0, 1), comparison outcome equal (the instances of this family enumerate every position and outcome for these sizes)" clause="setInter step: equal keys => the element of A is emitted and both sides advance; less => A advances; greater => B advances; the walk ends when either side is exhausted, else the keys of the new heads are compared next" timeout=300
+    //@harness props=C17,C01 quickfor=C17 strength=bounded tier=thorough bound="ONE execution: sets of 1 and 3 elements, positions (0, 1), comparison outcome equal (the instances of this family enumerate every position and outcome for these sizes)" clause="setInter step: equal keys => the element of A is emitted and both sides advance; less => A advances; greater => B advances; the walk ends when either side is exhausted, else the keys of the new heads are compared next" timeout=300 replay=sort_stable
     #[kani::proof]
     #[kani::unwind(8)]
     fn set_inter_1_3_at_0_1_equal() { two_pointer_at(W::Inter, 1, 3, 0, 1, ord_of(1)); }
-    //@harness props=C17,C01 quickfor=C17 strength=bounded tier=thorough bound="ONE execution: sets of 1 and 3 elements, positions (0, 1), comparison outcome greater (the instances of this family enumerate every position and outcome for these sizes)" clause="setInter step: equal keys => the element of A is emitted and both sides advance; less => A advances; greater => B advances; the walk ends when either side is exhausted, else the keys of the new heads are compared next" timeout=300
+    //@harness props=C17,C01 quickfor=C17 strength=bounded tier=thorough bound="ONE execution: sets of 1 and 3 elements, positions (0, 1), comparison outcome greater (the instances of this family enumerate every position and outcome for these sizes)" clause="setInter step: equal keys => the element of A is emitted and both sides advance; less => A advances; greater => B advances; the walk ends when either side is exhausted, else the keys of the new heads are compared next" timeout=300 replay=sort_stable
     #[kani::proof]
     #[kani::unwind(8)]
     fn set_inter_1_3_at_0_1_greater() { two_pointer_at(W::Inter, 1, 3, 0, 1, ord_of(2)); }
-    //@harness props=C17,C01 quickfor=C17 strength=bounded tier=thorough bound="ONE execution: sets of 1 and 3 elements, positions (0, 2), comparison outcome less (the instances of this family enumerate every position and outcome for these sizes)" clause="setInter step: equal keys => the element of A is emitted and both sides advance; less => A advances; greater => B advances; the walk ends when either side is exhausted, else the keys of the new heads are compared next" timeout=300
+    //@harness props=C17,C01 quickfor=C17 strength=bounded tier=thorough bound="ONE execution: sets of 1 and 3 elements, positions (0, 2), comparison outcome less (the instances of this family enumerate every position and outcome for these sizes)" clause="setInter step: equal keys => the element of A is emitted and both sides advance; less => A advances; greater => B advances; the walk ends when either side is exhausted, else the keys of the new heads are compared next" timeout=300 replay=sort_stable
     #[kani::proof]
     #[kani::unwind(8)]
     fn set_inter_1_3_at_0_2_less() { two_pointer_at(W::Inter, 1, 3, 0, 2, ord_of(0)); }
-    //@harness props=C17,C01 quickfor=C17 strength=bounded tier=thorough bound="ONE execution: sets of 1 and 3 elements, positions (0, 2), comparison outcome equal (the instances of this family enumerate every position and outcome for these sizes)" clause="setInter step: equal keys => the element of A is emitted and both sides advance; less => A advances; greater => B advances; the walk ends when either side is exhausted, else the keys of the new heads are compared next" timeout=300
+    //@harness props=C17,C01 quickfor=C17 strength=bounded tier=thorough bound="ONE execution: sets of 1 and 3 elements, positions (0, 2), comparison outcome equal (the instances of this family enumerate every position and outcome for these sizes)" clause="setInter step: equal keys => the element of A is emitted and both sides advance; less => A advances; greater => B advances; the walk ends when either side is exhausted, else the keys of the new heads are compared next" timeout=300 replay=sort_stable
     #[kani::proof]
     #[kani::unwind(8)]
     fn set_inter_1_3_at_0_2_equal() { two_pointer_at(W::Inter, 1, 3, 0, 2, ord_of(1)); }
-    //@harness props=C17,C01 quickfor=C17 strength=bounded tier=thorough bound="ONE execution: sets of 1 and 3 elements, positions (0, 2), comparison outcome greater (the instances of this family enumerate every position and outcome for these sizes)" clause="setInter step: equal keys => the element of A is emitted and both sides advance; less => A advances; greater => B advances; the walk ends when either side is exhausted, else the keys of the new heads are compared next" timeout=300
+    //@harness props=C17,C01 quickfor=C17 strength=bounded tier=thorough bound="ONE execution: sets of 1 and 3 elements, positions (0, 2), comparison outcome greater (the instances of this family enumerate every position and outcome for these sizes)" clause="setInter step: equal keys => the element of A is emitted and both sides advance; less => A advances; greater => B advances; the walk ends when either side is exhausted, else the keys of the new heads are compared next" timeout=300 replay=sort_stable
     #[kani::proof]
     #[kani::unwind(8)]
     fn set_inter_1_3_at_0_2_greater() { two_pointer_at(W::Inter, 1, 3, 0, 2, ord_of(2)); }
-    //@harness props=C17,C01 quickfor=C17 strength=bounded tier=thorough bound="ONE execution: sets of 3 and 1 elements, positions (0, 0), comparison outcome less (the instances of this family enumerate every position and outcome for these sizes)" clause="setInter step: equal keys => the element of A is emitted and both sides advance; less => A advances; greater => B advances; the walk ends when either side is exhausted, else the keys of the new heads are compared next" timeout=300
+    //@harness props=C17,C01 quickfor=C17 strength=bounded tier=thorough bound="ONE execution: sets of 3 and 1 elements, positions (0, 0), comparison outcome less (the instances of this family enumerate every position and outcome for these sizes)" clause="setInter step: equal keys => the element of A is emitted and both sides advance; less => A advances; greater => B advances; the walk ends when either side is exhausted, else the keys of the new heads are compared next" timeout=300 replay=sort_stable
     #[kani::proof]
     #[kani::unwind(8)]
     fn set_inter_3_1_at_0_0_less() { two_pointer_at(W::Inter, 3, 1, 0, 0, ord_of(0)); }
-    //@harness props=C17,C01 quickfor=C17 strength=bounded tier=thorough bound="ONE execution: sets of 3 and 1 elements, positions (0, 0), comparison outcome equal (the instances of this family enumerate every position and outcome for these sizes)" clause="setInter step: equal keys => the element of A is emitted and both sides advance; less => A advances; greater => B advances; the walk ends when either side is exhausted, else the keys of the new heads are compared next" timeout=300
+    //@harness props=C17,C01 quickfor=C17 strength=bounded tier=thorough bound="ONE execution: sets of 3 and 1 elements, positions (0, 0), comparison outcome equal (the instances of this family enumerate every position and outcome for these sizes)" clause="setInter step: equal keys => the element of A is emitted and both sides advance; less => A advances; greater => B advances; the walk ends when either side is exhausted, else the keys of the new heads are compared next" timeout=300 replay=sort_stable
     #[kani::proof]
     #[kani::unwind(8)]
     fn set_inter_3_1_at_0_0_equal() { two_pointer_at(W::Inter, 3, 1, 0, 0, ord_of(1)); }
-    //@harness props=C17,C01 quickfor=C17 strength=bounded tier=thorough bound="ONE execution: sets of 3 and 1 elements, positions (0, 0), comparison outcome greater (the instances of this family enumerate every position and outcome for these sizes)" clause="setInter step: equal keys => the element of A is emitted and both sides advance; less => A advances; greater => B advances; the walk ends when either side is exhausted, else the keys of the new heads are compared next" timeout=300
+    //@harness props=C17,C01 quickfor=C17 strength=bounded tier=thorough bound="ONE execution: sets of 3 and 1 elements, positions (0, 0), comparison outcome greater (the instances of this family enumerate every position and outcome for these sizes)" clause="setInter step: equal keys => the element of A is emitted and both sides advance; less => A advances; greater => B advances; the walk ends when either side is exhausted, else the keys of the new heads are compared next" timeout=300 replay=sort_stable
     #[kani::proof]
     #[kani::unwind(8)]
     fn set_inter_3_1_at_0_0_greater() { two_pointer_at(W::Inter, 3, 1, 0, 0, ord_of(2)); }
-    //@harness props=C17,C01 quickfor=C17 strength=bounded tier=thorough bound="ONE execution: sets of 3 and 1 elements, positions (1, 0), comparison outcome less (the instances of this family enumerate every position and outcome for these sizes)" clause="setInter step: equal keys => the element of A is emitted and both sides advance; less => A advances; greater => B advances; the walk ends when either side is exhausted, else the keys of the new heads are compared next" timeout=300
+    //@harness props=C17,C01 quickfor=C17 strength=bounded tier=thorough bound="ONE execution: sets of 3 and 1 elements, positions (1, 0), comparison outcome less (the instances of this family enumerate every position and outcome for these sizes)" clause="setInter step: equal keys => the element of A is emitted and both sides advance; less => A advances; greater => B advances; the walk ends when either side is exhausted, else the keys of the new heads are compared next" timeout=300 replay=sort_stable
     #[kani::proof]
     #[kani::unwind(8)]
     fn set_inter_3_1_at_1_0_less() { two_pointer_at(W::Inter, 3, 1, 1, 0, ord_of(0)); }
-    //@harness props=C17,C01 quickfor=C17 strength=bounded tier=thorough bound="ONE execution: sets of 3 and 1 elements, positions (1, 0), comparison outcome equal (the instances of this family enumerate every position and outcome for these sizes)" clause="setInter step: equal keys => the element of A is emitted and both sides advance; less => A advances; greater => B advances; the walk ends when either side is exhausted, else the keys of the new heads are compared next" timeout=300
+    //@harness props=C17,C01 quickfor=C17 strength=bounded tier=thorough bound="ONE execution: sets of 3 and 1 elements, positions (1, 0), comparison outcome equal (the instances of this family enumerate every position and outcome for these sizes)" clause="setInter step: equal keys => the element of A is emitted and both sides advance; less => A advances; greater => B advances; the walk ends when either side is exhausted, else the keys of the new heads are compared next" timeout=300 replay=sort_stable
     #[kani::proof]
     #[kani::unwind(8)]
     fn set_inter_3_1_at_1_0_equal() { two_pointer_at(W::Inter, 3, 1, 1, 0, ord_of(1)); }
-    //@harness props=C17,C01 quickfor=C17 strength=bounded tier=thorough bound="ONE execution: sets of 3 and 1 elements, positions (1, 0), comparison outcome greater (the instances of this family enumerate every position and outcome for these sizes)" clause="setInter step: equal keys => the element of A is emitted and both sides advance; less => A advances; greater => B advances; the walk ends when either side is exhausted, else the keys of the new heads are compared next" timeout=300
+    //@harness props=C17,C01 quickfor=C17 strength=bounded tier=thorough bound="ONE execution: sets of 3 and 1 elements, positions (1, 0), comparison outcome greater (the instances of this family enumerate every position and outcome for these sizes)" clause="setInter step: equal keys => the element of A is emitted and both sides advance; less => A advances; greater => B advances; the walk ends when either side is exhausted, else the keys of the new heads are compared next" timeout=300 replay=sort_stable
     #[kani::proof]
     #[kani::unwind(8)]
     fn set_inter_3_1_at_1_0_greater() { two_pointer_at(W::Inter, 3, 1, 1, 0, ord_of(2)); }
-    //@harness props=C17,C01 quickfor=C17 strength=bounded tier=thorough bound="ONE execution: sets of 3 and 1 elements, positions (2, 0), comparison outcome less (the instances of this family enumerate every position and outcome for these sizes)" clause="setInter step: equal keys => the element of A is emitted and both sides advance; less => A advances; greater => B advances; the walk ends when either side is exhausted, else the keys of the new heads are compared next" timeout=300
+    //@harness props=C17,C01 quickfor=C17 strength=bounded tier=thorough bound="ONE execution: sets of 3 and 1 elements, positions (2, 0), comparison outcome less (the instances of this family enumerate every position and outcome for these sizes)" clause="setInter step: equal keys => the element of A is emitted and both sides advance; less => A advances; greater => B advances; the walk ends when either side is exhausted, else the keys of the new heads are compared next" timeout=300 replay=sort_stable
     #[kani::proof]
     #[kani::unwind(8)]
     fn set_inter_3_1_at_2_0_less() { two_pointer_at(W::Inter, 3, 1, 2, 0, ord_of(0)); }
-    //@harness props=C17,C01 quickfor=C17 strength=bounded tier=thorough bound="ONE execution: sets of 3 and 1 elements, positions (2, 0), comparison outcome equal (the instances of this family enumerate every position and outcome for these sizes)" clause="setInter step: equal keys => the element of A is emitted and both sides advance; less => A advances; greater => B advances; the walk ends when either side is exhausted, else the keys of the new heads are compared next" timeout=300
+    //@harness props=C17,C01 quickfor=C17 strength=bounded tier=thorough bound="ONE execution: sets of 3 and 1 elements, positions (2, 0), comparison outcome equal (the instances of this family enumerate every position and outcome for these sizes)" clause="setInter step: equal keys => the element of A is emitted and both sides advance; less => A advances; greater => B advances; the walk ends when either side is exhausted, else the keys of the new heads are compared next" timeout=300 replay=sort_stable
     #[kani::proof]
     #[kani::unwind(8)]
     fn set_inter_3_1_at_2_0_equal() { two_pointer_at(W::Inter, 3, 1, 2, 0, ord_of(1)); }
-    //@harness props=C17,C01 quickfor=C17 strength=bounded tier=thorough bound="ONE execution: sets of 3 and 1 elements, positions (2, 0), comparison outcome greater (the instances of this family enumerate every position and outcome for these sizes)" clause="setInter step: equal keys => the element of A is emitted and both sides advance; less => A advances; greater => B advances; the walk ends when either side is exhausted, else the keys of the new heads are compared next" timeout=300
+    //@harness props=C17,C01 quickfor=C17 strength=bounded tier=thorough bound="ONE execution: sets of 3 and 1 elements, positions (2, 0), comparison outcome greater (the instances of this family enumerate every position and outcome for these sizes)" clause="setInter step: equal keys => the element of A is emitted and both sides advance; less => A advances; greater => B advances; the walk ends when either side is exhausted, else the keys of the new heads are compared next" timeout=300 replay=sort_stable
     #[kani::proof]
     #[kani::unwind(8)]
     fn set_inter_3_1_at_2_0_greater() { two_pointer_at(W::Inter, 3, 1, 2, 0, ord_of(2)); }
-    //@harness props=C17,C01 quickfor=C17 strength=bounded bound="ONE execution: sets of 2 and 2 elements, positions (0, 0), comparison outcome less (the instances of this family enumerate every position and outcome for these sizes)" clause="setUnion step: less => A's element emitted; equal => A's element emitted once, both advance; greater => B's element emitted; when one side is exhausted the rest of the other is appended in order" timeout=300
+    //@harness props=C17,C01 quickfor=C17 strength=bounded bound="ONE execution: sets of 2 and 2 elements, positions (0, 0), comparison outcome less (the instances of this family enumerate every position and outcome for these sizes)" clause="setUnion step: less => A's element emitted; equal => A's element emitted once, both advance; greater => B's element emitted; when one side is exhausted the rest of the other is appended in order" timeout=300 replay=sort_stable
     #[kani::proof]
     #[kani::unwind(8)]
     fn set_union_2_2_at_0_0_less() { two_pointer_at(W::Union, 2, 2, 0, 0, ord_of(0)); }
-    //@harness props=C17,C01 quickfor=C17 strength=bounded bound="ONE execution: sets of 2 and 2 elements, positions (0, 0), comparison outcome equal (the instances of this family enumerate every position and outcome for these sizes)" clause="setUnion step: less => A's element emitted; equal => A's element emitted once, both advance; greater => B's element emitted; when one side is exhausted the rest of the other is appended in order" timeout=300
+    //@harness props=C17,C01 quickfor=C17 strength=bounded bound="ONE execution: sets of 2 and 2 elements, positions (0, 0), comparison outcome equal (the instances of this family enumerate every position and outcome for these sizes)" clause="setUnion step: less => A's element emitted; equal => A's element emitted once, both advance; greater => B's element emitted; when one side is exhausted the rest of the other is appended in order" timeout=300 replay=sort_stable
     #[kani::proof]
     #[kani::unwind(8)]
     fn set_union_2_2_at_0_0_equal() { two_pointer_at(W::Union, 2, 2, 0, 0, ord_of(1)); }
-    //@harness props=C17,C01 quickfor=C17 strength=bounded bound="ONE execution: sets of 2 and 2 elements, positions (0, 0), comparison outcome greater (the instances of this family enumerate every position and outcome for these sizes)" clause="setUnion step: less => A's element emitted; equal => A's element emitted once, both advance; greater => B's element emitted; when one side is exhausted the rest of the other is appended in order" timeout=300
+    //@harness props=C17,C01 quickfor=C17 strength=bounded bound="ONE execution: sets of 2 and 2 elements, positions (0, 0), comparison outcome greater (the instances of this family enumerate every position and outcome for these sizes)" clause="setUnion step: less => A's element emitted; equal => A's element emitted once, both advance; greater => B's element emitted; when one side is exhausted the rest of the other is appended in order" timeout=300 replay=sort_stable
     #[kani::proof]
     #[kani::unwind(8)]
     fn set_union_2_2_at_0_0_greater() { two_pointer_at(W::Union, 2, 2, 0, 0, ord_of(2)); }
-    //@harness props=C17,C01 quickfor=C17 strength=bounded bound="ONE execution: sets of 2 and 2 elements, positions (0, 1), comparison outcome less (the instances of this family enumerate every position and outcome for these sizes)" clause="setUnion step: less => A's element emitted; equal => A's element emitted once, both advance; greater => B's element emitted; when one side is exhausted the rest of the other is appended in order" timeout=300
+    //@harness props=C17,C01 quickfor=C17 strength=bounded bound="ONE execution: sets of 2 and 2 elements, positions (0, 1), comparison outcome less (the instances of this family enumerate every position and outcome for these sizes)" clause="setUnion step: less => A's element emitted; equal => A's element emitted once, both advance; greater => B's element emitted; when one side is exhausted the rest of the other is appended in order" timeout=300 replay=sort_stable
     #[kani::proof]
     #[kani::unwind(8)]
     fn set_union_2_2_at_0_1_less() { two_pointer_at(W::Union, 2, 2, 0, 1, ord_of(0)); }
-    //@harness props=C17,C01 quickfor=C17 strength=bounded bound="ONE execution: sets of 2 and 2 elements, positions (0, 1), comparison outcome equal (the instances of this family enumerate every position and outcome for these sizes)" clause="setUnion step: less => A's element emitted; equal => A's element emitted once, both advance; greater => B's element emitted; when one side is exhausted the rest of the other is appended in order" timeout=300
+    //@harness props=C17,C01 quickfor=C17 strength=bounded bound="ONE execution: sets of 2 and 2 elements, positions (0, 1), comparison outcome equal (the instances of this family enumerate every position and outcome for these sizes)" clause="setUnion step: less => A's element emitted; equal => A's element emitted once, both advance; greater => B's element emitted; when one side is exhausted the rest of the other is appended in order" timeout=300 replay=sort_stable
     #[kani::proof]
     #[kani::unwind(8)]
     fn set_union_2_2_at_0_1_equal() { two_pointer_at(W::Union, 2, 2, 0, 1, ord_of(1)); }
-    //@harness props=C17,C01 quickfor=C17 strength=bounded bound="ONE execution: sets of 2 and 2 elements, positions (0, 1), comparison outcome greater (the instances of this family enumerate every position and outcome for these sizes)" clause="setUnion step: less => A's element emitted; equal => A's element emitted once, both advance; greater => B's element emitted; when one side is exhausted the rest of the other is appended in order" timeout=300
+    //@harness props=C17,C01 quickfor=C17 strength=bounded bound="ONE execution: sets of 2 and 2 elements, positions (0, 1), comparison outcome greater (the instances of this family enumerate every position and outcome for these sizes)" clause="setUnion step: less => A's element emitted; equal => A's element emitted once, both advance; greater => B's element emitted; when one side is exhausted the rest of the other is appended in order" timeout=300 replay=sort_stable
     #[kani::proof]
     #[kani::unwind(8)]
     fn set_union_2_2_at_0_1_greater() { two_pointer_at(W::Union, 2, 2, 0, 1, ord_of(2)); }
-    //@harness props=C17,C01 quickfor=C17 strength=bounded bound="ONE execution: sets of 2 and 2 elements, positions (1, 0), comparison outcome less (the instances of this family enumerate every position and outcome for these sizes)" clause="setUnion step: less => A's element emitted; equal => A's element emitted once, both advance; greater => B's element emitted; when one side is exhausted the rest of the other is appended in order" timeout=300
+    //@harness props=C17,C01 quickfor=C17 strength=bounded bound="ONE execution: sets of 2 and 2 elements, positions (1, 0), comparison outcome less (the instances of this family enumerate every position and outcome for these sizes)" clause="setUnion step: less => A's element emitted; equal => A's element emitted once, both advance; greater => B's element emitted; when one side is exhausted the rest of the other is appended in order" timeout=300 replay=sort_stable
     #[kani::proof]
     #[kani::unwind(8)]
     fn set_union_2_2_at_1_0_less() { two_pointer_at(W::Union, 2, 2, 1, 0, ord_of(0)); }
-    //@harness props=C17,C01 quickfor=C17 strength=bounded bound="ONE execution: sets of 2 and 2 elements, positions (1, 0), comparison outcome equal (the instances of this family enumerate every position and outcome for these sizes)" clause="setUnion step: less => A's element emitted; equal => A's element emitted once, both advance; greater => B's element emitted; when one side is exhausted the rest of the other is appended in order" timeout=300
+    //@harness props=C17,C01 quickfor=C17 strength=bounded bound="ONE execution: sets of 2 and 2 elements, positions (1, 0), comparison outcome equal (the instances of this family enumerate every position and outcome for these sizes)" clause="setUnion step: less => A's element emitted; equal => A's element emitted once, both advance; greater => B's element emitted; when one side is exhausted the rest of the other is appended in order" timeout=300 replay=sort_stable
     #[kani::proof]
     #[kani::unwind(8)]
     fn set_union_2_2_at_1_0_equal() { two_pointer_at(W::Union, 2, 2, 1, 0, ord_of(1)); }
-    //@harness props=C17,C01 quickfor=C17 strength=bounded bound="ONE execution: sets of 2 and 2 elements, positions (1, 0), comparison outcome greater (the instances of this family enumerate every position and outcome for these sizes)" clause="setUnion step: less => A's element emitted; equal => A's element emitted once, both advance; greater => B's element emitted; when one side is exhausted the rest of the other is appended in order" timeout=300
+    //@harness props=C17,C01 quickfor=C17 strength=bounded bound="ONE execution: sets of 2 and 2 elements, positions (1, 0), comparison outcome greater (the instances of this family enumerate every position and outcome for these sizes)" clause="setUnion step: less => A's element emitted; equal => A's element emitted once, both advance; greater => B's element emitted; when one side is exhausted the rest of the other is appended in order" timeout=300 replay=sort_stable
     #[kani::proof]
     #[kani::unwind(8)]
     fn set_union_2_2_at_1_0_greater() { two_pointer_at(W::Union, 2, 2, 1, 0, ord_of(2)); }
-    //@harness props=C17,C01 quickfor=C17 strength=bounded bound="ONE execution: sets of 2 and 2 elements, positions (1, 1), comparison outcome less (the instances of this family enumerate every position and outcome for these sizes)" clause="setUnion step: less => A's element emitted; equal => A's element emitted once, both advance; greater => B's element emitted; when one side is exhausted the rest of the other is appended in order" timeout=300
+    //@harness props=C17,C01 quickfor=C17 strength=bounded bound="ONE execution: sets of 2 and 2 elements, positions (1, 1), comparison outcome less (the instances of this family enumerate every position and outcome for these sizes)" clause="setUnion step: less => A's element emitted; equal => A's element emitted once, both advance; greater => B's element emitted; when one side is exhausted the rest of the other is appended in order" timeout=300 replay=sort_stable
     #[kani::proof]
     #[kani::unwind(8)]
     fn set_union_2_2_at_1_1_less() { two_pointer_at(W::Union, 2, 2, 1, 1, ord_of(0)); }
-    //@harness props=C17,C01 quickfor=C17 strength=bounded bound="ONE execution: sets of 2 and 2 elements, positions (1, 1), comparison outcome equal (the instances of this family enumerate every position and outcome for these sizes)" clause="setUnion step: less => A's element emitted; equal => A's element emitted once, both advance; greater => B's element emitted; when one side is exhausted the rest of the other is appended in order" timeout=300
+    //@harness props=C17,C01 quickfor=C17 strength=bounded bound="ONE execution: sets of 2 and 2 elements, positions (1, 1), comparison outcome equal (the instances of this family enumerate every position and outcome for these sizes)" clause="setUnion step: less => A's element emitted; equal => A's element emitted once, both advance; greater => B's element emitted; when one side is exhausted the rest of the other is appended in order" timeout=300 replay=sort_stable
     #[kani::proof]
     #[kani::unwind(8)]
     fn set_union_2_2_at_1_1_equal() { two_pointer_at(W::Union, 2, 2, 1, 1, ord_of(1)); }
-    //@harness props=C17,C01 quickfor=C17 strength=bounded bound="ONE execution: sets of 2 and 2 elements, positions (1, 1), comparison outcome greater (the instances of this family enumerate every position and outcome for these sizes)" clause="setUnion step: less => A's element emitted; equal => A's element emitted once, both advance; greater => B's element emitted; when one side is exhausted the rest of the other is appended in order" timeout=300
+    //@harness props=C17,C01 quickfor=C17 strength=bounded bound="ONE execution: sets of 2 and 2 elements, positions (1, 1), comparison outcome greater (the instances of this family enumerate every position and outcome for these sizes)" clause="setUnion step: less => A's element emitted; equal => A's element emitted once, both advance; greater => B's element emitted; when one side is exhausted the rest of the other is appended in order" timeout=300 replay=sort_stable
     #[kani::proof]
     #[kani::unwind(8)]
     fn set_union_2_2_at_1_1_greater() { two_pointer_at(W::Union, 2, 2, 1, 1, ord_of(2)); }
-    //@harness props=C17,C01 quickfor=C17 strength=bounded tier=thorough bound="ONE execution: sets of 1 and 2 elements, positions (0, 0), comparison outcome less (the instances of this family enumerate every position and outcome for these sizes)" clause="setUnion step: less => A's element emitted; equal => A's element emitted once, both advance; greater => B's element emitted; when one side is exhausted the rest of the other is appended in order" timeout=300
+    //@harness props=C17,C01 quickfor=C17 strength=bounded tier=thorough bound="ONE execution: sets of 1 and 2 elements, positions (0, 0), comparison outcome less (the instances of this family enumerate every position and outcome for these sizes)" clause="setUnion step: less => A's element emitted; equal => A's element emitted once, both advance; greater => B's element emitted; when one side is exhausted the rest of the other is appended in order" timeout=300 replay=sort_stable
     #[kani::proof]
     #[kani::unwind(8)]
     fn set_union_1_2_at_0_0_less() { two_pointer_at(W::Union, 1, 2, 0, 0, ord_of(0)); }
-    //@harness props=C17,C01 quickfor=C17 strength=bounded tier=thorough bound="ONE execution: sets of 1 and 2 elements, positions (0, 0), comparison outcome equal (the instances of this family enumerate every position and outcome for these sizes)" clause="setUnion step: less => A's element emitted; equal => A's element emitted once, both advance; greater => B's element emitted; when one side is exhausted the rest of the other is appended in order" timeout=300
+    //@harness props=C17,C01 quickfor=C17 strength=bounded tier=thorough bound="ONE execution: sets of 1 and 2 elements, positions (0, 0), comparison outcome equal (the instances of this family enumerate every position and outcome for these sizes)" clause="setUnion step: less => A's element emitted; equal => A's element emitted once, both advance; greater => B's element emitted; when one side is exhausted the rest of the other is appended in order" timeout=300 replay=sort_stable
     #[kani::proof]
     #[kani::unwind(8)]
     fn set_union_1_2_at_0_0_equal() { two_pointer_at(W::Union, 1, 2, 0, 0, ord_of(1)); }
-    //@harness props=C17,C01 quickfor=C17 strength=bounded tier=thorough bound="ONE execution: sets of 1 and 2 elements, positions (0, 0), comparison outcome greater (the instances of this family enumerate every position and outcome for these sizes)" clause="setUnion step: less => A's element emitted; equal => A's element emitted once, both advance; greater => B's element emitted; when one side is exhausted the rest of the other is appended in order" timeout=300
+    //@harness props=C17,C01 quickfor=C17 strength=bounded tier=thorough bound="ONE execution: sets of 1 and 2 elements, positions (0, 0), comparison outcome greater (the instances of this family enumerate every position and outcome for these sizes)" clause="setUnion step: less => A's element emitted; equal => A's element emitted once, both advance; greater => B's element emitted; when one side is exhausted the rest of the other is appended in order" timeout=300 replay=sort_stable
     #[kani::proof]
     #[kani::unwind(8)]
     fn set_union_1_2_at_0_0_greater() { two_pointer_at(W::Union, 1, 2, 0, 0, ord_of(2)); }
-    //@harness props=C17,C01 quickfor=C17 strength=bounded tier=thorough bound="ONE execution: sets of 1 and 2 elements, positions (0, 1), comparison outcome less (the instances of this family enumerate every position and outcome for these sizes)" clause="setUnion step: less => A's element emitted; equal => A's element emitted once, both advance; greater => B's element emitted; when one side is exhausted the rest of the other is appended in order" timeout=300
+    //@harness props=C17,C01 quickfor=C17 strength=bounded tier=thorough bound="ONE execution: sets of 1 and 2 elements, positions (0, 1), comparison outcome less (the instances of this family enumerate every position and outcome for these sizes)" clause="setUnion step: less => A's element emitted; equal => A's element emitted once, both advance; greater => B's element emitted; when one side is exhausted the rest of the other is appended in order" timeout=300 replay=sort_stable
     #[kani::proof]
     #[kani::unwind(8)]
     fn set_union_1_2_at_0_1_less() { two_pointer_at(W::Union, 1, 2, 0, 1, ord_of(0)); }
-    //@harness props=C17,C01 quickfor=C17 strength=bounded tier=thorough bound="ONE execution: sets of 1 and 2 elements, positions (0, 1), comparison outcome equal (the instances of this family enumerate every position and outcome for these sizes)" clause="setUnion step: less => A's element emitted; equal => A's element emitted once, both advance; greater => B's element emitted; when one side is exhausted the rest of the other is appended in order" timeout=300
+    //@harness props=C17,C01 quickfor=C17 strength=bounded tier=thorough bound="ONE execution: sets of 1 and 2 elements, positions (0, 1), comparison outcome equal (the instances of this family enumerate every position and outcome for these sizes)" clause="setUnion step: less => A's element emitted; equal => A's element emitted once, both advance; greater => B's element emitted; when one side is exhausted the rest of the other is appended in order" timeout=300 replay=sort_stable
     #[kani::proof]
     #[kani::unwind(8)]
     fn set_union_1_2_at_0_1_equal() { two_pointer_at(W::Union, 1, 2, 0, 1, ord_of(1)); }
-    //@harness props=C17,C01 quickfor=C17 strength=bounded tier=thorough bound="ONE execution: sets of 1 and 2 elements, positions (0, 1), comparison outcome greater (the instances of this family enumerate every position and outcome for these sizes)" clause="setUnion step: less => A's element emitted; equal => A's element emitted once, both advance; greater => B's element emitted; when one side is exhausted the rest of the other is appended in order" timeout=300
+    //@harness props=C17,C01 quickfor=C17 strength=bounded tier=thorough bound="ONE execution: sets of 1 and 2 elements, positions (0, 1), comparison outcome greater (the instances of this family enumerate every position and outcome for these sizes)" clause="setUnion step: less => A's element emitted; equal => A's element emitted once, both advance; greater => B's element emitted; when one side is exhausted the rest of the other is appended in order" timeout=300 replay=sort_stable
     #[kani::proof]
     #[kani::unwind(8)]
     fn set_union_1_2_at_0_1_greater() { two_pointer_at(W::Union, 1, 2, 0, 1, ord_of(2)); }
-    //@harness props=C17,C01 quickfor=C17 strength=bounded tier=thorough bound="ONE execution: sets of 2 and 1 elements, positions (0, 0), comparison outcome less (the instances of this family enumerate every position and outcome for these sizes)" clause="setUnion step: less => A's element emitted; equal => A's element emitted once, both advance; greater => B's element emitted; when one side is exhausted the rest of the other is appended in order" timeout=300
+    //@harness props=C17,C01 quickfor=C17 strength=bounded tier=thorough bound="ONE execution: sets of 2 and 1 elements, positions (0, 0), comparison outcome less (the instances of this family enumerate every position and outcome for these sizes)" clause="setUnion step: less => A's element emitted; equal => A's element emitted once, both advance; greater => B's element emitted; when one side is exhausted the rest of the other is appended in order" timeout=300 replay=sort_stable
     #[kani::proof]
     #[kani::unwind(8)]
     fn set_union_2_1_at_0_0_less() { two_pointer_at(W::Union, 2, 1, 0, 0, ord_of(0)); }
-    //@harness props=C17,C01 quickfor=C17 strength=bounded tier=thorough bound="ONE execution: sets of 2 and 1 elements, positions (0, 0), comparison outcome equal (the instances of this family enumerate every position and outcome for these sizes)" clause="setUnion step: less => A's element emitted; equal => A's element emitted once, both advance; greater => B's element emitted; when one side is exhausted the rest of the other is appended in order" timeout=300
+    //@harness props=C17,C01 quickfor=C17 strength=bounded tier=thorough bound="ONE execution: sets of 2 and 1 elements, positions (0, 0), comparison outcome equal (the instances of this family enumerate every position and outcome for these sizes)" clause="setUnion step: less => A's element emitted; equal => A's element emitted once, both advance; greater => B's element emitted; when one side is exhausted the rest of the other is appended in order" timeout=300 replay=sort_stable
     #[kani::proof]
     #[kani::unwind(8)]
     fn set_union_2_1_at_0_0_equal() { two_pointer_at(W::Union, 2, 1, 0, 0, ord_of(1)); }
-    //@harness props=C17,C01 quickfor=C17 strength=bounded tier=thorough bound="ONE execution: sets of 2 and 1 elements, positions (0, 0), comparison outcome greater (the instances of this family enumerate every position and outcome for these sizes)" clause="setUnion step: less => A's element emitted; equal => A's element emitted once, both advance; greater => B's element emitted; when one side is exhausted the rest of the other is appended in order" timeout=300
+    //@harness props=C17,C01 quickfor=C17 strength=bounded tier=thorough bound="ONE execution: sets of 2 and 1 elements, positions (0, 0), comparison outcome greater (the instances of this family enumerate every position and outcome for these sizes)" clause="setUnion step: less => A's element emitted; equal => A's element emitted once, both advance; greater => B's element emitted; when one side is exhausted the rest of the other is appended in order" timeout=300 replay=sort_stable
     #[kani::proof]
     #[kani::unwind(8)]
     fn set_union_2_1_at_0_0_greater() { two_pointer_at(W::Union, 2, 1, 0, 0, ord_of(2)); }
-    //@harness props=C17,C01 quickfor=C17 strength=bounded tier=thorough bound="ONE execution: sets of 2 and 1 elements, positions (1, 0), comparison outcome less (the instances of this family enumerate every position and outcome for these sizes)" clause="setUnion step: less => A's element emitted; equal => A's element emitted once, both advance; greater => B's element emitted; when one side is exhausted the rest of the other is appended in order" timeout=300
+    //@harness props=C17,C01 quickfor=C17 strength=bounded tier=thorough bound="ONE execution: sets of 2 and 1 elements, positions (1, 0), comparison outcome less (the instances of this family enumerate every position and outcome for these sizes)" clause="setUnion step: less => A's element emitted; equal => A's element emitted once, both advance; greater => B's element emitted; when one side is exhausted the rest of the other is appended in order" timeout=300 replay=sort_stable
     #[kani::proof]
     #[kani::unwind(8)]
     fn set_union_2_1_at_1_0_less() { two_pointer_at(W::Union, 2, 1, 1, 0, ord_of(0)); }
-    //@harness props=C17,C01 quickfor=C17 strength=bounded tier=thorough bound="ONE execution: sets of 2 and 1 elements, positions (1, 0), comparison outcome equal (the instances of this family enumerate every position and outcome for these sizes)" clause="setUnion step: less => A's element emitted; equal => A's element emitted once, both advance; greater => B's element emitted; when one side is exhausted the rest of the other is appended in order" timeout=300
+    //@harness props=C17,C01 quickfor=C17 strength=bounded tier=thorough bound="ONE execution: sets of 2 and 1 elements, positions (1, 0), comparison outcome equal (the instances of this family enumerate every position and outcome for these sizes)" clause="setUnion step: less => A's element emitted; equal => A's element emitted once, both advance; greater => B's element emitted; when one side is exhausted the rest of the other is appended in order" timeout=300 replay=sort_stable
     #[kani::proof]
     #[kani::unwind(8)]
     fn set_union_2_1_at_1_0_equal() { two_pointer_at(W::Union, 2, 1, 1, 0, ord_of(1)); }
-    //@harness props=C17,C01 quickfor=C17 strength=bounded tier=thorough bound="ONE execution: sets of 2 and 1 elements, positions (1, 0), comparison outcome greater (the instances of this family enumerate every position and outcome for these sizes)" clause="setUnion step: less => A's element emitted; equal => A's element emitted once, both advance; greater => B's element emitted; when one side is exhausted the rest of the other is appended in order" timeout=300
+    //@harness props=C17,C01 quickfor=C17 strength=bounded tier=thorough bound="ONE execution: sets of 2 and 1 elements, positions (1, 0), comparison outcome greater (the instances of this family enumerate every position and outcome for these sizes)" clause="setUnion step: less => A's element emitted; equal => A's element emitted once, both advance; greater => B's element emitted; when one side is exhausted the rest of the other is appended in order" timeout=300 replay=sort_stable
     #[kani::proof]
     #[kani::unwind(8)]
     fn set_union_2_1_at_1_0_greater() { two_pointer_at(W::Union, 2, 1, 1, 0, ord_of(2)); }
-    //@harness props=C17,C01 quickfor=C17 strength=bounded tier=thorough bound="ONE execution: sets of 3 and 3 elements, positions (0, 0), comparison outcome less (the instances of this family enumerate every position and outcome for these sizes)" clause="setUnion step: less => A's element emitted; equal => A's element emitted once, both advance; greater => B's element emitted; when one side is exhausted the rest of the other is appended in order" timeout=300
+    //@harness props=C17,C01 quickfor=C17 strength=bounded tier=thorough bound="ONE execution: sets of 3 and 3 elements, positions (0, 0), comparison outcome less (the instances of this family enumerate every position and outcome for these sizes)" clause="setUnion step: less => A's element emitted; equal => A's element emitted once, both advance; greater => B's element emitted; when one side is exhausted the rest of the other is appended in order" timeout=300 replay=sort_stable
     #[kani::proof]
     #[kani::unwind(8)]
     fn set_union_3_3_at_0_0_less() { two_pointer_at(W::Union, 3, 3, 0, 0, ord_of(0)); }
-    //@harness props=C17,C01 quickfor=C17 strength=bounded tier=thorough bound="ONE execution: sets of 3 and 3 elements, positions (0, 0), comparison outcome equal (the instances of this family enumerate every position and outcome for these sizes)" clause="setUnion step: less => A's element emitted; equal => A's element emitted once, both advance; greater => B's element emitted; when one side is exhausted the rest of the other is appended in order" timeout=300
+    //@harness props=C17,C01 quickfor=C17 strength=bounded tier=thorough bound="ONE execution: sets of 3 and 3 elements, positions (0, 0), comparison outcome equal (the instances of this family enumerate every position and outcome for these sizes)" clause="setUnion step: less => A's element emitted; equal => A's element emitted once, both advance; greater => B's element emitted; when one side is exhausted the rest of the other is appended in order" timeout=300 replay=sort_stable
     #[kani::proof]
     #[kani::unwind(8)]
     fn set_union_3_3_at_0_0_equal() { two_pointer_at(W::Union, 3, 3, 0, 0, ord_of(1)); }
-    //@harness props=C17,C01 quickfor=C17 strength=bounded tier=thorough bound="ONE execution: sets of 3 and 3 elements, positions (0, 0), comparison outcome greater (the instances of this family enumerate every position and outcome for these sizes)" clause="setUnion step: less => A's element emitted; equal => A's element emitted once, both advance; greater => B's element emitted; when one side is exhausted the rest of the other is appended in order" timeout=300
+    //@harness props=C17,C01 quickfor=C17 strength=bounded tier=thorough bound="ONE execution: sets of 3 and 3 elements, positions (0, 0), comparison outcome greater (the instances of this family enumerate every position and outcome for these sizes)" clause="setUnion step: less => A's element emitted; equal => A's element emitted once, both advance; greater => B's element emitted; when one side is exhausted the rest of the other is appended in order" timeout=300 replay=sort_stable
     #[kani::proof]
     #[kani::unwind(8)]
     fn set_union_3_3_at_0_0_greater() { two_pointer_at(W::Union, 3, 3, 0, 0, ord_of(2)); }
-    //@harness props=C17,C01 quickfor=C17 strength=bounded tier=thorough bound="ONE execution: sets of 3 and 3 elements, positions (0, 1), comparison outcome less (the instances of this family enumerate every position and outcome for these sizes)" clause="setUnion step: less => A's element emitted; equal => A's element emitted once, both advance; greater => B's element emitted; when one side is exhausted the rest of the other is appended in order" timeout=300
+    //@harness props=C17,C01 quickfor=C17 strength=bounded tier=thorough bound="ONE execution: sets of 3 and 3 elements, positions (0, 1), comparison outcome less (the instances of this family enumerate every position and outcome for these sizes)" clause="setUnion step: less => A's element emitted; equal => A's element emitted once, both advance; greater => B's element emitted; when one side is exhausted the rest of the other is appended in order" timeout=300 replay=sort_stable
     #[kani::proof]
     #[kani::unwind(8)]
     fn set_union_3_3_at_0_1_less() { two_pointer_at(W::Union, 3, 3, 0, 1, ord_of(0)); }
-    //@harness props=C17,C01 quickfor=C17 strength=bounded tier=thorough bound="ONE execution: sets of 3 and 3 elements, positions (0, 1), comparison outcome equal (the instances of this family enumerate every position and outcome for these sizes)" clause="setUnion step: less => A's element emitted; equal => A's element emitted once, both advance; greater => B's element emitted; when one side is exhausted the rest of the other is appended in order" timeout=300
+    //@harness props=C17,C01 quickfor=C17 strength=bounded tier=thorough bound="ONE execution: sets of 3 and 3 elements, positions (0, 1), comparison outcome equal (the instances of this family enumerate every position and outcome for these sizes)" clause="setUnion step: less => A's element emitted; equal => A's element emitted once, both advance; greater => B's element emitted; when one side is exhausted the rest of the other is appended in order" timeout=300 replay=sort_stable
     #[kani::proof]
     #[kani::unwind(8)]
     fn set_union_3_3_at_0_1_equal() { two_pointer_at(W::Union, 3, 3, 0, 1, ord_of(1)); }
-    //@harness props=C17,C01 quickfor=C17 strength=bounded tier=thorough bound="ONE execution: sets of 3 and 3 elements, positions (0, 1), comparison outcome greater (the instances of this family enumerate every position and outcome for these sizes)" clause="setUnion step: less => A's element emitted; equal => A's element emitted once, both advance; greater => B's element emitted; when one side is exhausted the rest of the other is appended in order" timeout=300
+    //@harness props=C17,C01 quickfor=C17 strength=bounded tier=thorough bound="ONE execution: sets of 3 and 3 elements, positions (0, 1), comparison outcome greater (the instances of this family enumerate every position and outcome for these sizes)" clause="setUnion step: less => A's element emitted; equal => A's element emitted once, both advance; greater => B's element emitted; when one side is exhausted the rest of the other is appended in order" timeout=300 replay=sort_stable
     #[kani::proof]
     #[kani::unwind(8)]
     fn set_union_3_3_at_0_1_greater() { two_pointer_at(W::Union, 3, 3, 0, 1, ord_of(2)); }
-    //@harness props=C17,C01 quickfor=C17 strength=bounded tier=thorough bound="ONE execution: sets of 3 and 3 elements, positions (0, 2), comparison outcome less (the instances of this family enumerate every position and outcome for these sizes)" clause="setUnion step: less => A's element emitted; equal => A's element emitted once, both advance; greater => B's element emitted; when one side is exhausted the rest of the other is appended in order" timeout=300
+    //@harness props=C17,C01 quickfor=C17 strength=bounded tier=thorough bound="ONE execution: sets of 3 and 3 elements, positions (0, 2), comparison outcome less (the instances of this family enumerate every position and outcome for these sizes)" clause="setUnion step: less => A's element emitted; equal => A's element emitted once, both advance; greater => B's element emitted; when one side is exhausted the rest of the other is appended in order" timeout=300 replay=sort_stable
     #[kani::proof]
     #[kani::unwind(8)]
     fn set_union_3_3_at_0_2_less() { two_pointer_at(W::Union, 3, 3, 0, 2, ord_of(0)); }
-    //@harness props=C17,C01 quickfor=C17 strength=bounded tier=thorough bound="ONE execution: sets of 3 and 3 elements, positions (0, 2), comparison outcome equal (the instances of this family enumerate every position and outcome for these sizes)" clause="setUnion step: less => A's element emitted; equal => A's element emitted once, both advance; greater => B's element emitted; when one side is exhausted the rest of the other is appended in order" timeout=300
+    //@harness props=C17,C01 quickfor=C17 strength=bounded tier=thorough bound="ONE execution: sets of 3 and 3 elements, positions (0, 2), comparison outcome equal (the instances of this family enumerate every position and outcome for these sizes)" clause="setUnion step: less => A's element emitted; equal => A's element emitted once, both advance; greater => B's element emitted; when one side is exhausted the rest of the other is appended in order" timeout=300 replay=sort_stable
     #[kani::proof]
     #[kani::unwind(8)]
     fn set_union_3_3_at_0_2_equal() { two_pointer_at(W::Union, 3, 3, 0, 2, ord_of(1)); }
-    //@harness props=C17,C01 quickfor=C17 strength=bounded tier=thorough bound="ONE execution: sets of 3 and 3 elements, positions (0, 2), comparison outcome greater (the instances of this family enumerate every position and outcome for these sizes)" clause="setUnion step: less => A's element emitted; equal => A's element emitted once, both advance; greater => B's element emitted; when one side is exhausted the rest of the other is appended in order" timeout=300
+    //@harness props=C17,C01 quickfor=C17 strength=bounded tier=thorough bound="ONE execution: sets of 3 and 3 elements, positions (0, 2), comparison outcome greater (the instances of this family enumerate every position and outcome for these sizes)" clause="setUnion step: less => A's element emitted; equal => A's element emitted once, both advance; greater => B's element emitted; when one side is exhausted the rest of the other is appended in order" timeout=300 replay=sort_stable
     #[kani::proof]
     #[kani::unwind(8)]
     fn set_union_3_3_at_0_2_greater() { two_pointer_at(W::Union, 3, 3, 0, 2, ord_of(2)); }
-    //@harness props=C17,C01 quickfor=C17 strength=bounded tier=thorough bound="ONE execution: sets of 3 and 3 elements, positions (1, 0), comparison outcome less (the instances of this family enumerate every position and outcome for these sizes)" clause="setUnion step: less => A's element emitted; equal => A's element emitted once, both advance; greater => B's element emitted; when one side is exhausted the rest of the other is appended in order" timeout=300
+    //@harness props=C17,C01 quickfor=C17 strength=bounded tier=thorough bound="ONE execution: sets of 3 and 3 elements, positions (1, 0), comparison outcome less (the instances of this family enumerate every position and outcome for these sizes)" clause="setUnion step: less => A's element emitted; equal => A's element emitted once, both advance; greater => B's element emitted; when one side is exhausted the rest of the other is appended in order" timeout=300 replay=sort_stable
     #[kani::proof]
     #[kani::unwind(8)]
     fn set_union_3_3_at_1_0_less() { two_pointer_at(W::Union, 3, 3, 1, 0, ord_of(0)); }
-    //@harness props=C17,C01 quickfor=C17 strength=bounded tier=thorough bound="ONE execution: sets of 3 and 3 elements, positions (1, 0), comparison outcome equal (the instances of this family enumerate every position and outcome for these sizes)" clause="setUnion step: less => A's element emitted; equal => A's element emitted once, both advance; greater => B's element emitted; when one side is exhausted the rest of the other is appended in order" timeout=300
+    //@harness props=C17,C01 quickfor=C17 strength=bounded tier=thorough bound="ONE execution: sets of 3 and 3 elements, positions (1, 0), comparison outcome equal (the instances of this family enumerate every position and outcome for these sizes)" clause="setUnion step: less => A's element emitted; equal => A's element emitted once, both advance; greater => B's element emitted; when one side is exhausted the rest of the other is appended in order" timeout=300 replay=sort_stable
     #[kani::proof]
     #[kani::unwind(8)]
     fn set_union_3_3_at_1_0_equal() { two_pointer_at(W::Union, 3, 3, 1, 0, ord_of(1)); }
-    //@harness props=C17,C01 quickfor=C17 strength=bounded tier=thorough bound="ONE execution: sets of 3 and 3 elements, positions (1, 0), comparison outcome greater (the instances of this family enumerate every position and outcome for these sizes)" clause="setUnion step: less => A's element emitted; equal => A's element emitted once, both advance; greater => B's element emitted; when one side is exhausted the rest of the other is appended in order" timeout=300
+    //@harness props=C17,C01 quickfor=C17 strength=bounded tier=thorough bound="ONE execution: sets of 3 and 3 elements, positions (1, 0), comparison outcome greater (the instances of this family enumerate every position and outcome for these sizes)" clause="setUnion step: less => A's element emitted; equal => A's element emitted once, both advance; greater => B's element emitted; when one side is exhausted the rest of the other is appended in order" timeout=300 replay=sort_stable
     #[kani::proof]
     #[kani::unwind(8)]
     fn set_union_3_3_at_1_0_greater() { two_pointer_at(W::Union, 3, 3, 1, 0, ord_of(2)); }
-    //@harness props=C17,C01 quickfor=C17 strength=bounded tier=thorough bound="ONE execution: sets of 3 and 3 elements, positions (1, 1), comparison outcome less (the instances of this family enumerate every position and outcome for these sizes)" clause="setUnion step: less => A's element emitted; equal => A's element emitted once, both advance; greater => B's element emitted; when one side is exhausted the rest of the other is appended in order" timeout=300
+    //@harness props=C17,C01 quickfor=C17 strength=bounded tier=thorough bound="ONE execution: sets of 3 and 3 elements, positions (1, 1), comparison outcome less (the instances of this family enumerate every position and outcome for these sizes)" clause="setUnion step: less => A's element emitted; equal => A's element emitted once, both advance; greater => B's element emitted; when one side is exhausted the rest of the other is appended in order" timeout=300 replay=sort_stable
     #[kani::proof]
     #[kani::unwind(8)]
     fn set_union_3_3_at_1_1_less() { two_pointer_at(W::Union, 3, 3, 1, 1, ord_of(0)); }
-    //@harness props=C17,C01 quickfor=C17 strength=bounded tier=thorough bound="ONE execution: sets of 3 and 3 elements, positions (1, 1), comparison outcome equal (the instances of this family enumerate every position and outcome for these sizes)" clause="setUnion step: less => A's element emitted; equal => A's element emitted once, both advance; greater => B's element emitted; when one side is exhausted the rest of the other is appended in order" timeout=300
+    //@harness props=C17,C01 quickfor=C17 strength=bounded tier=thorough bound="ONE execution: sets of 3 and 3 elements, positions (1, 1), comparison outcome equal (the instances of this family enumerate every position and outcome for these sizes)" clause="setUnion step: less => A's element emitted; equal => A's element emitted once, both advance; greater => B's element emitted; when one side is exhausted the rest of the other is appended in order" timeout=300 replay=sort_stable
     #[kani::proof]
     #[kani::unwind(8)]
     fn set_union_3_3_at_1_1_equal() { two_pointer_at(W::Union, 3, 3, 1, 1, ord_of(1)); }
-    //@harness props=C17,C01 quickfor=C17 strength=bounded tier=thorough bound="ONE execution: sets of 3 and 3 elements, positions (1, 1), comparison outcome greater (the instances of this family enumerate every position and outcome for these sizes)" clause="setUnion step: less => A's element emitted; equal => A's element emitted once, both advance; greater => B's element emitted; when one side is exhausted the rest of the other is appended in order" timeout=300
+    //@harness props=C17,C01 quickfor=C17 strength=bounded tier=thorough bound="ONE execution: sets of 3 and 3 elements, positions (1, 1), comparison outcome greater (the instances of this family enumerate every position and outcome for these sizes)" clause="setUnion step: less => A's element emitted; equal => A's element emitted once, both advance; greater => B's element emitted; when one side is exhausted the rest of the other is appended in order" timeout=300 replay=sort_stable
     #[kani::proof]
     #[kani::unwind(8)]
     fn set_union_3_3_at_1_1_greater() { two_pointer_at(W::Union, 3, 3, 1, 1, ord_of(2)); }
-    //@harness props=C17,C01 quickfor=C17 strength=bounded tier=thorough bound="ONE execution: sets of 3 and 3 elements, positions (1, 2), comparison outcome less (the instances of this family enumerate every position and outcome for these sizes)" clause="setUnion step: less => A's element emitted; equal => A's element emitted once, both advance; greater => B's element emitted; when one side is exhausted the rest of the other is appended in order" timeout=300
+    //@harness props=C17,C01 quickfor=C17 strength=bounded tier=thorough bound="ONE execution: sets of 3 and 3 elements, positions (1, 2), comparison outcome less (the instances of this family enumerate every position and outcome for these sizes)" clause="setUnion step: less => A's element emitted; equal => A's element emitted once, both advance; greater => B's element emitted; when one side is exhausted the rest of the other is appended in order" timeout=300 replay=sort_stable
     #[kani::proof]
     #[kani::unwind(8)]
     fn set_union_3_3_at_1_2_less() { two_pointer_at(W::Union, 3, 3, 1, 2, ord_of(0)); }
-    //@harness props=C17,C01 quickfor=C17 strength=bounded tier=thorough bound="ONE execution: sets of 3 and 3 elements, positions (1, 2), comparison outcome equal (the instances of this family enumerate every position and outcome for these sizes)" clause="setUnion step: less => A's element emitted; equal => A's element emitted once, both advance; greater => B's element emitted; when one side is exhausted the rest of the other is appended in order" timeout=300
+    //@harness props=C17,C01 quickfor=C17 strength=bounded tier=thorough bound="ONE execution: sets of 3 and 3 elements, positions (1, 2), comparison outcome equal (the instances of this family enumerate every position and outcome for these sizes)" clause="setUnion step: less => A's element emitted; equal => A's element emitted once, both advance; greater => B's element emitted; when one side is exhausted the rest of the other is appended in order" timeout=300 replay=sort_stable
     #[kani::proof]
     #[kani::unwind(8)]
     fn set_union_3_3_at_1_2_equal() { two_pointer_at(W::Union, 3, 3, 1, 2, ord_of(1)); }
-    //@harness props=C17,C01 quickfor=C17 strength=bounded tier=thorough bound="ONE execution: sets of 3 and 3 elements, positions (1, 2), comparison outcome greater (the instances of this family enumerate every position and outcome for these sizes)" clause="setUnion step: less => A's element emitted; equal => A's element emitted once, both advance; greater => B's element emitted; when one side is exhausted the rest of the other is appended in order" timeout=300
+    //@harness props=C17,C01 quickfor=C17 strength=bounded tier=thorough bound="ONE execution: sets of 3 and 3 elements, positions (1, 2), comparison outcome greater (the instances of this family enumerate every position and outcome for these sizes)" clause="setUnion step: less => A's element emitted; equal => A's element emitted once, both advance; greater => B's element emitted; when one side is exhausted the rest of the other is appended in order" timeout=300 replay=sort_stable
     #[kani::proof]
     #[kani::unwind(8)]
     fn set_union_3_3_at_1_2_greater() { two_pointer_at(W::Union, 3, 3, 1, 2, ord_of(2)); }
-    //@harness props=C17,C01 quickfor=C17 strength=bounded tier=thorough bound="ONE execution: sets of 3 and 3 elements, positions (2, 0), comparison outcome less (the instances of this family enumerate every position and outcome for these sizes)" clause="setUnion step: less => A's element emitted; equal => A's element emitted once, both advance; greater => B's element emitted; when one side is exhausted the rest of the other is appended in order" timeout=300
+    //@harness props=C17,C01 quickfor=C17 strength=bounded tier=thorough bound="ONE execution: sets of 3 and 3 elements, positions (2, 0), comparison outcome less (the instances of this family enumerate every position and outcome for these sizes)" clause="setUnion step: less => A's element emitted; equal => A's element emitted once, both advance; greater => B's element emitted; when one side is exhausted the rest of the other is appended in order" timeout=300 replay=sort_stable
     #[kani::proof]
     #[kani::unwind(8)]
     fn set_union_3_3_at_2_0_less() { two_pointer_at(W::Union, 3, 3, 2, 0, ord_of(0)); }
-    //@harness props=C17,C01 quickfor=C17 strength=bounded tier=thorough bound="ONE execution: sets of 3 and 3 elements, positions (2, 0), comparison outcome equal (the instances of this family enumerate every position and outcome for these sizes)" clause="setUnion step: less => A's element emitted; equal => A's element emitted once, both advance; greater => B's element emitted; when one side is exhausted the rest of the other is appended in order" timeout=300
+    //@harness props=C17,C01 quickfor=C17 strength=bounded tier=thorough bound="ONE execution: sets of 3 and 3 elements, positions (2, 0), comparison outcome equal (the instances of this family enumerate every position and outcome for these sizes)" clause="setUnion step: less => A's element emitted; equal => A's element emitted once, both advance; greater => B's element emitted; when one side is exhausted the rest of the other is appended in order" timeout=300 replay=sort_stable
     #[kani::proof]
     #[kani::unwind(8)]
     fn set_union_3_3_at_2_0_equal() { two_pointer_at(W::Union, 3, 3, 2, 0, ord_of(1)); }
-    //@harness props=C17,C01 quickfor=C17 strength=bounded tier=thorough bound="ONE execution: sets of 3 and 3 elements, positions (2, 0), comparison outcome greater (the instances of this family enumerate every position and outcome for these sizes)" clause="setUnion step: less => A's element emitted; equal => A's element emitted once, both advance; greater => B's element emitted; when one side is exhausted the rest of the other is appended in order" timeout=300
+    //@harness props=C17,C01 quickfor=C17 strength=bounded tier=thorough bound="ONE execution: sets of 3 and 3 elements, positions (2, 0), comparison outcome greater (the instances of this family enumerate every position and outcome for these sizes)" clause="setUnion step: less => A's element emitted; equal => A's element emitted once, both advance; greater => B's element emitted; when one side is exhausted the rest of the other is appended in order" timeout=300 replay=sort_stable
     #[kani::proof]
     #[kani::unwind(8)]
     fn set_union_3_3_at_2_0_greater() { two_pointer_at(W::Union, 3, 3, 2, 0, ord_of(2)); }
-    //@harness props=C17,C01 quickfor=C17 strength=bounded tier=thorough bound="ONE execution: sets of 3 and 3 elements, positions (2, 1), comparison outcome less (the instances of this family enumerate every position and outcome for these sizes)" clause="setUnion step: less => A's element emitted; equal => A's element emitted once, both advance; greater => B's element emitted; when one side is exhausted the rest of the other is appended in order" timeout=300
+    //@harness props=C17,C01 quickfor=C17 strength=bounded tier=thorough bound="ONE execution: sets of 3 and 3 elements, positions (2, 1), comparison outcome less (the instances of this family enumerate every position and outcome for these sizes)" clause="setUnion step: less => A's element emitted; equal => A's element emitted once, both advance; greater => B's element emitted; when one side is exhausted the rest of the other is appended in order" timeout=300 replay=sort_stable
     #[kani::proof]
     #[kani::unwind(8)]
     fn set_union_3_3_at_2_1_less() { two_pointer_at(W::Union, 3, 3, 2, 1, ord_of(0)); }
-    //@harness props=C17,C01 quickfor=C17 strength=bounded tier=thorough bound="ONE execution: sets of 3 and 3 elements, positions (2, 1), comparison outcome equal (the instances of this family enumerate every position and outcome for these sizes)" clause="setUnion step: less => A's element emitted; equal => A's element emitted once, both advance; greater => B's element emitted; when one side is exhausted the rest of the other is appended in order" timeout=300
+    //@harness props=C17,C01 quickfor=C17 strength=bounded tier=thorough bound="ONE execution: sets of 3 and 3 elements, positions (2, 1), comparison outcome equal (the instances of this family enumerate every position and outcome for these sizes)" clause="setUnion step: less => A's element emitted; equal => A's element emitted once, both advance; greater => B's element emitted; when one side is exhausted the rest of the other is appended in order" timeout=300 replay=sort_stable
     #[kani::proof]
     #[kani::unwind(8)]
     fn set_union_3_3_at_2_1_equal() { two_pointer_at(W::Union, 3, 3, 2, 1, ord_of(1)); }
-    //@harness props=C17,C01 quickfor=C17 strength=bounded tier=thorough bound="ONE execution: sets of 3 and 3 elements, positions (2, 1), comparison outcome greater (the instances of this family enumerate every position and outcome for these sizes)" clause="setUnion step: less => A's element emitted; equal => A's element emitted once, both advance; greater => B's element emitted; when one side is exhausted the rest of the other is appended in order" timeout=300
+    //@harness props=C17,C01 quickfor=C17 strength=bounded tier=thorough bound="ONE execution: sets of 3 and 3 elements, positions (2, 1), comparison outcome greater (the instances of this family enumerate every position and outcome for these sizes)" clause="setUnion step: less => A's element emitted; equal => A's element emitted once, both advance; greater => B's element emitted; when one side is exhausted the rest of the other is appended in order" timeout=300 replay=sort_stable
     #[kani::proof]
     #[kani::unwind(8)]
     fn set_union_3_3_at_2_1_greater() { two_pointer_at(W::Union, 3, 3, 2, 1, ord_of(2)); }
-    //@harness props=C17,C01 quickfor=C17 strength=bounded tier=thorough bound="ONE execution: sets of 3 and 3 elements, positions (2, 2), comparison outcome less (the instances of this family enumerate every position and outcome for these sizes)" clause="setUnion step: less => A's element emitted; equal => A's element emitted once, both advance; greater => B's element emitted; when one side is exhausted the rest of the other is appended in order" timeout=300
+    //@harness props=C17,C01 quickfor=C17 strength=bounded tier=thorough bound="ONE execution: sets of 3 and 3 elements, positions (2, 2), comparison outcome less (the instances of this family enumerate every position and outcome for these sizes)" clause="setUnion step: less => A's element emitted; equal => A's element emitted once, both advance; greater => B's element emitted; when one side is exhausted the rest of the other is appended in order" timeout=300 replay=sort_stable
     #[kani::proof]
     #[kani::unwind(8)]
     fn set_union_3_3_at_2_2_less() { two_pointer_at(W::Union, 3, 3, 2, 2, ord_of(0)); }
-    //@harness props=C17,C01 quickfor=C17 strength=bounded tier=thorough bound="ONE execution: sets of 3 and 3 elements, positions (2, 2), comparison outcome equal (the instances of this family enumerate every position and outcome for these sizes)" clause="setUnion step: less => A's element emitted; equal => A's element emitted once, both advance; greater => B's element emitted; when one side is exhausted the rest of the other is appended in order" timeout=300
+    //@harness props=C17,C01 quickfor=C17 strength=bounded tier=thorough bound="ONE execution: sets of 3 and 3 elements, positions (2, 2), comparison outcome equal (the instances of this family enumerate every position and outcome for these sizes)" clause="setUnion step: less => A's element emitted; equal => A's element emitted once, both advance; greater => B's element emitted; when one side is exhausted the rest of the other is appended in order" timeout=300 replay=sort_stable
     #[kani::proof]
     #[kani::unwind(8)]
     fn set_union_3_3_at_2_2_equal() { two_pointer_at(W::Union, 3, 3, 2, 2, ord_of(1)); }
-    //@harness props=C17,C01 quickfor=C17 strength=bounded tier=thorough bound="ONE execution: sets of 3 and 3 elements, positions (2, 2), comparison outcome greater (the instances of this family enumerate every position and outcome for these sizes)" clause="setUnion step: less => A's element emitted; equal => A's element emitted once, both advance; greater => B's element emitted; when one side is exhausted the rest of the other is appended in order" timeout=300
+    //@harness props=C17,C01 quickfor=C17 strength=bounded tier=thorough bound="ONE execution: sets of 3 and 3 elements, positions (2, 2), comparison outcome greater (the instances of this family enumerate every position and outcome for these sizes)" clause="setUnion step: less => A's element emitted; equal => A's element emitted once, both advance; greater => B's element emitted; when one side is exhausted the rest of the other is appended in order" timeout=300 replay=sort_stable
     #[kani::proof]
     #[kani::unwind(8)]
     fn set_union_3_3_at_2_2_greater() { two_pointer_at(W::Union, 3, 3, 2, 2, ord_of(2)); }
-    //@harness props=C17,C01 quickfor=C17 strength=bounded tier=thorough bound="ONE execution: sets of 1 and 1 elements, positions (0, 0), comparison outcome less (the instances of this family enumerate every position and outcome for these sizes)" clause="setUnion step: less => A's element emitted; equal => A's element emitted once, both advance; greater => B's element emitted; when one side is exhausted the rest of the other is appended in order" timeout=300
+    //@harness props=C17,C01 quickfor=C17 strength=bounded tier=thorough bound="ONE execution: sets of 1 and 1 elements, positions (0, 0), comparison outcome less (the instances of this family enumerate every position and outcome for these sizes)" clause="setUnion step: less => A's element emitted; equal => A's element emitted once, both advance; greater => B's element emitted; when one side is exhausted the rest of the other is appended in order" timeout=300 replay=sort_stable
     #[kani::proof]
     #[kani::unwind(8)]
     fn set_union_1_1_at_0_0_less() { two_pointer_at(W::Union, 1, 1, 0, 0, ord_of(0)); }
-    //@harness props=C17,C01 quickfor=C17 strength=bounded tier=thorough bound="ONE execution: sets of 1 and 1 elements, positions (0, 0), comparison outcome equal (the instances of this family enumerate every position and outcome for these sizes)" clause="setUnion step: less => A's element emitted; equal => A's element emitted once, both advance; greater => B's element emitted; when one side is exhausted the rest of the other is appended in order" timeout=300
+    //@harness props=C17,C01 quickfor=C17 strength=bounded tier=thorough bound="ONE execution: sets of 1 and 1 elements, positions (0, 0), comparison outcome equal (the instances of this family enumerate every position and outcome for these sizes)" clause="setUnion step: less => A's element emitted; equal => A's element emitted once, both advance; greater => B's element emitted; when one side is exhausted the rest of the other is appended in order" timeout=300 replay=sort_stable
     #[kani::proof]
     #[kani::unwind(8)]
     fn set_union_1_1_at_0_0_equal() { two_pointer_at(W::Union, 1, 1, 0, 0, ord_of(1)); }
-    //@harness props=C17,C01 quickfor=C17 strength=bounded tier=thorough bound="ONE execution: sets of 1 and 1 elements, positions (0, 0), comparison outcome greater (the instances of this family enumerate every position and outcome for these sizes)" clause="setUnion step: less => A's element emitted; equal => A's element emitted once, both advance; greater => B's element emitted; when one side is exhausted the rest of the other is appended in order" timeout=300
+    //@harness props=C17,C01 quickfor=C17 strength=bounded tier=thorough bound="ONE execution: sets of 1 and 1 elements, positions (0, 0), comparison outcome greater (the instances of this family enumerate every position and outcome for these sizes)" clause="setUnion step: less => A's element emitted; equal => A's element emitted once, both advance; greater => B's element emitted; when one side is exhausted the rest of the other is appended in order" timeout=300 replay=sort_stable
     #[kani::proof]
     #[kani::unwind(8)]
     fn set_union_1_1_at_0_0_greater() { two_pointer_at(W::Union, 1, 1, 0, 0, ord_of(2)); }
-    //@harness props=C17,C01 quickfor=C17 strength=bounded tier=thorough bound="ONE execution: sets of 2 and 3 elements, positions (0, 0), comparison outcome less (the instances of this family enumerate every position and outcome for these sizes)" clause="setUnion step: less => A's element emitted; equal => A's element emitted once, both advance; greater => B's element emitted; when one side is exhausted the rest of the other is appended in order" timeout=300
+    //@harness props=C17,C01 quickfor=C17 strength=bounded tier=thorough bound="ONE execution: sets of 2 and 3 elements, positions (0, 0), comparison outcome less (the instances of this family enumerate every position and outcome for these sizes)" clause="setUnion step: less => A's element emitted; equal => A's element emitted once, both advance; greater => B's element emitted; when one side is exhausted the rest of the other is appended in order" timeout=300 replay=sort_stable
     #[kani::proof]
     #[kani::unwind(8)]
     fn set_union_2_3_at_0_0_less() { two_pointer_at(W::Union, 2, 3, 0, 0, ord_of(0)); }
-    //@harness props=C17,C01 quickfor=C17 strength=bounded tier=thorough bound="ONE execution: sets of 2 and 3 elements, positions (0, 0), comparison outcome equal (the instances of this family enumerate every position and outcome for these sizes)" clause="setUnion step: less => A's element emitted; equal => A's element emitted once, both advance; greater => B's element emitted; when one side is exhausted the rest of the other is appended in order" timeout=300
+    //@harness props=C17,C01 quickfor=C17 strength=bounded tier=thorough bound="ONE execution: sets of 2 and 3 elements, positions (0, 0), comparison outcome equal (the instances of this family enumerate every position and outcome for these sizes)" clause="setUnion step: less => A's element emitted; equal => A's element emitted once, both advance; greater => B's element emitted; when one side is exhausted the rest of the other is appended in order" timeout=300 replay=sort_stable
     #[kani::proof]
     #[kani::unwind(8)]
     fn set_union_2_3_at_0_0_equal() { two_pointer_at(W::Union, 2, 3, 0, 0, ord_of(1)); }
-    //@harness props=C17,C01 quickfor=C17 strength=bounded tier=thorough bound="ONE execution: sets of 2 and 3 elements, positions (0, 0), comparison outcome greater (the instances of this family enumerate every position and outcome for these sizes)" clause="setUnion step: less => A's element emitted; equal => A's element emitted once, both advance; greater => B's element emitted; when one side is exhausted the rest of the other is appended in order" timeout=300
+    //@harness props=C17,C01 quickfor=C17 strength=bounded tier=thorough bound="ONE execution: sets of 2 and 3 elements, positions (0, 0), comparison outcome greater (the instances of this family enumerate every position and outcome for these sizes)" clause="setUnion step: less => A's element emitted; equal => A's element emitted once, both advance; greater => B's element emitted; when one side is exhausted the rest of the other is appended in order" timeout=300 replay=sort_stable
     #[kani::proof]
     #[kani::unwind(8)]
     fn set_union_2_3_at_0_0_greater() { two_pointer_at(W::Union, 2, 3, 0, 0, ord_of(2)); }
-    //@harness props=C17,C01 quickfor=C17 strength=bounded tier=thorough bound="ONE execution: sets of 2 and 3 elements, positions (0, 1), comparison outcome less (the instances of this family enumerate every position and outcome for these sizes)" clause="setUnion step: less => A's element emitted; equal => A's element emitted once, both advance; greater => B's element emitted; when one side is exhausted the rest of the other is appended in order" timeout=300
+    //@harness props=C17,C01 quickfor=C17 strength=bounded tier=thorough bound="ONE execution: sets of 2 and 3 elements, positions (0, 1), comparison outcome less (the instances of this family enumerate every position and outcome for these sizes)" clause="setUnion step: less => A's element emitted; equal => A's element emitted once, both advance; greater => B's element emitted; when one side is exhausted the rest of the other is appended in order" timeout=300 replay=sort_stable
     #[kani::proof]
     #[kani::unwind(8)]
     fn set_union_2_3_at_0_1_less() { two_pointer_at(W::Union, 2, 3, 0, 1, ord_of(0)); }
-    //@harness props=C17,C01 quickfor=C17 strength=bounded tier=thorough bound="ONE execution: sets of 2 and 3 elements, positions (0, 1), comparison outcome equal (the instances of this family enumerate every position and outcome for these sizes)" clause="setUnion step: less => A's element emitted; equal => A's element emitted once, both advance; greater => B's element emitted; when one side is exhausted the rest of the other is appended in order" timeout=300
+    //@harness props=C17,C01 quickfor=C17 strength=bounded tier=thorough bound="ONE execution: sets of 2 and 3 elements, positions (0, 1), comparison outcome equal (the instances of this family enumerate every position and outcome for these sizes)" clause="setUnion step: less => A's element emitted; equal => A's element emitted once, both advance; greater => B's element emitted; when one side is exhausted the rest of the other is appended in order" timeout=300 replay=sort_stable
     #[kani::proof]
     #[kani::unwind(8)]
     fn set_union_2_3_at_0_1_equal() { two_pointer_at(W::Union, 2, 3, 0, 1, ord_of(1)); }
-    //@harness props=C17,C01 quickfor=C17 strength=bounded tier=thorough bound="ONE execution: sets of 2 and 3 elements, positions (0, 1), comparison outcome greater (the instances of this family enumerate every position and outcome for these sizes)" clause="setUnion step: less => A's element emitted; equal => A's element emitted once, both advance; greater => B's element emitted; when one side is exhausted the rest of the other is appended in order" timeout=300
+    //@harness props=C17,C01 quickfor=C17 strength=bounded tier=thorough bound="ONE execution: sets of 2 and 3 elements, positions (0, 1), comparison outcome greater (the instances of this family enumerate every position and outcome for these sizes)" clause="setUnion step: less => A's element emitted; equal => A's element emitted once, both advance; greater => B's element emitted; when one side is exhausted the rest of the other is appended in order" timeout=300 replay=sort_stable
     #[kani::proof]
     #[kani::unwind(8)]
     fn set_union_2_3_at_0_1_greater() { two_pointer_at(W::Union, 2, 3, 0, 1, ord_of(2)); }
-    //@harness props=C17,C01 quickfor=C17 strength=bounded tier=thorough bound="ONE execution: sets of 2 and 3 elements, positions (0, 2), comparison outcome less (the instances of this family enumerate every position and outcome for these sizes)" clause="setUnion step: less => A's element emitted; equal => A's element emitted once, both advance; greater => B's element emitted; when one side is exhausted the rest of the other is appended in order" timeout=300
+    //@harness props=C17,C01 quickfor=C17 strength=bounded tier=thorough bound="ONE execution: sets of 2 and 3 elements, positions (0, 2), comparison outcome less (the instances of this family enumerate every position and outcome for these sizes)" clause="setUnion step: less => A's element emitted; equal => A's element emitted once, both advance; greater => B's element emitted; when one side is exhausted the rest of the other is appended in order" timeout=300 replay=sort_stable
     #[kani::proof]
     #[kani::unwind(8)]
     fn set_union_2_3_at_0_2_less() { two_pointer_at(W::Union, 2, 3, 0, 2, ord_of(0)); }
-    //@harness props=C17,C01 quickfor=C17 strength=bounded tier=thorough bound="ONE execution: sets of 2 and 3 elements, positions (0, 2), comparison outcome equal (the instances of this family enumerate every position and outcome for these sizes)" clause="setUnion step: less => A's element emitted; equal => A's element emitted once, both advance; greater => B's element emitted; when one side is exhausted the rest of the other is appended in order" timeout=300
+    //@harness props=C17,C01 quickfor=C17 strength=bounded tier=thorough bound="ONE execution: sets of 2 and 3 elements, positions (0, 2), comparison outcome equal (the instances of this family enumerate every position and outcome for these sizes)" clause="setUnion step: less => A's element emitted; equal => A's element emitted once, both advance; greater => B's element emitted; when one side is exhausted the rest of the other is appended in order" timeout=300 replay=sort_stable
     #[kani::proof]
     #[kani::unwind(8)]
     fn set_union_2_3_at_0_2_equal() { two_pointer_at(W::Union, 2, 3, 0, 2, ord_of(1)); }
-    //@harness props=C17,C01 quickfor=C17 strength=bounded tier=thorough bound="ONE execution: sets of 2 and 3 elements, positions (0, 2), comparison outcome greater (the instances of this family enumerate every position and outcome for these sizes)" clause="setUnion step: less => A's element emitted; equal => A's element emitted once, both advance; greater => B's element emitted; when one side is exhausted the rest of the other is appended in order" timeout=300
+    //@harness props=C17,C01 quickfor=C17 strength=bounded tier=thorough bound="ONE execution: sets of 2 and 3 elements, positions (0, 2), comparison outcome greater (the instances of this family enumerate every position and outcome for these sizes)" clause="setUnion step: less => A's element emitted; equal => A's element emitted once, both advance; greater => B's element emitted; when one side is exhausted the rest of the other is appended in order" timeout=300 replay=sort_stable
     #[kani::proof]
     #[kani::unwind(8)]
     fn set_union_2_3_at_0_2_greater() { two_pointer_at(W::Union, 2, 3, 0, 2, ord_of(2)); }
-    //@harness props=C17,C01 quickfor=C17 strength=bounded tier=thorough bound="ONE execution: sets of 2 and 3 elements, positions (1, 0), comparison outcome less (the instances of this family enumerate every position and outcome for these sizes)" clause="setUnion step: less => A's element emitted; equal => A's element emitted once, both advance; greater => B's element emitted; when one side is exhausted the rest of the other is appended in order" timeout=300
+    //@harness props=C17,C01 quickfor=C17 strength=bounded tier=thorough bound="ONE execution: sets of 2 and 3 elements, positions (1, 0), comparison outcome less (the instances of this family enumerate every position and outcome for these sizes)" clause="setUnion step: less => A's element emitted; equal => A's element emitted once, both advance; greater => B's element emitted; when one side is exhausted the rest of the other is appended in order" timeout=300 replay=sort_stable
     #[kani::proof]
     #[kani::unwind(8)]
     fn set_union_2_3_at_1_0_less() { two_pointer_at(W::Union, 2, 3, 1, 0, ord_of(0)); }
-    //@harness props=C17,C01 quickfor=C17 strength=bounded tier=thorough bound="ONE execution: sets of 2 and 3 elements, positions (1, 0), comparison outcome equal (the instances of this family enumerate every position and outcome for these sizes)" clause="setUnion step: less => A's element emitted; equal => A's element emitted once, both advance; greater => B's element emitted; when one side is exhausted the rest of the other is appended in order" timeout=300
+    //@harness props=C17,C01 quickfor=C17 strength=bounded tier=thorough bound="ONE execution: sets of 2 and 3 elements, positions (1, 0), comparison outcome equal (the instances of this family enumerate every position and outcome for these sizes)" clause="setUnion step: less => A's element emitted; equal => A's element emitted once, both advance; greater => B's element emitted; when one side is exhausted the rest of the other is appended in order" timeout=300 replay=sort_stable
     #[kani::proof]
     #[kani::unwind(8)]
     fn set_union_2_3_at_1_0_equal() { two_pointer_at(W::Union, 2, 3, 1, 0, ord_of(1)); }
-    //@harness props=C17,C01 quickfor=C17 strength=bounded tier=thorough bound="ONE execution: sets of 2 and 3 elements, positions (1, 0), comparison outcome greater (the instances of this family enumerate every position and outcome for these sizes)" clause="setUnion step: less => A's element emitted; equal => A's element emitted once, both advance; greater => B's element emitted; when one side is exhausted the rest of the other is appended in order" timeout=300
+    //@harness props=C17,C01 quickfor=C17 strength=bounded tier=thorough bound="ONE execution: sets of 2 and 3 elements, positions (1, 0), comparison outcome greater (the instances of this family enumerate every position and outcome for these sizes)" clause="setUnion step: less => A's element emitted; equal => A's element emitted once, both advance; greater => B's element emitted; when one side is exhausted the rest of the other is appended in order" timeout=300 replay=sort_stable
     #[kani::proof]
     #[kani::unwind(8)]
     fn set_union_2_3_at_1_0_greater() { two_pointer_at(W::Union, 2, 3, 1, 0, ord_of(2)); }
-    //@harness props=C17,C01 quickfor=C17 strength=bounded tier=thorough bound="ONE execution: sets of 2 and 3 elements, positions (1, 1), comparison outcome less (the instances of this family enumerate every position and outcome for these sizes)" clause="setUnion step: less => A's element emitted; equal => A's element emitted once, both advance; greater => B's element emitted; when one side is exhausted the rest of the other is appended in order" timeout=300
+    //@harness props=C17,C01 quickfor=C17 strength=bounded tier=thorough bound="ONE execution: sets of 2 and 3 elements, positions (1, 1), comparison outcome less (the instances of this family enumerate every position and outcome for these sizes)" clause="setUnion step: less => A's element emitted; equal => A's element emitted once, both advance; greater => B's element emitted; when one side is exhausted the rest of the other is appended in order" timeout=300 replay=sort_stable
     #[kani::proof]
     #[kani::unwind(8)]
     fn set_union_2_3_at_1_1_less() { two_pointer_at(W::Union, 2, 3, 1, 1, ord_of(0)); }
-    //@harness props=C17,C01 quickfor=C17 strength=bounded tier=thorough bound="ONE execution: sets of 2 and 3 elements, positions (1, 1), comparison outcome equal (the instances of this family enumerate every position and outcome for these sizes)" clause="setUnion step: less => A's element emitted; equal => A's element emitted once, both advance; greater => B's element emitted; when one side is exhausted the rest of the other is appended in order" timeout=300
+    //@harness props=C17,C01 quickfor=C17 strength=bounded tier=thorough bound="ONE execution: sets of 2 and 3 elements, positions (1, 1), comparison outcome equal (the instances of this family enumerate every position and outcome for these sizes)" clause="setUnion step: less => A's element emitted; equal => A's element emitted once, both advance; greater => B's element emitted; when one side is exhausted the rest of the other is appended in order" timeout=300 replay=sort_stable
     #[kani::proof]
     #[kani::unwind(8)]
     fn set_union_2_3_at_1_1_equal() { two_pointer_at(W::Union, 2, 3, 1, 1, ord_of(1)); }
-    //@harness props=C17,C01 quickfor=C17 strength=bounded tier=thorough bound="ONE execution: sets of 2 and 3 elements, positions (1, 1), comparison outcome greater (the instances of this family enumerate every position and outcome for these sizes)" clause="setUnion step: less => A's element emitted; equal => A's element emitted once, both advance; greater => B's element emitted; when one side is exhausted the rest of the other is appended in order" timeout=300
+    //@harness props=C17,C01 quickfor=C17 strength=bounded tier=thorough bound="ONE execution: sets of 2 and 3 elements, positions (1, 1), comparison outcome greater (the instances of this family enumerate every position and outcome for these sizes)" clause="setUnion step: less => A's element emitted; equal => A's element emitted once, both advance; greater => B's element emitted; when one side is exhausted the rest of the other is appended in order" timeout=300 replay=sort_stable
     #[kani::proof]
     #[kani::unwind(8)]
     fn set_union_2_3_at_1_1_greater() { two_pointer_at(W::Union, 2, 3, 1, 1, ord_of(2)); }
-    //@harness props=C17,C01 quickfor=C17 strength=bounded tier=thorough bound="ONE execution: sets of 2 and 3 elements, positions (1, 2), comparison outcome less (the instances of this family enumerate every position and outcome for these sizes)" clause="setUnion step: less => A's element emitted; equal => A's element emitted once, both advance; greater => B's element emitted; when one side is exhausted the rest of the other is appended in order" timeout=300
+    //@harness props=C17,C01 quickfor=C17 strength=bounded tier=thorough bound="ONE execution: sets of 2 and 3 elements, positions (1, 2), comparison outcome less (the instances of this family enumerate every position and outcome for these sizes)" clause="setUnion step: less => A's element emitted; equal => A's element emitted once, both advance; greater => B's element emitted; when one side is exhausted the rest of the other is appended in order" timeout=300 replay=sort_stable
     #[kani::proof]
     #[kani::unwind(8)]
     fn set_union_2_3_at_1_2_less() { two_pointer_at(W::Union, 2, 3, 1, 2, ord_of(0)); }
-    //@harness props=C17,C01 quickfor=C17 strength=bounded tier=thorough bound="ONE execution: sets of 2 and 3 elements, positions (1, 2), comparison outcome equal (the instances of this family enumerate every position and outcome for these sizes)" clause="setUnion step: less => A's element emitted; equal => A's element emitted once, both advance; greater => B's element emitted; when one side is exhausted the rest of the other is appended in order" timeout=300
+    //@harness props=C17,C01 quickfor=C17 strength=bounded tier=thorough bound="ONE execution: sets of 2 and 3 elements, positions (1, 2), comparison outcome equal (the instances of this family enumerate every position and outcome for these sizes)" clause="setUnion step: less => A's element emitted; equal => A's element emitted once, both advance; greater => B's element emitted; when one side is exhausted the rest of the other is appended in order" timeout=300 replay=sort_stable
     #[kani::proof]
     #[kani::unwind(8)]
     fn set_union_2_3_at_1_2_equal() { two_pointer_at(W::Union, 2, 3, 1, 2, ord_of(1)); }
-    //@harness props=C17,C01 quickfor=C17 strength=bounded tier=thorough bound="ONE execution: sets of 2 and 3 elements, positions (1, 2), comparison outcome greater (the instances of this family enumerate every position and outcome for these sizes)" clause="setUnion step: less => A's element emitted; equal => A's element emitted once, both advance; greater => B's element emitted; when one side is exhausted the rest of the other is appended in order" timeout=300
+    //@harness props=C17,C01 quickfor=C17 strength=bounded tier=thorough bound="ONE execution: sets of 2 and 3 elements, positions (1, 2), comparison outcome greater (the instances of this family enumerate every position and outcome for these sizes)" clause="setUnion step: less => A's element emitted; equal => A's element emitted once, both advance; greater => B's element emitted; when one side is exhausted the rest of the other is appended in order" timeout=300 replay=sort_stable
     #[kani::proof]
     #[kani::unwind(8)]
     fn set_union_2_3_at_1_2_greater() { two_pointer_at(W::Union, 2, 3, 1, 2, ord_of(2)); }
-    //@harness props=C17,C01 quickfor=C17 strength=bounded tier=thorough bound="ONE execution: sets of 3 and 2 elements, positions (0, 0), comparison outcome less (the instances of this family enumerate every position and outcome for these sizes)" clause="setUnion step: less => A's element emitted; equal => A's element emitted once, both advance; greater => B's element emitted; when one side is exhausted the rest of the other is appended in order" timeout=300
+    //@harness props=C17,C01 quickfor=C17 strength=bounded tier=thorough bound="ONE execution: sets of 3 and 2 elements, positions (0, 0), comparison outcome less (the instances of this family enumerate every position and outcome for these sizes)" clause="setUnion step: less => A's element emitted; equal => A's element emitted once, both advance; greater => B's element emitted; when one side is exhausted the rest of the other is appended in order" timeout=300 replay=sort_stable
     #[kani::proof]
     #[kani::unwind(8)]
     fn set_union_3_2_at_0_0_less() { two_pointer_at(W::Union, 3, 2, 0, 0, ord_of(0)); }
-    //@harness props=C17,C01 quickfor=C17 strength=bounded tier=thorough bound="ONE execution: sets of 3 and 2 elements, positions (0, 0), comparison outcome equal (the instances of this family enumerate every position and outcome for these sizes)" clause="setUnion step: less => A's element emitted; equal => A's element emitted once, both advance; greater => B's element emitted; when one side is exhausted the rest of the other is appended in order" timeout=300
+    //@harness props=C17,C01 quickfor=C17 strength=bounded tier=thorough bound="ONE execution: sets of 3 and 2 elements, positions (0, 0), comparison outcome equal (the instances of this family enumerate every position and outcome for these sizes)" clause="setUnion step: less => A's element emitted; equal => A's element emitted once, both advance; greater => B's element emitted; when one side is exhausted the rest of the other is appended in order" timeout=300 replay=sort_stable
     #[kani::proof]
     #[kani::unwind(8)]
     fn set_union_3_2_at_0_0_equal() { two_pointer_at(W::Union, 3, 2, 0, 0, ord_of(1)); }
-    //@harness props=C17,C01 quickfor=C17 strength=bounded tier=thorough bound="ONE execution: sets of 3 and 2 elements, positions (0, 0), comparison outcome greater (the instances of this family enumerate every position and outcome for these sizes)" clause="setUnion step: less => A's element emitted; equal => A's element emitted once, both advance; greater => B's element emitted; when one side is exhausted the rest of the other is appended in order" timeout=300
+    //@harness props=C17,C01 quickfor=C17 strength=bounded tier=thorough bound="ONE execution: sets of 3 and 2 elements, positions (0, 0), comparison outcome greater (the instances of this family enumerate every position and outcome for these sizes)" clause="setUnion step: less => A's element emitted; equal => A's element emitted once, both advance; greater => B's element emitted; when one side is exhausted the rest of the other is appended in order" timeout=300 replay=sort_stable
     #[kani::proof]
     #[kani::unwind(8)]
     fn set_union_3_2_at_0_0_greater() { two_pointer_at(W::Union, 3, 2, 0, 0, ord_of(2)); }
-    //@harness props=C17,C01 quickfor=C17 strength=bounded tier=thorough bound="ONE execution: sets of 3 and 2 elements, positions (0, 1), comparison outcome less (the instances of this family enumerate every position and outcome for these sizes)" clause="setUnion step: less => A's element emitted; equal => A's element emitted once, both advance; greater => B's element emitted; when one side is exhausted the rest of the other is appended in order" timeout=300
+    //@harness props=C17,C01 quickfor=C17 strength=bounded tier=thorough bound="ONE execution: sets of 3 and 2 elements, positions (0, 1), comparison outcome less (the instances of this family enumerate every position and outcome for these sizes)" clause="setUnion step: less => A's element emitted; equal => A's element emitted once, both advance; greater => B's element emitted; when one side is exhausted the rest of the other is appended in order" timeout=300 replay=sort_stable
     #[kani::proof]
     #[kani::unwind(8)]
     fn set_union_3_2_at_0_1_less() { two_pointer_at(W::Union, 3, 2, 0, 1, ord_of(0)); }
-    //@harness props=C17,C01 quickfor=C17 strength=bounded tier=thorough bound="ONE execution: sets of 3 and 2 elements, positions (0, 1), comparison outcome equal (the instances of this family enumerate every position and outcome for these sizes)" clause="setUnion step: less => A's element emitted; equal => A's element emitted once, both advance; greater => B's element emitted; when one side is exhausted the rest of the other is appended in order" timeout=300
+    //@harness props=C17,C01 quickfor=C17 strength=bounded tier=thorough bound="ONE execution: sets of 3 and 2 elements, positions (0, 1), comparison outcome equal (the instances of this family enumerate every position and outcome for these sizes)" clause="setUnion step: less => A's element emitted; equal => A's element emitted once, both advance; greater => B's element emitted; when one side is exhausted the rest of the other is appended in order" timeout=300 replay=sort_stable
     #[kani::proof]
     #[kani::unwind(8)]
     fn set_union_3_2_at_0_1_equal() { two_pointer_at(W::Union, 3, 2, 0, 1, ord_of(1)); }
-    //@harness props=C17,C01 quickfor=C17 strength=bounded tier=thorough bound="ONE execution: sets of 3 and 2 elements, positions (0, 1), comparison outcome greater (the instances of this family enumerate every position and outcome for these sizes)" clause="setUnion step: less => A's element emitted; equal => A's element emitted once, both advance; greater => B's element emitted; when one side is exhausted the rest of the other is appended in order" timeout=300
+    //@harness props=C17,C01 quickfor=C17 strength=bounded tier=thorough bound="ONE execution: sets of 3 and 2 elements, positions (0, 1), comparison outcome greater (the instances of this family enumerate every position and outcome for these sizes)" clause="setUnion step: less => A's element emitted; equal => A's element emitted once, both advance; greater => B's element emitted; when one side is exhausted the rest of the other is appended in order" timeout=300 replay=sort_stable
     #[kani::proof]
     #[kani::unwind(8)]
     fn set_union_3_2_at_0_1_greater() { two_pointer_at(W::Union, 3, 2, 0, 1, ord_of(2)); }
-    //@harness props=C17,C01 quickfor=C17 strength=bounded tier=thorough bound="ONE execution: sets of 3 and 2 elements, positions (1, 0), comparison outcome less (the instances of this family enumerate every position and outcome for these sizes)" clause="setUnion step: less => A's element emitted; equal => A's element emitted once, both advance; greater => B's element emitted; when one side is exhausted the rest of the other is appended in order" timeout=300
+    //@harness props=C17,C01 quickfor=C17 strength=bounded tier=thorough bound="ONE execution: sets of 3 and 2 elements, positions (1, 0), comparison outcome less (the instances of this family enumerate every position and outcome for these sizes)" clause="setUnion step: less => A's element emitted; equal => A's element emitted once, both advance; greater => B's element emitted; when one side is exhausted the rest of the other is appended in order" timeout=300 replay=sort_stable
     #[kani::proof]
     #[kani::unwind(8)]
     fn set_union_3_2_at_1_0_less() { two_pointer_at(W::Union, 3, 2, 1, 0, ord_of(0)); }
-    //@harness props=C17,C01 quickfor=C17 strength=bounded tier=thorough bound="ONE execution: sets of 3 and 2 elements, positions (1, 0), comparison outcome equal (the instances of this family enumerate every position and outcome for these sizes)" clause="setUnion step: less => A's element emitted; equal => A's element emitted once, both advance; greater => B's element emitted; when one side is exhausted the rest of the other is appended in order" timeout=300
+    //@harness props=C17,C01 quickfor=C17 strength=bounded tier=thorough bound="ONE execution: sets of 3 and 2 elements, positions (1, 0), comparison outcome equal (the instances of this family enumerate every position and outcome for these sizes)" clause="setUnion step: less => A's element emitted; equal => A's element emitted once, both advance; greater => B's element emitted; when one side is exhausted the rest of the other is appended in order" timeout=300 replay=sort_stable
     #[kani::proof]
     #[kani::unwind(8)]
     fn set_union_3_2_at_1_0_equal() { two_pointer_at(W::Union, 3, 2, 1, 0, ord_of(1)); }
-    //@harness props=C17,C01 quickfor=C17 strength=bounded tier=thorough bound="ONE execution: sets of 3 and 2 elements, positions (1, 0), comparison outcome greater (the instances of this family enumerate every position and outcome for these sizes)" clause="setUnion step: less => A's element emitted; equal => A's element emitted once, both advance; greater => B's element emitted; when one side is exhausted the rest of the other is appended in order" timeout=300
+    //@harness props=C17,C01 quickfor=C17 strength=bounded tier=thorough bound="ONE execution: sets of 3 and 2 elements, positions (1, 0), comparison outcome greater (the instances of this family enumerate every position and outcome for these sizes)" clause="setUnion step: less => A's element emitted; equal => A's element emitted once, both advance; greater => B's element emitted; when one side is exhausted the rest of the other is appended in order" timeout=300 replay=sort_stable
     #[kani::proof]
     #[kani::unwind(8)]
     fn set_union_3_2_at_1_0_greater() { two_pointer_at(W::Union, 3, 2, 1, 0, ord_of(2)); }
-    //@harness props=C17,C01 quickfor=C17 strength=bounded tier=thorough bound="ONE execution: sets of 3 and 2 elements, positions (1, 1), comparison outcome less (the instances of this family enumerate every position and outcome for these sizes)" clause="setUnion step: less => A's element emitted; equal => A's element emitted once, both advance; greater => B's element emitted; when one side is exhausted the rest of the other is appended in order" timeout=300
+    //@harness props=C17,C01 quickfor=C17 strength=bounded tier=thorough bound="ONE execution: sets of 3 and 2 elements, positions (1, 1), comparison outcome less (the instances of this family enumerate every position and outcome for these sizes)" clause="setUnion step: less => A's element emitted; equal => A's element emitted once, both advance; greater => B's element emitted; when one side is exhausted the rest of the other is appended in order" timeout=300 replay=sort_stable
     #[kani::proof]
     #[kani::unwind(8)]
     fn set_union_3_2_at_1_1_less() { two_pointer_at(W::Union, 3, 2, 1, 1, ord_of(0)); }
-    //@harness props=C17,C01 quickfor=C17 strength=bounded tier=thorough bound="ONE execution: sets of 3 and 2 elements, positions (1, 1), comparison outcome equal (the instances of this family enumerate every position and outcome for these sizes)" clause="setUnion step: less => A's element emitted; equal => A's element emitted once, both advance; greater => B's element emitted; when one side is exhausted the rest of the other is appended in order" timeout=300
+    //@harness props=C17,C01 quickfor=C17 strength=bounded tier=thorough bound="ONE execution: sets of 3 and 2 elements, positions (1, 1), comparison outcome equal (the instances of this family enumerate every position and outcome for these sizes)" clause="setUnion step: less => A's element emitted; equal => A's element emitted once, both advance; greater => B's element emitted; when one side is exhausted the rest of the other is appended in order" timeout=300 replay=sort_stable
     #[kani::proof]
     #[kani::unwind(8)]
     fn set_union_3_2_at_1_1_equal() { two_pointer_at(W::Union, 3, 2, 1, 1, ord_of(1)); }
-    //@harness props=C17,C01 quickfor=C17 strength=bounded tier=thorough bound="ONE execution: sets of 3 and 2 elements, positions (1, 1), comparison outcome greater (the instances of this family enumerate every position and outcome for these sizes)" clause="setUnion step: less => A's element emitted; equal => A's element emitted once, both advance; greater => B's element emitted; when one side is exhausted the rest of the other is appended in order" timeout=300
+    //@harness props=C17,C01 quickfor=C17 strength=bounded tier=thorough bound="ONE execution: sets of 3 and 2 elements, positions (1, 1), comparison outcome greater (the instances of this family enumerate every position and outcome for these sizes)" clause="setUnion step: less => A's element emitted; equal => A's element emitted once, both advance; greater => B's element emitted; when one side is exhausted the rest of the other is appended in order" timeout=300 replay=sort_stable
     #[kani::proof]
     #[kani::unwind(8)]
     fn set_union_3_2_at_1_1_greater() { two_pointer_at(W::Union, 3, 2, 1, 1, ord_of(2)); }
-    //@harness props=C17,C01 quickfor=C17 strength=bounded tier=thorough bound="ONE execution: sets of 3 and 2 elements, positions (2, 0), comparison outcome less (the instances of this family enumerate every position and outcome for these sizes)" clause="setUnion step: less => A's element emitted; equal => A's element emitted once, both advance; greater => B's element emitted; when one side is exhausted the rest of the other is appended in order" timeout=300
+    //@harness props=C17,C01 quickfor=C17 strength=bounded tier=thorough bound="ONE execution: sets of 3 and 2 elements, positions (2, 0), comparison outcome less (the instances of this family enumerate every position and outcome for these sizes)" clause="setUnion step: less => A's element emitted; equal => A's element emitted once, both advance; greater => B's element emitted; when one side is exhausted the rest of the other is appended in order" timeout=300 replay=sort_stable
     #[kani::proof]
     #[kani::unwind(8)]
     fn set_union_3_2_at_2_0_less() { two_pointer_at(W::Union, 3, 2, 2, 0, ord_of(0)); }
-    //@harness props=C17,C01 quickfor=C17 strength=bounded tier=thorough bound="ONE execution: sets of 3 and 2 elements, positions (2, 0), comparison outcome equal (the instances of this family enumerate every position and outcome for these sizes)" clause="setUnion step: less => A's element emitted; equal => A's element emitted once, both advance; greater => B's element emitted; when one side is exhausted the rest of the other is appended in order" timeout=300
+    //@harness props=C17,C01 quickfor=C17 strength=bounded tier=thorough bound="ONE execution: sets of 3 and 2 elements, positions (2, 0), comparison outcome equal (the instances of this family enumerate every position and outcome for these sizes)" clause="setUnion step: less => A's element emitted; equal => A's element emitted once, both advance; greater => B's element emitted; when one side is exhausted the rest of the other is appended in order" timeout=300 replay=sort_stable
     #[kani::proof]
     #[kani::unwind(8)]
     fn set_union_3_2_at_2_0_equal() { two_pointer_at(W::Union, 3, 2, 2, 0, ord_of(1)); }
-    //@harness props=C17,C01 quickfor=C17 strength=bounded tier=thorough bound="ONE execution: sets of 3 and 2 elements, positions (2, 0), comparison outcome greater (the instances of this family enumerate every position and outcome for these sizes)" clause="setUnion step: less => A's element emitted; equal => A's element emitted once, both advance; greater => B's element emitted; when one side is exhausted the rest of the other is appended in order" timeout=300
+    //@harness props=C17,C01 quickfor=C17 strength=bounded tier=thorough bound="ONE execution: sets of 3 and 2 elements, positions (2, 0), comparison outcome greater (the instances of this family enumerate every position and outcome for these sizes)" clause="setUnion step: less => A's element emitted; equal => A's element emitted once, both advance; greater => B's element emitted; when one side is exhausted the rest of the other is appended in order" timeout=300 replay=sort_stable
     #[kani::proof]
     #[kani::unwind(8)]
     fn set_union_3_2_at_2_0_greater() { two_pointer_at(W::Union, 3, 2, 2, 0, ord_of(2)); }
-    //@harness props=C17,C01 quickfor=C17 strength=bounded tier=thorough bound="ONE execution: sets of 3 and 2 elements, positions (2, 1), comparison outcome less (the instances of this family enumerate every position and outcome for these sizes)" clause="setUnion step: less => A's element emitted; equal => A's element emitted once, both advance; greater => B's element emitted; when one side is exhausted the rest of the other is appended in order" timeout=300
+    //@harness props=C17,C01 quickfor=C17 strength=bounded tier=thorough bound="ONE execution: sets of 3 and 2 elements, positions (2, 1), comparison outcome less (the instances of this family enumerate every position and outcome for these sizes)" clause="setUnion step: less => A's element emitted; equal => A's element emitted once, both advance; greater => B's element emitted; when one side is exhausted the rest of the other is appended in order" timeout=300 replay=sort_stable
     #[kani::proof]
     #[kani::unwind(8)]
     fn set_union_3_2_at_2_1_less() { two_pointer_at(W::Union, 3, 2, 2, 1, ord_of(0)); }
-    //@harness props=C17,C01 quickfor=C17 strength=bounded tier=thorough bound="ONE execution: sets of 3 and 2 elements, positions (2, 1), comparison outcome equal (the instances of this family enumerate every position and outcome for these sizes)" clause="setUnion step: less => A's element emitted; equal => A's element emitted once, both advance; greater => B's element emitted; when one side is exhausted the rest of the other is appended in order" timeout=300
+    //@harness props=C17,C01 quickfor=C17 strength=bounded tier=thorough bound="ONE execution: sets of 3 and 2 elements, positions (2, 1), comparison outcome equal (the instances of this family enumerate every position and outcome for these sizes)" clause="setUnion step: less => A's element emitted; equal => A's element emitted once, both advance; greater => B's element emitted; when one side is exhausted the rest of the other is appended in order" timeout=300 replay=sort_stable
     #[kani::proof]
     #[kani::unwind(8)]
     fn set_union_3_2_at_2_1_equal() { two_pointer_at(W::Union, 3, 2, 2, 1, ord_of(1)); }
-    //@harness props=C17,C01 quickfor=C17 strength=bounded tier=thorough bound="ONE execution: sets of 3 and 2 elements, positions (2, 1), comparison outcome greater (the instances of this family enumerate every position and outcome for these sizes)" clause="setUnion step: less => A's element emitted; equal => A's element emitted once, both advance; greater => B's element emitted; when one side is exhausted the rest of the other is appended in order" timeout=300
+    //@harness props=C17,C01 quickfor=C17 strength=bounded tier=thorough bound="ONE execution: sets of 3 and 2 elements, positions (2, 1), comparison outcome greater (the instances of this family enumerate every position and outcome for these sizes)" clause="setUnion step: less => A's element emitted; equal => A's element emitted once, both advance; greater => B's element emitted; when one side is exhausted the rest of the other is appended in order" timeout=300 replay=sort_stable
     #[kani::proof]
     #[kani::unwind(8)]
     fn set_union_3_2_at_2_1_greater() { two_pointer_at(W::Union, 3, 2, 2, 1, ord_of(2)); }
-    //@harness props=C17,C01 quickfor=C17 strength=bounded tier=thorough bound="ONE execution: sets of 1 and 3 elements, positions (0, 0), comparison outcome less (the instances of this family enumerate every position and outcome for these sizes)" clause="setUnion step: less => A's element emitted; equal => A's element emitted once, both advance; greater => B's element emitted; when one side is exhausted the rest of the other is appended in order" timeout=300
+    //@harness props=C17,C01 quickfor=C17 strength=bounded tier=thorough bound="ONE execution: sets of 1 and 3 elements, positions (0, 0), comparison outcome less (the instances of this family enumerate every position and outcome for these sizes)" clause="setUnion step: less => A's element emitted; equal => A's element emitted once, both advance; greater => B's element emitted; when one side is exhausted the rest of the other is appended in order" timeout=300 replay=sort_stable
     #[kani::proof]
     #[kani::unwind(8)]
     fn set_union_1_3_at_0_0_less() { two_pointer_at(W::Union, 1, 3, 0, 0, ord_of(0)); }
-    //@harness props=C17,C01 quickfor=C17 strength=bounded tier=thorough bound="ONE execution: sets of 1 and 3 elements, positions (0, 0), comparison outcome equal (the instances of this family enumerate every position and outcome for these sizes)" clause="setUnion step: less => A's element emitted; equal => A's element emitted once, both advance; greater => B's element emitted; when one side is exhausted the rest of the other is appended in order" timeout=300
+    //@harness props=C17,C01 quickfor=C17 strength=bounded tier=thorough bound="ONE execution: sets of 1 and 3 elements, positions (0, 0), comparison outcome equal (the instances of this family enumerate every position and outcome for these sizes)" clause="setUnion step: less => A's element emitted; equal => A's element emitted once, both advance; greater => B's element emitted; when one side is exhausted the rest of the other is appended in order" timeout=300 replay=sort_stable
     #[kani::proof]
     #[kani::unwind(8)]
     fn set_union_1_3_at_0_0_equal() { two_pointer_at(W::Union, 1, 3, 0, 0, ord_of(1)); }
-    //@harness props=C17,C01 quickfor=C17 strength=bounded tier=thorough bound="ONE execution: sets of 1 and 3 elements, positions (0, 0), comparison outcome greater (the instances of this family enumerate every position and outcome for these sizes)" clause="setUnion step: less => A's element emitted; equal => A's element emitted once, both advance; greater => B's element emitted; when one side is exhausted the rest of the other is appended in order" timeout=300
+    //@harness props=C17,C01 quickfor=C17 strength=bounded tier=thorough bound="ONE execution: sets of 1 and 3 elements, positions (0, 0), comparison outcome greater (the instances of this family enumerate every position and outcome for these sizes)" clause="setUnion step: less => A's element emitted; equal => A's element emitted once, both advance; greater => B's element emitted; when one side is exhausted the rest of the other is appended in order" timeout=300 replay=sort_stable
     #[kani::proof]
     #[kani::unwind(8)]
     fn set_union_1_3_at_0_0_greater() { two_pointer_at(W::Union, 1, 3, 0, 0, ord_of(2)); }
-    //@harness props=C17,C01 quickfor=C17 strength=bounded tier=thorough bound="ONE execution: sets of 1 and 3 elements, positions (0, 1), comparison outcome less (the instances of this family enumerate every position and outcome for these sizes)" clause="setUnion step: less => A's element emitted; equal => A's element emitted once, both advance; greater => B's element emitted; when one side is exhausted the rest of the other is appended in order" timeout=300
+    //@harness props=C17,C01 quickfor=C17 strength=bounded tier=thorough bound="ONE execution: sets of 1 and 3 elements, positions (0, 1), comparison outcome less (the instances of this family enumerate every position and outcome for these sizes)" clause="setUnion step: less => A's element emitted; equal => A's element emitted once, both advance; greater => B's element emitted; when one side is exhausted the rest of the other is appended in order" timeout=300 replay=sort_stable
     #[kani::proof]
     #[kani::unwind(8)]
     fn set_union_1_3_at_0_1_less() { two_pointer_at(W::Union, 1, 3, 0, 1, ord_of(0)); }
-    //@harness props=C17,C01 quickfor=C17 strength=bounded tier=thorough bound="ONE execution: sets of 1 and 3 elements, positions (0, 1), comparison outcome equal (the instances of this family enumerate every position and outcome for these sizes)" clause="setUnion step: less => A's element emitted; equal => A's element emitted once, both advance; greater => B's element emitted; when one side is exhausted the rest of the other is appended in order" timeout=300
+    //@harness props=C17,C01 quickfor=C17 strength=bounded tier=thorough bound="ONE execution: sets of 1 and 3 elements, positions (0, 1), comparison outcome equal (the instances of this family enumerate every position and outcome for these sizes)" clause="setUnion step: less => A's element emitted; equal => A's element emitted once, both advance; greater => B's element emitted; when one side is exhausted the rest of the other is appended in order" timeout=300 replay=sort_stable
     #[kani::proof]
     #[kani::unwind(8)]
     fn set_union_1_3_at_0_1_equal() { two_pointer_at(W::Union, 1, 3, 0, 1, ord_of(1)); }
-    //@harness props=C17,C01 quickfor=C17 strength=bounded tier=thorough bound="ONE execution: sets of 1 and 3 elements, positions (0, 1), comparison outcome greater (the instances of this family enumerate every position and outcome for these sizes)" clause="setUnion step: less => A's element emitted; equal => A's element emitted once, both advance; greater => B's element emitted; when one side is exhausted the rest of the other is appended in order" timeout=300
+    //@harness props=C17,C01 quickfor=C17 strength=bounded tier=thorough bound="ONE execution: sets of 1 and 3 elements, positions (0, 1), comparison outcome greater (the instances of this family enumerate every position and outcome for these sizes)" clause="setUnion step: less => A's element emitted; equal => A's element emitted once, both advance; greater => B's element emitted; when one side is exhausted the rest of the other is appended in order" timeout=300 replay=sort_stable
     #[kani::proof]
     #[kani::unwind(8)]
     fn set_union_1_3_at_0_1_greater() { two_pointer_at(W::Union, 1, 3, 0, 1, ord_of(2)); }
-    //@harness props=C17,C01 quickfor=C17 strength=bounded tier=thorough bound="ONE execution: sets of 1 and 3 elements, positions (0, 2), comparison outcome less (the instances of this family enumerate every position and outcome for these sizes)" clause="setUnion step: less => A's element emitted; equal => A's element emitted once, both advance; greater => B's element emitted; when one side is exhausted the rest of the other is appended in order" timeout=300
+    //@harness props=C17,C01 quickfor=C17 strength=bounded tier=thorough bound="ONE execution: sets of 1 and 3 elements, positions (0, 2), comparison outcome less (the instances of this family enumerate every position and outcome for these sizes)" clause="setUnion step: less => A's element emitted; equal => A's element emitted once, both advance; greater => B's element emitted; when one side is exhausted the rest of the other is appended in order" timeout=300 replay=sort_stable
     #[kani::proof]
     #[kani::unwind(8)]
     fn set_union_1_3_at_0_2_less() { two_pointer_at(W::Union, 1, 3, 0, 2, ord_of(0)); }
-    //@harness props=C17,C01 quickfor=C17 strength=bounded tier=thorough bound="ONE execution: sets of 1 and 3 elements, positions (0, 2), comparison outcome equal (the instances of this family enumerate every position and outcome for these sizes)" clause="setUnion step: less => A's element emitted; equal => A's element emitted once, both advance; greater => B's element emitted; when one side is exhausted the rest of the other is appended in order" timeout=300
+    //@harness props=C17,C01 quickfor=C17 strength=bounded tier=thorough bound="ONE execution: sets of 1 and 3 elements, positions (0, 2), comparison outcome equal (the instances of this family enumerate every position and outcome for these sizes)" clause="setUnion step: less => A's element emitted; equal => A's element emitted once, both advance; greater => B's element emitted; when one side is exhausted the rest of the other is appended in order" timeout=300 replay=sort_stable
     #[kani::proof]
     #[kani::unwind(8)]
     fn set_union_1_3_at_0_2_equal() { two_pointer_at(W::Union, 1, 3, 0, 2, ord_of(1)); }
-    //@harness props=C17,C01 quickfor=C17 strength=bounded tier=thorough bound="ONE execution: sets of 1 and 3 elements, positions (0, 2), comparison outcome greater (the instances of this family enumerate every position and outcome for these sizes)" clause="setUnion step: less => A's element emitted; equal => A's element emitted once, both advance; greater => B's element emitted; when one side is exhausted the rest of the other is appended in order" timeout=300
+    //@harness props=C17,C01 quickfor=C17 strength=bounded tier=thorough bound="ONE execution: sets of 1 and 3 elements, positions (0, 2), comparison outcome greater (the instances of this family enumerate every position and outcome for these sizes)" clause="setUnion step: less => A's element emitted; equal => A's element emitted once, both advance; greater => B's element emitted; when one side is exhausted the rest of the other is appended in order" timeout=300 replay=sort_stable
     #[kani::proof]
     #[kani::unwind(8)]
     fn set_union_1_3_at_0_2_greater() { two_pointer_at(W::Union, 1, 3, 0, 2, ord_of(2)); }
-    //@harness props=C17,C01 quickfor=C17 strength=bounded tier=thorough bound="ONE execution: sets of 3 and 1 elements, positions (0, 0), comparison outcome less (the instances of this family enumerate every position and outcome for these sizes)" clause="setUnion step: less => A's element emitted; equal => A's element emitted once, both advance; greater => B's element emitted; when one side is exhausted the rest of the other is appended in order" timeout=300
+    //@harness props=C17,C01 quickfor=C17 strength=bounded tier=thorough bound="ONE execution: sets of 3 and 1 elements, positions (0, 0), comparison outcome less (the instances of this family enumerate every position and outcome for these sizes)" clause="setUnion step: less => A's element emitted; equal => A's element emitted once, both advance; greater => B's element emitted; when one side is exhausted the rest of the other is appended in order" timeout=300 replay=sort_stable
     #[kani::proof]
     #[kani::unwind(8)]
     fn set_union_3_1_at_0_0_less() { two_pointer_at(W::Union, 3, 1, 0, 0, ord_of(0)); }
-    //@harness props=C17,C01 quickfor=C17 strength=bounded tier=thorough bound="ONE execution: sets of 3 and 1 elements, positions (0, 0), comparison outcome equal (the instances of this family enumerate every position and outcome for these sizes)" clause="setUnion step: less => A's element emitted; equal => A's element emitted once, both advance; greater => B's element emitted; when one side is exhausted the rest of the other is appended in order" timeout=300
+    //@harness props=C17,C01 quickfor=C17 strength=bounded tier=thorough bound="ONE execution: sets of 3 and 1 elements, positions (0, 0), comparison outcome equal (the instances of this family enumerate every position and outcome for these sizes)" clause="setUnion step: less => A's element emitted; equal => A's element emitted once, both advance; greater => B's element emitted; when one side is exhausted the rest of the other is appended in order" timeout=300 replay=sort_stable
     #[kani::proof]
     #[kani::unwind(8)]
     fn set_union_3_1_at_0_0_equal() { two_pointer_at(W::Union, 3, 1, 0, 0, ord_of(1)); }
-    //@harness props=C17,C01 quickfor=C17 strength=bounded tier=thorough bound="ONE execution: sets of 3 and 1 elements, positions (0, 0), comparison outcome greater (the instances of this family enumerate every position and outcome for these sizes)" clause="setUnion step: less => A's element emitted; equal => A's element emitted once, both advance; greater => B's element emitted; when one side is exhausted the rest of the other is appended in order" timeout=300
+    //@harness props=C17,C01 quickfor=C17 strength=bounded tier=thorough bound="ONE execution: sets of 3 and 1 elements, positions (0, 0), comparison outcome greater (the instances of this family enumerate every position and outcome for these sizes)" clause="setUnion step: less => A's element emitted; equal => A's element emitted once, both advance; greater => B's element emitted; when one side is exhausted the rest of the other is appended in order" timeout=300 replay=sort_stable
     #[kani::proof]
     #[kani::unwind(8)]
     fn set_union_3_1_at_0_0_greater() { two_pointer_at(W::Union, 3, 1, 0, 0, ord_of(2)); }
-    //@harness props=C17,C01 quickfor=C17 strength=bounded tier=thorough bound="ONE execution: sets of 3 and 1 elements, positions (1, 0), comparison outcome less (the instances of this family enumerate every position and outcome for these sizes)" clause="setUnion step: less => A's element emitted; equal => A's element emitted once, both advance; greater => B's element emitted; when one side is exhausted the rest of the other is appended in order" timeout=300
+    //@harness props=C17,C01 quickfor=C17 strength=bounded tier=thorough bound="ONE execution: sets of 3 and 1 elements, positions (1, 0), comparison outcome less (the instances of this family enumerate every position and outcome for these sizes)" clause="setUnion step: less => A's element emitted; equal => A's element emitted once, both advance; greater => B's element emitted; when one side is exhausted the rest of the other is appended in order" timeout=300 replay=sort_stable
     #[kani::proof]
     #[kani::unwind(8)]
     fn set_union_3_1_at_1_0_less() { two_pointer_at(W::Union, 3, 1, 1, 0, ord_of(0)); }
-    //@harness props=C17,C01 quickfor=C17 strength=bounded tier=thorough bound="ONE execution: sets of 3 and 1 elements, positions (1, 0), comparison outcome equal (the instances of this family enumerate every position and outcome for these sizes)" clause="setUnion step: less => A's element emitted; equal => A's element emitted once, both advance; greater => B's element emitted; when one side is exhausted the rest of the other is appended in order" timeout=300
+    //@harness props=C17,C01 quickfor=C17 strength=bounded tier=thorough bound="ONE execution: sets of 3 and 1 elements, positions (1, 0), comparison outcome equal (the instances of this family enumerate every position and outcome for these sizes)" clause="setUnion step: less => A's element emitted; equal => A's element emitted once, both advance; greater => B's element emitted; when one side is exhausted the rest of the other is appended in order" timeout=300 replay=sort_stable
     #[kani::proof]
     #[kani::unwind(8)]
     fn set_union_3_1_at_1_0_equal() { two_pointer_at(W::Union, 3, 1, 1, 0, ord_of(1)); }
-    //@harness props=C17,C01 quickfor=C17 strength=bounded tier=thorough bound="ONE execution: sets of 3 and 1 elements, positions (1, 0), comparison outcome greater (the instances of this family enumerate every position and outcome for these sizes)" clause="setUnion step: less => A's element emitted; equal => A's element emitted once, both advance; greater => B's element emitted; when one side is exhausted the rest of the other is appended in order" timeout=300
+    //@harness props=C17,C01 quickfor=C17 strength=bounded tier=thorough bound="ONE execution: sets of 3 and 1 elements, positions (1, 0), comparison outcome greater (the instances of this family enumerate every position and outcome for these sizes)" clause="setUnion step: less => A's element emitted; equal => A's element emitted once, both advance; greater => B's element emitted; when one side is exhausted the rest of the other is appended in order" timeout=300 replay=sort_stable
     #[kani::proof]
     #[kani::unwind(8)]
     fn set_union_3_1_at_1_0_greater() { two_pointer_at(W::Union, 3, 1, 1, 0, ord_of(2)); }
-    //@harness props=C17,C01 quickfor=C17 strength=bounded tier=thorough bound="ONE execution: sets of 3 and 1 elements, positions (2, 0), comparison outcome less (the instances of this family enumerate every position and outcome for these sizes)" clause="setUnion step: less => A's element emitted; equal => A's element emitted once, both advance; greater => B's element emitted; when one side is exhausted the rest of the other is appended in order" timeout=300
+    //@harness props=C17,C01 quickfor=C17 strength=bounded tier=thorough bound="ONE execution: sets of 3 and 1 elements, positions (2, 0), comparison outcome less (the instances of this family enumerate every position and outcome for these sizes)" clause="setUnion step: less => A's element emitted; equal => A's element emitted once, both advance; greater => B's element emitted; when one side is exhausted the rest of the other is appended in order" timeout=300 replay=sort_stable
     #[kani::proof]
     #[kani::unwind(8)]
     fn set_union_3_1_at_2_0_less() { two_pointer_at(W::Union, 3, 1, 2, 0, ord_of(0)); }
-    //@harness props=C17,C01 quickfor=C17 strength=bounded tier=thorough bound="ONE execution: sets of 3 and 1 elements, positions (2, 0), comparison outcome equal (the instances of this family enumerate every position and outcome for these sizes)" clause="setUnion step: less => A's element emitted; equal => A's element emitted once, both advance; greater => B's element emitted; when one side is exhausted the rest of the other is appended in order" timeout=300
+    //@harness props=C17,C01 quickfor=C17 strength=bounded tier=thorough bound="ONE execution: sets of 3 and 1 elements, positions (2, 0), comparison outcome equal (the instances of this family enumerate every position and outcome for these sizes)" clause="setUnion step: less => A's element emitted; equal => A's element emitted once, both advance; greater => B's element emitted; when one side is exhausted the rest of the other is appended in order" timeout=300 replay=sort_stable
     #[kani::proof]
     #[kani::unwind(8)]
     fn set_union_3_1_at_2_0_equal() { two_pointer_at(W::Union, 3, 1, 2, 0, ord_of(1)); }
-    //@harness props=C17,C01 quickfor=C17 strength=bounded tier=thorough bound="ONE execution: sets of 3 and 1 elements, positions (2, 0), comparison outcome greater (the instances of this family enumerate every position and outcome for these sizes)" clause="setUnion step: less => A's element emitted; equal => A's element emitted once, both advance; greater => B's element emitted; when one side is exhausted the rest of the other is appended in order" timeout=300
+    //@harness props=C17,C01 quickfor=C17 strength=bounded tier=thorough bound="ONE execution: sets of 3 and 1 elements, positions (2, 0), comparison outcome greater (the instances of this family enumerate every position and outcome for these sizes)" clause="setUnion step: less => A's element emitted; equal => A's element emitted once, both advance; greater => B's element emitted; when one side is exhausted the rest of the other is appended in order" timeout=300 replay=sort_stable
     #[kani::proof]
     #[kani::unwind(8)]
     fn set_union_3_1_at_2_0_greater() { two_pointer_at(W::Union, 3, 1, 2, 0, ord_of(2)); }
-    //@harness props=C17,C01 quickfor=C17 strength=bounded bound="ONE execution: sets of 2 and 2 elements, positions (0, 0), comparison outcome less (the instances of this family enumerate every position and outcome for these sizes)" clause="setDiff step: less => A's element emitted; equal => dropped, both advance; greater => B advances; when B is exhausted the rest of A is appended, when A is exhausted the walk ends" timeout=300
+    //@harness props=C17,C01 quickfor=C17 strength=bounded bound="ONE execution: sets of 2 and 2 elements, positions (0, 0), comparison outcome less (the instances of this family enumerate every position and outcome for these sizes)" clause="setDiff step: less => A's element emitted; equal => dropped, both advance; greater => B advances; when B is exhausted the rest of A is appended, when A is exhausted the walk ends" timeout=300 replay=sort_stable
     #[kani::proof]
     #[kani::unwind(8)]
     fn set_diff_2_2_at_0_0_less() { two_pointer_at(W::Diff, 2, 2, 0, 0, ord_of(0)); }
-    //@harness props=C17,C01 quickfor=C17 strength=bounded bound="ONE execution: sets of 2 and 2 elements, positions (0, 0), comparison outcome equal (the instances of this family enumerate every position and outcome for these sizes)" clause="setDiff step: less => A's element emitted; equal => dropped, both advance; greater => B advances; when B is exhausted the rest of A is appended, when A is exhausted the walk ends" timeout=300
+    //@harness props=C17,C01 quickfor=C17 strength=bounded bound="ONE execution: sets of 2 and 2 elements, positions (0, 0), comparison outcome equal (the instances of this family enumerate every position and outcome for these sizes)" clause="setDiff step: less => A's element emitted; equal => dropped, both advance; greater => B advances; when B is exhausted the rest of A is appended, when A is exhausted the walk ends" timeout=300 replay=sort_stable
     #[kani::proof]
     #[kani::unwind(8)]
     fn set_diff_2_2_at_0_0_equal() { two_pointer_at(W::Diff, 2, 2, 0, 0, ord_of(1)); }
-    //@harness props=C17,C01 quickfor=C17 strength=bounded bound="ONE execution: sets of 2 and 2 elements, positions (0, 0), comparison outcome greater (the instances of this family enumerate every position and outcome for these sizes)" clause="setDiff step: less => A's element emitted; equal => dropped, both advance; greater => B advances; when B is exhausted the rest of A is appended, when A is exhausted the walk ends" timeout=300
+    //@harness props=C17,C01 quickfor=C17 strength=bounded bound="ONE execution: sets of 2 and 2 elements, positions (0, 0), comparison outcome greater (the instances of this family enumerate every position and outcome for these sizes)" clause="setDiff step: less => A's element emitted; equal => dropped, both advance; greater => B advances; when B is exhausted the rest of A is appended, when A is exhausted the walk ends" timeout=300 replay=sort_stable
     #[kani::proof]
     #[kani::unwind(8)]
     fn set_diff_2_2_at_0_0_greater() { two_pointer_at(W::Diff, 2, 2, 0, 0, ord_of(2)); }
-    //@harness props=C17,C01 quickfor=C17 strength=bounded bound="ONE execution: sets of 2 and 2 elements, positions (0, 1), comparison outcome less (the instances of this family enumerate every position and outcome for these sizes)" clause="setDiff step: less => A's element emitted; equal => dropped, both advance; greater => B advances; when B is exhausted the rest of A is appended, when A is exhausted the walk ends" timeout=300
+    //@harness props=C17,C01 quickfor=C17 strength=bounded bound="ONE execution: sets of 2 and 2 elements, positions (0, 1), comparison outcome less (the instances of this family enumerate every position and outcome for these sizes)" clause="setDiff step: less => A's element emitted; equal => dropped, both advance; greater => B advances; when B is exhausted the rest of A is appended, when A is exhausted the walk ends" timeout=300 replay=sort_stable
     #[kani::proof]
     #[kani::unwind(8)]
     fn set_diff_2_2_at_0_1_less() { two_pointer_at(W::Diff, 2, 2, 0, 1, ord_of(0)); }
-    //@harness props=C17,C01 quickfor=C17 strength=bounded bound="ONE execution: sets of 2 and 2 elements, positions (0, 1), comparison outcome equal (the instances of this family enumerate every position and outcome for these sizes)" clause="setDiff step: less => A's element emitted; equal => dropped, both advance; greater => B advances; when B is exhausted the rest of A is appended, when A is exhausted the walk ends" timeout=300
+    //@harness props=C17,C01 quickfor=C17 strength=bounded bound="ONE execution: sets of 2 and 2 elements, positions (0, 1), comparison outcome equal (the instances of this family enumerate every position and outcome for these sizes)" clause="setDiff step: less => A's element emitted; equal => dropped, both advance; greater => B advances; when B is exhausted the rest of A is appended, when A is exhausted the walk ends" timeout=300 replay=sort_stable
     #[kani::proof]
     #[kani::unwind(8)]
     fn set_diff_2_2_at_0_1_equal() { two_pointer_at(W::Diff, 2, 2, 0, 1, ord_of(1)); }
-    //@harness props=C17,C01 quickfor=C17 strength=bounded bound="ONE execution: sets of 2 and 2 elements, positions (0, 1), comparison outcome greater (the instances of this family enumerate every position and outcome for these sizes)" clause="setDiff step: less => A's element emitted; equal => dropped, both advance; greater => B advances; when B is exhausted the rest of A is appended, when A is exhausted the walk ends" timeout=300
+    //@harness props=C17,C01 quickfor=C17 strength=bounded bound="ONE execution: sets of 2 and 2 elements, positions (0, 1), comparison outcome greater (the instances of this family enumerate every position and outcome for these sizes)" clause="setDiff step: less => A's element emitted; equal => dropped, both advance; greater => B advances; when B is exhausted the rest of A is appended, when A is exhausted the walk ends" timeout=300 replay=sort_stable
     #[kani::proof]
     #[kani::unwind(8)]
     fn set_diff_2_2_at_0_1_greater() { two_pointer_at(W::Diff, 2, 2, 0, 1, ord_of(2)); }
-    //@harness props=C17,C01 quickfor=C17 strength=bounded bound="ONE execution: sets of 2 and 2 elements, positions (1, 0), comparison outcome less (the instances of this family enumerate every position and outcome for these sizes)" clause="setDiff step: less => A's element emitted; equal => dropped, both advance; greater => B advances; when B is exhausted the rest of A is appended, when A is exhausted the walk ends" timeout=300
+    //@harness props=C17,C01 quickfor=C17 strength=bounded bound="ONE execution: sets of 2 and 2 elements, positions (1, 0), comparison outcome less (the instances of this family enumerate every position and outcome for these sizes)" clause="setDiff step: less => A's element emitted; equal => dropped, both advance; greater => B advances; when B is exhausted the rest of A is appended, when A is exhausted the walk ends" timeout=300 replay=sort_stable
     #[kani::proof]
     #[kani::unwind(8)]
     fn set_diff_2_2_at_1_0_less() { two_pointer_at(W::Diff, 2, 2, 1, 0, ord_of(0)); }
-    //@harness props=C17,C01 quickfor=C17 strength=bounded bound="ONE execution: sets of 2 and 2 elements, positions (1, 0), comparison outcome equal (the instances of this family enumerate every position and outcome for these sizes)" clause="setDiff step: less => A's element emitted; equal => dropped, both advance; greater => B advances; when B is exhausted the rest of A is appended, when A is exhausted the walk ends" timeout=300
+    //@harness props=C17,C01 quickfor=C17 strength=bounded bound="ONE execution: sets of 2 and 2 elements, positions (1, 0), comparison outcome equal (the instances of this family enumerate every position and outcome for these sizes)" clause="setDiff step: less => A's element emitted; equal => dropped, both advance; greater => B advances; when B is exhausted the rest of A is appended, when A is exhausted the walk ends" timeout=300 replay=sort_stable
     #[kani::proof]
     #[kani::unwind(8)]
     fn set_diff_2_2_at_1_0_equal() { two_pointer_at(W::Diff, 2, 2, 1, 0, ord_of(1)); }
-    //@harness props=C17,C01 quickfor=C17 strength=bounded bound="ONE execution: sets of 2 and 2 elements, positions (1, 0), comparison outcome greater (the instances of this family enumerate every position and outcome for these sizes)" clause="setDiff step: less => A's element emitted; equal => dropped, both advance; greater => B advances; when B is exhausted the rest of A is appended, when A is exhausted the walk ends" timeout=300
+    //@harness props=C17,C01 quickfor=C17 strength=bounded bound="ONE execution: sets of 2 and 2 elements, positions (1, 0), comparison outcome greater (the instances of this family enumerate every position and outcome for these sizes)" clause="setDiff step: less => A's element emitted; equal => dropped, both advance; greater => B advances; when B is exhausted the rest of A is appended, when A is exhausted the walk ends" timeout=300 replay=sort_stable
     #[kani::proof]
     #[kani::unwind(8)]
     fn set_diff_2_2_at_1_0_greater() { two_pointer_at(W::Diff, 2, 2, 1, 0, ord_of(2)); }
-    //@harness props=C17,C01 quickfor=C17 strength=bounded bound="ONE execution: sets of 2 and 2 elements, positions (1, 1), comparison outcome less (the instances of this family enumerate every position and outcome for these sizes)" clause="setDiff step: less => A's element emitted; equal => dropped, both advance; greater => B advances; when B is exhausted the rest of A is appended, when A is exhausted the walk ends" timeout=300
+    //@harness props=C17,C01 quickfor=C17 strength=bounded bound="ONE execution: sets of 2 and 2 elements, positions (1, 1), comparison outcome less (the instances of this family enumerate every position and outcome for these sizes)" clause="setDiff step: less => A's element emitted; equal => dropped, both advance; greater => B advances; when B is exhausted the rest of A is appended, when A is exhausted the walk ends" timeout=300 replay=sort_stable
     #[kani::proof]
     #[kani::unwind(8)]
     fn set_diff_2_2_at_1_1_less() { two_pointer_at(W::Diff, 2, 2, 1, 1, ord_of(0)); }
-    //@harness props=C17,C01 quickfor=C17 strength=bounded bound="ONE execution: sets of 2 and 2 elements, positions (1, 1), comparison outcome equal (the instances of this family enumerate every position and outcome for these sizes)" clause="setDiff step: less => A's element emitted; equal => dropped, both advance; greater => B advances; when B is exhausted the rest of A is appended, when A is exhausted the walk ends" timeout=300
+    //@harness props=C17,C01 quickfor=C17 strength=bounded bound="ONE execution: sets of 2 and 2 elements, positions (1, 1), comparison outcome equal (the instances of this family enumerate every position and outcome for these sizes)" clause="setDiff step: less => A's element emitted; equal => dropped, both advance; greater => B advances; when B is exhausted the rest of A is appended, when A is exhausted the walk ends" timeout=300 replay=sort_stable
     #[kani::proof]
     #[kani::unwind(8)]
     fn set_diff_2_2_at_1_1_equal() { two_pointer_at(W::Diff, 2, 2, 1, 1, ord_of(1)); }
-    //@harness props=C17,C01 quickfor=C17 strength=bounded bound="ONE execution: sets of 2 and 2 elements, positions (1, 1), comparison outcome greater (the instances of this family enumerate every position and outcome for these sizes)" clause="setDiff step: less => A's element emitted; equal => dropped, both advance; greater => B advances; when B is exhausted the rest of A is appended, when A is exhausted the walk ends" timeout=300
+    //@harness props=C17,C01 quickfor=C17 strength=bounded bound="ONE execution: sets of 2 and 2 elements, positions (1, 1), comparison outcome greater (the instances of this family enumerate every position and outcome for these sizes)" clause="setDiff step: less => A's element emitted; equal => dropped, both advance; greater => B advances; when B is exhausted the rest of A is appended, when A is exhausted the walk ends" timeout=300 replay=sort_stable
     #[kani::proof]
     #[kani::unwind(8)]
     fn set_diff_2_2_at_1_1_greater() { two_pointer_at(W::Diff, 2, 2, 1, 1, ord_of(2)); }
-    //@harness props=C17,C01 quickfor=C17 strength=bounded tier=thorough bound="ONE execution: sets of 1 and 2 elements, positions (0, 0), comparison outcome less (the instances of this family enumerate every position and outcome for these sizes)" clause="setDiff step: less => A's element emitted; equal => dropped, both advance; greater => B advances; when B is exhausted the rest of A is appended, when A is exhausted the walk ends" timeout=300
+    //@harness props=C17,C01 quickfor=C17 strength=bounded tier=thorough bound="ONE execution: sets of 1 and 2 elements, positions (0, 0), comparison outcome less (the instances of this family enumerate every position and outcome for these sizes)" clause="setDiff step: less => A's element emitted; equal => dropped, both advance; greater => B advances; when B is exhausted the rest of A is appended, when A is exhausted the walk ends" timeout=300 replay=sort_stable
     #[kani::proof]
     #[kani::unwind(8)]
     fn set_diff_1_2_at_0_0_less() { two_pointer_at(W::Diff, 1, 2, 0, 0, ord_of(0)); }
-    //@harness props=C17,C01 quickfor=C17 strength=bounded tier=thorough bound="ONE execution: sets of 1 and 2 elements, positions (0, 0), comparison outcome equal (the instances of this family enumerate every position and outcome for these sizes)" clause="setDiff step: less => A's element emitted; equal => dropped, both advance; greater => B advances; when B is exhausted the rest of A is appended, when A is exhausted the walk ends" timeout=300
+    //@harness props=C17,C01 quickfor=C17 strength=bounded tier=thorough bound="ONE execution: sets of 1 and 2 elements, positions (0, 0), comparison outcome equal (the instances of this family enumerate every position and outcome for these sizes)" clause="setDiff step: less => A's element emitted; equal => dropped, both advance; greater => B advances; when B is exhausted the rest of A is appended, when A is exhausted the walk ends" timeout=300 replay=sort_stable
     #[kani::proof]
     #[kani::unwind(8)]
     fn set_diff_1_2_at_0_0_equal() { two_pointer_at(W::Diff, 1, 2, 0, 0, ord_of(1)); }
-    //@harness props=C17,C01 quickfor=C17 strength=bounded tier=thorough bound="ONE execution: sets of 1 and 2 elements, positions (0, 0), comparison outcome greater (the instances of this family enumerate every position and outcome for these sizes)" clause="setDiff step: less => A's element emitted; equal => dropped, both advance; greater => B advances; when B is exhausted the rest of A is appended, when A is exhausted the walk ends" timeout=300
+    //@harness props=C17,C01 quickfor=C17 strength=bounded tier=thorough bound="ONE execution: sets of 1 and 2 elements, positions (0, 0), comparison outcome greater (the instances of this family enumerate every position and outcome for these sizes)" clause="setDiff step: less => A's element emitted; equal => dropped, both advance; greater => B advances; when B is exhausted the rest of A is appended, when A is exhausted the walk ends" timeout=300 replay=sort_stable
     #[kani::proof]
     #[kani::unwind(8)]
     fn set_diff_1_2_at_0_0_greater() { two_pointer_at(W::Diff, 1, 2, 0, 0, ord_of(2)); }
-    //@harness props=C17,C01 quickfor=C17 strength=bounded tier=thorough bound="ONE execution: sets of 1 and 2 elements, positions (0, 1), comparison outcome less (the instances of this family enumerate every position and outcome for these sizes)" clause="setDiff step: less => A's element emitted; equal => dropped, both advance; greater => B advances; when B is exhausted the rest of A is appended, when A is exhausted the walk ends" timeout=300
+    //@harness props=C17,C01 quickfor=C17 strength=bounded tier=thorough bound="ONE execution: sets of 1 and 2 elements, positions (0, 1), comparison outcome less (the instances of this family enumerate every position and outcome for these sizes)" clause="setDiff step: less => A's element emitted; equal => dropped, both advance; greater => B advances; when B is exhausted the rest of A is appended, when A is exhausted the walk ends" timeout=300 replay=sort_stable
     #[kani::proof]
     #[kani::unwind(8)]
     fn set_diff_1_2_at_0_1_less() { two_pointer_at(W::Diff, 1, 2, 0, 1, ord_of(0)); }
-    //@harness props=C17,C01 quickfor=C17 strength=bounded tier=thorough bound="ONE execution: sets of 1 and 2 elements, positions (0, 1), comparison outcome equal (the instances of this family enumerate every position and outcome for these sizes)" clause="setDiff step: less => A's element emitted; equal => dropped, both advance; greater => B advances; when B is exhausted the rest of A is appended, when A is exhausted the walk ends" timeout=300
+    //@harness props=C17,C01 quickfor=C17 strength=bounded tier=thorough bound="ONE execution: sets of 1 and 2 elements, positions (0, 1), comparison outcome equal (the instances of this family enumerate every position and outcome for these sizes)" clause="setDiff step: less => A's element emitted; equal => dropped, both advance; greater => B advances; when B is exhausted the rest of A is appended, when A is exhausted the walk ends" timeout=300 replay=sort_stable
     #[kani::proof]
     #[kani::unwind(8)]
     fn set_diff_1_2_at_0_1_equal() { two_pointer_at(W::Diff, 1, 2, 0, 1, ord_of(1)); }
-    //@harness props=C17,C01 quickfor=C17 strength=bounded tier=thorough bound="ONE execution: sets of 1 and 2 elements, positions (0, 1), comparison outcome greater (the instances of this family enumerate every position and outcome for these sizes)" clause="setDiff step: less => A's element emitted; equal => dropped, both advance; greater => B advances; when B is exhausted the rest of A is appended, when A is exhausted the walk ends" timeout=300
+    //@harness props=C17,C01 quickfor=C17 strength=bounded tier=thorough bound="ONE execution: sets of 1 and 2 elements, positions (0, 1), comparison outcome greater (the instances of this family enumerate every position and outcome for these sizes)" clause="setDiff step: less => A's element emitted; equal => dropped, both advance; greater => B advances; when B is exhausted the rest of A is appended, when A is exhausted the walk ends" timeout=300 replay=sort_stable
     #[kani::proof]
     #[kani::unwind(8)]
     fn set_diff_1_2_at_0_1_greater() { two_pointer_at(W::Diff, 1, 2, 0, 1, ord_of(2)); }
-    //@harness props=C17,C01 quickfor=C17 strength=bounded tier=thorough bound="ONE execution: sets of 2 and 1 elements, positions (0, 0), comparison outcome less (the instances of this family enumerate every position and outcome for these sizes)" clause="setDiff step: less => A's element emitted; equal => dropped, both advance; greater => B advances; when B is exhausted the rest of A is appended, when A is exhausted the walk ends" timeout=300
+    //@harness props=C17,C01 quickfor=C17 strength=bounded tier=thorough bound="ONE execution: sets of 2 and 1 elements, positions (0, 0), comparison outcome less (the instances of this family enumerate every position and outcome for these sizes)" clause="setDiff step: less => A's element emitted; equal => dropped, both advance; greater => B advances; when B is exhausted the rest of A is appended, when A is exhausted the walk ends" timeout=300 replay=sort_stable
     #[kani::proof]
     #[kani::unwind(8)]
     fn set_diff_2_1_at_0_0_less() { two_pointer_at(W::Diff, 2, 1, 0, 0, ord_of(0)); }
-    //@harness props=C17,C01 quickfor=C17 strength=bounded tier=thorough bound="ONE execution: sets of 2 and 1 elements, positions (0, 0), comparison outcome equal (the instances of this family enumerate every position and outcome for these sizes)" clause="setDiff step: less => A's element emitted; equal => dropped, both advance; greater => B advances; when B is exhausted the rest of A is appended, when A is exhausted the walk ends" timeout=300
+    //@harness props=C17,C01 quickfor=C17 strength=bounded tier=thorough bound="ONE execution: sets of 2 and 1 elements, positions (0, 0), comparison outcome equal (the instances of this family enumerate every position and outcome for these sizes)" clause="setDiff step: less => A's element emitted; equal => dropped, both advance; greater => B advances; when B is exhausted the rest of A is appended, when A is exhausted the walk ends" timeout=300 replay=sort_stable
     #[kani::proof]
     #[kani::unwind(8)]
     fn set_diff_2_1_at_0_0_equal() { two_pointer_at(W::Diff, 2, 1, 0, 0, ord_of(1)); }
-    //@harness props=C17,C01 quickfor=C17 strength=bounded tier=thorough bound="ONE execution: sets of 2 and 1 elements, positions (0, 0), comparison outcome greater (the instances of this family enumerate every position and outcome for these sizes)" clause="setDiff step: less => A's element emitted; equal => dropped, both advance; greater => B advances; when B is exhausted the rest of A is appended, when A is exhausted the walk ends" timeout=300
+    //@harness props=C17,C01 quickfor=C17 strength=bounded tier=thorough bound="ONE execution: sets of 2 and 1 elements, positions (0, 0), comparison outcome greater (the instances of this family enumerate every position and outcome for these sizes)" clause="setDiff step: less => A's element emitted; equal => dropped, both advance; greater => B advances; when B is exhausted the rest of A is appended, when A is exhausted the walk ends" timeout=300 replay=sort_stable
     #[kani::proof]
     #[kani::unwind(8)]
     fn set_diff_2_1_at_0_0_greater() { two_pointer_at(W::Diff, 2, 1, 0, 0, ord_of(2)); }
-    //@harness props=C17,C01 quickfor=C17 strength=bounded tier=thorough bound="ONE execution: sets of 2 and 1 elements, positions (1, 0), comparison outcome less (the instances of this family enumerate every position and outcome for these sizes)" clause="setDiff step: less => A's element emitted; equal => dropped, both advance; greater => B advances; when B is exhausted the rest of A is appended, when A is exhausted the walk ends" timeout=300
+    //@harness props=C17,C01 quickfor=C17 strength=bounded tier=thorough bound="ONE execution: sets of 2 and 1 elements, positions (1, 0), comparison outcome less (the instances of this family enumerate every position and outcome for these sizes)" clause="setDiff step: less => A's element emitted; equal => dropped, both advance; greater => B advances; when B is exhausted the rest of A is appended, when A is exhausted the walk ends" timeout=300 replay=sort_stable
     #[kani::proof]
     #[kani::unwind(8)]
     fn set_diff_2_1_at_1_0_less() { two_pointer_at(W::Diff, 2, 1, 1, 0, ord_of(0)); }
-    //@harness props=C17,C01 quickfor=C17 strength=bounded tier=thorough bound="ONE execution: sets of 2 and 1 elements, positions (1, 0), comparison outcome equal (the instances of this family enumerate every position and outcome for these sizes)" clause="setDiff step: less => A's element emitted; equal => dropped, both advance; greater => B advances; when B is exhausted the rest of A is appended, when A is exhausted the walk ends" timeout=300
+    //@harness props=C17,C01 quickfor=C17 strength=bounded tier=thorough bound="ONE execution: sets of 2 and 1 elements, positions (1, 0), comparison outcome equal (the instances of this family enumerate every position and outcome for these sizes)" clause="setDiff step: less => A's element emitted; equal => dropped, both advance; greater => B advances; when B is exhausted the rest of A is appended, when A is exhausted the walk ends" timeout=300 replay=sort_stable
     #[kani::proof]
     #[kani::unwind(8)]
     fn set_diff_2_1_at_1_0_equal() { two_pointer_at(W::Diff, 2, 1, 1, 0, ord_of(1)); }
-    //@harness props=C17,C01 quickfor=C17 strength=bounded tier=thorough bound="ONE execution: sets of 2 and 1 elements, positions (1, 0), comparison outcome greater (the instances of this family enumerate every position and outcome for these sizes)" clause="setDiff step: less => A's element emitted; equal => dropped, both advance; greater => B advances; when B is exhausted the rest of A is appended, when A is exhausted the walk ends" timeout=300
+    //@harness props=C17,C01 quickfor=C17 strength=bounded tier=thorough bound="ONE execution: sets of 2 and 1 elements, positions (1, 0), comparison outcome greater (the instances of this family enumerate every position and outcome for these sizes)" clause="setDiff step: less => A's element emitted; equal => dropped, both advance; greater => B advances; when B is exhausted the rest of A is appended, when A is exhausted the walk ends" timeout=300 replay=sort_stable
     #[kani::proof]
     #[kani::unwind(8)]
     fn set_diff_2_1_at_1_0_greater() { two_pointer_at(W::Diff, 2, 1, 1, 0, ord_of(2)); }
-    //@harness props=C17,C01 quickfor=C17 strength=bounded tier=thorough bound="ONE execution: sets of 3 and 3 elements, positions (0, 0), comparison outcome less (the instances of this family enumerate every position and outcome for these sizes)" clause="setDiff step: less => A's element emitted; equal => dropped, both advance; greater => B advances; when B is exhausted the rest of A is appended, when A is exhausted the walk ends" timeout=300
+    //@harness props=C17,C01 quickfor=C17 strength=bounded tier=thorough bound="ONE execution: sets of 3 and 3 elements, positions (0, 0), comparison outcome less (the instances of this family enumerate every position and outcome for these sizes)" clause="setDiff step: less => A's element emitted; equal => dropped, both advance; greater => B advances; when B is exhausted the rest of A is appended, when A is exhausted the walk ends" timeout=300 replay=sort_stable
     #[kani::proof]
     #[kani::unwind(8)]
     fn set_diff_3_3_at_0_0_less() { two_pointer_at(W::Diff, 3, 3, 0, 0, ord_of(0)); }
-    //@harness props=C17,C01 quickfor=C17 strength=bounded tier=thorough bound="ONE execution: sets of 3 and 3 elements, positions (0, 0), comparison outcome equal (the instances of this family enumerate every position and outcome for these sizes)" clause="setDiff step: less => A's element emitted; equal => dropped, both advance; greater => B advances; when B is exhausted the rest of A is appended, when A is exhausted the walk ends" timeout=300
+    //@harness props=C17,C01 quickfor=C17 strength=bounded tier=thorough bound="ONE execution: sets of 3 and 3 elements, positions (0, 0), comparison outcome equal (the instances of this family enumerate every position and outcome for these sizes)" clause="setDiff step: less => A's element emitted; equal => dropped, both advance; greater => B advances; when B is exhausted the rest of A is appended, when A is exhausted the walk ends" timeout=300 replay=sort_stable
     #[kani::proof]
     #[kani::unwind(8)]
     fn set_diff_3_3_at_0_0_equal() { two_pointer_at(W::Diff, 3, 3, 0, 0, ord_of(1)); }
-    //@harness props=C17,C01 quickfor=C17 strength=bounded tier=thorough bound="ONE execution: sets of 3 and 3 elements, positions (0, 0), comparison outcome greater (the instances of this family enumerate every position and outcome for these sizes)" clause="setDiff step: less => A's element emitted; equal => dropped, both advance; greater => B advances; when B is exhausted the rest of A is appended, when A is exhausted the walk ends" timeout=300
+    //@harness props=C17,C01 quickfor=C17 strength=bounded tier=thorough bound="ONE execution: sets of 3 and 3 elements, positions (0, 0), comparison outcome greater (the instances of this family enumerate every position and outcome for these sizes)" clause="setDiff step: less => A's element emitted; equal => dropped, both advance; greater => B advances; when B is exhausted the rest of A is appended, when A is exhausted the walk ends" timeout=300 replay=sort_stable
     #[kani::proof]
     #[kani::unwind(8)]
     fn set_diff_3_3_at_0_0_greater() { two_pointer_at(W::Diff, 3, 3, 0, 0, ord_of(2)); }
-    //@harness props=C17,C01 quickfor=C17 strength=bounded tier=thorough bound="ONE execution: sets of 3 and 3 elements, positions (0, 1), comparison outcome less (the instances of this family enumerate every position and outcome for these sizes)" clause="setDiff step: less => A's element emitted; equal => dropped, both advance; greater => B advances; when B is exhausted the rest of A is appended, when A is exhausted the walk ends" timeout=300
+    //@harness props=C17,C01 quickfor=C17 strength=bounded tier=thorough bound="ONE execution: sets of 3 and 3 elements, positions (0, 1), comparison outcome less (the instances of this family enumerate every position and outcome for these sizes)" clause="setDiff step: less => A's element emitted; equal => dropped, both advance; greater => B advances; when B is exhausted the rest of A is appended, when A is exhausted the walk ends" timeout=300 replay=sort_stable
     #[kani::proof]
     #[kani::unwind(8)]
     fn set_diff_3_3_at_0_1_less() { two_pointer_at(W::Diff, 3, 3, 0, 1, ord_of(0)); }
-    //@harness props=C17,C01 quickfor=C17 strength=bounded tier=thorough bound="ONE execution: sets of 3 and 3 elements, positions (0, 1), comparison outcome equal (the instances of this family enumerate every position and outcome for these sizes)" clause="setDiff step: less => A's element emitted; equal => dropped, both advance; greater => B advances; when B is exhausted the rest of A is appended, when A is exhausted the walk ends" timeout=300
+    //@harness props=C17,C01 quickfor=C17 strength=bounded tier=thorough bound="ONE execution: sets of 3 and 3 elements, positions (0, 1), comparison outcome equal (the instances of this family enumerate every position and outcome for these sizes)" clause="setDiff step: less => A's element emitted; equal => dropped, both advance; greater => B advances; when B is exhausted the rest of A is appended, when A is exhausted the walk ends" timeout=300 replay=sort_stable
     #[kani::proof]
     #[kani::unwind(8)]
     fn set_diff_3_3_at_0_1_equal() { two_pointer_at(W::Diff, 3, 3, 0, 1, ord_of(1)); }
-    //@harness props=C17,C01 quickfor=C17 strength=bounded tier=thorough bound="ONE execution: sets of 3 and 3 elements, positions (0, 1), comparison outcome greater (the instances of this family enumerate every position and outcome for these sizes)" clause="setDiff step: less => A's element emitted; equal => dropped, both advance; greater => B advances; when B is exhausted the rest of A is appended, when A is exhausted the walk ends" timeout=300
+    //@harness props=C17,C01 quickfor=C17 strength=bounded tier=thorough bound="ONE execution: sets of 3 and 3 elements, positions (0, 1), comparison outcome greater (the instances of this family enumerate every position and outcome for these sizes)" clause="setDiff step: less => A's element emitted; equal => dropped, both advance; greater => B advances; when B is exhausted the rest of A is appended, when A is exhausted the walk ends" timeout=300 replay=sort_stable
     #[kani::proof]
     #[kani::unwind(8)]
     fn set_diff_3_3_at_0_1_greater() { two_pointer_at(W::Diff, 3, 3, 0, 1, ord_of(2)); }
-    //@harness props=C17,C01 quickfor=C17 strength=bounded tier=thorough bound="ONE execution: sets of 3 and 3 elements, positions (0, 2), comparison outcome less (the instances of this family enumerate every position and outcome for these sizes)" clause="setDiff step: less => A's element emitted; equal => dropped, both advance; greater => B advances; when B is exhausted the rest of A is appended, when A is exhausted the walk ends" timeout=300
+    //@harness props=C17,C01 quickfor=C17 strength=bounded tier=thorough bound="ONE execution: sets of 3 and 3 elements, positions (0, 2), comparison outcome less (the instances of this family enumerate every position and outcome for these sizes)" clause="setDiff step: less => A's element emitted; equal => dropped, both advance; greater => B advances; when B is exhausted the rest of A is appended, when A is exhausted the walk ends" timeout=300 replay=sort_stable
     #[kani::proof]
     #[kani::unwind(8)]
     fn set_diff_3_3_at_0_2_less() { two_pointer_at(W::Diff, 3, 3, 0, 2, ord_of(0)); }
-    //@harness props=C17,C01 quickfor=C17 strength=bounded tier=thorough bound="ONE execution: sets of 3 and 3 elements, positions (0, 2), comparison outcome equal (the instances of this family enumerate every position and outcome for these sizes)" clause="setDiff step: less => A's element emitted; equal => dropped, both advance; greater => B advances; when B is exhausted the rest of A is appended, when A is exhausted the walk ends" timeout=300
+    //@harness props=C17,C01 quickfor=C17 strength=bounded tier=thorough bound="ONE execution: sets of 3 and 3 elements, positions (0, 2), comparison outcome equal (the instances of this family enumerate every position and outcome for these sizes)" clause="setDiff step: less => A's element emitted; equal => dropped, both advance; greater => B advances; when B is exhausted the rest of A is appended, when A is exhausted the walk ends" timeout=300 replay=sort_stable
     #[kani::proof]
     #[kani::unwind(8)]
     fn set_diff_3_3_at_0_2_equal() { two_pointer_at(W::Diff, 3, 3, 0, 2, ord_of(1)); }
-    //@harness props=C17,C01 quickfor=C17 strength=bounded tier=thorough bound="ONE execution: sets of 3 and 3 elements, positions (0, 2), comparison outcome greater (the instances of this family enumerate every position and outcome for these sizes)" clause="setDiff step: less => A's element emitted; equal => dropped, both advance; greater => B advances; when B is exhausted the rest of A is appended, when A is exhausted the walk ends" timeout=300
+    //@harness props=C17,C01 quickfor=C17 strength=bounded tier=thorough bound="ONE execution: sets of 3 and 3 elements, positions (0, 2), comparison outcome greater (the instances of this family enumerate every position and outcome for these sizes)" clause="setDiff step: less => A's element emitted; equal => dropped, both advance; greater => B advances; when B is exhausted the rest of A is appended, when A is exhausted the walk ends" timeout=300 replay=sort_stable
     #[kani::proof]
     #[kani::unwind(8)]
     fn set_diff_3_3_at_0_2_greater() { two_pointer_at(W::Diff, 3, 3, 0, 2, ord_of(2)); }
-    //@harness props=C17,C01 quickfor=C17 strength=bounded tier=thorough bound="ONE execution: sets of 3 and 3 elements, positions (1, 0), comparison outcome less (the instances of this family enumerate every position and outcome for these sizes)" clause="setDiff step: less => A's element emitted; equal => dropped, both advance; greater => B advances; when B is exhausted the rest of A is appended, when A is exhausted the walk ends" timeout=300
+    //@harness props=C17,C01 quickfor=C17 strength=bounded tier=thorough bound="ONE execution: sets of 3 and 3 elements, positions (1, 0), comparison outcome less (the instances of this family enumerate every position and outcome for these sizes)" clause="setDiff step: less => A's element emitted; equal => dropped, both advance; greater => B advances; when B is exhausted the rest of A is appended, when A is exhausted the walk ends" timeout=300 replay=sort_stable
     #[kani::proof]
     #[kani::unwind(8)]
     fn set_diff_3_3_at_1_0_less() { two_pointer_at(W::Diff, 3, 3, 1, 0, ord_of(0)); }
-    //@harness props=C17,C01 quickfor=C17 strength=bounded tier=thorough bound="ONE execution: sets of 3 and 3 elements, positions (1, 0), comparison outcome equal (the instances of this family enumerate every position and outcome for these sizes)" clause="setDiff step: less => A's element emitted; equal => dropped, both advance; greater => B advances; when B is exhausted the rest of A is appended, when A is exhausted the walk ends" timeout=300
+    //@harness props=C17,C01 quickfor=C17 strength=bounded tier=thorough bound="ONE execution: sets of 3 and 3 elements, positions (1, 0), comparison outcome equal (the instances of this family enumerate every position and outcome for these sizes)" clause="setDiff step: less => A's element emitted; equal => dropped, both advance; greater => B advances; when B is exhausted the rest of A is appended, when A is exhausted the walk ends" timeout=300 replay=sort_stable
     #[kani::proof]
     #[kani::unwind(8)]
     fn set_diff_3_3_at_1_0_equal() { two_pointer_at(W::Diff, 3, 3, 1, 0, ord_of(1)); }
-    //@harness props=C17,C01 quickfor=C17 strength=bounded tier=thorough bound="ONE execution: sets of 3 and 3 elements, positions (1, 0), comparison outcome greater (the instances of this family enumerate every position and outcome for these sizes)" clause="setDiff step: less => A's element emitted; equal => dropped, both advance; greater => B advances; when B is exhausted the rest of A is appended, when A is exhausted the walk ends" timeout=300
+    //@harness props=C17,C01 quickfor=C17 strength=bounded tier=thorough bound="ONE execution: sets of 3 and 3 elements, positions (1, 0), comparison outcome greater (the instances of this family enumerate every position and outcome for these sizes)" clause="setDiff step: less => A's element emitted; equal => dropped, both advance; greater => B advances; when B is exhausted the rest of A is appended, when A is exhausted the walk ends" timeout=300 replay=sort_stable
     #[kani::proof]
     #[kani::unwind(8)]
     fn set_diff_3_3_at_1_0_greater() { two_pointer_at(W::Diff, 3, 3, 1, 0, ord_of(2)); }
-    //@harness props=C17,C01 quickfor=C17 strength=bounded tier=thorough bound="ONE execution: sets of 3 and 3 elements, positions (1, 1), comparison outcome less (the instances of this family enumerate every position and outcome for these sizes)" clause="setDiff step: less => A's element emitted; equal => dropped, both advance; greater => B advances; when B is exhausted the rest of A is appended, when A is exhausted the walk ends" timeout=300
+    //@harness props=C17,C01 quickfor=C17 strength=bounded tier=thorough bound="ONE execution: sets of 3 and 3 elements, positions (1, 1), comparison outcome less (the instances of this family enumerate every position and outcome for these sizes)" clause="setDiff step: less => A's element emitted; equal => dropped, both advance; greater => B advances; when B is exhausted the rest of A is appended, when A is exhausted the walk ends" timeout=300 replay=sort_stable
     #[kani::proof]
     #[kani::unwind(8)]
     fn set_diff_3_3_at_1_1_less() { two_pointer_at(W::Diff, 3, 3, 1, 1, ord_of(0)); }
-    //@harness props=C17,C01 quickfor=C17 strength=bounded tier=thorough bound="ONE execution: sets of 3 and 3 elements, positions (1, 1), comparison outcome equal (the instances of this family enumerate every position and outcome for these sizes)" clause="setDiff step: less => A's element emitted; equal => dropped, both advance; greater => B advances; when B is exhausted the rest of A is appended, when A is exhausted the walk ends" timeout=300
+    //@harness props=C17,C01 quickfor=C17 strength=bounded tier=thorough bound="ONE execution: sets of 3 and 3 elements, positions (1, 1), comparison outcome equal (the instances of this family enumerate every position and outcome for these sizes)" clause="setDiff step: less => A's element emitted; equal => dropped, both advance; greater => B advances; when B is exhausted the rest of A is appended, when A is exhausted the walk ends" timeout=300 replay=sort_stable
     #[kani::proof]
     #[kani::unwind(8)]
     fn set_diff_3_3_at_1_1_equal() { two_pointer_at(W::Diff, 3, 3, 1, 1, ord_of(1)); }
-    //@harness props=C17,C01 quickfor=C17 strength=bounded tier=thorough bound="ONE execution: sets of 3 and 3 elements, positions (1, 1), comparison outcome greater (the instances of this family enumerate every position and outcome for these sizes)" clause="setDiff step: less => A's element emitted; equal => dropped, both advance; greater => B advances; when B is exhausted the rest of A is appended, when A is exhausted the walk ends" timeout=300
+    //@harness props=C17,C01 quickfor=C17 strength=bounded tier=thorough bound="ONE execution: sets of 3 and 3 elements, positions (1, 1), comparison outcome greater (the instances of this family enumerate every position and outcome for these sizes)" clause="setDiff step: less => A's element emitted; equal => dropped, both advance; greater => B advances; when B is exhausted the rest of A is appended, when A is exhausted the walk ends" timeout=300 replay=sort_stable
     #[kani::proof]
     #[kani::unwind(8)]
     fn set_diff_3_3_at_1_1_greater() { two_pointer_at(W::Diff, 3, 3, 1, 1, ord_of(2)); }
-    //@harness props=C17,C01 quickfor=C17 strength=bounded tier=thorough bound="ONE execution: sets of 3 and 3 elements, positions (1, 2), comparison outcome less (the instances of this family enumerate every position and outcome for these sizes)" clause="setDiff step: less => A's element emitted; equal => dropped, both advance; greater => B advances; when B is exhausted the rest of A is appended, when A is exhausted the walk ends" timeout=300
+    //@harness props=C17,C01 quickfor=C17 strength=bounded tier=thorough bound="ONE execution: sets of 3 and 3 elements, positions (1, 2), comparison outcome less (the instances of this family enumerate every position and outcome for these sizes)" clause="setDiff step: less => A's element emitted; equal => dropped, both advance; greater => B advances; when B is exhausted the rest of A is appended, when A is exhausted the walk ends" timeout=300 replay=sort_stable
     #[kani::proof]
     #[kani::unwind(8)]
     fn set_diff_3_3_at_1_2_less() { two_pointer_at(W::Diff, 3, 3, 1, 2, ord_of(0)); }
-    //@harness props=C17,C01 quickfor=C17 strength=bounded tier=thorough bound="ONE execution: sets of 3 and 3 elements, positions (1, 2), comparison outcome equal (the instances of this family enumerate every position and outcome for these sizes)" clause="setDiff step: less => A's element emitted; equal => dropped, both advance; greater => B advances; when B is exhausted the rest of A is appended, when A is exhausted the walk ends" timeout=300
+    //@harness props=C17,C01 quickfor=C17 strength=bounded tier=thorough bound="ONE execution: sets of 3 and 3 elements, positions (1, 2), comparison outcome equal (the instances of this family enumerate every position and outcome for these sizes)" clause="setDiff step: less => A's element emitted; equal => dropped, both advance; greater => B advances; when B is exhausted the rest of A is appended, when A is exhausted the walk ends" timeout=300 replay=sort_stable
     #[kani::proof]
     #[kani::unwind(8)]
     fn set_diff_3_3_at_1_2_equal() { two_pointer_at(W::Diff, 3, 3, 1, 2, ord_of(1)); }
-    //@harness props=C17,C01 quickfor=C17 strength=bounded tier=thorough bound="ONE execution: sets of 3 and 3 elements, positions (1, 2), comparison outcome greater (the instances of this family enumerate every position and outcome for these sizes)" clause="setDiff step: less => A's element emitted; equal => dropped, both advance; greater => B advances; when B is exhausted the rest of A is appended, when A is exhausted the walk ends" timeout=300
+    //@harness props=C17,C01 quickfor=C17 strength=bounded tier=thorough bound="ONE execution: sets of 3 and 3 elements, positions (1, 2), comparison outcome greater (the instances of this family enumerate every position and outcome for these sizes)" clause="setDiff step: less => A's element emitted; equal => dropped, both advance; greater => B advances; when B is exhausted the rest of A is appended, when A is exhausted the walk ends" timeout=300 replay=sort_stable
     #[kani::proof]
     #[kani::unwind(8)]
     fn set_diff_3_3_at_1_2_greater() { two_pointer_at(W::Diff, 3, 3, 1, 2, ord_of(2)); }
-    //@harness props=C17,C01 quickfor=C17 strength=bounded tier=thorough bound="ONE execution: sets of 3 and 3 elements, positions (2, 0), comparison outcome less (the instances of this family enumerate every position and outcome for these sizes)" clause="setDiff step: less => A's element emitted; equal => dropped, both advance; greater => B advances; when B is exhausted the rest of A is appended, when A is exhausted the walk ends" timeout=300
+    //@harness props=C17,C01 quickfor=C17 strength=bounded tier=thorough bound="ONE execution: sets of 3 and 3 elements, positions (2, 0), comparison outcome less (the instances of this family enumerate every position and outcome for these sizes)" clause="setDiff step: less => A's element emitted; equal => dropped, both advance; greater => B advances; when B is exhausted the rest of A is appended, when A is exhausted the walk ends" timeout=300 replay=sort_stable
     #[kani::proof]
     #[kani::unwind(8)]
     fn set_diff_3_3_at_2_0_less() { two_pointer_at(W::Diff, 3, 3, 2, 0, ord_of(0)); }
-    //@harness props=C17,C01 quickfor=C17 strength=bounded tier=thorough bound="ONE execution: sets of 3 and 3 elements, positions (2, 0), comparison outcome equal (the instances of this family enumerate every position and outcome for these sizes)" clause="setDiff step: less => A's element emitted; equal => dropped, both advance; greater => B advances; when B is exhausted the rest of A is appended, when A is exhausted the walk ends" timeout=300
+    //@harness props=C17,C01 quickfor=C17 strength=bounded tier=thorough bound="ONE execution: sets of 3 and 3 elements, positions (2, 0), comparison outcome equal (the instances of this family enumerate every position and outcome for these sizes)" clause="setDiff step: less => A's element emitted; equal => dropped, both advance; greater => B advances; when B is exhausted the rest of A is appended, when A is exhausted the walk ends" timeout=300 replay=sort_stable
     #[kani::proof]
     #[kani::unwind(8)]
     fn set_diff_3_3_at_2_0_equal() { two_pointer_at(W::Diff, 3, 3, 2, 0, ord_of(1)); }
-    //@harness props=C17,C01 quickfor=C17 strength=bounded tier=thorough bound="ONE execution: sets of 3 and 3 elements, positions (2, 0), comparison outcome greater (the instances of this family enumerate every position and outcome for these sizes)" clause="setDiff step: less => A's element emitted; equal => dropped, both advance; greater => B advances; when B is exhausted the rest of A is appended, when A is exhausted the walk ends" timeout=300
+    //@harness props=C17,C01 quickfor=C17 strength=bounded tier=thorough bound="ONE execution: sets of 3 and 3 elements, positions (2, 0), comparison outcome greater (the instances of this family enumerate every position and outcome for these sizes)" clause="setDiff step: less => A's element emitted; equal => dropped, both advance; greater => B advances; when B is exhausted the rest of A is appended, when A is exhausted the walk ends" timeout=300 replay=sort_stable
     #[kani::proof]
     #[kani::unwind(8)]
     fn set_diff_3_3_at_2_0_greater() { two_pointer_at(W::Diff, 3, 3, 2, 0, ord_of(2)); }
-    //@harness props=C17,C01 quickfor=C17 strength=bounded tier=thorough bound="ONE execution: sets of 3 and 3 elements, positions (2, 1), comparison outcome less (the instances of this family enumerate every position and outcome for these sizes)" clause="setDiff step: less => A's element emitted; equal => dropped, both advance; greater => B advances; when B is exhausted the rest of A is appended, when A is exhausted the walk ends" timeout=300
+    //@harness props=C17,C01 quickfor=C17 strength=bounded tier=thorough bound="ONE execution: sets of 3 and 3 elements, positions (2, 1), comparison outcome less (the instances of this family enumerate every position and outcome for these sizes)" clause="setDiff step: less => A's element emitted; equal => dropped, both advance; greater => B advances; when B is exhausted the rest of A is appended, when A is exhausted the walk ends" timeout=300 replay=sort_stable
     #[kani::proof]
     #[kani::unwind(8)]
     fn set_diff_3_3_at_2_1_less() { two_pointer_at(W::Diff, 3, 3, 2, 1, ord_of(0)); }
-    //@harness props=C17,C01 quickfor=C17 strength=bounded tier=thorough bound="ONE execution: sets of 3 and 3 elements, positions (2, 1), comparison outcome equal (the instances of this family enumerate every position and outcome for these sizes)" clause="setDiff step: less => A's element emitted; equal => dropped, both advance; greater => B advances; when B is exhausted the rest of A is appended, when A is exhausted the walk ends" timeout=300
+    //@harness props=C17,C01 quickfor=C17 strength=bounded tier=thorough bound="ONE execution: sets of 3 and 3 elements, positions (2, 1), comparison outcome equal (the instances of this family enumerate every position and outcome for these sizes)" clause="setDiff step: less => A's element emitted; equal => dropped, both advance; greater => B advances; when B is exhausted the rest of A is appended, when A is exhausted the walk ends" timeout=300 replay=sort_stable
     #[kani::proof]
     #[kani::unwind(8)]
     fn set_diff_3_3_at_2_1_equal() { two_pointer_at(W::Diff, 3, 3, 2, 1, ord_of(1)); }
-    //@harness props=C17,C01 quickfor=C17 strength=bounded tier=thorough bound="ONE execution: sets of 3 and 3 elements, positions (2, 1), comparison outcome greater (the instances of this family enumerate every position and outcome for these sizes)" clause="setDiff step: less => A's element emitted; equal => dropped, both advance; greater => B advances; when B is exhausted the rest of A is appended, when A is exhausted the walk ends" timeout=300
+    //@harness props=C17,C01 quickfor=C17 strength=bounded tier=thorough bound="ONE execution: sets of 3 and 3 elements, positions (2, 1), comparison outcome greater (the instances of this family enumerate every position and outcome for these sizes)" clause="setDiff step: less => A's element emitted; equal => dropped, both advance; greater => B advances; when B is exhausted the rest of A is appended, when A is exhausted the walk ends" timeout=300 replay=sort_stable
     #[kani::proof]
     #[kani::unwind(8)]
     fn set_diff_3_3_at_2_1_greater() { two_pointer_at(W::Diff, 3, 3, 2, 1, ord_of(2)); }
-    //@harness props=C17,C01 quickfor=C17 strength=bounded tier=thorough bound="ONE execution: sets of 3 and 3 elements, positions (2, 2), comparison outcome less (the instances of this family enumerate every position and outcome for these sizes)" clause="setDiff step: less => A's element emitted; equal => dropped, both advance; greater => B advances; when B is exhausted the rest of A is appended, when A is exhausted the walk ends" timeout=300
+    //@harness props=C17,C01 quickfor=C17 strength=bounded tier=thorough bound="ONE execution: sets of 3 and 3 elements, positions (2, 2), comparison outcome less (the instances of this family enumerate every position and outcome for these sizes)" clause="setDiff step: less => A's element emitted; equal => dropped, both advance; greater => B advances; when B is exhausted the rest of A is appended, when A is exhausted the walk ends" timeout=300 replay=sort_stable
     #[kani::proof]
     #[kani::unwind(8)]
     fn set_diff_3_3_at_2_2_less() { two_pointer_at(W::Diff, 3, 3, 2, 2, ord_of(0)); }
-    //@harness props=C17,C01 quickfor=C17 strength=bounded tier=thorough bound="ONE execution: sets of 3 and 3 elements, positions (2, 2), comparison outcome equal (the instances of this family enumerate every position and outcome for these sizes)" clause="setDiff step: less => A's element emitted; equal => dropped, both advance; greater => B advances; when B is exhausted the rest of A is appended, when A is exhausted the walk ends" timeout=300
+    //@harness props=C17,C01 quickfor=C17 strength=bounded tier=thorough bound="ONE execution: sets of 3 and 3 elements, positions (2, 2), comparison outcome equal (the instances of this family enumerate every position and outcome for these sizes)" clause="setDiff step: less => A's element emitted; equal => dropped, both advance; greater => B advances; when B is exhausted the rest of A is appended, when A is exhausted the walk ends" timeout=300 replay=sort_stable
     #[kani::proof]
     #[kani::unwind(8)]
     fn set_diff_3_3_at_2_2_equal() { two_pointer_at(W::Diff, 3, 3, 2, 2, ord_of(1)); }
-    //@harness props=C17,C01 quickfor=C17 strength=bounded tier=thorough bound="ONE execution: sets of 3 and 3 elements, positions (2, 2), comparison outcome greater (the instances of this family enumerate every position and outcome for these sizes)" clause="setDiff step: less => A's element emitted; equal => dropped, both advance; greater => B advances; when B is exhausted the rest of A is appended, when A is exhausted the walk ends" timeout=300
+    //@harness props=C17,C01 quickfor=C17 strength=bounded tier=thorough bound="ONE execution: sets of 3 and 3 elements, positions (2, 2), comparison outcome greater (the instances of this family enumerate every position and outcome for these sizes)" clause="setDiff step: less => A's element emitted; equal => dropped, both advance; greater => B advances; when B is exhausted the rest of A is appended, when A is exhausted the walk ends" timeout=300 replay=sort_stable
     #[kani::proof]
     #[kani::unwind(8)]
     fn set_diff_3_3_at_2_2_greater() { two_pointer_at(W::Diff, 3, 3, 2, 2, ord_of(2)); }
-    //@harness props=C17,C01 quickfor=C17 strength=bounded tier=thorough bound="ONE execution: sets of 1 and 1 elements, positions (0, 0), comparison outcome less (the instances of this family enumerate every position and outcome for these sizes)" clause="setDiff step: less => A's element emitted; equal => dropped, both advance; greater => B advances; when B is exhausted the rest of A is appended, when A is exhausted the walk ends" timeout=300
+    //@harness props=C17,C01 quickfor=C17 strength=bounded tier=thorough bound="ONE execution: sets of 1 and 1 elements, positions (0, 0), comparison outcome less (the instances of this family enumerate every position and outcome for these sizes)" clause="setDiff step: less => A's element emitted; equal => dropped, both advance; greater => B advances; when B is exhausted the rest of A is appended, when A is exhausted the walk ends" timeout=300 replay=sort_stable
     #[kani::proof]
     #[kani::unwind(8)]
     fn set_diff_1_1_at_0_0_less() { two_pointer_at(W::Diff, 1, 1, 0, 0, ord_of(0)); }
-    //@harness props=C17,C01 quickfor=C17 strength=bounded tier=thorough bound="ONE execution: sets of 1 and 1 elements, positions (0, 0), comparison outcome equal (the instances of this family enumerate every position and outcome for these sizes)" clause="setDiff step: less => A's element emitted; equal => dropped, both advance; greater => B advances; when B is exhausted the rest of A is appended, when A is exhausted the walk ends" timeout=300
+    //@harness props=C17,C01 quickfor=C17 strength=bounded tier=thorough bound="ONE execution: sets of 1 and 1 elements, positions (0, 0), comparison outcome equal (the instances of this family enumerate every position and outcome for these sizes)" clause="setDiff step: less => A's element emitted; equal => dropped, both advance; greater => B advances; when B is exhausted the rest of A is appended, when A is exhausted the walk ends" timeout=300 replay=sort_stable
     #[kani::proof]
     #[kani::unwind(8)]
     fn set_diff_1_1_at_0_0_equal() { two_pointer_at(W::Diff, 1, 1, 0, 0, ord_of(1)); }
-    //@harness props=C17,C01 quickfor=C17 strength=bounded tier=thorough bound="ONE execution: sets of 1 and 1 elements, positions (0, 0), comparison outcome greater (the instances of this family enumerate every position and outcome for these sizes)" clause="setDiff step: less => A's element emitted; equal => dropped, both advance; greater => B advances; when B is exhausted the rest of A is appended, when A is exhausted the walk ends" timeout=300
+    //@harness props=C17,C01 quickfor=C17 strength=bounded tier=thorough bound="ONE execution: sets of 1 and 1 elements, positions (0, 0), comparison outcome greater (the instances of this family enumerate every position and outcome for these sizes)" clause="setDiff step: less => A's element emitted; equal => dropped, both advance; greater => B advances; when B is exhausted the rest of A is appended, when A is exhausted the walk ends" timeout=300 replay=sort_stable
     #[kani::proof]
     #[kani::unwind(8)]
     fn set_diff_1_1_at_0_0_greater() { two_pointer_at(W::Diff, 1, 1, 0, 0, ord_of(2)); }
-    //@harness props=C17,C01 quickfor=C17 strength=bounded tier=thorough bound="ONE execution: sets of 2 and 3 elements, positions (0, 0), comparison outcome less (the instances of this family enumerate every position and outcome for these sizes)" clause="setDiff step: less => A's element emitted; equal => dropped, both advance; greater => B advances; when B is exhausted the rest of A is appended, when A is exhausted the walk ends" timeout=300
+    //@harness props=C17,C01 quickfor=C17 strength=bounded tier=thorough bound="ONE execution: sets of 2 and 3 elements, positions (0, 0), comparison outcome less (the instances of this family enumerate every position and outcome for these sizes)" clause="setDiff step: less => A's element emitted; equal => dropped, both advance; greater => B advances; when B is exhausted the rest of A is appended, when A is exhausted the walk ends" timeout=300 replay=sort_stable
     #[kani::proof]
     #[kani::unwind(8)]
     fn set_diff_2_3_at_0_0_less() { two_pointer_at(W::Diff, 2, 3, 0, 0, ord_of(0)); }
-    //@harness props=C17,C01 quickfor=C17 strength=bounded tier=thorough bound="ONE execution: sets of 2 and 3 elements, positions (0, 0), comparison outcome equal (the instances of this family enumerate every position and outcome for these sizes)" clause="setDiff step: less => A's element emitted; equal => dropped, both advance; greater => B advances; when B is exhausted the rest of A is appended, when A is exhausted the walk ends" timeout=300
+    //@harness props=C17,C01 quickfor=C17 strength=bounded tier=thorough bound="ONE execution: sets of 2 and 3 elements, positions (0, 0), comparison outcome equal (the instances of this family enumerate every position and outcome for these sizes)" clause="setDiff step: less => A's element emitted; equal => dropped, both advance; greater => B advances; when B is exhausted the rest of A is appended, when A is exhausted the walk ends" timeout=300 replay=sort_stable
     #[kani::proof]
     #[kani::unwind(8)]
     fn set_diff_2_3_at_0_0_equal() { two_pointer_at(W::Diff, 2, 3, 0, 0, ord_of(1)); }
-    //@harness props=C17,C01 quickfor=C17 strength=bounded tier=thorough bound="ONE execution: sets of 2 and 3 elements, positions (0, 0), comparison outcome greater (the instances of this family enumerate every position and outcome for these sizes)" clause="setDiff step: less => A's element emitted; equal => dropped, both advance; greater => B advances; when B is exhausted the rest of A is appended, when A is exhausted the walk ends" timeout=300
+    //@harness props=C17,C01 quickfor=C17 strength=bounded tier=thorough bound="ONE execution: sets of 2 and 3 elements, positions (0, 0), comparison outcome greater (the instances of this family enumerate every position and outcome for these sizes)" clause="setDiff step: less => A's element emitted; equal => dropped, both advance; greater => B advances; when B is exhausted the rest of A is appended, when A is exhausted the walk ends" timeout=300 replay=sort_stable
     #[kani::proof]
     #[kani::unwind(8)]
     fn set_diff_2_3_at_0_0_greater() { two_pointer_at(W::Diff, 2, 3, 0, 0, ord_of(2)); }
-    //@harness props=C17,C01 quickfor=C17 strength=bounded tier=thorough bound="ONE execution: sets of 2 and 3 elements, positions (0, 1), comparison outcome less (the instances of this family enumerate every position and outcome for these sizes)" clause="setDiff step: less => A's element emitted; equal => dropped, both advance; greater => B advances; when B is exhausted the rest of A is appended, when A is exhausted the walk ends" timeout=300
+    //@harness props=C17,C01 quickfor=C17 strength=bounded tier=thorough bound="ONE execution: sets of 2 and 3 elements, positions (0, 1), comparison outcome less (the instances of this family enumerate every position and outcome for these sizes)" clause="setDiff step: less => A's element emitted; equal => dropped, both advance; greater => B advances; when B is exhausted the rest of A is appended, when A is exhausted the walk ends" timeout=300 replay=sort_stable
     #[kani::proof]
     #[kani::unwind(8)]
     fn set_diff_2_3_at_0_1_less() { two_pointer_at(W::Diff, 2, 3, 0, 1, ord_of(0)); }
-    //@harness props=C17,C01 quickfor=C17 strength=bounded tier=thorough bound="ONE execution: sets of 2 and 3 elements, positions (0, 1), comparison outcome equal (the instances of this family enumerate every position and outcome for these sizes)" clause="setDiff step: less => A's element emitted; equal => dropped, both advance; greater => B advances; when B is exhausted the rest of A is appended, when A is exhausted the walk ends" timeout=300
+    //@harness props=C17,C01 quickfor=C17 strength=bounded tier=thorough bound="ONE execution: sets of 2 and 3 elements, positions (0, 1), comparison outcome equal (the instances of this family enumerate every position and outcome for these sizes)" clause="setDiff step: less => A's element emitted; equal => dropped, both advance; greater => B advances; when B is exhausted the rest of A is appended, when A is exhausted the walk ends" timeout=300 replay=sort_stable
     #[kani::proof]
     #[kani::unwind(8)]
     fn set_diff_2_3_at_0_1_equal() { two_pointer_at(W::Diff, 2, 3, 0, 1, ord_of(1)); }
-    //@harness props=C17,C01 quickfor=C17 strength=bounded tier=thorough bound="ONE execution: sets of 2 and 3 elements, positions (0, 1), comparison outcome greater (the instances of this family enumerate every position and outcome for these sizes)" clause="setDiff step: less => A's element emitted; equal => dropped, both advance; greater => B advances; when B is exhausted the rest of A is appended, when A is exhausted the walk ends" timeout=300
+    //@harness props=C17,C01 quickfor=C17 strength=bounded tier=thorough bound="ONE execution: sets of 2 and 3 elements, positions (0, 1), comparison outcome greater (the instances of this family enumerate every position and outcome for these sizes)" clause="setDiff step: less => A's element emitted; equal => dropped, both advance; greater => B advances; when B is exhausted the rest of A is appended, when A is exhausted the walk ends" timeout=300 replay=sort_stable
     #[kani::proof]
     #[kani::unwind(8)]
     fn set_diff_2_3_at_0_1_greater() { two_pointer_at(W::Diff, 2, 3, 0, 1, ord_of(2)); }
-    //@harness props=C17,C01 quickfor=C17 strength=bounded tier=thorough bound="ONE execution: sets of 2 and 3 elements, positions (0, 2), comparison outcome less (the instances of this family enumerate every position and outcome for these sizes)" clause="setDiff step: less => A's element emitted; equal => dropped, both advance; greater => B advances; when B is exhausted the rest of A is appended, when A is exhausted the walk ends" timeout=300
+    //@harness props=C17,C01 quickfor=C17 strength=bounded tier=thorough bound="ONE execution: sets of 2 and 3 elements, positions (0, 2), comparison outcome less (the instances of this family enumerate every position and outcome for these sizes)" clause="setDiff step: less => A's element emitted; equal => dropped, both advance; greater => B advances; when B is exhausted the rest of A is appended, when A is exhausted the walk ends" timeout=300 replay=sort_stable
     #[kani::proof]
     #[kani::unwind(8)]
     fn set_diff_2_3_at_0_2_less() { two_pointer_at(W::Diff, 2, 3, 0, 2, ord_of(0)); }
-    //@harness props=C17,C01 quickfor=C17 strength=bounded tier=thorough bound="ONE execution: sets of 2 and 3 elements, positions (0, 2), comparison outcome equal (the instances of this family enumerate every position and outcome for these sizes)" clause="setDiff step: less => A's element emitted; equal => dropped, both advance; greater => B advances; when B is exhausted the rest of A is appended, when A is exhausted the walk ends" timeout=300
+    //@harness props=C17,C01 quickfor=C17 strength=bounded tier=thorough bound="ONE execution: sets of 2 and 3 elements, positions (0, 2), comparison outcome equal (the instances of this family enumerate every position and outcome for these sizes)" clause="setDiff step: less => A's element emitted; equal => dropped, both advance; greater => B advances; when B is exhausted the rest of A is appended, when A is exhausted the walk ends" timeout=300 replay=sort_stable
     #[kani::proof]
     #[kani::unwind(8)]
     fn set_diff_2_3_at_0_2_equal() { two_pointer_at(W::Diff, 2, 3, 0, 2, ord_of(1)); }
-    //@harness props=C17,C01 quickfor=C17 strength=bounded tier=thorough bound="ONE execution: sets of 2 and 3 elements, positions (0, 2), comparison outcome greater (the instances of this family enumerate every position and outcome for these sizes)" clause="setDiff step: less => A's element emitted; equal => dropped, both advance; greater => B advances; when B is exhausted the rest of A is appended, when A is exhausted the walk ends" timeout=300
+    //@harness props=C17,C01 quickfor=C17 strength=bounded tier=thorough bound="ONE execution: sets of 2 and 3 elements, positions (0, 2), comparison outcome greater (the instances of this family enumerate every position and outcome for these sizes)" clause="setDiff step: less => A's element emitted; equal => dropped, both advance; greater => B advances; when B is exhausted the rest of A is appended, when A is exhausted the walk ends" timeout=300 replay=sort_stable
     #[kani::proof]
     #[kani::unwind(8)]
     fn set_diff_2_3_at_0_2_greater() { two_pointer_at(W::Diff, 2, 3, 0, 2, ord_of(2)); }
-    //@harness props=C17,C01 quickfor=C17 strength=bounded tier=thorough bound="ONE execution: sets of 2 and 3 elements, positions (1, 0), comparison outcome less (the instances of this family enumerate every position and outcome for these sizes)" clause="setDiff step: less => A's element emitted; equal => dropped, both advance; greater => B advances; when B is exhausted the rest of A is appended, when A is exhausted the walk ends" timeout=300
+    //@harness props=C17,C01 quickfor=C17 strength=bounded tier=thorough bound="ONE execution: sets of 2 and 3 elements, positions (1, 0), comparison outcome less (the instances of this family enumerate every position and outcome for these sizes)" clause="setDiff step: less => A's element emitted; equal => dropped, both advance; greater => B advances; when B is exhausted the rest of A is appended, when A is exhausted the walk ends" timeout=300 replay=sort_stable
     #[kani::proof]
     #[kani::unwind(8)]
     fn set_diff_2_3_at_1_0_less() { two_pointer_at(W::Diff, 2, 3, 1, 0, ord_of(0)); }
-    //@harness props=C17,C01 quickfor=C17 strength=bounded tier=thorough bound="ONE execution: sets of 2 and 3 elements, positions (1, 0), comparison outcome equal (the instances of this family enumerate every position and outcome for these sizes)" clause="setDiff step: less => A's element emitted; equal => dropped, both advance; greater => B advances; when B is exhausted the rest of A is appended, when A is exhausted the walk ends" timeout=300
+    //@harness props=C17,C01 quickfor=C17 strength=bounded tier=thorough bound="ONE execution: sets of 2 and 3 elements, positions (1, 0), comparison outcome equal (the instances of this family enumerate every position and outcome for these sizes)" clause="setDiff step: less => A's element emitted; equal => dropped, both advance; greater => B advances; when B is exhausted the rest of A is appended, when A is exhausted the walk ends" timeout=300 replay=sort_stable
     #[kani::proof]
     #[kani::unwind(8)]
     fn set_diff_2_3_at_1_0_equal() { two_pointer_at(W::Diff, 2, 3, 1, 0, ord_of(1)); }
-    //@harness props=C17,C01 quickfor=C17 strength=bounded tier=thorough bound="ONE execution: sets of 2 and 3 elements, positions (1, 0), comparison outcome greater (the instances of this family enumerate every position and outcome for these sizes)" clause="setDiff step: less => A's element emitted; equal => dropped, both advance; greater => B advances; when B is exhausted the rest of A is appended, when A is exhausted the walk ends" timeout=300
+    //@harness props=C17,C01 quickfor=C17 strength=bounded tier=thorough bound="ONE execution: sets of 2 and 3 elements, positions (1, 0), comparison outcome greater (the instances of this family enumerate every position and outcome for these sizes)" clause="setDiff step: less => A's element emitted; equal => dropped, both advance; greater => B advances; when B is exhausted the rest of A is appended, when A is exhausted the walk ends" timeout=300 replay=sort_stable
     #[kani::proof]
     #[kani::unwind(8)]
     fn set_diff_2_3_at_1_0_greater() { two_pointer_at(W::Diff, 2, 3, 1, 0, ord_of(2)); }
-    //@harness props=C17,C01 quickfor=C17 strength=bounded tier=thorough bound="ONE execution: sets of 2 and 3 elements, positions (1, 1), comparison outcome less (the instances of this family enumerate every position and outcome for these sizes)" clause="setDiff step: less => A's element emitted; equal => dropped, both advance; greater => B advances; when B is exhausted the rest of A is appended, when A is exhausted the walk ends" timeout=300
+    //@harness props=C17,C01 quickfor=C17 strength=bounded tier=thorough bound="ONE execution: sets of 2 and 3 elements, positions (1, 1), comparison outcome less (the instances of this family enumerate every position and outcome for these sizes)" clause="setDiff step: less => A's element emitted; equal => dropped, both advance; greater => B advances; when B is exhausted the rest of A is appended, when A is exhausted the walk ends" timeout=300 replay=sort_stable
     #[kani::proof]
     #[kani::unwind(8)]
     fn set_diff_2_3_at_1_1_less() { two_pointer_at(W::Diff, 2, 3, 1, 1, ord_of(0)); }
-    //@harness props=C17,C01 quickfor=C17 strength=bounded tier=thorough bound="ONE execution: sets of 2 and 3 elements, positions (1, 1), comparison outcome equal (the instances of this family enumerate every position and outcome for these sizes)" clause="setDiff step: less => A's element emitted; equal => dropped, both advance; greater => B advances; when B is exhausted the rest of A is appended, when A is exhausted the walk ends" timeout=300
+    //@harness props=C17,C01 quickfor=C17 strength=bounded tier=thorough bound="ONE execution: sets of 2 and 3 elements, positions (1, 1), comparison outcome equal (the instances of this family enumerate every position and outcome for these sizes)" clause="setDiff step: less => A's element emitted; equal => dropped, both advance; greater => B advances; when B is exhausted the rest of A is appended, when A is exhausted the walk ends" timeout=300 replay=sort_stable
     #[kani::proof]
     #[kani::unwind(8)]
     fn set_diff_2_3_at_1_1_equal() { two_pointer_at(W::Diff, 2, 3, 1, 1, ord_of(1)); }
-    //@harness props=C17,C01 quickfor=C17 strength=bounded tier=thorough bound="ONE execution: sets of 2 and 3 elements, positions (1, 1), comparison outcome greater (the instances of this family enumerate every position and outcome for these sizes)" clause="setDiff step: less => A's element emitted; equal => dropped, both advance; greater => B advances; when B is exhausted the rest of A is appended, when A is exhausted the walk ends" timeout=300
+    //@harness props=C17,C01 quickfor=C17 strength=bounded tier=thorough bound="ONE execution: sets of 2 and 3 elements, positions (1, 1), comparison outcome greater (the instances of this family enumerate every position and outcome for these sizes)" clause="setDiff step: less => A's element emitted; equal => dropped, both advance; greater => B advances; when B is exhausted the rest of A is appended, when A is exhausted the walk ends" timeout=300 replay=sort_stable
     #[kani::proof]
     #[kani::unwind(8)]
     fn set_diff_2_3_at_1_1_greater() { two_pointer_at(W::Diff, 2, 3, 1, 1, ord_of(2)); }
-    //@harness props=C17,C01 quickfor=C17 strength=bounded tier=thorough bound="ONE execution: sets of 2 and 3 elements, positions (1, 2), comparison outcome less (the instances of this family enumerate every position and outcome for these sizes)" clause="setDiff step: less => A's element emitted; equal => dropped, both advance; greater => B advances; when B is exhausted the rest of A is appended, when A is exhausted the walk ends" timeout=300
+    //@harness props=C17,C01 quickfor=C17 strength=bounded tier=thorough bound="ONE execution: sets of 2 and 3 elements, positions (1, 2), comparison outcome less (the instances of this family enumerate every position and outcome for these sizes)" clause="setDiff step: less => A's element emitted; equal => dropped, both advance; greater => B advances; when B is exhausted the rest of A is appended, when A is exhausted the walk ends" timeout=300 replay=sort_stable
     #[kani::proof]
     #[kani::unwind(8)]
     fn set_diff_2_3_at_1_2_less() { two_pointer_at(W::Diff, 2, 3, 1, 2, ord_of(0)); }
-    //@harness props=C17,C01 quickfor=C17 strength=bounded tier=thorough bound="ONE execution: sets of 2 and 3 elements, positions (1, 2), comparison outcome equal (the instances of this family enumerate every position and outcome for these sizes)" clause="setDiff step: less => A's element emitted; equal => dropped, both advance; greater => B advances; when B is exhausted the rest of A is appended, when A is exhausted the walk ends" timeout=300
+    //@harness props=C17,C01 quickfor=C17 strength=bounded tier=thorough bound="ONE execution: sets of 2 and 3 elements, positions (1, 2), comparison outcome equal (the instances of this family enumerate every position and outcome for these sizes)" clause="setDiff step: less => A's element emitted; equal => dropped, both advance; greater => B advances; when B is exhausted the rest of A is appended, when A is exhausted the walk ends" timeout=300 replay=sort_stable
     #[kani::proof]
     #[kani::unwind(8)]
     fn set_diff_2_3_at_1_2_equal() { two_pointer_at(W::Diff, 2, 3, 1, 2, ord_of(1)); }
-    //@harness props=C17,C01 quickfor=C17 strength=bounded tier=thorough bound="ONE execution: sets of 2 and 3 elements, positions (1, 2), comparison outcome greater (the instances of this family enumerate every position and outcome for these sizes)" clause="setDiff step: less => A's element emitted; equal => dropped, both advance; greater => B advances; when B is exhausted the rest of A is appended, when A is exhausted the walk ends" timeout=300
+    //@harness props=C17,C01 quickfor=C17 strength=bounded tier=thorough bound="ONE execution: sets of 2 and 3 elements, positions (1, 2), comparison outcome greater (the instances of this family enumerate every position and outcome for these sizes)" clause="setDiff step: less => A's element emitted; equal => dropped, both advance; greater => B advances; when B is exhausted the rest of A is appended, when A is exhausted the walk ends" timeout=300 replay=sort_stable
     #[kani::proof]
     #[kani::unwind(8)]
     fn set_diff_2_3_at_1_2_greater() { two_pointer_at(W::Diff, 2, 3, 1, 2, ord_of(2)); }
-    //@harness props=C17,C01 quickfor=C17 strength=bounded tier=thorough bound="ONE execution: sets of 3 and 2 elements, positions (0, 0), comparison outcome less (the instances of this family enumerate every position and outcome for these sizes)" clause="setDiff step: less => A's element emitted; equal => dropped, both advance; greater => B advances; when B is exhausted the rest of A is appended, when A is exhausted the walk ends" timeout=300
+    //@harness props=C17,C01 quickfor=C17 strength=bounded tier=thorough bound="ONE execution: sets of 3 and 2 elements, positions (0, 0), comparison outcome less (the instances of this family enumerate every position and outcome for these sizes)" clause="setDiff step: less => A's element emitted; equal => dropped, both advance; greater => B advances; when B is exhausted the rest of A is appended, when A is exhausted the walk ends" timeout=300 replay=sort_stable
     #[kani::proof]
     #[kani::unwind(8)]
     fn set_diff_3_2_at_0_0_less() { two_pointer_at(W::Diff, 3, 2, 0, 0, ord_of(0)); }
-    //@harness props=C17,C01 quickfor=C17 strength=bounded tier=thorough bound="ONE execution: sets of 3 and 2 elements, positions (0, 0), comparison outcome equal (the instances of this family enumerate every position and outcome for these sizes)" clause="setDiff step: less => A's element emitted; equal => dropped, both advance; greater => B advances; when B is exhausted the rest of A is appended, when A is exhausted the walk ends" timeout=300
+    //@harness props=C17,C01 quickfor=C17 strength=bounded tier=thorough bound="ONE execution: sets of 3 and 2 elements, positions (0, 0), comparison outcome equal (the instances of this family enumerate every position and outcome for these sizes)" clause="setDiff step: less => A's element emitted; equal => dropped, both advance; greater => B advances; when B is exhausted the rest of A is appended, when A is exhausted the walk ends" timeout=300 replay=sort_stable
     #[kani::proof]
     #[kani::unwind(8)]
     fn set_diff_3_2_at_0_0_equal() { two_pointer_at(W::Diff, 3, 2, 0, 0, ord_of(1)); }
-    //@harness props=C17,C01 quickfor=C17 strength=bounded tier=thorough bound="ONE execution: sets of 3 and 2 elements, positions (0, 0), comparison outcome greater (the instances of this family enumerate every position and outcome for these sizes)" clause="setDiff step: less => A's element emitted; equal => dropped, both advance; greater => B advances; when B is exhausted the rest of A is appended, when A is exhausted the walk ends" timeout=300
+    //@harness props=C17,C01 quickfor=C17 strength=bounded tier=thorough bound="ONE execution: sets of 3 and 2 elements, positions (0, 0), comparison outcome greater (the instances of this family enumerate every position and outcome for these sizes)" clause="setDiff step: less => A's element emitted; equal => dropped, both advance; greater => B advances; when B is exhausted the rest of A is appended, when A is exhausted the walk ends" timeout=300 replay=sort_stable
     #[kani::proof]
     #[kani::unwind(8)]
     fn set_diff_3_2_at_0_0_greater() { two_pointer_at(W::Diff, 3, 2, 0, 0, ord_of(2)); }
-    //@harness props=C17,C01 quickfor=C17 strength=bounded tier=thorough bound="ONE execution: sets of 3 and 2 elements, positions (0, 1), comparison outcome less (the instances of this family enumerate every position and outcome for these sizes)" clause="setDiff step: less => A's element emitted; equal => dropped, both advance; greater => B advances; when B is exhausted the rest of A is appended, when A is exhausted the walk ends" timeout=300
+    //@harness props=C17,C01 quickfor=C17 strength=bounded tier=thorough bound="ONE execution: sets of 3 and 2 elements, positions (0, 1), comparison outcome less (the instances of this family enumerate every position and outcome for these sizes)" clause="setDiff step: less => A's element emitted; equal => dropped, both advance; greater => B advances; when B is exhausted the rest of A is appended, when A is exhausted the walk ends" timeout=300 replay=sort_stable
     #[kani::proof]
     #[kani::unwind(8)]
     fn set_diff_3_2_at_0_1_less() { two_pointer_at(W::Diff, 3, 2, 0, 1, ord_of(0)); }
-    //@harness props=C17,C01 quickfor=C17 strength=bounded tier=thorough bound="ONE execution: sets of 3 and 2 elements, positions (0, 1), comparison outcome equal (the instances of this family enumerate every position and outcome for these sizes)" clause="setDiff step: less => A's element emitted; equal => dropped, both advance; greater => B advances; when B is exhausted the rest of A is appended, when A is exhausted the walk ends" timeout=300
+    //@harness props=C17,C01 quickfor=C17 strength=bounded tier=thorough bound="ONE execution: sets of 3 and 2 elements, positions (0, 1), comparison outcome equal (the instances of this family enumerate every position and outcome for these sizes)" clause="setDiff step: less => A's element emitted; equal => dropped, both advance; greater => B advances; when B is exhausted the rest of A is appended, when A is exhausted the walk ends" timeout=300 replay=sort_stable
     #[kani::proof]
     #[kani::unwind(8)]
     fn set_diff_3_2_at_0_1_equal() { two_pointer_at(W::Diff, 3, 2, 0, 1, ord_of(1)); }
-    //@harness props=C17,C01 quickfor=C17 strength=bounded tier=thorough bound="ONE execution: sets of 3 and 2 elements, positions (0, 1), comparison outcome greater (the instances of this family enumerate every position and outcome for these sizes)" clause="setDiff step: less => A's element emitted; equal => dropped, both advance; greater => B advances; when B is exhausted the rest of A is appended, when A is exhausted the walk ends" timeout=300
+    //@harness props=C17,C01 quickfor=C17 strength=bounded tier=thorough bound="ONE execution: sets of 3 and 2 elements, positions (0, 1), comparison outcome greater (the instances of this family enumerate every position and outcome for these sizes)" clause="setDiff step: less => A's element emitted; equal => dropped, both advance; greater => B advances; when B is exhausted the rest of A is appended, when A is exhausted the walk ends" timeout=300 replay=sort_stable
     #[kani::proof]
     #[kani::unwind(8)]
     fn set_diff_3_2_at_0_1_greater() { two_pointer_at(W::Diff, 3, 2, 0, 1, ord_of(2)); }
-    //@harness props=C17,C01 quickfor=C17 strength=bounded tier=thorough bound="ONE execution: sets of 3 and 2 elements, positions (1, 0), comparison outcome less (the instances of this family enumerate every position and outcome for these sizes)" clause="setDiff step: less => A's element emitted; equal => dropped, both advance; greater => B advances; when B is exhausted the rest of A is appended, when A is exhausted the walk ends" timeout=300
+    //@harness props=C17,C01 quickfor=C17 strength=bounded tier=thorough bound="ONE execution: sets of 3 and 2 elements, positions (1, 0), comparison outcome less (the instances of this family enumerate every position and outcome for these sizes)" clause="setDiff step: less => A's element emitted; equal => dropped, both advance; greater => B advances; when B is exhausted the rest of A is appended, when A is exhausted the walk ends" timeout=300 replay=sort_stable
     #[kani::proof]
     #[kani::unwind(8)]
     fn set_diff_3_2_at_1_0_less() { two_pointer_at(W::Diff, 3, 2, 1, 0, ord_of(0)); }
-    //@harness props=C17,C01 quickfor=C17 strength=bounded tier=thorough bound="ONE execution: sets of 3 and 2 elements, positions (1, 0), comparison outcome equal (the instances of this family enumerate every position and outcome for these sizes)" clause="setDiff step: less => A's element emitted; equal => dropped, both advance; greater => B advances; when B is exhausted the rest of A is appended, when A is exhausted the walk ends" timeout=300
+    //@harness props=C17,C01 quickfor=C17 strength=bounded tier=thorough bound="ONE execution: sets of 3 and 2 elements, positions (1, 0), comparison outcome equal (the instances of this family enumerate every position and outcome for these sizes)" clause="setDiff step: less => A's element emitted; equal => dropped, both advance; greater => B advances; when B is exhausted the rest of A is appended, when A is exhausted the walk ends" timeout=300 replay=sort_stable
     #[kani::proof]
     #[kani::unwind(8)]
     fn set_diff_3_2_at_1_0_equal() { two_pointer_at(W::Diff, 3, 2, 1, 0, ord_of(1)); }
-    //@harness props=C17,C01 quickfor=C17 strength=bounded tier=thorough bound="ONE execution: sets of 3 and 2 elements, positions (1, 0), comparison outcome greater (the instances of this family enumerate every position and outcome for these sizes)" clause="setDiff step: less => A's element emitted; equal => dropped, both advance; greater => B advances; when B is exhausted the rest of A is appended, when A is exhausted the walk ends" timeout=300
+    //@harness props=C17,C01 quickfor=C17 strength=bounded tier=thorough bound="ONE execution: sets of 3 and 2 elements, positions (1, 0), comparison outcome greater (the instances of this family enumerate every position and outcome for these sizes)" clause="setDiff step: less => A's element emitted; equal => dropped, both advance; greater => B advances; when B is exhausted the rest of A is appended, when A is exhausted the walk ends" timeout=300 replay=sort_stable
     #[kani::proof]
     #[kani::unwind(8)]
     fn set_diff_3_2_at_1_0_greater() { two_pointer_at(W::Diff, 3, 2, 1, 0, ord_of(2)); }
-    //@harness props=C17,C01 quickfor=C17 strength=bounded tier=thorough bound="ONE execution: sets of 3 and 2 elements, positions (1, 1), comparison outcome less (the instances of this family enumerate every position and outcome for these sizes)" clause="setDiff step: less => A's element emitted; equal => dropped, both advance; greater => B advances; when B is exhausted the rest of A is appended, when A is exhausted the walk ends" timeout=300
+    //@harness props=C17,C01 quickfor=C17 strength=bounded tier=thorough bound="ONE execution: sets of 3 and 2 elements, positions (1, 1), comparison outcome less (the instances of this family enumerate every position and outcome for these sizes)" clause="setDiff step: less => A's element emitted; equal => dropped, both advance; greater => B advances; when B is exhausted the rest of A is appended, when A is exhausted the walk ends" timeout=300 replay=sort_stable
     #[kani::proof]
     #[kani::unwind(8)]
     fn set_diff_3_2_at_1_1_less() { two_pointer_at(W::Diff, 3, 2, 1, 1, ord_of(0)); }
-    //@harness props=C17,C01 quickfor=C17 strength=bounded tier=thorough bound="ONE execution: sets of 3 and 2 elements, positions (1, 1), comparison outcome equal (the instances of this family enumerate every position and outcome for these sizes)" clause="setDiff step: less => A's element emitted; equal => dropped, both advance; greater => B advances; when B is exhausted the rest of A is appended, when A is exhausted the walk ends" timeout=300
+    //@harness props=C17,C01 quickfor=C17 strength=bounded tier=thorough bound="ONE execution: sets of 3 and 2 elements, positions (1, 1), comparison outcome equal (the instances of this family enumerate every position and outcome for these sizes)" clause="setDiff step: less => A's element emitted; equal => dropped, both advance; greater => B advances; when B is exhausted the rest of A is appended, when A is exhausted the walk ends" timeout=300 replay=sort_stable
     #[kani::proof]
     #[kani::unwind(8)]
     fn set_diff_3_2_at_1_1_equal() { two_pointer_at(W::Diff, 3, 2, 1, 1, ord_of(1)); }
-    //@harness props=C17,C01 quickfor=C17 strength=bounded tier=thorough bound="ONE execution: sets of 3 and 2 elements, positions (1, 1), comparison outcome greater (the instances of this family enumerate every position and outcome for these sizes)" clause="setDiff step: less => A's element emitted; equal => dropped, both advance; greater => B advances; when B is exhausted the rest of A is appended, when A is exhausted the walk ends" timeout=300
+    //@harness props=C17,C01 quickfor=C17 strength=bounded tier=thorough bound="ONE execution: sets of 3 and 2 elements, positions (1, 1), comparison outcome greater (the instances of this family enumerate every position and outcome for these sizes)" clause="setDiff step: less => A's element emitted; equal => dropped, both advance; greater => B advances; when B is exhausted the rest of A is appended, when A is exhausted the walk ends" timeout=300 replay=sort_stable
     #[kani::proof]
     #[kani::unwind(8)]
     fn set_diff_3_2_at_1_1_greater() { two_pointer_at(W::Diff, 3, 2, 1, 1, ord_of(2)); }
-    //@harness props=C17,C01 quickfor=C17 strength=bounded tier=thorough bound="ONE execution: sets of 3 and 2 elements, positions (2, 0), comparison outcome less (the instances of this family enumerate every position and outcome for these sizes)" clause="setDiff step: less => A's element emitted; equal => dropped, both advance; greater => B advances; when B is exhausted the rest of A is appended, when A is exhausted the walk ends" timeout=300
+    //@harness props=C17,C01 quickfor=C17 strength=bounded tier=thorough bound="ONE execution: sets of 3 and 2 elements, positions (2, 0), comparison outcome less (the instances of this family enumerate every position and outcome for these sizes)" clause="setDiff step: less => A's element emitted; equal => dropped, both advance; greater => B advances; when B is exhausted the rest of A is appended, when A is exhausted the walk ends" timeout=300 replay=sort_stable
     #[kani::proof]
     #[kani::unwind(8)]
     fn set_diff_3_2_at_2_0_less() { two_pointer_at(W::Diff, 3, 2, 2, 0, ord_of(0)); }
-    //@harness props=C17,C01 quickfor=C17 strength=bounded tier=thorough bound="ONE execution: sets of 3 and 2 elements, positions (2, 0), comparison outcome equal (the instances of this family enumerate every position and outcome for these sizes)" clause="setDiff step: less => A's element emitted; equal => dropped, both advance; greater => B advances; when B is exhausted the rest of A is appended, when A is exhausted the walk ends" timeout=300
+    //@harness props=C17,C01 quickfor=C17 strength=bounded tier=thorough bound="ONE execution: sets of 3 and 2 elements, positions (2, 0), comparison outcome equal (the instances of this family enumerate every position and outcome for these sizes)" clause="setDiff step: less => A's element emitted; equal => dropped, both advance; greater => B advances; when B is exhausted the rest of A is appended, when A is exhausted the walk ends" timeout=300 replay=sort_stable
     #[kani::proof]
     #[kani::unwind(8)]
     fn set_diff_3_2_at_2_0_equal() { two_pointer_at(W::Diff, 3, 2, 2, 0, ord_of(1)); }
-    //@harness props=C17,C01 quickfor=C17 strength=bounded tier=thorough bound="ONE execution: sets of 3 and 2 elements, positions (2, 0), comparison outcome greater (the instances of this family enumerate every position and outcome for these sizes)" clause="setDiff step: less => A's element emitted; equal => dropped, both advance; greater => B advances; when B is exhausted the rest of A is appended, when A is exhausted the walk ends" timeout=300
+    //@harness props=C17,C01 quickfor=C17 strength=bounded tier=thorough bound="ONE execution: sets of 3 and 2 elements, positions (2, 0), comparison outcome greater (the instances of this family enumerate every position and outcome for these sizes)" clause="setDiff step: less => A's element emitted; equal => dropped, both advance; greater => B advances; when B is exhausted the rest of A is appended, when A is exhausted the walk ends" timeout=300 replay=sort_stable
     #[kani::proof]
     #[kani::unwind(8)]
     fn set_diff_3_2_at_2_0_greater() { two_pointer_at(W::Diff, 3, 2, 2, 0, ord_of(2)); }
-    //@harness props=C17,C01 quickfor=C17 strength=bounded tier=thorough bound="ONE execution: sets of 3 and 2 elements, positions (2, 1), comparison outcome less (the instances of this family enumerate every position and outcome for these sizes)" clause="setDiff step: less => A's element emitted; equal => dropped, both advance; greater => B advances; when B is exhausted the rest of A is appended, when A is exhausted the walk ends" timeout=300
+    //@harness props=C17,C01 quickfor=C17 strength=bounded tier=thorough bound="ONE execution: sets of 3 and 2 elements, positions (2, 1), comparison outcome less (the instances of this family enumerate every position and outcome for these sizes)" clause="setDiff step: less => A's element emitted; equal => dropped, both advance; greater => B advances; when B is exhausted the rest of A is appended, when A is exhausted the walk ends" timeout=300 replay=sort_stable
     #[kani::proof]
     #[kani::unwind(8)]
     fn set_diff_3_2_at_2_1_less() { two_pointer_at(W::Diff, 3, 2, 2, 1, ord_of(0)); }
-    //@harness props=C17,C01 quickfor=C17 strength=bounded tier=thorough bound="ONE execution: sets of 3 and 2 elements, positions (2, 1), comparison outcome equal (the instances of this family enumerate every position and outcome for these sizes)" clause="setDiff step: less => A's element emitted; equal => dropped, both advance; greater => B advances; when B is exhausted the rest of A is appended, when A is exhausted the walk ends" timeout=300
+    //@harness props=C17,C01 quickfor=C17 strength=bounded tier=thorough bound="ONE execution: sets of 3 and 2 elements, positions (2, 1), comparison outcome equal (the instances of this family enumerate every position and outcome for these sizes)" clause="setDiff step: less => A's element emitted; equal => dropped, both advance; greater => B advances; when B is exhausted the rest of A is appended, when A is exhausted the walk ends" timeout=300 replay=sort_stable
     #[kani::proof]
     #[kani::unwind(8)]
     fn set_diff_3_2_at_2_1_equal() { two_pointer_at(W::Diff, 3, 2, 2, 1, ord_of(1)); }
-    //@harness props=C17,C01 quickfor=C17 strength=bounded tier=thorough bound="ONE execution: sets of 3 and 2 elements, positions (2, 1), comparison outcome greater (the instances of this family enumerate every position and outcome for these sizes)" clause="setDiff step: less => A's element emitted; equal => dropped, both advance; greater => B advances; when B is exhausted the rest of A is appended, when A is exhausted the walk ends" timeout=300
+    //@harness props=C17,C01 quickfor=C17 strength=bounded tier=thorough bound="ONE execution: sets of 3 and 2 elements, positions (2, 1), comparison outcome greater (the instances of this family enumerate every position and outcome for these sizes)" clause="setDiff step: less => A's element emitted; equal => dropped, both advance; greater => B advances; when B is exhausted the rest of A is appended, when A is exhausted the walk ends" timeout=300 replay=sort_stable
     #[kani::proof]
     #[kani::unwind(8)]
     fn set_diff_3_2_at_2_1_greater() { two_pointer_at(W::Diff, 3, 2, 2, 1, ord_of(2)); }
-    //@harness props=C17,C01 quickfor=C17 strength=bounded tier=thorough bound="ONE execution: sets of 1 and 3 elements, positions (0, 0), comparison outcome less (the instances of this family enumerate every position and outcome for these sizes)" clause="setDiff step: less => A's element emitted; equal => dropped, both advance; greater => B advances; when B is exhausted the rest of A is appended, when A is exhausted the walk ends" timeout=300
+    //@harness props=C17,C01 quickfor=C17 strength=bounded tier=thorough bound="ONE execution: sets of 1 and 3 elements, positions (0, 0), comparison outcome less (the instances of this family enumerate every position and outcome for these sizes)" clause="setDiff step: less => A's element emitted; equal => dropped, both advance; greater => B advances; when B is exhausted the rest of A is appended, when A is exhausted the walk ends" timeout=300 replay=sort_stable
     #[kani::proof]
     #[kani::unwind(8)]
     fn set_diff_1_3_at_0_0_less() { two_pointer_at(W::Diff, 1, 3, 0, 0, ord_of(0)); }
-    //@harness props=C17,C01 quickfor=C17 strength=bounded tier=thorough bound="ONE execution: sets of 1 and 3 elements, positions (0, 0), comparison outcome equal (the instances of this family enumerate every position and outcome for these sizes)" clause="setDiff step: less => A's element emitted; equal => dropped, both advance; greater => B advances; when B is exhausted the rest of A is appended, when A is exhausted the walk ends" timeout=300
+    //@harness props=C17,C01 quickfor=C17 strength=bounded tier=thorough bound="ONE execution: sets of 1 and 3 elements, positions (0, 0), comparison outcome equal (the instances of this family enumerate every position and outcome for these sizes)" clause="setDiff step: less => A's element emitted; equal => dropped, both advance; greater => B advances; when B is exhausted the rest of A is appended, when A is exhausted the walk ends" timeout=300 replay=sort_stable
     #[kani::proof]
     #[kani::unwind(8)]
     fn set_diff_1_3_at_0_0_equal() { two_pointer_at(W::Diff, 1, 3, 0, 0, ord_of(1)); }
-    //@harness props=C17,C01 quickfor=C17 strength=bounded tier=thorough bound="ONE execution: sets of 1 and 3 elements, positions (0, 0), comparison outcome greater (the instances of this family enumerate every position and outcome for these sizes)" clause="setDiff step: less => A's element emitted; equal => dropped, both advance; greater => B advances; when B is exhausted the rest of A is appended, when A is exhausted the walk ends" timeout=300
+    //@harness props=C17,C01 quickfor=C17 strength=bounded tier=thorough bound="ONE execution: sets of 1 and 3 elements, positions (0, 0), comparison outcome greater (the instances of this family enumerate every position and outcome for these sizes)" clause="setDiff step: less => A's element emitted; equal => dropped, both advance; greater => B advances; when B is exhausted the rest of A is appended, when A is exhausted the walk ends" timeout=300 replay=sort_stable
     #[kani::proof]
     #[kani::unwind(8)]
     fn set_diff_1_3_at_0_0_greater() { two_pointer_at(W::Diff, 1, 3, 0, 0, ord_of(2)); }
-    //@harness props=C17,C01 quickfor=C17 strength=bounded tier=thorough bound="ONE execution: sets of 1 and 3 elements, positions (0, 1), comparison outcome less (the instances of this family enumerate every position and outcome for these sizes)" clause="setDiff step: less => A's element emitted; equal => dropped, both advance; greater => B advances; when B is exhausted the rest of A is appended, when A is exhausted the walk ends" timeout=300
+    //@harness props=C17,C01 quickfor=C17 strength=bounded tier=thorough bound="ONE execution: sets of 1 and 3 elements, positions (0, 1), comparison outcome less (the instances of this family enumerate every position and outcome for these sizes)" clause="setDiff step: less => A's element emitted; equal => dropped, both advance; greater => B advances; when B is exhausted the rest of A is appended, when A is exhausted the walk ends" timeout=300 replay=sort_stable
     #[kani::proof]
     #[kani::unwind(8)]
     fn set_diff_1_3_at_0_1_less() { two_pointer_at(W::Diff, 1, 3, 0, 1, ord_of(0)); }
-    //@harness props=C17,C01 quickfor=C17 strength=bounded tier=thorough bound="ONE execution: sets of 1 and 3 elements, positions (0, 1), comparison outcome equal (the instances of this family enumerate every position and outcome for these sizes)" clause="setDiff step: less => A's element emitted; equal => dropped, both advance; greater => B advances; when B is exhausted the rest of A is appended, when A is exhausted the walk ends" timeout=300
+    //@harness props=C17,C01 quickfor=C17 strength=bounded tier=thorough bound="ONE execution: sets of 1 and 3 elements, positions (0, 1), comparison outcome equal (the instances of this family enumerate every position and outcome for these sizes)" clause="setDiff step: less => A's element emitted; equal => dropped, both advance; greater => B advances; when B is exhausted the rest of A is appended, when A is exhausted the walk ends" timeout=300 replay=sort_stable
     #[kani::proof]
     #[kani::unwind(8)]
     fn set_diff_1_3_at_0_1_equal() { two_pointer_at(W::Diff, 1, 3, 0, 1, ord_of(1)); }
-    //@harness props=C17,C01 quickfor=C17 strength=bounded tier=thorough bound="ONE execution: sets of 1 and 3 elements, positions (0, 1), comparison outcome greater (the instances of this family enumerate every position and outcome for these sizes)" clause="setDiff step: less => A's element emitted; equal => dropped, both advance; greater => B advances; when B is exhausted the rest of A is appended, when A is exhausted the walk ends" timeout=300
+    //@harness props=C17,C01 quickfor=C17 strength=bounded tier=thorough bound="ONE execution: sets of 1 and 3 elements, positions (0, 1), comparison outcome greater (the instances of this family enumerate every position and outcome for these sizes)" clause="setDiff step: less => A's element emitted; equal => dropped, both advance; greater => B advances; when B is exhausted the rest of A is appended, when A is exhausted the walk ends" timeout=300 replay=sort_stable
     #[kani::proof]
     #[kani::unwind(8)]
     fn set_diff_1_3_at_0_1_greater() { two_pointer_at(W::Diff, 1, 3, 0, 1, ord_of(2)); }
-    //@harness props=C17,C01 quickfor=C17 strength=bounded tier=thorough bound="ONE execution: sets of 1 and 3 elements, positions (0, 2), comparison outcome less (the instances of this family enumerate every position and outcome for these sizes)" clause="setDiff step: less => A's element emitted; equal => dropped, both advance; greater => B advances; when B is exhausted the rest of A is appended, when A is exhausted the walk ends" timeout=300
+    //@harness props=C17,C01 quickfor=C17 strength=bounded tier=thorough bound="ONE execution: sets of 1 and 3 elements, positions (0, 2), comparison outcome less (the instances of this family enumerate every position and outcome for these sizes)" clause="setDiff step: less => A's element emitted; equal => dropped, both advance; greater => B advances; when B is exhausted the rest of A is appended, when A is exhausted the walk ends" timeout=300 replay=sort_stable
     #[kani::proof]
     #[kani::unwind(8)]
     fn set_diff_1_3_at_0_2_less() { two_pointer_at(W::Diff, 1, 3, 0, 2, ord_of(0)); }
-    //@harness props=C17,C01 quickfor=C17 strength=bounded tier=thorough bound="ONE execution: sets of 1 and 3 elements, positions (0, 2), comparison outcome equal (the instances of this family enumerate every position and outcome for these sizes)" clause="setDiff step: less => A's element emitted; equal => dropped, both advance; greater => B advances; when B is exhausted the rest of A is appended, when A is exhausted the walk ends" timeout=300
+    //@harness props=C17,C01 quickfor=C17 strength=bounded tier=thorough bound="ONE execution: sets of 1 and 3 elements, positions (0, 2), comparison outcome equal (the instances of this family enumerate every position and outcome for these sizes)" clause="setDiff step: less => A's element emitted; equal => dropped, both advance; greater => B advances; when B is exhausted the rest of A is appended, when A is exhausted the walk ends" timeout=300 replay=sort_stable
     #[kani::proof]
     #[kani::unwind(8)]
     fn set_diff_1_3_at_0_2_equal() { two_pointer_at(W::Diff, 1, 3, 0, 2, ord_of(1)); }
-    //@harness props=C17,C01 quickfor=C17 strength=bounded tier=thorough bound="ONE execution: sets of 1 and 3 elements, positions (0, 2), comparison outcome greater (the instances of this family enumerate every position and outcome for these sizes)" clause="setDiff step: less => A's element emitted; equal => dropped, both advance; greater => B advances; when B is exhausted the rest of A is appended, when A is exhausted the walk ends" timeout=300
+    //@harness props=C17,C01 quickfor=C17 strength=bounded tier=thorough bound="ONE execution: sets of 1 and 3 elements, positions (0, 2), comparison outcome greater (the instances of this family enumerate every position and outcome for these sizes)" clause="setDiff step: less => A's element emitted; equal => dropped, both advance; greater => B advances; when B is exhausted the rest of A is appended, when A is exhausted the walk ends" timeout=300 replay=sort_stable
     #[kani::proof]
     #[kani::unwind(8)]
     fn set_diff_1_3_at_0_2_greater() { two_pointer_at(W::Diff, 1, 3, 0, 2, ord_of(2)); }
-    //@harness props=C17,C01 quickfor=C17 strength=bounded tier=thorough bound="ONE execution: sets of 3 and 1 elements, positions (0, 0), comparison outcome less (the instances of this family enumerate every position and outcome for these sizes)" clause="setDiff step: less => A's element emitted; equal => dropped, both advance; greater => B advances; when B is exhausted the rest of A is appended, when A is exhausted the walk ends" timeout=300
+    //@harness props=C17,C01 quickfor=C17 strength=bounded tier=thorough bound="ONE execution: sets of 3 and 1 elements, positions (0, 0), comparison outcome less (the instances of this family enumerate every position and outcome for these sizes)" clause="setDiff step: less => A's element emitted; equal => dropped, both advance; greater => B advances; when B is exhausted the rest of A is appended, when A is exhausted the walk ends" timeout=300 replay=sort_stable
     #[kani::proof]
     #[kani::unwind(8)]
     fn set_diff_3_1_at_0_0_less() { two_pointer_at(W::Diff, 3, 1, 0, 0, ord_of(0)); }
-    //@harness props=C17,C01 quickfor=C17 strength=bounded tier=thorough bound="ONE execution: sets of 3 and 1 elements, positions (0, 0), comparison outcome equal (the instances of this family enumerate every position and outcome for these sizes)" clause="setDiff step: less => A's element emitted; equal => dropped, both advance; greater => B advances; when B is exhausted the rest of A is appended, when A is exhausted the walk ends" timeout=300
+    //@harness props=C17,C01 quickfor=C17 strength=bounded tier=thorough bound="ONE execution: sets of 3 and 1 elements, positions (0, 0), comparison outcome equal (the instances of this family enumerate every position and outcome for these sizes)" clause="setDiff step: less => A's element emitted; equal => dropped, both advance; greater => B advances; when B is exhausted the rest of A is appended, when A is exhausted the walk ends" timeout=300 replay=sort_stable
     #[kani::proof]
     #[kani::unwind(8)]
     fn set_diff_3_1_at_0_0_equal() { two_pointer_at(W::Diff, 3, 1, 0, 0, ord_of(1)); }
-    //@harness props=C17,C01 quickfor=C17 strength=bounded tier=thorough bound="ONE execution: sets of 3 and 1 elements, positions (0, 0), comparison outcome greater (the instances of this family enumerate every position and outcome for these sizes)" clause="setDiff step: less => A's element emitted; equal => dropped, both advance; greater => B advances; when B is exhausted the rest of A is appended, when A is exhausted the walk ends" timeout=300
+    //@harness props=C17,C01 quickfor=C17 strength=bounded tier=thorough bound="ONE execution: sets of 3 and 1 elements, positions (0, 0), comparison outcome greater (the instances of this family enumerate every position and outcome for these sizes)" clause="setDiff step: less => A's element emitted; equal => dropped, both advance; greater => B advances; when B is exhausted the rest of A is appended, when A is exhausted the walk ends" timeout=300 replay=sort_stable
     #[kani::proof]
     #[kani::unwind(8)]
     fn set_diff_3_1_at_0_0_greater() { two_pointer_at(W::Diff, 3, 1, 0, 0, ord_of(2)); }
-    //@harness props=C17,C01 quickfor=C17 strength=bounded tier=thorough bound="ONE execution: sets of 3 and 1 elements, positions (1, 0), comparison outcome less (the instances of this family enumerate every position and outcome for these sizes)" clause="setDiff step: less => A's element emitted; equal => dropped, both advance; greater => B advances; when B is exhausted the rest of A is appended, when A is exhausted the walk ends" timeout=300
+    //@harness props=C17,C01 quickfor=C17 strength=bounded tier=thorough bound="ONE execution: sets of 3 and 1 elements, positions (1, 0), comparison outcome less (the instances of this family enumerate every position and outcome for these sizes)" clause="setDiff step: less => A's element emitted; equal => dropped, both advance; greater => B advances; when B is exhausted the rest of A is appended, when A is exhausted the walk ends" timeout=300 replay=sort_stable
     #[kani::proof]
     #[kani::unwind(8)]
     fn set_diff_3_1_at_1_0_less() { two_pointer_at(W::Diff, 3, 1, 1, 0, ord_of(0)); }
-    //@harness props=C17,C01 quickfor=C17 strength=bounded tier=thorough bound="ONE execution: sets of 3 and 1 elements, positions (1, 0), comparison outcome equal (the instances of this family enumerate every position and outcome for these sizes)" clause="setDiff step: less => A's element emitted; equal => dropped, both advance; greater => B advances; when B is exhausted the rest of A is appended, when A is exhausted the walk ends" timeout=300
+    //@harness props=C17,C01 quickfor=C17 strength=bounded tier=thorough bound="ONE execution: sets of 3 and 1 elements, positions (1, 0), comparison outcome equal (the instances of this family enumerate every position and outcome for these sizes)" clause="setDiff step: less => A's element emitted; equal => dropped, both advance; greater => B advances; when B is exhausted the rest of A is appended, when A is exhausted the walk ends" timeout=300 replay=sort_stable
     #[kani::proof]
     #[kani::unwind(8)]
     fn set_diff_3_1_at_1_0_equal() { two_pointer_at(W::Diff, 3, 1, 1, 0, ord_of(1)); }
-    //@harness props=C17,C01 quickfor=C17 strength=bounded tier=thorough bound="ONE execution: sets of 3 and 1 elements, positions (1, 0), comparison outcome greater (the instances of this family enumerate every position and outcome for these sizes)" clause="setDiff step: less => A's element emitted; equal => dropped, both advance; greater => B advances; when B is exhausted the rest of A is appended, when A is exhausted the walk ends" timeout=300
+    //@harness props=C17,C01 quickfor=C17 strength=bounded tier=thorough bound="ONE execution: sets of 3 and 1 elements, positions (1, 0), comparison outcome greater (the instances of this family enumerate every position and outcome for these sizes)" clause="setDiff step: less => A's element emitted; equal => dropped, both advance; greater => B advances; when B is exhausted the rest of A is appended, when A is exhausted the walk ends" timeout=300 replay=sort_stable
     #[kani::proof]
     #[kani::unwind(8)]
     fn set_diff_3_1_at_1_0_greater() { two_pointer_at(W::Diff, 3, 1, 1, 0, ord_of(2)); }
-    //@harness props=C17,C01 quickfor=C17 strength=bounded tier=thorough bound="ONE execution: sets of 3 and 1 elements, positions (2, 0), comparison outcome less (the instances of this family enumerate every position and outcome for these sizes)" clause="setDiff step: less => A's element emitted; equal => dropped, both advance; greater => B advances; when B is exhausted the rest of A is appended, when A is exhausted the walk ends" timeout=300
+    //@harness props=C17,C01 quickfor=C17 strength=bounded tier=thorough bound="ONE execution: sets of 3 and 1 elements, positions (2, 0), comparison outcome less (the instances of this family enumerate every position and outcome for these sizes)" clause="setDiff step: less => A's element emitted; equal => dropped, both advance; greater => B advances; when B is exhausted the rest of A is appended, when A is exhausted the walk ends" timeout=300 replay=sort_stable
     #[kani::proof]
     #[kani::unwind(8)]
     fn set_diff_3_1_at_2_0_less() { two_pointer_at(W::Diff, 3, 1, 2, 0, ord_of(0)); }
-    //@harness props=C17,C01 quickfor=C17 strength=bounded tier=thorough bound="ONE execution: sets of 3 and 1 elements, positions (2, 0), comparison outcome equal (the instances of this family enumerate every position and outcome for these sizes)" clause="setDiff step: less => A's element emitted; equal => dropped, both advance; greater => B advances; when B is exhausted the rest of A is appended, when A is exhausted the walk ends" timeout=300
+    //@harness props=C17,C01 quickfor=C17 strength=bounded tier=thorough bound="ONE execution: sets of 3 and 1 elements, positions (2, 0), comparison outcome equal (the instances of this family enumerate every position and outcome for these sizes)" clause="setDiff step: less => A's element emitted; equal => dropped, both advance; greater => B advances; when B is exhausted the rest of A is appended, when A is exhausted the walk ends" timeout=300 replay=sort_stable
     #[kani::proof]
     #[kani::unwind(8)]
     fn set_diff_3_1_at_2_0_equal() { two_pointer_at(W::Diff, 3, 1, 2, 0, ord_of(1)); }
-    //@harness props=C17,C01 quickfor=C17 strength=bounded tier=thorough bound="ONE execution: sets of 3 and 1 elements, positions (2, 0), comparison outcome greater (the instances of this family enumerate every position and outcome for these sizes)" clause="setDiff step: less => A's element emitted; equal => dropped, both advance; greater => B advances; when B is exhausted the rest of A is appended, when A is exhausted the walk ends" timeout=300
+    //@harness props=C17,C01 quickfor=C17 strength=bounded tier=thorough bound="ONE execution: sets of 3 and 1 elements, positions (2, 0), comparison outcome greater (the instances of this family enumerate every position and outcome for these sizes)" clause="setDiff step: less => A's element emitted; equal => dropped, both advance; greater => B advances; when B is exhausted the rest of A is appended, when A is exhausted the walk ends" timeout=300 replay=sort_stable
     #[kani::proof]
     #[kani::unwind(8)]
     fn set_diff_3_1_at_2_0_greater() { two_pointer_at(W::Diff, 3, 1, 2, 0, ord_of(2)); }
@@ -2137,19 +2137,19 @@ mod vharness {
         core::mem::forget(e); core::mem::forget(e2);
     }
 
-    //@harness props=C17,C01 strength=bounded bound="array of 1 elements, any search window start <= mid <= end, any comparison outcome" clause="setMember binary search: the probe is the middle of the window; equal => true; x less than the probe => continue in [start, mid-1] or answer false when mid == start; greater => continue in [mid+1, end] or false when mid == end; the window always shrinks and stays inside the array" timeout=900
+    //@harness props=C17,C01 strength=bounded bound="array of 1 elements, any search window start <= mid <= end, any comparison outcome" clause="setMember binary search: the probe is the middle of the window; equal => true; x less than the probe => continue in [start, mid-1] or answer false when mid == start; greater => continue in [mid+1, end] or false when mid == end; the window always shrinks and stays inside the array" timeout=900 replay=sort_stable
     #[kani::proof]
     #[kani::unwind(7)]
     fn set_member_n1() { set_member(1); }
-    //@harness props=C17,C01 strength=bounded bound="array of 2 elements, any search window start <= mid <= end, any comparison outcome" clause="setMember binary search: the probe is the middle of the window; equal => true; x less than the probe => continue in [start, mid-1] or answer false when mid == start; greater => continue in [mid+1, end] or false when mid == end; the window always shrinks and stays inside the array" timeout=900
+    //@harness props=C17,C01 strength=bounded bound="array of 2 elements, any search window start <= mid <= end, any comparison outcome" clause="setMember binary search: the probe is the middle of the window; equal => true; x less than the probe => continue in [start, mid-1] or answer false when mid == start; greater => continue in [mid+1, end] or false when mid == end; the window always shrinks and stays inside the array" timeout=900 replay=sort_stable
     #[kani::proof]
     #[kani::unwind(7)]
     fn set_member_n2() { set_member(2); }
-    //@harness props=C17,C01 strength=bounded bound="array of 3 elements, any search window start <= mid <= end, any comparison outcome" clause="setMember binary search: the probe is the middle of the window; equal => true; x less than the probe => continue in [start, mid-1] or answer false when mid == start; greater => continue in [mid+1, end] or false when mid == end; the window always shrinks and stays inside the array" timeout=900
+    //@harness props=C17,C01 strength=bounded bound="array of 3 elements, any search window start <= mid <= end, any comparison outcome" clause="setMember binary search: the probe is the middle of the window; equal => true; x less than the probe => continue in [start, mid-1] or answer false when mid == start; greater => continue in [mid+1, end] or false when mid == end; the window always shrinks and stays inside the array" timeout=900 replay=sort_stable
     #[kani::proof]
     #[kani::unwind(7)]
     fn set_member_n3() { set_member(3); }
-    //@harness props=C17,C01 strength=bounded bound="array of 4 elements, any search window start <= mid <= end, any comparison outcome" clause="setMember binary search: the probe is the middle of the window; equal => true; x less than the probe => continue in [start, mid-1] or answer false when mid == start; greater => continue in [mid+1, end] or false when mid == end; the window always shrinks and stays inside the array" timeout=900
+    //@harness props=C17,C01 strength=bounded bound="array of 4 elements, any search window start <= mid <= end, any comparison outcome" clause="setMember binary search: the probe is the middle of the window; equal => true; x less than the probe => continue in [start, mid-1] or answer false when mid == start; greater => continue in [mid+1, end] or false when mid == end; the window always shrinks and stays inside the array" timeout=900 replay=sort_stable
     #[kani::proof]
     #[kani::unwind(7)]
     fn set_member_n4() { set_member(4); }
@@ -2187,15 +2187,15 @@ mod vharness {
         core::mem::forget(e);
     }
 
-    //@harness props=C17,C01 strength=bounded bound="array of 2 elements, any position, any comparison outcome" clause="minArray / maxArray scan step: the best-so-far changes only on a STRICT improvement (so the first minimal / maximal element is the one returned), its key stays on the stack and the other is dropped; after the last element the best element itself is evaluated, otherwise the next element's key is requested" timeout=900
+    //@harness props=C17,C01 strength=bounded bound="array of 2 elements, any position, any comparison outcome" clause="minArray / maxArray scan step: the best-so-far changes only on a STRICT improvement (so the first minimal / maximal element is the one returned), its key stays on the stack and the other is dropped; after the last element the best element itself is evaluated, otherwise the next element's key is requested" timeout=900 replay=sort_stable
     #[kani::proof]
     #[kani::unwind(7)]
     fn min_max_scan_n2() { min_max_scan(2); }
-    //@harness props=C17,C01 strength=bounded bound="array of 3 elements, any position, any comparison outcome" clause="minArray / maxArray scan step: the best-so-far changes only on a STRICT improvement (so the first minimal / maximal element is the one returned), its key stays on the stack and the other is dropped; after the last element the best element itself is evaluated, otherwise the next element's key is requested" timeout=900
+    //@harness props=C17,C01 strength=bounded bound="array of 3 elements, any position, any comparison outcome" clause="minArray / maxArray scan step: the best-so-far changes only on a STRICT improvement (so the first minimal / maximal element is the one returned), its key stays on the stack and the other is dropped; after the last element the best element itself is evaluated, otherwise the next element's key is requested" timeout=900 replay=sort_stable
     #[kani::proof]
     #[kani::unwind(7)]
     fn min_max_scan_n3() { min_max_scan(3); }
-    //@harness props=C17,C01 strength=bounded bound="array of 4 elements, any position, any comparison outcome" clause="minArray / maxArray scan step: the best-so-far changes only on a STRICT improvement (so the first minimal / maximal element is the one returned), its key stays on the stack and the other is dropped; after the last element the best element itself is evaluated, otherwise the next element's key is requested" timeout=900
+    //@harness props=C17,C01 strength=bounded bound="array of 4 elements, any position, any comparison outcome" clause="minArray / maxArray scan step: the best-so-far changes only on a STRICT improvement (so the first minimal / maximal element is the one returned), its key stays on the stack and the other is dropped; after the last element the best element itself is evaluated, otherwise the next element's key is requested" timeout=900 replay=sort_stable
     #[kani::proof]
     #[kani::unwind(7)]
     fn min_max_scan_n4() { min_max_scan(4); }
